@@ -13,7 +13,7 @@ theorem connect_inv (a : Acc) (c : Nat) (hi : Inv a.h) : Inv (connect a c).h := 
   by_cases hc : a.h.connOpen c = true
   · simp only [hc, if_true]; exact hi
   · simp only [hc]
-    obtain ⟨f1, f2, f3, f4, f5, f6, f7, f8, f9, f10, f11, f12, f13, f14, f15, f16, f17, f18, f19, f20, f21, f22, f23, f24⟩ := hi
+    obtain ⟨f1, f2, f3, f4, f5, f6, f7, f8, f9, f10, f11, f12, f13, f14, f15, f16, f17, f18, f19, f20, f21, f22, f23, f24, f25⟩ := hi
     constructor
     all_goals first | assumption | skip
     · intro c' s hs; have := f17 c' s hs; by_cases e : c' = c <;> simp [e, this]
@@ -28,8 +28,15 @@ theorem connect_inv (a : Acc) (c : Nat) (hi : Inv a.h) : Inv (connect a c).h := 
 
 set_option maxHeartbeats 4000000 in
 theorem helloTables_inv {h : Hub} (hi : Inv h) (c b : Nat) (kind : Kind) (user : String) (d i : Bool)
-    (hk : kind ≠ .virtual) (hopen : h.connOpen c = true) (hfree : h.connSess c = none) :
+    (hk : kind ≠ .virtual) (hopen : h.connOpen c = true) (hfree : h.connSess c = none)
+    (hl : limitReached h b kind = false) :
     Inv (helloTables h c b kind user d i) := by
+  have hl' : kind ≠ .internal → h.limit b ≠ 0 → (h.count b).length < h.limit b := by
+    intro h1 h2
+    unfold limitReached at hl
+    simp only [h1, h2, ne_eq, not_false_eq_true, decide_true, Bool.true_and, ge_iff_le, decide_eq_false_iff_not, Nat.not_le] at hl
+    exact hl
+  clear hl
   have hnew : h.sess h.nextSid = none := hi.fresh _ (Nat.le_refl _)
   unfold helloTables
   -- the new record, as an opaque term with known projections
@@ -45,123 +52,128 @@ theorem helloTables_inv {h : Hub} (hi : Inv h) (c b : Nat) (kind : Kind) (user :
   case fresh =>
     by_cases hu : user = "" <;> simp only [hu, ne_eq, not_true_eq_false, not_false_eq_true, if_true, if_false]
     all_goals first
-      | (have f_fresh := hi.fresh; clear hi; (intros; (try simp only [hubf] at *); grind [mem_removeL, nodup_removeL, removeL_nil]))
-      | (have f_fresh := hi.fresh; have f_mem_room := hi.mem_room; have f_room_mem := hi.room_mem; have f_nonempty := hi.nonempty; have f_nodup := hi.nodup; have f_roomL_iff := hi.roomL_iff; have f_roomL_nodup := hi.roomL_nodup; have f_userL_iff := hi.userL_iff; have f_userL_nodup := hi.userL_nodup; have f_sessL_iff := hi.sessL_iff; have f_rs_fwd := hi.rs_fwd; have f_rs_room := hi.rs_room; have f_virt := hi.virt; have f_children := hi.children; have f_vtable := hi.vtable; have f_conn_iff := hi.conn_iff; have f_conn_open := hi.conn_open; have f_eh := hi.eh; have f_expired := hi.expired; have f_anon := hi.anon; have f_dialout := hi.dialout; have f_count := hi.count; have f_orph_virt := hi.orph_virt; have f_incall := hi.incall; clear hi; (intros; (try simp only [hubf] at *); grind [mem_removeL, nodup_removeL, removeL_nil]))
+      | (have f_fresh := hi.fresh; clear hi; (intros; (try simp only [hubf] at *); grind [mem_removeL, nodup_removeL, removeL_nil, length_removeL_le]))
+      | (have f_fresh := hi.fresh; have f_mem_room := hi.mem_room; have f_room_mem := hi.room_mem; have f_nonempty := hi.nonempty; have f_nodup := hi.nodup; have f_roomL_iff := hi.roomL_iff; have f_roomL_nodup := hi.roomL_nodup; have f_userL_iff := hi.userL_iff; have f_userL_nodup := hi.userL_nodup; have f_sessL_iff := hi.sessL_iff; have f_rs_fwd := hi.rs_fwd; have f_rs_room := hi.rs_room; have f_virt := hi.virt; have f_children := hi.children; have f_vtable := hi.vtable; have f_conn_iff := hi.conn_iff; have f_conn_open := hi.conn_open; have f_eh := hi.eh; have f_expired := hi.expired; have f_anon := hi.anon; have f_dialout := hi.dialout; have f_count := hi.count; have f_orph_virt := hi.orph_virt; have f_incall := hi.incall; have f_count_le := hi.count_le; clear hi; (intros; (try simp only [hubf] at *); grind [mem_removeL, nodup_removeL, removeL_nil, length_removeL_le]))
   case mem_room =>
     by_cases hu : user = "" <;> simp only [hu, ne_eq, not_true_eq_false, not_false_eq_true, if_true, if_false]
     all_goals first
-      | (have f_mem_room := hi.mem_room; have f_fresh := hi.fresh; clear hi; (intros; (try simp only [hubf] at *); grind [mem_removeL, nodup_removeL, removeL_nil]))
-      | (have f_fresh := hi.fresh; have f_mem_room := hi.mem_room; have f_room_mem := hi.room_mem; have f_nonempty := hi.nonempty; have f_nodup := hi.nodup; have f_roomL_iff := hi.roomL_iff; have f_roomL_nodup := hi.roomL_nodup; have f_userL_iff := hi.userL_iff; have f_userL_nodup := hi.userL_nodup; have f_sessL_iff := hi.sessL_iff; have f_rs_fwd := hi.rs_fwd; have f_rs_room := hi.rs_room; have f_virt := hi.virt; have f_children := hi.children; have f_vtable := hi.vtable; have f_conn_iff := hi.conn_iff; have f_conn_open := hi.conn_open; have f_eh := hi.eh; have f_expired := hi.expired; have f_anon := hi.anon; have f_dialout := hi.dialout; have f_count := hi.count; have f_orph_virt := hi.orph_virt; have f_incall := hi.incall; clear hi; (intros; (try simp only [hubf] at *); grind [mem_removeL, nodup_removeL, removeL_nil]))
+      | (have f_mem_room := hi.mem_room; have f_fresh := hi.fresh; clear hi; (intros; (try simp only [hubf] at *); grind [mem_removeL, nodup_removeL, removeL_nil, length_removeL_le]))
+      | (have f_fresh := hi.fresh; have f_mem_room := hi.mem_room; have f_room_mem := hi.room_mem; have f_nonempty := hi.nonempty; have f_nodup := hi.nodup; have f_roomL_iff := hi.roomL_iff; have f_roomL_nodup := hi.roomL_nodup; have f_userL_iff := hi.userL_iff; have f_userL_nodup := hi.userL_nodup; have f_sessL_iff := hi.sessL_iff; have f_rs_fwd := hi.rs_fwd; have f_rs_room := hi.rs_room; have f_virt := hi.virt; have f_children := hi.children; have f_vtable := hi.vtable; have f_conn_iff := hi.conn_iff; have f_conn_open := hi.conn_open; have f_eh := hi.eh; have f_expired := hi.expired; have f_anon := hi.anon; have f_dialout := hi.dialout; have f_count := hi.count; have f_orph_virt := hi.orph_virt; have f_incall := hi.incall; have f_count_le := hi.count_le; clear hi; (intros; (try simp only [hubf] at *); grind [mem_removeL, nodup_removeL, removeL_nil, length_removeL_le]))
   case room_mem =>
     by_cases hu : user = "" <;> simp only [hu, ne_eq, not_true_eq_false, not_false_eq_true, if_true, if_false]
     all_goals first
-      | (have f_room_mem := hi.room_mem; have f_mem_room := hi.mem_room; have f_fresh := hi.fresh; clear hi; (intros; (try simp only [hubf] at *); grind [mem_removeL, nodup_removeL, removeL_nil]))
-      | (have f_fresh := hi.fresh; have f_mem_room := hi.mem_room; have f_room_mem := hi.room_mem; have f_nonempty := hi.nonempty; have f_nodup := hi.nodup; have f_roomL_iff := hi.roomL_iff; have f_roomL_nodup := hi.roomL_nodup; have f_userL_iff := hi.userL_iff; have f_userL_nodup := hi.userL_nodup; have f_sessL_iff := hi.sessL_iff; have f_rs_fwd := hi.rs_fwd; have f_rs_room := hi.rs_room; have f_virt := hi.virt; have f_children := hi.children; have f_vtable := hi.vtable; have f_conn_iff := hi.conn_iff; have f_conn_open := hi.conn_open; have f_eh := hi.eh; have f_expired := hi.expired; have f_anon := hi.anon; have f_dialout := hi.dialout; have f_count := hi.count; have f_orph_virt := hi.orph_virt; have f_incall := hi.incall; clear hi; (intros; (try simp only [hubf] at *); grind [mem_removeL, nodup_removeL, removeL_nil]))
+      | (have f_room_mem := hi.room_mem; have f_mem_room := hi.mem_room; have f_fresh := hi.fresh; clear hi; (intros; (try simp only [hubf] at *); grind [mem_removeL, nodup_removeL, removeL_nil, length_removeL_le]))
+      | (have f_fresh := hi.fresh; have f_mem_room := hi.mem_room; have f_room_mem := hi.room_mem; have f_nonempty := hi.nonempty; have f_nodup := hi.nodup; have f_roomL_iff := hi.roomL_iff; have f_roomL_nodup := hi.roomL_nodup; have f_userL_iff := hi.userL_iff; have f_userL_nodup := hi.userL_nodup; have f_sessL_iff := hi.sessL_iff; have f_rs_fwd := hi.rs_fwd; have f_rs_room := hi.rs_room; have f_virt := hi.virt; have f_children := hi.children; have f_vtable := hi.vtable; have f_conn_iff := hi.conn_iff; have f_conn_open := hi.conn_open; have f_eh := hi.eh; have f_expired := hi.expired; have f_anon := hi.anon; have f_dialout := hi.dialout; have f_count := hi.count; have f_orph_virt := hi.orph_virt; have f_incall := hi.incall; have f_count_le := hi.count_le; clear hi; (intros; (try simp only [hubf] at *); grind [mem_removeL, nodup_removeL, removeL_nil, length_removeL_le]))
   case nonempty =>
     by_cases hu : user = "" <;> simp only [hu, ne_eq, not_true_eq_false, not_false_eq_true, if_true, if_false]
     all_goals first
-      | (have f_nonempty := hi.nonempty; have f_mem_room := hi.mem_room; clear hi; (intros; (try simp only [hubf] at *); grind [mem_removeL, nodup_removeL, removeL_nil]))
-      | (have f_fresh := hi.fresh; have f_mem_room := hi.mem_room; have f_room_mem := hi.room_mem; have f_nonempty := hi.nonempty; have f_nodup := hi.nodup; have f_roomL_iff := hi.roomL_iff; have f_roomL_nodup := hi.roomL_nodup; have f_userL_iff := hi.userL_iff; have f_userL_nodup := hi.userL_nodup; have f_sessL_iff := hi.sessL_iff; have f_rs_fwd := hi.rs_fwd; have f_rs_room := hi.rs_room; have f_virt := hi.virt; have f_children := hi.children; have f_vtable := hi.vtable; have f_conn_iff := hi.conn_iff; have f_conn_open := hi.conn_open; have f_eh := hi.eh; have f_expired := hi.expired; have f_anon := hi.anon; have f_dialout := hi.dialout; have f_count := hi.count; have f_orph_virt := hi.orph_virt; have f_incall := hi.incall; clear hi; (intros; (try simp only [hubf] at *); grind [mem_removeL, nodup_removeL, removeL_nil]))
+      | (have f_nonempty := hi.nonempty; have f_mem_room := hi.mem_room; clear hi; (intros; (try simp only [hubf] at *); grind [mem_removeL, nodup_removeL, removeL_nil, length_removeL_le]))
+      | (have f_fresh := hi.fresh; have f_mem_room := hi.mem_room; have f_room_mem := hi.room_mem; have f_nonempty := hi.nonempty; have f_nodup := hi.nodup; have f_roomL_iff := hi.roomL_iff; have f_roomL_nodup := hi.roomL_nodup; have f_userL_iff := hi.userL_iff; have f_userL_nodup := hi.userL_nodup; have f_sessL_iff := hi.sessL_iff; have f_rs_fwd := hi.rs_fwd; have f_rs_room := hi.rs_room; have f_virt := hi.virt; have f_children := hi.children; have f_vtable := hi.vtable; have f_conn_iff := hi.conn_iff; have f_conn_open := hi.conn_open; have f_eh := hi.eh; have f_expired := hi.expired; have f_anon := hi.anon; have f_dialout := hi.dialout; have f_count := hi.count; have f_orph_virt := hi.orph_virt; have f_incall := hi.incall; have f_count_le := hi.count_le; clear hi; (intros; (try simp only [hubf] at *); grind [mem_removeL, nodup_removeL, removeL_nil, length_removeL_le]))
   case nodup =>
     by_cases hu : user = "" <;> simp only [hu, ne_eq, not_true_eq_false, not_false_eq_true, if_true, if_false]
     all_goals first
-      | (have f_nodup := hi.nodup; clear hi; (intros; (try simp only [hubf] at *); grind [mem_removeL, nodup_removeL, removeL_nil]))
-      | (have f_fresh := hi.fresh; have f_mem_room := hi.mem_room; have f_room_mem := hi.room_mem; have f_nonempty := hi.nonempty; have f_nodup := hi.nodup; have f_roomL_iff := hi.roomL_iff; have f_roomL_nodup := hi.roomL_nodup; have f_userL_iff := hi.userL_iff; have f_userL_nodup := hi.userL_nodup; have f_sessL_iff := hi.sessL_iff; have f_rs_fwd := hi.rs_fwd; have f_rs_room := hi.rs_room; have f_virt := hi.virt; have f_children := hi.children; have f_vtable := hi.vtable; have f_conn_iff := hi.conn_iff; have f_conn_open := hi.conn_open; have f_eh := hi.eh; have f_expired := hi.expired; have f_anon := hi.anon; have f_dialout := hi.dialout; have f_count := hi.count; have f_orph_virt := hi.orph_virt; have f_incall := hi.incall; clear hi; (intros; (try simp only [hubf] at *); grind [mem_removeL, nodup_removeL, removeL_nil]))
+      | (have f_nodup := hi.nodup; clear hi; (intros; (try simp only [hubf] at *); grind [mem_removeL, nodup_removeL, removeL_nil, length_removeL_le]))
+      | (have f_fresh := hi.fresh; have f_mem_room := hi.mem_room; have f_room_mem := hi.room_mem; have f_nonempty := hi.nonempty; have f_nodup := hi.nodup; have f_roomL_iff := hi.roomL_iff; have f_roomL_nodup := hi.roomL_nodup; have f_userL_iff := hi.userL_iff; have f_userL_nodup := hi.userL_nodup; have f_sessL_iff := hi.sessL_iff; have f_rs_fwd := hi.rs_fwd; have f_rs_room := hi.rs_room; have f_virt := hi.virt; have f_children := hi.children; have f_vtable := hi.vtable; have f_conn_iff := hi.conn_iff; have f_conn_open := hi.conn_open; have f_eh := hi.eh; have f_expired := hi.expired; have f_anon := hi.anon; have f_dialout := hi.dialout; have f_count := hi.count; have f_orph_virt := hi.orph_virt; have f_incall := hi.incall; have f_count_le := hi.count_le; clear hi; (intros; (try simp only [hubf] at *); grind [mem_removeL, nodup_removeL, removeL_nil, length_removeL_le]))
   case roomL_iff =>
     by_cases hu : user = "" <;> simp only [hu, ne_eq, not_true_eq_false, not_false_eq_true, if_true, if_false]
     all_goals first
-      | (have f_roomL_iff := hi.roomL_iff; have f_fresh := hi.fresh; have f_room_mem := hi.room_mem; have f_mem_room := hi.mem_room; clear hi; (intros; (try simp only [hubf] at *); grind [mem_removeL, nodup_removeL, removeL_nil]))
-      | (have f_fresh := hi.fresh; have f_mem_room := hi.mem_room; have f_room_mem := hi.room_mem; have f_nonempty := hi.nonempty; have f_nodup := hi.nodup; have f_roomL_iff := hi.roomL_iff; have f_roomL_nodup := hi.roomL_nodup; have f_userL_iff := hi.userL_iff; have f_userL_nodup := hi.userL_nodup; have f_sessL_iff := hi.sessL_iff; have f_rs_fwd := hi.rs_fwd; have f_rs_room := hi.rs_room; have f_virt := hi.virt; have f_children := hi.children; have f_vtable := hi.vtable; have f_conn_iff := hi.conn_iff; have f_conn_open := hi.conn_open; have f_eh := hi.eh; have f_expired := hi.expired; have f_anon := hi.anon; have f_dialout := hi.dialout; have f_count := hi.count; have f_orph_virt := hi.orph_virt; have f_incall := hi.incall; clear hi; (intros; (try simp only [hubf] at *); grind [mem_removeL, nodup_removeL, removeL_nil]))
+      | (have f_roomL_iff := hi.roomL_iff; have f_fresh := hi.fresh; have f_room_mem := hi.room_mem; have f_mem_room := hi.mem_room; clear hi; (intros; (try simp only [hubf] at *); grind [mem_removeL, nodup_removeL, removeL_nil, length_removeL_le]))
+      | (have f_fresh := hi.fresh; have f_mem_room := hi.mem_room; have f_room_mem := hi.room_mem; have f_nonempty := hi.nonempty; have f_nodup := hi.nodup; have f_roomL_iff := hi.roomL_iff; have f_roomL_nodup := hi.roomL_nodup; have f_userL_iff := hi.userL_iff; have f_userL_nodup := hi.userL_nodup; have f_sessL_iff := hi.sessL_iff; have f_rs_fwd := hi.rs_fwd; have f_rs_room := hi.rs_room; have f_virt := hi.virt; have f_children := hi.children; have f_vtable := hi.vtable; have f_conn_iff := hi.conn_iff; have f_conn_open := hi.conn_open; have f_eh := hi.eh; have f_expired := hi.expired; have f_anon := hi.anon; have f_dialout := hi.dialout; have f_count := hi.count; have f_orph_virt := hi.orph_virt; have f_incall := hi.incall; have f_count_le := hi.count_le; clear hi; (intros; (try simp only [hubf] at *); grind [mem_removeL, nodup_removeL, removeL_nil, length_removeL_le]))
   case roomL_nodup =>
     by_cases hu : user = "" <;> simp only [hu, ne_eq, not_true_eq_false, not_false_eq_true, if_true, if_false]
     all_goals first
-      | (have f_roomL_nodup := hi.roomL_nodup; have f_roomL_iff := hi.roomL_iff; clear hi; (intros; (try simp only [hubf] at *); grind [mem_removeL, nodup_removeL, removeL_nil]))
-      | (have f_fresh := hi.fresh; have f_mem_room := hi.mem_room; have f_room_mem := hi.room_mem; have f_nonempty := hi.nonempty; have f_nodup := hi.nodup; have f_roomL_iff := hi.roomL_iff; have f_roomL_nodup := hi.roomL_nodup; have f_userL_iff := hi.userL_iff; have f_userL_nodup := hi.userL_nodup; have f_sessL_iff := hi.sessL_iff; have f_rs_fwd := hi.rs_fwd; have f_rs_room := hi.rs_room; have f_virt := hi.virt; have f_children := hi.children; have f_vtable := hi.vtable; have f_conn_iff := hi.conn_iff; have f_conn_open := hi.conn_open; have f_eh := hi.eh; have f_expired := hi.expired; have f_anon := hi.anon; have f_dialout := hi.dialout; have f_count := hi.count; have f_orph_virt := hi.orph_virt; have f_incall := hi.incall; clear hi; (intros; (try simp only [hubf] at *); grind [mem_removeL, nodup_removeL, removeL_nil]))
+      | (have f_roomL_nodup := hi.roomL_nodup; have f_roomL_iff := hi.roomL_iff; clear hi; (intros; (try simp only [hubf] at *); grind [mem_removeL, nodup_removeL, removeL_nil, length_removeL_le]))
+      | (have f_fresh := hi.fresh; have f_mem_room := hi.mem_room; have f_room_mem := hi.room_mem; have f_nonempty := hi.nonempty; have f_nodup := hi.nodup; have f_roomL_iff := hi.roomL_iff; have f_roomL_nodup := hi.roomL_nodup; have f_userL_iff := hi.userL_iff; have f_userL_nodup := hi.userL_nodup; have f_sessL_iff := hi.sessL_iff; have f_rs_fwd := hi.rs_fwd; have f_rs_room := hi.rs_room; have f_virt := hi.virt; have f_children := hi.children; have f_vtable := hi.vtable; have f_conn_iff := hi.conn_iff; have f_conn_open := hi.conn_open; have f_eh := hi.eh; have f_expired := hi.expired; have f_anon := hi.anon; have f_dialout := hi.dialout; have f_count := hi.count; have f_orph_virt := hi.orph_virt; have f_incall := hi.incall; have f_count_le := hi.count_le; clear hi; (intros; (try simp only [hubf] at *); grind [mem_removeL, nodup_removeL, removeL_nil, length_removeL_le]))
   case userL_iff =>
     by_cases hu : user = "" <;> simp only [hu, ne_eq, not_true_eq_false, not_false_eq_true, if_true, if_false]
     all_goals first
-      | (have f_userL_iff := hi.userL_iff; have f_fresh := hi.fresh; clear hi; (intros; (try simp only [hubf] at *); grind [mem_removeL, nodup_removeL, removeL_nil]))
-      | (have f_fresh := hi.fresh; have f_mem_room := hi.mem_room; have f_room_mem := hi.room_mem; have f_nonempty := hi.nonempty; have f_nodup := hi.nodup; have f_roomL_iff := hi.roomL_iff; have f_roomL_nodup := hi.roomL_nodup; have f_userL_iff := hi.userL_iff; have f_userL_nodup := hi.userL_nodup; have f_sessL_iff := hi.sessL_iff; have f_rs_fwd := hi.rs_fwd; have f_rs_room := hi.rs_room; have f_virt := hi.virt; have f_children := hi.children; have f_vtable := hi.vtable; have f_conn_iff := hi.conn_iff; have f_conn_open := hi.conn_open; have f_eh := hi.eh; have f_expired := hi.expired; have f_anon := hi.anon; have f_dialout := hi.dialout; have f_count := hi.count; have f_orph_virt := hi.orph_virt; have f_incall := hi.incall; clear hi; (intros; (try simp only [hubf] at *); grind [mem_removeL, nodup_removeL, removeL_nil]))
+      | (have f_userL_iff := hi.userL_iff; have f_fresh := hi.fresh; clear hi; (intros; (try simp only [hubf] at *); grind [mem_removeL, nodup_removeL, removeL_nil, length_removeL_le]))
+      | (have f_fresh := hi.fresh; have f_mem_room := hi.mem_room; have f_room_mem := hi.room_mem; have f_nonempty := hi.nonempty; have f_nodup := hi.nodup; have f_roomL_iff := hi.roomL_iff; have f_roomL_nodup := hi.roomL_nodup; have f_userL_iff := hi.userL_iff; have f_userL_nodup := hi.userL_nodup; have f_sessL_iff := hi.sessL_iff; have f_rs_fwd := hi.rs_fwd; have f_rs_room := hi.rs_room; have f_virt := hi.virt; have f_children := hi.children; have f_vtable := hi.vtable; have f_conn_iff := hi.conn_iff; have f_conn_open := hi.conn_open; have f_eh := hi.eh; have f_expired := hi.expired; have f_anon := hi.anon; have f_dialout := hi.dialout; have f_count := hi.count; have f_orph_virt := hi.orph_virt; have f_incall := hi.incall; have f_count_le := hi.count_le; clear hi; (intros; (try simp only [hubf] at *); grind [mem_removeL, nodup_removeL, removeL_nil, length_removeL_le]))
   case userL_nodup =>
     by_cases hu : user = "" <;> simp only [hu, ne_eq, not_true_eq_false, not_false_eq_true, if_true, if_false]
     all_goals first
-      | (have f_userL_nodup := hi.userL_nodup; have f_userL_iff := hi.userL_iff; clear hi; (intros; (try simp only [hubf] at *); grind [mem_removeL, nodup_removeL, removeL_nil]))
-      | (have f_fresh := hi.fresh; have f_mem_room := hi.mem_room; have f_room_mem := hi.room_mem; have f_nonempty := hi.nonempty; have f_nodup := hi.nodup; have f_roomL_iff := hi.roomL_iff; have f_roomL_nodup := hi.roomL_nodup; have f_userL_iff := hi.userL_iff; have f_userL_nodup := hi.userL_nodup; have f_sessL_iff := hi.sessL_iff; have f_rs_fwd := hi.rs_fwd; have f_rs_room := hi.rs_room; have f_virt := hi.virt; have f_children := hi.children; have f_vtable := hi.vtable; have f_conn_iff := hi.conn_iff; have f_conn_open := hi.conn_open; have f_eh := hi.eh; have f_expired := hi.expired; have f_anon := hi.anon; have f_dialout := hi.dialout; have f_count := hi.count; have f_orph_virt := hi.orph_virt; have f_incall := hi.incall; clear hi; (intros; (try simp only [hubf] at *); grind [mem_removeL, nodup_removeL, removeL_nil]))
+      | (have f_userL_nodup := hi.userL_nodup; have f_userL_iff := hi.userL_iff; clear hi; (intros; (try simp only [hubf] at *); grind [mem_removeL, nodup_removeL, removeL_nil, length_removeL_le]))
+      | (have f_fresh := hi.fresh; have f_mem_room := hi.mem_room; have f_room_mem := hi.room_mem; have f_nonempty := hi.nonempty; have f_nodup := hi.nodup; have f_roomL_iff := hi.roomL_iff; have f_roomL_nodup := hi.roomL_nodup; have f_userL_iff := hi.userL_iff; have f_userL_nodup := hi.userL_nodup; have f_sessL_iff := hi.sessL_iff; have f_rs_fwd := hi.rs_fwd; have f_rs_room := hi.rs_room; have f_virt := hi.virt; have f_children := hi.children; have f_vtable := hi.vtable; have f_conn_iff := hi.conn_iff; have f_conn_open := hi.conn_open; have f_eh := hi.eh; have f_expired := hi.expired; have f_anon := hi.anon; have f_dialout := hi.dialout; have f_count := hi.count; have f_orph_virt := hi.orph_virt; have f_incall := hi.incall; have f_count_le := hi.count_le; clear hi; (intros; (try simp only [hubf] at *); grind [mem_removeL, nodup_removeL, removeL_nil, length_removeL_le]))
   case sessL_iff =>
     by_cases hu : user = "" <;> simp only [hu, ne_eq, not_true_eq_false, not_false_eq_true, if_true, if_false]
     all_goals first
-      | (have f_sessL_iff := hi.sessL_iff; have f_fresh := hi.fresh; clear hi; (intros; (try simp only [hubf] at *); grind [mem_removeL, nodup_removeL, removeL_nil]))
-      | (have f_fresh := hi.fresh; have f_mem_room := hi.mem_room; have f_room_mem := hi.room_mem; have f_nonempty := hi.nonempty; have f_nodup := hi.nodup; have f_roomL_iff := hi.roomL_iff; have f_roomL_nodup := hi.roomL_nodup; have f_userL_iff := hi.userL_iff; have f_userL_nodup := hi.userL_nodup; have f_sessL_iff := hi.sessL_iff; have f_rs_fwd := hi.rs_fwd; have f_rs_room := hi.rs_room; have f_virt := hi.virt; have f_children := hi.children; have f_vtable := hi.vtable; have f_conn_iff := hi.conn_iff; have f_conn_open := hi.conn_open; have f_eh := hi.eh; have f_expired := hi.expired; have f_anon := hi.anon; have f_dialout := hi.dialout; have f_count := hi.count; have f_orph_virt := hi.orph_virt; have f_incall := hi.incall; clear hi; (intros; (try simp only [hubf] at *); grind [mem_removeL, nodup_removeL, removeL_nil]))
+      | (have f_sessL_iff := hi.sessL_iff; have f_fresh := hi.fresh; clear hi; (intros; (try simp only [hubf] at *); grind [mem_removeL, nodup_removeL, removeL_nil, length_removeL_le]))
+      | (have f_fresh := hi.fresh; have f_mem_room := hi.mem_room; have f_room_mem := hi.room_mem; have f_nonempty := hi.nonempty; have f_nodup := hi.nodup; have f_roomL_iff := hi.roomL_iff; have f_roomL_nodup := hi.roomL_nodup; have f_userL_iff := hi.userL_iff; have f_userL_nodup := hi.userL_nodup; have f_sessL_iff := hi.sessL_iff; have f_rs_fwd := hi.rs_fwd; have f_rs_room := hi.rs_room; have f_virt := hi.virt; have f_children := hi.children; have f_vtable := hi.vtable; have f_conn_iff := hi.conn_iff; have f_conn_open := hi.conn_open; have f_eh := hi.eh; have f_expired := hi.expired; have f_anon := hi.anon; have f_dialout := hi.dialout; have f_count := hi.count; have f_orph_virt := hi.orph_virt; have f_incall := hi.incall; have f_count_le := hi.count_le; clear hi; (intros; (try simp only [hubf] at *); grind [mem_removeL, nodup_removeL, removeL_nil, length_removeL_le]))
   case rs_fwd =>
     by_cases hu : user = "" <;> simp only [hu, ne_eq, not_true_eq_false, not_false_eq_true, if_true, if_false]
     all_goals first
-      | (have f_rs_fwd := hi.rs_fwd; have f_rs_room := hi.rs_room; have f_fresh := hi.fresh; clear hi; (intros; (try simp only [hubf] at *); grind [mem_removeL, nodup_removeL, removeL_nil]))
-      | (have f_fresh := hi.fresh; have f_mem_room := hi.mem_room; have f_room_mem := hi.room_mem; have f_nonempty := hi.nonempty; have f_nodup := hi.nodup; have f_roomL_iff := hi.roomL_iff; have f_roomL_nodup := hi.roomL_nodup; have f_userL_iff := hi.userL_iff; have f_userL_nodup := hi.userL_nodup; have f_sessL_iff := hi.sessL_iff; have f_rs_fwd := hi.rs_fwd; have f_rs_room := hi.rs_room; have f_virt := hi.virt; have f_children := hi.children; have f_vtable := hi.vtable; have f_conn_iff := hi.conn_iff; have f_conn_open := hi.conn_open; have f_eh := hi.eh; have f_expired := hi.expired; have f_anon := hi.anon; have f_dialout := hi.dialout; have f_count := hi.count; have f_orph_virt := hi.orph_virt; have f_incall := hi.incall; clear hi; (intros; (try simp only [hubf] at *); grind [mem_removeL, nodup_removeL, removeL_nil]))
+      | (have f_rs_fwd := hi.rs_fwd; have f_rs_room := hi.rs_room; have f_fresh := hi.fresh; clear hi; (intros; (try simp only [hubf] at *); grind [mem_removeL, nodup_removeL, removeL_nil, length_removeL_le]))
+      | (have f_fresh := hi.fresh; have f_mem_room := hi.mem_room; have f_room_mem := hi.room_mem; have f_nonempty := hi.nonempty; have f_nodup := hi.nodup; have f_roomL_iff := hi.roomL_iff; have f_roomL_nodup := hi.roomL_nodup; have f_userL_iff := hi.userL_iff; have f_userL_nodup := hi.userL_nodup; have f_sessL_iff := hi.sessL_iff; have f_rs_fwd := hi.rs_fwd; have f_rs_room := hi.rs_room; have f_virt := hi.virt; have f_children := hi.children; have f_vtable := hi.vtable; have f_conn_iff := hi.conn_iff; have f_conn_open := hi.conn_open; have f_eh := hi.eh; have f_expired := hi.expired; have f_anon := hi.anon; have f_dialout := hi.dialout; have f_count := hi.count; have f_orph_virt := hi.orph_virt; have f_incall := hi.incall; have f_count_le := hi.count_le; clear hi; (intros; (try simp only [hubf] at *); grind [mem_removeL, nodup_removeL, removeL_nil, length_removeL_le]))
   case rs_room =>
     by_cases hu : user = "" <;> simp only [hu, ne_eq, not_true_eq_false, not_false_eq_true, if_true, if_false]
     all_goals first
-      | (have f_rs_room := hi.rs_room; have f_rs_fwd := hi.rs_fwd; have f_fresh := hi.fresh; have f_room_mem := hi.room_mem; clear hi; (intros; (try simp only [hubf] at *); grind [mem_removeL, nodup_removeL, removeL_nil]))
-      | (have f_fresh := hi.fresh; have f_mem_room := hi.mem_room; have f_room_mem := hi.room_mem; have f_nonempty := hi.nonempty; have f_nodup := hi.nodup; have f_roomL_iff := hi.roomL_iff; have f_roomL_nodup := hi.roomL_nodup; have f_userL_iff := hi.userL_iff; have f_userL_nodup := hi.userL_nodup; have f_sessL_iff := hi.sessL_iff; have f_rs_fwd := hi.rs_fwd; have f_rs_room := hi.rs_room; have f_virt := hi.virt; have f_children := hi.children; have f_vtable := hi.vtable; have f_conn_iff := hi.conn_iff; have f_conn_open := hi.conn_open; have f_eh := hi.eh; have f_expired := hi.expired; have f_anon := hi.anon; have f_dialout := hi.dialout; have f_count := hi.count; have f_orph_virt := hi.orph_virt; have f_incall := hi.incall; clear hi; (intros; (try simp only [hubf] at *); grind [mem_removeL, nodup_removeL, removeL_nil]))
+      | (have f_rs_room := hi.rs_room; have f_rs_fwd := hi.rs_fwd; have f_fresh := hi.fresh; have f_room_mem := hi.room_mem; clear hi; (intros; (try simp only [hubf] at *); grind [mem_removeL, nodup_removeL, removeL_nil, length_removeL_le]))
+      | (have f_fresh := hi.fresh; have f_mem_room := hi.mem_room; have f_room_mem := hi.room_mem; have f_nonempty := hi.nonempty; have f_nodup := hi.nodup; have f_roomL_iff := hi.roomL_iff; have f_roomL_nodup := hi.roomL_nodup; have f_userL_iff := hi.userL_iff; have f_userL_nodup := hi.userL_nodup; have f_sessL_iff := hi.sessL_iff; have f_rs_fwd := hi.rs_fwd; have f_rs_room := hi.rs_room; have f_virt := hi.virt; have f_children := hi.children; have f_vtable := hi.vtable; have f_conn_iff := hi.conn_iff; have f_conn_open := hi.conn_open; have f_eh := hi.eh; have f_expired := hi.expired; have f_anon := hi.anon; have f_dialout := hi.dialout; have f_count := hi.count; have f_orph_virt := hi.orph_virt; have f_incall := hi.incall; have f_count_le := hi.count_le; clear hi; (intros; (try simp only [hubf] at *); grind [mem_removeL, nodup_removeL, removeL_nil, length_removeL_le]))
   case virt =>
     by_cases hu : user = "" <;> simp only [hu, ne_eq, not_true_eq_false, not_false_eq_true, if_true, if_false]
     all_goals first
-      | (have f_virt := hi.virt; have f_children := hi.children; have f_fresh := hi.fresh; clear hi; (intros; (try simp only [hubf] at *); grind [mem_removeL, nodup_removeL, removeL_nil]))
-      | (have f_fresh := hi.fresh; have f_mem_room := hi.mem_room; have f_room_mem := hi.room_mem; have f_nonempty := hi.nonempty; have f_nodup := hi.nodup; have f_roomL_iff := hi.roomL_iff; have f_roomL_nodup := hi.roomL_nodup; have f_userL_iff := hi.userL_iff; have f_userL_nodup := hi.userL_nodup; have f_sessL_iff := hi.sessL_iff; have f_rs_fwd := hi.rs_fwd; have f_rs_room := hi.rs_room; have f_virt := hi.virt; have f_children := hi.children; have f_vtable := hi.vtable; have f_conn_iff := hi.conn_iff; have f_conn_open := hi.conn_open; have f_eh := hi.eh; have f_expired := hi.expired; have f_anon := hi.anon; have f_dialout := hi.dialout; have f_count := hi.count; have f_orph_virt := hi.orph_virt; have f_incall := hi.incall; clear hi; (intros; (try simp only [hubf] at *); grind [mem_removeL, nodup_removeL, removeL_nil]))
+      | (have f_virt := hi.virt; have f_children := hi.children; have f_fresh := hi.fresh; clear hi; (intros; (try simp only [hubf] at *); grind [mem_removeL, nodup_removeL, removeL_nil, length_removeL_le]))
+      | (have f_fresh := hi.fresh; have f_mem_room := hi.mem_room; have f_room_mem := hi.room_mem; have f_nonempty := hi.nonempty; have f_nodup := hi.nodup; have f_roomL_iff := hi.roomL_iff; have f_roomL_nodup := hi.roomL_nodup; have f_userL_iff := hi.userL_iff; have f_userL_nodup := hi.userL_nodup; have f_sessL_iff := hi.sessL_iff; have f_rs_fwd := hi.rs_fwd; have f_rs_room := hi.rs_room; have f_virt := hi.virt; have f_children := hi.children; have f_vtable := hi.vtable; have f_conn_iff := hi.conn_iff; have f_conn_open := hi.conn_open; have f_eh := hi.eh; have f_expired := hi.expired; have f_anon := hi.anon; have f_dialout := hi.dialout; have f_count := hi.count; have f_orph_virt := hi.orph_virt; have f_incall := hi.incall; have f_count_le := hi.count_le; clear hi; (intros; (try simp only [hubf] at *); grind [mem_removeL, nodup_removeL, removeL_nil, length_removeL_le]))
   case children =>
     by_cases hu : user = "" <;> simp only [hu, ne_eq, not_true_eq_false, not_false_eq_true, if_true, if_false]
     all_goals first
-      | (have f_children := hi.children; have f_virt := hi.virt; have f_fresh := hi.fresh; clear hi; (intros; (try simp only [hubf] at *); grind [mem_removeL, nodup_removeL, removeL_nil]))
-      | (have f_fresh := hi.fresh; have f_mem_room := hi.mem_room; have f_room_mem := hi.room_mem; have f_nonempty := hi.nonempty; have f_nodup := hi.nodup; have f_roomL_iff := hi.roomL_iff; have f_roomL_nodup := hi.roomL_nodup; have f_userL_iff := hi.userL_iff; have f_userL_nodup := hi.userL_nodup; have f_sessL_iff := hi.sessL_iff; have f_rs_fwd := hi.rs_fwd; have f_rs_room := hi.rs_room; have f_virt := hi.virt; have f_children := hi.children; have f_vtable := hi.vtable; have f_conn_iff := hi.conn_iff; have f_conn_open := hi.conn_open; have f_eh := hi.eh; have f_expired := hi.expired; have f_anon := hi.anon; have f_dialout := hi.dialout; have f_count := hi.count; have f_orph_virt := hi.orph_virt; have f_incall := hi.incall; clear hi; (intros; (try simp only [hubf] at *); grind [mem_removeL, nodup_removeL, removeL_nil]))
+      | (have f_children := hi.children; have f_virt := hi.virt; have f_fresh := hi.fresh; clear hi; (intros; (try simp only [hubf] at *); grind [mem_removeL, nodup_removeL, removeL_nil, length_removeL_le]))
+      | (have f_fresh := hi.fresh; have f_mem_room := hi.mem_room; have f_room_mem := hi.room_mem; have f_nonempty := hi.nonempty; have f_nodup := hi.nodup; have f_roomL_iff := hi.roomL_iff; have f_roomL_nodup := hi.roomL_nodup; have f_userL_iff := hi.userL_iff; have f_userL_nodup := hi.userL_nodup; have f_sessL_iff := hi.sessL_iff; have f_rs_fwd := hi.rs_fwd; have f_rs_room := hi.rs_room; have f_virt := hi.virt; have f_children := hi.children; have f_vtable := hi.vtable; have f_conn_iff := hi.conn_iff; have f_conn_open := hi.conn_open; have f_eh := hi.eh; have f_expired := hi.expired; have f_anon := hi.anon; have f_dialout := hi.dialout; have f_count := hi.count; have f_orph_virt := hi.orph_virt; have f_incall := hi.incall; have f_count_le := hi.count_le; clear hi; (intros; (try simp only [hubf] at *); grind [mem_removeL, nodup_removeL, removeL_nil, length_removeL_le]))
   case vtable =>
     by_cases hu : user = "" <;> simp only [hu, ne_eq, not_true_eq_false, not_false_eq_true, if_true, if_false]
     all_goals first
-      | (have f_vtable := hi.vtable; have f_virt := hi.virt; have f_fresh := hi.fresh; clear hi; (intros; (try simp only [hubf] at *); grind [mem_removeL, nodup_removeL, removeL_nil]))
-      | (have f_fresh := hi.fresh; have f_mem_room := hi.mem_room; have f_room_mem := hi.room_mem; have f_nonempty := hi.nonempty; have f_nodup := hi.nodup; have f_roomL_iff := hi.roomL_iff; have f_roomL_nodup := hi.roomL_nodup; have f_userL_iff := hi.userL_iff; have f_userL_nodup := hi.userL_nodup; have f_sessL_iff := hi.sessL_iff; have f_rs_fwd := hi.rs_fwd; have f_rs_room := hi.rs_room; have f_virt := hi.virt; have f_children := hi.children; have f_vtable := hi.vtable; have f_conn_iff := hi.conn_iff; have f_conn_open := hi.conn_open; have f_eh := hi.eh; have f_expired := hi.expired; have f_anon := hi.anon; have f_dialout := hi.dialout; have f_count := hi.count; have f_orph_virt := hi.orph_virt; have f_incall := hi.incall; clear hi; (intros; (try simp only [hubf] at *); grind [mem_removeL, nodup_removeL, removeL_nil]))
+      | (have f_vtable := hi.vtable; have f_virt := hi.virt; have f_fresh := hi.fresh; clear hi; (intros; (try simp only [hubf] at *); grind [mem_removeL, nodup_removeL, removeL_nil, length_removeL_le]))
+      | (have f_fresh := hi.fresh; have f_mem_room := hi.mem_room; have f_room_mem := hi.room_mem; have f_nonempty := hi.nonempty; have f_nodup := hi.nodup; have f_roomL_iff := hi.roomL_iff; have f_roomL_nodup := hi.roomL_nodup; have f_userL_iff := hi.userL_iff; have f_userL_nodup := hi.userL_nodup; have f_sessL_iff := hi.sessL_iff; have f_rs_fwd := hi.rs_fwd; have f_rs_room := hi.rs_room; have f_virt := hi.virt; have f_children := hi.children; have f_vtable := hi.vtable; have f_conn_iff := hi.conn_iff; have f_conn_open := hi.conn_open; have f_eh := hi.eh; have f_expired := hi.expired; have f_anon := hi.anon; have f_dialout := hi.dialout; have f_count := hi.count; have f_orph_virt := hi.orph_virt; have f_incall := hi.incall; have f_count_le := hi.count_le; clear hi; (intros; (try simp only [hubf] at *); grind [mem_removeL, nodup_removeL, removeL_nil, length_removeL_le]))
   case conn_iff =>
     by_cases hu : user = "" <;> simp only [hu, ne_eq, not_true_eq_false, not_false_eq_true, if_true, if_false]
     all_goals first
-      | (have f_conn_iff := hi.conn_iff; have f_fresh := hi.fresh; have f_virt := hi.virt; clear hi; (intros; (try simp only [hubf] at *); grind [mem_removeL, nodup_removeL, removeL_nil]))
-      | (have f_fresh := hi.fresh; have f_mem_room := hi.mem_room; have f_room_mem := hi.room_mem; have f_nonempty := hi.nonempty; have f_nodup := hi.nodup; have f_roomL_iff := hi.roomL_iff; have f_roomL_nodup := hi.roomL_nodup; have f_userL_iff := hi.userL_iff; have f_userL_nodup := hi.userL_nodup; have f_sessL_iff := hi.sessL_iff; have f_rs_fwd := hi.rs_fwd; have f_rs_room := hi.rs_room; have f_virt := hi.virt; have f_children := hi.children; have f_vtable := hi.vtable; have f_conn_iff := hi.conn_iff; have f_conn_open := hi.conn_open; have f_eh := hi.eh; have f_expired := hi.expired; have f_anon := hi.anon; have f_dialout := hi.dialout; have f_count := hi.count; have f_orph_virt := hi.orph_virt; have f_incall := hi.incall; clear hi; (intros; (try simp only [hubf] at *); grind [mem_removeL, nodup_removeL, removeL_nil]))
+      | (have f_conn_iff := hi.conn_iff; have f_fresh := hi.fresh; have f_virt := hi.virt; clear hi; (intros; (try simp only [hubf] at *); grind [mem_removeL, nodup_removeL, removeL_nil, length_removeL_le]))
+      | (have f_fresh := hi.fresh; have f_mem_room := hi.mem_room; have f_room_mem := hi.room_mem; have f_nonempty := hi.nonempty; have f_nodup := hi.nodup; have f_roomL_iff := hi.roomL_iff; have f_roomL_nodup := hi.roomL_nodup; have f_userL_iff := hi.userL_iff; have f_userL_nodup := hi.userL_nodup; have f_sessL_iff := hi.sessL_iff; have f_rs_fwd := hi.rs_fwd; have f_rs_room := hi.rs_room; have f_virt := hi.virt; have f_children := hi.children; have f_vtable := hi.vtable; have f_conn_iff := hi.conn_iff; have f_conn_open := hi.conn_open; have f_eh := hi.eh; have f_expired := hi.expired; have f_anon := hi.anon; have f_dialout := hi.dialout; have f_count := hi.count; have f_orph_virt := hi.orph_virt; have f_incall := hi.incall; have f_count_le := hi.count_le; clear hi; (intros; (try simp only [hubf] at *); grind [mem_removeL, nodup_removeL, removeL_nil, length_removeL_le]))
   case conn_open =>
     by_cases hu : user = "" <;> simp only [hu, ne_eq, not_true_eq_false, not_false_eq_true, if_true, if_false]
     all_goals first
-      | (have f_conn_open := hi.conn_open; have f_conn_iff := hi.conn_iff; clear hi; (intros; (try simp only [hubf] at *); grind [mem_removeL, nodup_removeL, removeL_nil]))
-      | (have f_fresh := hi.fresh; have f_mem_room := hi.mem_room; have f_room_mem := hi.room_mem; have f_nonempty := hi.nonempty; have f_nodup := hi.nodup; have f_roomL_iff := hi.roomL_iff; have f_roomL_nodup := hi.roomL_nodup; have f_userL_iff := hi.userL_iff; have f_userL_nodup := hi.userL_nodup; have f_sessL_iff := hi.sessL_iff; have f_rs_fwd := hi.rs_fwd; have f_rs_room := hi.rs_room; have f_virt := hi.virt; have f_children := hi.children; have f_vtable := hi.vtable; have f_conn_iff := hi.conn_iff; have f_conn_open := hi.conn_open; have f_eh := hi.eh; have f_expired := hi.expired; have f_anon := hi.anon; have f_dialout := hi.dialout; have f_count := hi.count; have f_orph_virt := hi.orph_virt; have f_incall := hi.incall; clear hi; (intros; (try simp only [hubf] at *); grind [mem_removeL, nodup_removeL, removeL_nil]))
+      | (have f_conn_open := hi.conn_open; have f_conn_iff := hi.conn_iff; clear hi; (intros; (try simp only [hubf] at *); grind [mem_removeL, nodup_removeL, removeL_nil, length_removeL_le]))
+      | (have f_fresh := hi.fresh; have f_mem_room := hi.mem_room; have f_room_mem := hi.room_mem; have f_nonempty := hi.nonempty; have f_nodup := hi.nodup; have f_roomL_iff := hi.roomL_iff; have f_roomL_nodup := hi.roomL_nodup; have f_userL_iff := hi.userL_iff; have f_userL_nodup := hi.userL_nodup; have f_sessL_iff := hi.sessL_iff; have f_rs_fwd := hi.rs_fwd; have f_rs_room := hi.rs_room; have f_virt := hi.virt; have f_children := hi.children; have f_vtable := hi.vtable; have f_conn_iff := hi.conn_iff; have f_conn_open := hi.conn_open; have f_eh := hi.eh; have f_expired := hi.expired; have f_anon := hi.anon; have f_dialout := hi.dialout; have f_count := hi.count; have f_orph_virt := hi.orph_virt; have f_incall := hi.incall; have f_count_le := hi.count_le; clear hi; (intros; (try simp only [hubf] at *); grind [mem_removeL, nodup_removeL, removeL_nil, length_removeL_le]))
   case eh =>
     by_cases hu : user = "" <;> simp only [hu, ne_eq, not_true_eq_false, not_false_eq_true, if_true, if_false]
     all_goals first
-      | (have f_eh := hi.eh; have f_conn_iff := hi.conn_iff; have f_conn_open := hi.conn_open; clear hi; (intros; (try simp only [hubf] at *); grind [mem_removeL, nodup_removeL, removeL_nil]))
-      | (have f_fresh := hi.fresh; have f_mem_room := hi.mem_room; have f_room_mem := hi.room_mem; have f_nonempty := hi.nonempty; have f_nodup := hi.nodup; have f_roomL_iff := hi.roomL_iff; have f_roomL_nodup := hi.roomL_nodup; have f_userL_iff := hi.userL_iff; have f_userL_nodup := hi.userL_nodup; have f_sessL_iff := hi.sessL_iff; have f_rs_fwd := hi.rs_fwd; have f_rs_room := hi.rs_room; have f_virt := hi.virt; have f_children := hi.children; have f_vtable := hi.vtable; have f_conn_iff := hi.conn_iff; have f_conn_open := hi.conn_open; have f_eh := hi.eh; have f_expired := hi.expired; have f_anon := hi.anon; have f_dialout := hi.dialout; have f_count := hi.count; have f_orph_virt := hi.orph_virt; have f_incall := hi.incall; clear hi; (intros; (try simp only [hubf] at *); grind [mem_removeL, nodup_removeL, removeL_nil]))
+      | (have f_eh := hi.eh; have f_conn_iff := hi.conn_iff; have f_conn_open := hi.conn_open; clear hi; (intros; (try simp only [hubf] at *); grind [mem_removeL, nodup_removeL, removeL_nil, length_removeL_le]))
+      | (have f_fresh := hi.fresh; have f_mem_room := hi.mem_room; have f_room_mem := hi.room_mem; have f_nonempty := hi.nonempty; have f_nodup := hi.nodup; have f_roomL_iff := hi.roomL_iff; have f_roomL_nodup := hi.roomL_nodup; have f_userL_iff := hi.userL_iff; have f_userL_nodup := hi.userL_nodup; have f_sessL_iff := hi.sessL_iff; have f_rs_fwd := hi.rs_fwd; have f_rs_room := hi.rs_room; have f_virt := hi.virt; have f_children := hi.children; have f_vtable := hi.vtable; have f_conn_iff := hi.conn_iff; have f_conn_open := hi.conn_open; have f_eh := hi.eh; have f_expired := hi.expired; have f_anon := hi.anon; have f_dialout := hi.dialout; have f_count := hi.count; have f_orph_virt := hi.orph_virt; have f_incall := hi.incall; have f_count_le := hi.count_le; clear hi; (intros; (try simp only [hubf] at *); grind [mem_removeL, nodup_removeL, removeL_nil, length_removeL_le]))
   case expired =>
     by_cases hu : user = "" <;> simp only [hu, ne_eq, not_true_eq_false, not_false_eq_true, if_true, if_false]
     all_goals first
-      | (have f_expired := hi.expired; have f_fresh := hi.fresh; clear hi; (intros; (try simp only [hubf] at *); grind [mem_removeL, nodup_removeL, removeL_nil]))
-      | (have f_fresh := hi.fresh; have f_mem_room := hi.mem_room; have f_room_mem := hi.room_mem; have f_nonempty := hi.nonempty; have f_nodup := hi.nodup; have f_roomL_iff := hi.roomL_iff; have f_roomL_nodup := hi.roomL_nodup; have f_userL_iff := hi.userL_iff; have f_userL_nodup := hi.userL_nodup; have f_sessL_iff := hi.sessL_iff; have f_rs_fwd := hi.rs_fwd; have f_rs_room := hi.rs_room; have f_virt := hi.virt; have f_children := hi.children; have f_vtable := hi.vtable; have f_conn_iff := hi.conn_iff; have f_conn_open := hi.conn_open; have f_eh := hi.eh; have f_expired := hi.expired; have f_anon := hi.anon; have f_dialout := hi.dialout; have f_count := hi.count; have f_orph_virt := hi.orph_virt; have f_incall := hi.incall; clear hi; (intros; (try simp only [hubf] at *); grind [mem_removeL, nodup_removeL, removeL_nil]))
+      | (have f_expired := hi.expired; have f_fresh := hi.fresh; clear hi; (intros; (try simp only [hubf] at *); grind [mem_removeL, nodup_removeL, removeL_nil, length_removeL_le]))
+      | (have f_fresh := hi.fresh; have f_mem_room := hi.mem_room; have f_room_mem := hi.room_mem; have f_nonempty := hi.nonempty; have f_nodup := hi.nodup; have f_roomL_iff := hi.roomL_iff; have f_roomL_nodup := hi.roomL_nodup; have f_userL_iff := hi.userL_iff; have f_userL_nodup := hi.userL_nodup; have f_sessL_iff := hi.sessL_iff; have f_rs_fwd := hi.rs_fwd; have f_rs_room := hi.rs_room; have f_virt := hi.virt; have f_children := hi.children; have f_vtable := hi.vtable; have f_conn_iff := hi.conn_iff; have f_conn_open := hi.conn_open; have f_eh := hi.eh; have f_expired := hi.expired; have f_anon := hi.anon; have f_dialout := hi.dialout; have f_count := hi.count; have f_orph_virt := hi.orph_virt; have f_incall := hi.incall; have f_count_le := hi.count_le; clear hi; (intros; (try simp only [hubf] at *); grind [mem_removeL, nodup_removeL, removeL_nil, length_removeL_le]))
   case anon =>
     by_cases hu : user = "" <;> simp only [hu, ne_eq, not_true_eq_false, not_false_eq_true, if_true, if_false]
     all_goals first
-      | (have f_anon := hi.anon; have f_fresh := hi.fresh; clear hi; (intros; (try simp only [hubf] at *); grind [mem_removeL, nodup_removeL, removeL_nil]))
-      | (have f_fresh := hi.fresh; have f_mem_room := hi.mem_room; have f_room_mem := hi.room_mem; have f_nonempty := hi.nonempty; have f_nodup := hi.nodup; have f_roomL_iff := hi.roomL_iff; have f_roomL_nodup := hi.roomL_nodup; have f_userL_iff := hi.userL_iff; have f_userL_nodup := hi.userL_nodup; have f_sessL_iff := hi.sessL_iff; have f_rs_fwd := hi.rs_fwd; have f_rs_room := hi.rs_room; have f_virt := hi.virt; have f_children := hi.children; have f_vtable := hi.vtable; have f_conn_iff := hi.conn_iff; have f_conn_open := hi.conn_open; have f_eh := hi.eh; have f_expired := hi.expired; have f_anon := hi.anon; have f_dialout := hi.dialout; have f_count := hi.count; have f_orph_virt := hi.orph_virt; have f_incall := hi.incall; clear hi; (intros; (try simp only [hubf] at *); grind [mem_removeL, nodup_removeL, removeL_nil]))
+      | (have f_anon := hi.anon; have f_fresh := hi.fresh; clear hi; (intros; (try simp only [hubf] at *); grind [mem_removeL, nodup_removeL, removeL_nil, length_removeL_le]))
+      | (have f_fresh := hi.fresh; have f_mem_room := hi.mem_room; have f_room_mem := hi.room_mem; have f_nonempty := hi.nonempty; have f_nodup := hi.nodup; have f_roomL_iff := hi.roomL_iff; have f_roomL_nodup := hi.roomL_nodup; have f_userL_iff := hi.userL_iff; have f_userL_nodup := hi.userL_nodup; have f_sessL_iff := hi.sessL_iff; have f_rs_fwd := hi.rs_fwd; have f_rs_room := hi.rs_room; have f_virt := hi.virt; have f_children := hi.children; have f_vtable := hi.vtable; have f_conn_iff := hi.conn_iff; have f_conn_open := hi.conn_open; have f_eh := hi.eh; have f_expired := hi.expired; have f_anon := hi.anon; have f_dialout := hi.dialout; have f_count := hi.count; have f_orph_virt := hi.orph_virt; have f_incall := hi.incall; have f_count_le := hi.count_le; clear hi; (intros; (try simp only [hubf] at *); grind [mem_removeL, nodup_removeL, removeL_nil, length_removeL_le]))
   case dialout =>
     by_cases hu : user = "" <;> simp only [hu, ne_eq, not_true_eq_false, not_false_eq_true, if_true, if_false]
     all_goals first
-      | (have f_dialout := hi.dialout; have f_fresh := hi.fresh; clear hi; (intros; (try simp only [hubf] at *); grind [mem_removeL, nodup_removeL, removeL_nil]))
-      | (have f_fresh := hi.fresh; have f_mem_room := hi.mem_room; have f_room_mem := hi.room_mem; have f_nonempty := hi.nonempty; have f_nodup := hi.nodup; have f_roomL_iff := hi.roomL_iff; have f_roomL_nodup := hi.roomL_nodup; have f_userL_iff := hi.userL_iff; have f_userL_nodup := hi.userL_nodup; have f_sessL_iff := hi.sessL_iff; have f_rs_fwd := hi.rs_fwd; have f_rs_room := hi.rs_room; have f_virt := hi.virt; have f_children := hi.children; have f_vtable := hi.vtable; have f_conn_iff := hi.conn_iff; have f_conn_open := hi.conn_open; have f_eh := hi.eh; have f_expired := hi.expired; have f_anon := hi.anon; have f_dialout := hi.dialout; have f_count := hi.count; have f_orph_virt := hi.orph_virt; have f_incall := hi.incall; clear hi; (intros; (try simp only [hubf] at *); grind [mem_removeL, nodup_removeL, removeL_nil]))
+      | (have f_dialout := hi.dialout; have f_fresh := hi.fresh; clear hi; (intros; (try simp only [hubf] at *); grind [mem_removeL, nodup_removeL, removeL_nil, length_removeL_le]))
+      | (have f_fresh := hi.fresh; have f_mem_room := hi.mem_room; have f_room_mem := hi.room_mem; have f_nonempty := hi.nonempty; have f_nodup := hi.nodup; have f_roomL_iff := hi.roomL_iff; have f_roomL_nodup := hi.roomL_nodup; have f_userL_iff := hi.userL_iff; have f_userL_nodup := hi.userL_nodup; have f_sessL_iff := hi.sessL_iff; have f_rs_fwd := hi.rs_fwd; have f_rs_room := hi.rs_room; have f_virt := hi.virt; have f_children := hi.children; have f_vtable := hi.vtable; have f_conn_iff := hi.conn_iff; have f_conn_open := hi.conn_open; have f_eh := hi.eh; have f_expired := hi.expired; have f_anon := hi.anon; have f_dialout := hi.dialout; have f_count := hi.count; have f_orph_virt := hi.orph_virt; have f_incall := hi.incall; have f_count_le := hi.count_le; clear hi; (intros; (try simp only [hubf] at *); grind [mem_removeL, nodup_removeL, removeL_nil, length_removeL_le]))
   case count =>
     by_cases hu : user = "" <;> simp only [hu, ne_eq, not_true_eq_false, not_false_eq_true, if_true, if_false]
     all_goals first
-      | (have f_count := hi.count; have f_fresh := hi.fresh; clear hi; (intros; (try simp only [hubf] at *); grind [mem_removeL, nodup_removeL, removeL_nil]))
-      | (have f_fresh := hi.fresh; have f_mem_room := hi.mem_room; have f_room_mem := hi.room_mem; have f_nonempty := hi.nonempty; have f_nodup := hi.nodup; have f_roomL_iff := hi.roomL_iff; have f_roomL_nodup := hi.roomL_nodup; have f_userL_iff := hi.userL_iff; have f_userL_nodup := hi.userL_nodup; have f_sessL_iff := hi.sessL_iff; have f_rs_fwd := hi.rs_fwd; have f_rs_room := hi.rs_room; have f_virt := hi.virt; have f_children := hi.children; have f_vtable := hi.vtable; have f_conn_iff := hi.conn_iff; have f_conn_open := hi.conn_open; have f_eh := hi.eh; have f_expired := hi.expired; have f_anon := hi.anon; have f_dialout := hi.dialout; have f_count := hi.count; have f_orph_virt := hi.orph_virt; have f_incall := hi.incall; clear hi; (intros; (try simp only [hubf] at *); grind [mem_removeL, nodup_removeL, removeL_nil]))
+      | (have f_count := hi.count; have f_fresh := hi.fresh; clear hi; (intros; (try simp only [hubf] at *); grind [mem_removeL, nodup_removeL, removeL_nil, length_removeL_le]))
+      | (have f_fresh := hi.fresh; have f_mem_room := hi.mem_room; have f_room_mem := hi.room_mem; have f_nonempty := hi.nonempty; have f_nodup := hi.nodup; have f_roomL_iff := hi.roomL_iff; have f_roomL_nodup := hi.roomL_nodup; have f_userL_iff := hi.userL_iff; have f_userL_nodup := hi.userL_nodup; have f_sessL_iff := hi.sessL_iff; have f_rs_fwd := hi.rs_fwd; have f_rs_room := hi.rs_room; have f_virt := hi.virt; have f_children := hi.children; have f_vtable := hi.vtable; have f_conn_iff := hi.conn_iff; have f_conn_open := hi.conn_open; have f_eh := hi.eh; have f_expired := hi.expired; have f_anon := hi.anon; have f_dialout := hi.dialout; have f_count := hi.count; have f_orph_virt := hi.orph_virt; have f_incall := hi.incall; have f_count_le := hi.count_le; clear hi; (intros; (try simp only [hubf] at *); grind [mem_removeL, nodup_removeL, removeL_nil, length_removeL_le]))
   case orph_virt =>
     by_cases hu : user = "" <;> simp only [hu, ne_eq, not_true_eq_false, not_false_eq_true, if_true, if_false]
     all_goals first
-      | (have f_orph_virt := hi.orph_virt; have f_fresh := hi.fresh; have f_children := hi.children; have f_virt := hi.virt; clear hi; (intros; (try simp only [hubf] at *); grind [mem_removeL, nodup_removeL, removeL_nil]))
-      | (have f_fresh := hi.fresh; have f_mem_room := hi.mem_room; have f_room_mem := hi.room_mem; have f_nonempty := hi.nonempty; have f_nodup := hi.nodup; have f_roomL_iff := hi.roomL_iff; have f_roomL_nodup := hi.roomL_nodup; have f_userL_iff := hi.userL_iff; have f_userL_nodup := hi.userL_nodup; have f_sessL_iff := hi.sessL_iff; have f_rs_fwd := hi.rs_fwd; have f_rs_room := hi.rs_room; have f_virt := hi.virt; have f_children := hi.children; have f_vtable := hi.vtable; have f_conn_iff := hi.conn_iff; have f_conn_open := hi.conn_open; have f_eh := hi.eh; have f_expired := hi.expired; have f_anon := hi.anon; have f_dialout := hi.dialout; have f_count := hi.count; have f_orph_virt := hi.orph_virt; have f_incall := hi.incall; clear hi; (intros; (try simp only [hubf] at *); grind [mem_removeL, nodup_removeL, removeL_nil]))
+      | (have f_orph_virt := hi.orph_virt; have f_fresh := hi.fresh; have f_children := hi.children; have f_virt := hi.virt; clear hi; (intros; (try simp only [hubf] at *); grind [mem_removeL, nodup_removeL, removeL_nil, length_removeL_le]))
+      | (have f_fresh := hi.fresh; have f_mem_room := hi.mem_room; have f_room_mem := hi.room_mem; have f_nonempty := hi.nonempty; have f_nodup := hi.nodup; have f_roomL_iff := hi.roomL_iff; have f_roomL_nodup := hi.roomL_nodup; have f_userL_iff := hi.userL_iff; have f_userL_nodup := hi.userL_nodup; have f_sessL_iff := hi.sessL_iff; have f_rs_fwd := hi.rs_fwd; have f_rs_room := hi.rs_room; have f_virt := hi.virt; have f_children := hi.children; have f_vtable := hi.vtable; have f_conn_iff := hi.conn_iff; have f_conn_open := hi.conn_open; have f_eh := hi.eh; have f_expired := hi.expired; have f_anon := hi.anon; have f_dialout := hi.dialout; have f_count := hi.count; have f_orph_virt := hi.orph_virt; have f_incall := hi.incall; have f_count_le := hi.count_le; clear hi; (intros; (try simp only [hubf] at *); grind [mem_removeL, nodup_removeL, removeL_nil, length_removeL_le]))
   case incall =>
     by_cases hu : user = "" <;> simp only [hu, ne_eq, not_true_eq_false, not_false_eq_true, if_true, if_false]
     all_goals first
-      | (have f_incall := hi.incall; have f_mem_room := hi.mem_room; clear hi; (intros; (try simp only [hubf] at *); grind [mem_removeL, nodup_removeL, removeL_nil]))
-      | (have f_fresh := hi.fresh; have f_mem_room := hi.mem_room; have f_room_mem := hi.room_mem; have f_nonempty := hi.nonempty; have f_nodup := hi.nodup; have f_roomL_iff := hi.roomL_iff; have f_roomL_nodup := hi.roomL_nodup; have f_userL_iff := hi.userL_iff; have f_userL_nodup := hi.userL_nodup; have f_sessL_iff := hi.sessL_iff; have f_rs_fwd := hi.rs_fwd; have f_rs_room := hi.rs_room; have f_virt := hi.virt; have f_children := hi.children; have f_vtable := hi.vtable; have f_conn_iff := hi.conn_iff; have f_conn_open := hi.conn_open; have f_eh := hi.eh; have f_expired := hi.expired; have f_anon := hi.anon; have f_dialout := hi.dialout; have f_count := hi.count; have f_orph_virt := hi.orph_virt; have f_incall := hi.incall; clear hi; (intros; (try simp only [hubf] at *); grind [mem_removeL, nodup_removeL, removeL_nil]))
+      | (have f_incall := hi.incall; have f_mem_room := hi.mem_room; clear hi; (intros; (try simp only [hubf] at *); grind [mem_removeL, nodup_removeL, removeL_nil, length_removeL_le]))
+      | (have f_fresh := hi.fresh; have f_mem_room := hi.mem_room; have f_room_mem := hi.room_mem; have f_nonempty := hi.nonempty; have f_nodup := hi.nodup; have f_roomL_iff := hi.roomL_iff; have f_roomL_nodup := hi.roomL_nodup; have f_userL_iff := hi.userL_iff; have f_userL_nodup := hi.userL_nodup; have f_sessL_iff := hi.sessL_iff; have f_rs_fwd := hi.rs_fwd; have f_rs_room := hi.rs_room; have f_virt := hi.virt; have f_children := hi.children; have f_vtable := hi.vtable; have f_conn_iff := hi.conn_iff; have f_conn_open := hi.conn_open; have f_eh := hi.eh; have f_expired := hi.expired; have f_anon := hi.anon; have f_dialout := hi.dialout; have f_count := hi.count; have f_orph_virt := hi.orph_virt; have f_incall := hi.incall; have f_count_le := hi.count_le; clear hi; (intros; (try simp only [hubf] at *); grind [mem_removeL, nodup_removeL, removeL_nil, length_removeL_le]))
+  case count_le =>
+    by_cases hu : user = "" <;> simp only [hu, ne_eq, not_true_eq_false, not_false_eq_true, if_true, if_false]
+    all_goals first
+      | (have f_count_le := hi.count_le; clear hi; (intros; (try simp only [hubf] at *); grind [mem_removeL, nodup_removeL, removeL_nil, length_removeL_le]))
+      | (have f_fresh := hi.fresh; have f_mem_room := hi.mem_room; have f_room_mem := hi.room_mem; have f_nonempty := hi.nonempty; have f_nodup := hi.nodup; have f_roomL_iff := hi.roomL_iff; have f_roomL_nodup := hi.roomL_nodup; have f_userL_iff := hi.userL_iff; have f_userL_nodup := hi.userL_nodup; have f_sessL_iff := hi.sessL_iff; have f_rs_fwd := hi.rs_fwd; have f_rs_room := hi.rs_room; have f_virt := hi.virt; have f_children := hi.children; have f_vtable := hi.vtable; have f_conn_iff := hi.conn_iff; have f_conn_open := hi.conn_open; have f_eh := hi.eh; have f_expired := hi.expired; have f_anon := hi.anon; have f_dialout := hi.dialout; have f_count := hi.count; have f_orph_virt := hi.orph_virt; have f_incall := hi.incall; have f_count_le := hi.count_le; clear hi; (intros; (try simp only [hubf] at *); grind [mem_removeL, nodup_removeL, removeL_nil, length_removeL_le]))
 
 theorem processHello_inv (a : Acc) (c b : Nat) (kind : Kind) (user : String) (d i : Bool)
     (hk : kind ≠ .virtual) (hi : Inv a.h) : Inv (processHello a c b kind user d i).h := by
@@ -177,13 +189,14 @@ theorem processHello_inv (a : Acc) (c b : Nat) (kind : Kind) (user : String) (d 
     · -- refused: only the waiting list changes
       simp only [hl, if_true]
       have f17 := hi.conn_open; have f18 := hi.eh
-      obtain ⟨f1, f2, f3, f4, f5, f6, f7, f8, f9, f10, f11, f12, f13, f14, f15, f16, _, _, f19, f20, f21, f22, f23, f24⟩ := hi
+      obtain ⟨f1, f2, f3, f4, f5, f6, f7, f8, f9, f10, f11, f12, f13, f14, f15, f16, _, _, f19, f20, f21, f22, f23, f24, f25⟩ := hi
       constructor
       all_goals first | assumption | skip
       · intro c' hc'; simp at hc'; rcases hc' with h1 | rfl
         · exact f18 c' (mem_removeL.mp h1).1
         · exact hfree
-    · simp only [hl]; exact helloTables_inv hi c b kind user d i hk hopen hfree
+    · have hl' : limitReached a.h b kind = false := by cases h : limitReached a.h b kind <;> simp_all
+      simp only [hl', Bool.false_eq_true, if_false]; exact helloTables_inv hi c b kind user d i hk hopen hfree hl'
 
 set_option maxHeartbeats 4000000 in
 theorem resumeTables_inv {h : Hub} (hi : Inv h) {c s : Nat} {x : Sess} (hx : h.sess s = some x)
@@ -196,123 +209,128 @@ theorem resumeTables_inv {h : Hub} (hi : Inv h) {c s : Nat} {x : Sess} (hx : h.s
   case fresh =>
     cases hc : x.conn <;> simp only []
     all_goals first
-      | (have f_fresh := hi.fresh; clear hi; (intros; (try simp only [hubf] at *); grind [mem_removeL, nodup_removeL, removeL_nil]))
-      | (have f_fresh := hi.fresh; have f_mem_room := hi.mem_room; have f_room_mem := hi.room_mem; have f_nonempty := hi.nonempty; have f_nodup := hi.nodup; have f_roomL_iff := hi.roomL_iff; have f_roomL_nodup := hi.roomL_nodup; have f_userL_iff := hi.userL_iff; have f_userL_nodup := hi.userL_nodup; have f_sessL_iff := hi.sessL_iff; have f_rs_fwd := hi.rs_fwd; have f_rs_room := hi.rs_room; have f_virt := hi.virt; have f_children := hi.children; have f_vtable := hi.vtable; have f_conn_iff := hi.conn_iff; have f_conn_open := hi.conn_open; have f_eh := hi.eh; have f_expired := hi.expired; have f_anon := hi.anon; have f_dialout := hi.dialout; have f_count := hi.count; have f_orph_virt := hi.orph_virt; have f_incall := hi.incall; clear hi; (intros; (try simp only [hubf] at *); grind [mem_removeL, nodup_removeL, removeL_nil]))
+      | (have f_fresh := hi.fresh; clear hi; (intros; (try simp only [hubf] at *); grind [mem_removeL, nodup_removeL, removeL_nil, length_removeL_le]))
+      | (have f_fresh := hi.fresh; have f_mem_room := hi.mem_room; have f_room_mem := hi.room_mem; have f_nonempty := hi.nonempty; have f_nodup := hi.nodup; have f_roomL_iff := hi.roomL_iff; have f_roomL_nodup := hi.roomL_nodup; have f_userL_iff := hi.userL_iff; have f_userL_nodup := hi.userL_nodup; have f_sessL_iff := hi.sessL_iff; have f_rs_fwd := hi.rs_fwd; have f_rs_room := hi.rs_room; have f_virt := hi.virt; have f_children := hi.children; have f_vtable := hi.vtable; have f_conn_iff := hi.conn_iff; have f_conn_open := hi.conn_open; have f_eh := hi.eh; have f_expired := hi.expired; have f_anon := hi.anon; have f_dialout := hi.dialout; have f_count := hi.count; have f_orph_virt := hi.orph_virt; have f_incall := hi.incall; have f_count_le := hi.count_le; clear hi; (intros; (try simp only [hubf] at *); grind [mem_removeL, nodup_removeL, removeL_nil, length_removeL_le]))
   case mem_room =>
     cases hc : x.conn <;> simp only []
     all_goals first
-      | (have f_mem_room := hi.mem_room; have f_fresh := hi.fresh; clear hi; (intros; (try simp only [hubf] at *); grind [mem_removeL, nodup_removeL, removeL_nil]))
-      | (have f_fresh := hi.fresh; have f_mem_room := hi.mem_room; have f_room_mem := hi.room_mem; have f_nonempty := hi.nonempty; have f_nodup := hi.nodup; have f_roomL_iff := hi.roomL_iff; have f_roomL_nodup := hi.roomL_nodup; have f_userL_iff := hi.userL_iff; have f_userL_nodup := hi.userL_nodup; have f_sessL_iff := hi.sessL_iff; have f_rs_fwd := hi.rs_fwd; have f_rs_room := hi.rs_room; have f_virt := hi.virt; have f_children := hi.children; have f_vtable := hi.vtable; have f_conn_iff := hi.conn_iff; have f_conn_open := hi.conn_open; have f_eh := hi.eh; have f_expired := hi.expired; have f_anon := hi.anon; have f_dialout := hi.dialout; have f_count := hi.count; have f_orph_virt := hi.orph_virt; have f_incall := hi.incall; clear hi; (intros; (try simp only [hubf] at *); grind [mem_removeL, nodup_removeL, removeL_nil]))
+      | (have f_mem_room := hi.mem_room; have f_fresh := hi.fresh; clear hi; (intros; (try simp only [hubf] at *); grind [mem_removeL, nodup_removeL, removeL_nil, length_removeL_le]))
+      | (have f_fresh := hi.fresh; have f_mem_room := hi.mem_room; have f_room_mem := hi.room_mem; have f_nonempty := hi.nonempty; have f_nodup := hi.nodup; have f_roomL_iff := hi.roomL_iff; have f_roomL_nodup := hi.roomL_nodup; have f_userL_iff := hi.userL_iff; have f_userL_nodup := hi.userL_nodup; have f_sessL_iff := hi.sessL_iff; have f_rs_fwd := hi.rs_fwd; have f_rs_room := hi.rs_room; have f_virt := hi.virt; have f_children := hi.children; have f_vtable := hi.vtable; have f_conn_iff := hi.conn_iff; have f_conn_open := hi.conn_open; have f_eh := hi.eh; have f_expired := hi.expired; have f_anon := hi.anon; have f_dialout := hi.dialout; have f_count := hi.count; have f_orph_virt := hi.orph_virt; have f_incall := hi.incall; have f_count_le := hi.count_le; clear hi; (intros; (try simp only [hubf] at *); grind [mem_removeL, nodup_removeL, removeL_nil, length_removeL_le]))
   case room_mem =>
     cases hc : x.conn <;> simp only []
     all_goals first
-      | (have f_room_mem := hi.room_mem; have f_mem_room := hi.mem_room; have f_fresh := hi.fresh; clear hi; (intros; (try simp only [hubf] at *); grind [mem_removeL, nodup_removeL, removeL_nil]))
-      | (have f_fresh := hi.fresh; have f_mem_room := hi.mem_room; have f_room_mem := hi.room_mem; have f_nonempty := hi.nonempty; have f_nodup := hi.nodup; have f_roomL_iff := hi.roomL_iff; have f_roomL_nodup := hi.roomL_nodup; have f_userL_iff := hi.userL_iff; have f_userL_nodup := hi.userL_nodup; have f_sessL_iff := hi.sessL_iff; have f_rs_fwd := hi.rs_fwd; have f_rs_room := hi.rs_room; have f_virt := hi.virt; have f_children := hi.children; have f_vtable := hi.vtable; have f_conn_iff := hi.conn_iff; have f_conn_open := hi.conn_open; have f_eh := hi.eh; have f_expired := hi.expired; have f_anon := hi.anon; have f_dialout := hi.dialout; have f_count := hi.count; have f_orph_virt := hi.orph_virt; have f_incall := hi.incall; clear hi; (intros; (try simp only [hubf] at *); grind [mem_removeL, nodup_removeL, removeL_nil]))
+      | (have f_room_mem := hi.room_mem; have f_mem_room := hi.mem_room; have f_fresh := hi.fresh; clear hi; (intros; (try simp only [hubf] at *); grind [mem_removeL, nodup_removeL, removeL_nil, length_removeL_le]))
+      | (have f_fresh := hi.fresh; have f_mem_room := hi.mem_room; have f_room_mem := hi.room_mem; have f_nonempty := hi.nonempty; have f_nodup := hi.nodup; have f_roomL_iff := hi.roomL_iff; have f_roomL_nodup := hi.roomL_nodup; have f_userL_iff := hi.userL_iff; have f_userL_nodup := hi.userL_nodup; have f_sessL_iff := hi.sessL_iff; have f_rs_fwd := hi.rs_fwd; have f_rs_room := hi.rs_room; have f_virt := hi.virt; have f_children := hi.children; have f_vtable := hi.vtable; have f_conn_iff := hi.conn_iff; have f_conn_open := hi.conn_open; have f_eh := hi.eh; have f_expired := hi.expired; have f_anon := hi.anon; have f_dialout := hi.dialout; have f_count := hi.count; have f_orph_virt := hi.orph_virt; have f_incall := hi.incall; have f_count_le := hi.count_le; clear hi; (intros; (try simp only [hubf] at *); grind [mem_removeL, nodup_removeL, removeL_nil, length_removeL_le]))
   case nonempty =>
     cases hc : x.conn <;> simp only []
     all_goals first
-      | (have f_nonempty := hi.nonempty; have f_mem_room := hi.mem_room; clear hi; (intros; (try simp only [hubf] at *); grind [mem_removeL, nodup_removeL, removeL_nil]))
-      | (have f_fresh := hi.fresh; have f_mem_room := hi.mem_room; have f_room_mem := hi.room_mem; have f_nonempty := hi.nonempty; have f_nodup := hi.nodup; have f_roomL_iff := hi.roomL_iff; have f_roomL_nodup := hi.roomL_nodup; have f_userL_iff := hi.userL_iff; have f_userL_nodup := hi.userL_nodup; have f_sessL_iff := hi.sessL_iff; have f_rs_fwd := hi.rs_fwd; have f_rs_room := hi.rs_room; have f_virt := hi.virt; have f_children := hi.children; have f_vtable := hi.vtable; have f_conn_iff := hi.conn_iff; have f_conn_open := hi.conn_open; have f_eh := hi.eh; have f_expired := hi.expired; have f_anon := hi.anon; have f_dialout := hi.dialout; have f_count := hi.count; have f_orph_virt := hi.orph_virt; have f_incall := hi.incall; clear hi; (intros; (try simp only [hubf] at *); grind [mem_removeL, nodup_removeL, removeL_nil]))
+      | (have f_nonempty := hi.nonempty; have f_mem_room := hi.mem_room; clear hi; (intros; (try simp only [hubf] at *); grind [mem_removeL, nodup_removeL, removeL_nil, length_removeL_le]))
+      | (have f_fresh := hi.fresh; have f_mem_room := hi.mem_room; have f_room_mem := hi.room_mem; have f_nonempty := hi.nonempty; have f_nodup := hi.nodup; have f_roomL_iff := hi.roomL_iff; have f_roomL_nodup := hi.roomL_nodup; have f_userL_iff := hi.userL_iff; have f_userL_nodup := hi.userL_nodup; have f_sessL_iff := hi.sessL_iff; have f_rs_fwd := hi.rs_fwd; have f_rs_room := hi.rs_room; have f_virt := hi.virt; have f_children := hi.children; have f_vtable := hi.vtable; have f_conn_iff := hi.conn_iff; have f_conn_open := hi.conn_open; have f_eh := hi.eh; have f_expired := hi.expired; have f_anon := hi.anon; have f_dialout := hi.dialout; have f_count := hi.count; have f_orph_virt := hi.orph_virt; have f_incall := hi.incall; have f_count_le := hi.count_le; clear hi; (intros; (try simp only [hubf] at *); grind [mem_removeL, nodup_removeL, removeL_nil, length_removeL_le]))
   case nodup =>
     cases hc : x.conn <;> simp only []
     all_goals first
-      | (have f_nodup := hi.nodup; clear hi; (intros; (try simp only [hubf] at *); grind [mem_removeL, nodup_removeL, removeL_nil]))
-      | (have f_fresh := hi.fresh; have f_mem_room := hi.mem_room; have f_room_mem := hi.room_mem; have f_nonempty := hi.nonempty; have f_nodup := hi.nodup; have f_roomL_iff := hi.roomL_iff; have f_roomL_nodup := hi.roomL_nodup; have f_userL_iff := hi.userL_iff; have f_userL_nodup := hi.userL_nodup; have f_sessL_iff := hi.sessL_iff; have f_rs_fwd := hi.rs_fwd; have f_rs_room := hi.rs_room; have f_virt := hi.virt; have f_children := hi.children; have f_vtable := hi.vtable; have f_conn_iff := hi.conn_iff; have f_conn_open := hi.conn_open; have f_eh := hi.eh; have f_expired := hi.expired; have f_anon := hi.anon; have f_dialout := hi.dialout; have f_count := hi.count; have f_orph_virt := hi.orph_virt; have f_incall := hi.incall; clear hi; (intros; (try simp only [hubf] at *); grind [mem_removeL, nodup_removeL, removeL_nil]))
+      | (have f_nodup := hi.nodup; clear hi; (intros; (try simp only [hubf] at *); grind [mem_removeL, nodup_removeL, removeL_nil, length_removeL_le]))
+      | (have f_fresh := hi.fresh; have f_mem_room := hi.mem_room; have f_room_mem := hi.room_mem; have f_nonempty := hi.nonempty; have f_nodup := hi.nodup; have f_roomL_iff := hi.roomL_iff; have f_roomL_nodup := hi.roomL_nodup; have f_userL_iff := hi.userL_iff; have f_userL_nodup := hi.userL_nodup; have f_sessL_iff := hi.sessL_iff; have f_rs_fwd := hi.rs_fwd; have f_rs_room := hi.rs_room; have f_virt := hi.virt; have f_children := hi.children; have f_vtable := hi.vtable; have f_conn_iff := hi.conn_iff; have f_conn_open := hi.conn_open; have f_eh := hi.eh; have f_expired := hi.expired; have f_anon := hi.anon; have f_dialout := hi.dialout; have f_count := hi.count; have f_orph_virt := hi.orph_virt; have f_incall := hi.incall; have f_count_le := hi.count_le; clear hi; (intros; (try simp only [hubf] at *); grind [mem_removeL, nodup_removeL, removeL_nil, length_removeL_le]))
   case roomL_iff =>
     cases hc : x.conn <;> simp only []
     all_goals first
-      | (have f_roomL_iff := hi.roomL_iff; have f_fresh := hi.fresh; have f_room_mem := hi.room_mem; have f_mem_room := hi.mem_room; clear hi; (intros; (try simp only [hubf] at *); grind [mem_removeL, nodup_removeL, removeL_nil]))
-      | (have f_fresh := hi.fresh; have f_mem_room := hi.mem_room; have f_room_mem := hi.room_mem; have f_nonempty := hi.nonempty; have f_nodup := hi.nodup; have f_roomL_iff := hi.roomL_iff; have f_roomL_nodup := hi.roomL_nodup; have f_userL_iff := hi.userL_iff; have f_userL_nodup := hi.userL_nodup; have f_sessL_iff := hi.sessL_iff; have f_rs_fwd := hi.rs_fwd; have f_rs_room := hi.rs_room; have f_virt := hi.virt; have f_children := hi.children; have f_vtable := hi.vtable; have f_conn_iff := hi.conn_iff; have f_conn_open := hi.conn_open; have f_eh := hi.eh; have f_expired := hi.expired; have f_anon := hi.anon; have f_dialout := hi.dialout; have f_count := hi.count; have f_orph_virt := hi.orph_virt; have f_incall := hi.incall; clear hi; (intros; (try simp only [hubf] at *); grind [mem_removeL, nodup_removeL, removeL_nil]))
+      | (have f_roomL_iff := hi.roomL_iff; have f_fresh := hi.fresh; have f_room_mem := hi.room_mem; have f_mem_room := hi.mem_room; clear hi; (intros; (try simp only [hubf] at *); grind [mem_removeL, nodup_removeL, removeL_nil, length_removeL_le]))
+      | (have f_fresh := hi.fresh; have f_mem_room := hi.mem_room; have f_room_mem := hi.room_mem; have f_nonempty := hi.nonempty; have f_nodup := hi.nodup; have f_roomL_iff := hi.roomL_iff; have f_roomL_nodup := hi.roomL_nodup; have f_userL_iff := hi.userL_iff; have f_userL_nodup := hi.userL_nodup; have f_sessL_iff := hi.sessL_iff; have f_rs_fwd := hi.rs_fwd; have f_rs_room := hi.rs_room; have f_virt := hi.virt; have f_children := hi.children; have f_vtable := hi.vtable; have f_conn_iff := hi.conn_iff; have f_conn_open := hi.conn_open; have f_eh := hi.eh; have f_expired := hi.expired; have f_anon := hi.anon; have f_dialout := hi.dialout; have f_count := hi.count; have f_orph_virt := hi.orph_virt; have f_incall := hi.incall; have f_count_le := hi.count_le; clear hi; (intros; (try simp only [hubf] at *); grind [mem_removeL, nodup_removeL, removeL_nil, length_removeL_le]))
   case roomL_nodup =>
     cases hc : x.conn <;> simp only []
     all_goals first
-      | (have f_roomL_nodup := hi.roomL_nodup; have f_roomL_iff := hi.roomL_iff; clear hi; (intros; (try simp only [hubf] at *); grind [mem_removeL, nodup_removeL, removeL_nil]))
-      | (have f_fresh := hi.fresh; have f_mem_room := hi.mem_room; have f_room_mem := hi.room_mem; have f_nonempty := hi.nonempty; have f_nodup := hi.nodup; have f_roomL_iff := hi.roomL_iff; have f_roomL_nodup := hi.roomL_nodup; have f_userL_iff := hi.userL_iff; have f_userL_nodup := hi.userL_nodup; have f_sessL_iff := hi.sessL_iff; have f_rs_fwd := hi.rs_fwd; have f_rs_room := hi.rs_room; have f_virt := hi.virt; have f_children := hi.children; have f_vtable := hi.vtable; have f_conn_iff := hi.conn_iff; have f_conn_open := hi.conn_open; have f_eh := hi.eh; have f_expired := hi.expired; have f_anon := hi.anon; have f_dialout := hi.dialout; have f_count := hi.count; have f_orph_virt := hi.orph_virt; have f_incall := hi.incall; clear hi; (intros; (try simp only [hubf] at *); grind [mem_removeL, nodup_removeL, removeL_nil]))
+      | (have f_roomL_nodup := hi.roomL_nodup; have f_roomL_iff := hi.roomL_iff; clear hi; (intros; (try simp only [hubf] at *); grind [mem_removeL, nodup_removeL, removeL_nil, length_removeL_le]))
+      | (have f_fresh := hi.fresh; have f_mem_room := hi.mem_room; have f_room_mem := hi.room_mem; have f_nonempty := hi.nonempty; have f_nodup := hi.nodup; have f_roomL_iff := hi.roomL_iff; have f_roomL_nodup := hi.roomL_nodup; have f_userL_iff := hi.userL_iff; have f_userL_nodup := hi.userL_nodup; have f_sessL_iff := hi.sessL_iff; have f_rs_fwd := hi.rs_fwd; have f_rs_room := hi.rs_room; have f_virt := hi.virt; have f_children := hi.children; have f_vtable := hi.vtable; have f_conn_iff := hi.conn_iff; have f_conn_open := hi.conn_open; have f_eh := hi.eh; have f_expired := hi.expired; have f_anon := hi.anon; have f_dialout := hi.dialout; have f_count := hi.count; have f_orph_virt := hi.orph_virt; have f_incall := hi.incall; have f_count_le := hi.count_le; clear hi; (intros; (try simp only [hubf] at *); grind [mem_removeL, nodup_removeL, removeL_nil, length_removeL_le]))
   case userL_iff =>
     cases hc : x.conn <;> simp only []
     all_goals first
-      | (have f_userL_iff := hi.userL_iff; have f_fresh := hi.fresh; clear hi; (intros; (try simp only [hubf] at *); grind [mem_removeL, nodup_removeL, removeL_nil]))
-      | (have f_fresh := hi.fresh; have f_mem_room := hi.mem_room; have f_room_mem := hi.room_mem; have f_nonempty := hi.nonempty; have f_nodup := hi.nodup; have f_roomL_iff := hi.roomL_iff; have f_roomL_nodup := hi.roomL_nodup; have f_userL_iff := hi.userL_iff; have f_userL_nodup := hi.userL_nodup; have f_sessL_iff := hi.sessL_iff; have f_rs_fwd := hi.rs_fwd; have f_rs_room := hi.rs_room; have f_virt := hi.virt; have f_children := hi.children; have f_vtable := hi.vtable; have f_conn_iff := hi.conn_iff; have f_conn_open := hi.conn_open; have f_eh := hi.eh; have f_expired := hi.expired; have f_anon := hi.anon; have f_dialout := hi.dialout; have f_count := hi.count; have f_orph_virt := hi.orph_virt; have f_incall := hi.incall; clear hi; (intros; (try simp only [hubf] at *); grind [mem_removeL, nodup_removeL, removeL_nil]))
+      | (have f_userL_iff := hi.userL_iff; have f_fresh := hi.fresh; clear hi; (intros; (try simp only [hubf] at *); grind [mem_removeL, nodup_removeL, removeL_nil, length_removeL_le]))
+      | (have f_fresh := hi.fresh; have f_mem_room := hi.mem_room; have f_room_mem := hi.room_mem; have f_nonempty := hi.nonempty; have f_nodup := hi.nodup; have f_roomL_iff := hi.roomL_iff; have f_roomL_nodup := hi.roomL_nodup; have f_userL_iff := hi.userL_iff; have f_userL_nodup := hi.userL_nodup; have f_sessL_iff := hi.sessL_iff; have f_rs_fwd := hi.rs_fwd; have f_rs_room := hi.rs_room; have f_virt := hi.virt; have f_children := hi.children; have f_vtable := hi.vtable; have f_conn_iff := hi.conn_iff; have f_conn_open := hi.conn_open; have f_eh := hi.eh; have f_expired := hi.expired; have f_anon := hi.anon; have f_dialout := hi.dialout; have f_count := hi.count; have f_orph_virt := hi.orph_virt; have f_incall := hi.incall; have f_count_le := hi.count_le; clear hi; (intros; (try simp only [hubf] at *); grind [mem_removeL, nodup_removeL, removeL_nil, length_removeL_le]))
   case userL_nodup =>
     cases hc : x.conn <;> simp only []
     all_goals first
-      | (have f_userL_nodup := hi.userL_nodup; have f_userL_iff := hi.userL_iff; clear hi; (intros; (try simp only [hubf] at *); grind [mem_removeL, nodup_removeL, removeL_nil]))
-      | (have f_fresh := hi.fresh; have f_mem_room := hi.mem_room; have f_room_mem := hi.room_mem; have f_nonempty := hi.nonempty; have f_nodup := hi.nodup; have f_roomL_iff := hi.roomL_iff; have f_roomL_nodup := hi.roomL_nodup; have f_userL_iff := hi.userL_iff; have f_userL_nodup := hi.userL_nodup; have f_sessL_iff := hi.sessL_iff; have f_rs_fwd := hi.rs_fwd; have f_rs_room := hi.rs_room; have f_virt := hi.virt; have f_children := hi.children; have f_vtable := hi.vtable; have f_conn_iff := hi.conn_iff; have f_conn_open := hi.conn_open; have f_eh := hi.eh; have f_expired := hi.expired; have f_anon := hi.anon; have f_dialout := hi.dialout; have f_count := hi.count; have f_orph_virt := hi.orph_virt; have f_incall := hi.incall; clear hi; (intros; (try simp only [hubf] at *); grind [mem_removeL, nodup_removeL, removeL_nil]))
+      | (have f_userL_nodup := hi.userL_nodup; have f_userL_iff := hi.userL_iff; clear hi; (intros; (try simp only [hubf] at *); grind [mem_removeL, nodup_removeL, removeL_nil, length_removeL_le]))
+      | (have f_fresh := hi.fresh; have f_mem_room := hi.mem_room; have f_room_mem := hi.room_mem; have f_nonempty := hi.nonempty; have f_nodup := hi.nodup; have f_roomL_iff := hi.roomL_iff; have f_roomL_nodup := hi.roomL_nodup; have f_userL_iff := hi.userL_iff; have f_userL_nodup := hi.userL_nodup; have f_sessL_iff := hi.sessL_iff; have f_rs_fwd := hi.rs_fwd; have f_rs_room := hi.rs_room; have f_virt := hi.virt; have f_children := hi.children; have f_vtable := hi.vtable; have f_conn_iff := hi.conn_iff; have f_conn_open := hi.conn_open; have f_eh := hi.eh; have f_expired := hi.expired; have f_anon := hi.anon; have f_dialout := hi.dialout; have f_count := hi.count; have f_orph_virt := hi.orph_virt; have f_incall := hi.incall; have f_count_le := hi.count_le; clear hi; (intros; (try simp only [hubf] at *); grind [mem_removeL, nodup_removeL, removeL_nil, length_removeL_le]))
   case sessL_iff =>
     cases hc : x.conn <;> simp only []
     all_goals first
-      | (have f_sessL_iff := hi.sessL_iff; have f_fresh := hi.fresh; clear hi; (intros; (try simp only [hubf] at *); grind [mem_removeL, nodup_removeL, removeL_nil]))
-      | (have f_fresh := hi.fresh; have f_mem_room := hi.mem_room; have f_room_mem := hi.room_mem; have f_nonempty := hi.nonempty; have f_nodup := hi.nodup; have f_roomL_iff := hi.roomL_iff; have f_roomL_nodup := hi.roomL_nodup; have f_userL_iff := hi.userL_iff; have f_userL_nodup := hi.userL_nodup; have f_sessL_iff := hi.sessL_iff; have f_rs_fwd := hi.rs_fwd; have f_rs_room := hi.rs_room; have f_virt := hi.virt; have f_children := hi.children; have f_vtable := hi.vtable; have f_conn_iff := hi.conn_iff; have f_conn_open := hi.conn_open; have f_eh := hi.eh; have f_expired := hi.expired; have f_anon := hi.anon; have f_dialout := hi.dialout; have f_count := hi.count; have f_orph_virt := hi.orph_virt; have f_incall := hi.incall; clear hi; (intros; (try simp only [hubf] at *); grind [mem_removeL, nodup_removeL, removeL_nil]))
+      | (have f_sessL_iff := hi.sessL_iff; have f_fresh := hi.fresh; clear hi; (intros; (try simp only [hubf] at *); grind [mem_removeL, nodup_removeL, removeL_nil, length_removeL_le]))
+      | (have f_fresh := hi.fresh; have f_mem_room := hi.mem_room; have f_room_mem := hi.room_mem; have f_nonempty := hi.nonempty; have f_nodup := hi.nodup; have f_roomL_iff := hi.roomL_iff; have f_roomL_nodup := hi.roomL_nodup; have f_userL_iff := hi.userL_iff; have f_userL_nodup := hi.userL_nodup; have f_sessL_iff := hi.sessL_iff; have f_rs_fwd := hi.rs_fwd; have f_rs_room := hi.rs_room; have f_virt := hi.virt; have f_children := hi.children; have f_vtable := hi.vtable; have f_conn_iff := hi.conn_iff; have f_conn_open := hi.conn_open; have f_eh := hi.eh; have f_expired := hi.expired; have f_anon := hi.anon; have f_dialout := hi.dialout; have f_count := hi.count; have f_orph_virt := hi.orph_virt; have f_incall := hi.incall; have f_count_le := hi.count_le; clear hi; (intros; (try simp only [hubf] at *); grind [mem_removeL, nodup_removeL, removeL_nil, length_removeL_le]))
   case rs_fwd =>
     cases hc : x.conn <;> simp only []
     all_goals first
-      | (have f_rs_fwd := hi.rs_fwd; have f_rs_room := hi.rs_room; have f_fresh := hi.fresh; clear hi; (intros; (try simp only [hubf] at *); grind [mem_removeL, nodup_removeL, removeL_nil]))
-      | (have f_fresh := hi.fresh; have f_mem_room := hi.mem_room; have f_room_mem := hi.room_mem; have f_nonempty := hi.nonempty; have f_nodup := hi.nodup; have f_roomL_iff := hi.roomL_iff; have f_roomL_nodup := hi.roomL_nodup; have f_userL_iff := hi.userL_iff; have f_userL_nodup := hi.userL_nodup; have f_sessL_iff := hi.sessL_iff; have f_rs_fwd := hi.rs_fwd; have f_rs_room := hi.rs_room; have f_virt := hi.virt; have f_children := hi.children; have f_vtable := hi.vtable; have f_conn_iff := hi.conn_iff; have f_conn_open := hi.conn_open; have f_eh := hi.eh; have f_expired := hi.expired; have f_anon := hi.anon; have f_dialout := hi.dialout; have f_count := hi.count; have f_orph_virt := hi.orph_virt; have f_incall := hi.incall; clear hi; (intros; (try simp only [hubf] at *); grind [mem_removeL, nodup_removeL, removeL_nil]))
+      | (have f_rs_fwd := hi.rs_fwd; have f_rs_room := hi.rs_room; have f_fresh := hi.fresh; clear hi; (intros; (try simp only [hubf] at *); grind [mem_removeL, nodup_removeL, removeL_nil, length_removeL_le]))
+      | (have f_fresh := hi.fresh; have f_mem_room := hi.mem_room; have f_room_mem := hi.room_mem; have f_nonempty := hi.nonempty; have f_nodup := hi.nodup; have f_roomL_iff := hi.roomL_iff; have f_roomL_nodup := hi.roomL_nodup; have f_userL_iff := hi.userL_iff; have f_userL_nodup := hi.userL_nodup; have f_sessL_iff := hi.sessL_iff; have f_rs_fwd := hi.rs_fwd; have f_rs_room := hi.rs_room; have f_virt := hi.virt; have f_children := hi.children; have f_vtable := hi.vtable; have f_conn_iff := hi.conn_iff; have f_conn_open := hi.conn_open; have f_eh := hi.eh; have f_expired := hi.expired; have f_anon := hi.anon; have f_dialout := hi.dialout; have f_count := hi.count; have f_orph_virt := hi.orph_virt; have f_incall := hi.incall; have f_count_le := hi.count_le; clear hi; (intros; (try simp only [hubf] at *); grind [mem_removeL, nodup_removeL, removeL_nil, length_removeL_le]))
   case rs_room =>
     cases hc : x.conn <;> simp only []
     all_goals first
-      | (have f_rs_room := hi.rs_room; have f_rs_fwd := hi.rs_fwd; have f_fresh := hi.fresh; have f_room_mem := hi.room_mem; clear hi; (intros; (try simp only [hubf] at *); grind [mem_removeL, nodup_removeL, removeL_nil]))
-      | (have f_fresh := hi.fresh; have f_mem_room := hi.mem_room; have f_room_mem := hi.room_mem; have f_nonempty := hi.nonempty; have f_nodup := hi.nodup; have f_roomL_iff := hi.roomL_iff; have f_roomL_nodup := hi.roomL_nodup; have f_userL_iff := hi.userL_iff; have f_userL_nodup := hi.userL_nodup; have f_sessL_iff := hi.sessL_iff; have f_rs_fwd := hi.rs_fwd; have f_rs_room := hi.rs_room; have f_virt := hi.virt; have f_children := hi.children; have f_vtable := hi.vtable; have f_conn_iff := hi.conn_iff; have f_conn_open := hi.conn_open; have f_eh := hi.eh; have f_expired := hi.expired; have f_anon := hi.anon; have f_dialout := hi.dialout; have f_count := hi.count; have f_orph_virt := hi.orph_virt; have f_incall := hi.incall; clear hi; (intros; (try simp only [hubf] at *); grind [mem_removeL, nodup_removeL, removeL_nil]))
+      | (have f_rs_room := hi.rs_room; have f_rs_fwd := hi.rs_fwd; have f_fresh := hi.fresh; have f_room_mem := hi.room_mem; clear hi; (intros; (try simp only [hubf] at *); grind [mem_removeL, nodup_removeL, removeL_nil, length_removeL_le]))
+      | (have f_fresh := hi.fresh; have f_mem_room := hi.mem_room; have f_room_mem := hi.room_mem; have f_nonempty := hi.nonempty; have f_nodup := hi.nodup; have f_roomL_iff := hi.roomL_iff; have f_roomL_nodup := hi.roomL_nodup; have f_userL_iff := hi.userL_iff; have f_userL_nodup := hi.userL_nodup; have f_sessL_iff := hi.sessL_iff; have f_rs_fwd := hi.rs_fwd; have f_rs_room := hi.rs_room; have f_virt := hi.virt; have f_children := hi.children; have f_vtable := hi.vtable; have f_conn_iff := hi.conn_iff; have f_conn_open := hi.conn_open; have f_eh := hi.eh; have f_expired := hi.expired; have f_anon := hi.anon; have f_dialout := hi.dialout; have f_count := hi.count; have f_orph_virt := hi.orph_virt; have f_incall := hi.incall; have f_count_le := hi.count_le; clear hi; (intros; (try simp only [hubf] at *); grind [mem_removeL, nodup_removeL, removeL_nil, length_removeL_le]))
   case virt =>
     cases hc : x.conn <;> simp only []
     all_goals first
-      | (have f_virt := hi.virt; have f_children := hi.children; have f_fresh := hi.fresh; clear hi; (intros; (try simp only [hubf] at *); grind [mem_removeL, nodup_removeL, removeL_nil]))
-      | (have f_fresh := hi.fresh; have f_mem_room := hi.mem_room; have f_room_mem := hi.room_mem; have f_nonempty := hi.nonempty; have f_nodup := hi.nodup; have f_roomL_iff := hi.roomL_iff; have f_roomL_nodup := hi.roomL_nodup; have f_userL_iff := hi.userL_iff; have f_userL_nodup := hi.userL_nodup; have f_sessL_iff := hi.sessL_iff; have f_rs_fwd := hi.rs_fwd; have f_rs_room := hi.rs_room; have f_virt := hi.virt; have f_children := hi.children; have f_vtable := hi.vtable; have f_conn_iff := hi.conn_iff; have f_conn_open := hi.conn_open; have f_eh := hi.eh; have f_expired := hi.expired; have f_anon := hi.anon; have f_dialout := hi.dialout; have f_count := hi.count; have f_orph_virt := hi.orph_virt; have f_incall := hi.incall; clear hi; (intros; (try simp only [hubf] at *); grind [mem_removeL, nodup_removeL, removeL_nil]))
+      | (have f_virt := hi.virt; have f_children := hi.children; have f_fresh := hi.fresh; clear hi; (intros; (try simp only [hubf] at *); grind [mem_removeL, nodup_removeL, removeL_nil, length_removeL_le]))
+      | (have f_fresh := hi.fresh; have f_mem_room := hi.mem_room; have f_room_mem := hi.room_mem; have f_nonempty := hi.nonempty; have f_nodup := hi.nodup; have f_roomL_iff := hi.roomL_iff; have f_roomL_nodup := hi.roomL_nodup; have f_userL_iff := hi.userL_iff; have f_userL_nodup := hi.userL_nodup; have f_sessL_iff := hi.sessL_iff; have f_rs_fwd := hi.rs_fwd; have f_rs_room := hi.rs_room; have f_virt := hi.virt; have f_children := hi.children; have f_vtable := hi.vtable; have f_conn_iff := hi.conn_iff; have f_conn_open := hi.conn_open; have f_eh := hi.eh; have f_expired := hi.expired; have f_anon := hi.anon; have f_dialout := hi.dialout; have f_count := hi.count; have f_orph_virt := hi.orph_virt; have f_incall := hi.incall; have f_count_le := hi.count_le; clear hi; (intros; (try simp only [hubf] at *); grind [mem_removeL, nodup_removeL, removeL_nil, length_removeL_le]))
   case children =>
     cases hc : x.conn <;> simp only []
     all_goals first
-      | (have f_children := hi.children; have f_virt := hi.virt; have f_fresh := hi.fresh; clear hi; (intros; (try simp only [hubf] at *); grind [mem_removeL, nodup_removeL, removeL_nil]))
-      | (have f_fresh := hi.fresh; have f_mem_room := hi.mem_room; have f_room_mem := hi.room_mem; have f_nonempty := hi.nonempty; have f_nodup := hi.nodup; have f_roomL_iff := hi.roomL_iff; have f_roomL_nodup := hi.roomL_nodup; have f_userL_iff := hi.userL_iff; have f_userL_nodup := hi.userL_nodup; have f_sessL_iff := hi.sessL_iff; have f_rs_fwd := hi.rs_fwd; have f_rs_room := hi.rs_room; have f_virt := hi.virt; have f_children := hi.children; have f_vtable := hi.vtable; have f_conn_iff := hi.conn_iff; have f_conn_open := hi.conn_open; have f_eh := hi.eh; have f_expired := hi.expired; have f_anon := hi.anon; have f_dialout := hi.dialout; have f_count := hi.count; have f_orph_virt := hi.orph_virt; have f_incall := hi.incall; clear hi; (intros; (try simp only [hubf] at *); grind [mem_removeL, nodup_removeL, removeL_nil]))
+      | (have f_children := hi.children; have f_virt := hi.virt; have f_fresh := hi.fresh; clear hi; (intros; (try simp only [hubf] at *); grind [mem_removeL, nodup_removeL, removeL_nil, length_removeL_le]))
+      | (have f_fresh := hi.fresh; have f_mem_room := hi.mem_room; have f_room_mem := hi.room_mem; have f_nonempty := hi.nonempty; have f_nodup := hi.nodup; have f_roomL_iff := hi.roomL_iff; have f_roomL_nodup := hi.roomL_nodup; have f_userL_iff := hi.userL_iff; have f_userL_nodup := hi.userL_nodup; have f_sessL_iff := hi.sessL_iff; have f_rs_fwd := hi.rs_fwd; have f_rs_room := hi.rs_room; have f_virt := hi.virt; have f_children := hi.children; have f_vtable := hi.vtable; have f_conn_iff := hi.conn_iff; have f_conn_open := hi.conn_open; have f_eh := hi.eh; have f_expired := hi.expired; have f_anon := hi.anon; have f_dialout := hi.dialout; have f_count := hi.count; have f_orph_virt := hi.orph_virt; have f_incall := hi.incall; have f_count_le := hi.count_le; clear hi; (intros; (try simp only [hubf] at *); grind [mem_removeL, nodup_removeL, removeL_nil, length_removeL_le]))
   case vtable =>
     cases hc : x.conn <;> simp only []
     all_goals first
-      | (have f_vtable := hi.vtable; have f_virt := hi.virt; have f_fresh := hi.fresh; clear hi; (intros; (try simp only [hubf] at *); grind [mem_removeL, nodup_removeL, removeL_nil]))
-      | (have f_fresh := hi.fresh; have f_mem_room := hi.mem_room; have f_room_mem := hi.room_mem; have f_nonempty := hi.nonempty; have f_nodup := hi.nodup; have f_roomL_iff := hi.roomL_iff; have f_roomL_nodup := hi.roomL_nodup; have f_userL_iff := hi.userL_iff; have f_userL_nodup := hi.userL_nodup; have f_sessL_iff := hi.sessL_iff; have f_rs_fwd := hi.rs_fwd; have f_rs_room := hi.rs_room; have f_virt := hi.virt; have f_children := hi.children; have f_vtable := hi.vtable; have f_conn_iff := hi.conn_iff; have f_conn_open := hi.conn_open; have f_eh := hi.eh; have f_expired := hi.expired; have f_anon := hi.anon; have f_dialout := hi.dialout; have f_count := hi.count; have f_orph_virt := hi.orph_virt; have f_incall := hi.incall; clear hi; (intros; (try simp only [hubf] at *); grind [mem_removeL, nodup_removeL, removeL_nil]))
+      | (have f_vtable := hi.vtable; have f_virt := hi.virt; have f_fresh := hi.fresh; clear hi; (intros; (try simp only [hubf] at *); grind [mem_removeL, nodup_removeL, removeL_nil, length_removeL_le]))
+      | (have f_fresh := hi.fresh; have f_mem_room := hi.mem_room; have f_room_mem := hi.room_mem; have f_nonempty := hi.nonempty; have f_nodup := hi.nodup; have f_roomL_iff := hi.roomL_iff; have f_roomL_nodup := hi.roomL_nodup; have f_userL_iff := hi.userL_iff; have f_userL_nodup := hi.userL_nodup; have f_sessL_iff := hi.sessL_iff; have f_rs_fwd := hi.rs_fwd; have f_rs_room := hi.rs_room; have f_virt := hi.virt; have f_children := hi.children; have f_vtable := hi.vtable; have f_conn_iff := hi.conn_iff; have f_conn_open := hi.conn_open; have f_eh := hi.eh; have f_expired := hi.expired; have f_anon := hi.anon; have f_dialout := hi.dialout; have f_count := hi.count; have f_orph_virt := hi.orph_virt; have f_incall := hi.incall; have f_count_le := hi.count_le; clear hi; (intros; (try simp only [hubf] at *); grind [mem_removeL, nodup_removeL, removeL_nil, length_removeL_le]))
   case conn_iff =>
     cases hc : x.conn <;> simp only []
     all_goals first
-      | (have f_conn_iff := hi.conn_iff; have f_fresh := hi.fresh; have f_virt := hi.virt; clear hi; (intros; (try simp only [hubf] at *); grind [mem_removeL, nodup_removeL, removeL_nil]))
-      | (have f_fresh := hi.fresh; have f_mem_room := hi.mem_room; have f_room_mem := hi.room_mem; have f_nonempty := hi.nonempty; have f_nodup := hi.nodup; have f_roomL_iff := hi.roomL_iff; have f_roomL_nodup := hi.roomL_nodup; have f_userL_iff := hi.userL_iff; have f_userL_nodup := hi.userL_nodup; have f_sessL_iff := hi.sessL_iff; have f_rs_fwd := hi.rs_fwd; have f_rs_room := hi.rs_room; have f_virt := hi.virt; have f_children := hi.children; have f_vtable := hi.vtable; have f_conn_iff := hi.conn_iff; have f_conn_open := hi.conn_open; have f_eh := hi.eh; have f_expired := hi.expired; have f_anon := hi.anon; have f_dialout := hi.dialout; have f_count := hi.count; have f_orph_virt := hi.orph_virt; have f_incall := hi.incall; clear hi; (intros; (try simp only [hubf] at *); grind [mem_removeL, nodup_removeL, removeL_nil]))
+      | (have f_conn_iff := hi.conn_iff; have f_fresh := hi.fresh; have f_virt := hi.virt; clear hi; (intros; (try simp only [hubf] at *); grind [mem_removeL, nodup_removeL, removeL_nil, length_removeL_le]))
+      | (have f_fresh := hi.fresh; have f_mem_room := hi.mem_room; have f_room_mem := hi.room_mem; have f_nonempty := hi.nonempty; have f_nodup := hi.nodup; have f_roomL_iff := hi.roomL_iff; have f_roomL_nodup := hi.roomL_nodup; have f_userL_iff := hi.userL_iff; have f_userL_nodup := hi.userL_nodup; have f_sessL_iff := hi.sessL_iff; have f_rs_fwd := hi.rs_fwd; have f_rs_room := hi.rs_room; have f_virt := hi.virt; have f_children := hi.children; have f_vtable := hi.vtable; have f_conn_iff := hi.conn_iff; have f_conn_open := hi.conn_open; have f_eh := hi.eh; have f_expired := hi.expired; have f_anon := hi.anon; have f_dialout := hi.dialout; have f_count := hi.count; have f_orph_virt := hi.orph_virt; have f_incall := hi.incall; have f_count_le := hi.count_le; clear hi; (intros; (try simp only [hubf] at *); grind [mem_removeL, nodup_removeL, removeL_nil, length_removeL_le]))
   case conn_open =>
     cases hc : x.conn <;> simp only []
     all_goals first
-      | (have f_conn_open := hi.conn_open; have f_conn_iff := hi.conn_iff; clear hi; (intros; (try simp only [hubf] at *); grind [mem_removeL, nodup_removeL, removeL_nil]))
-      | (have f_fresh := hi.fresh; have f_mem_room := hi.mem_room; have f_room_mem := hi.room_mem; have f_nonempty := hi.nonempty; have f_nodup := hi.nodup; have f_roomL_iff := hi.roomL_iff; have f_roomL_nodup := hi.roomL_nodup; have f_userL_iff := hi.userL_iff; have f_userL_nodup := hi.userL_nodup; have f_sessL_iff := hi.sessL_iff; have f_rs_fwd := hi.rs_fwd; have f_rs_room := hi.rs_room; have f_virt := hi.virt; have f_children := hi.children; have f_vtable := hi.vtable; have f_conn_iff := hi.conn_iff; have f_conn_open := hi.conn_open; have f_eh := hi.eh; have f_expired := hi.expired; have f_anon := hi.anon; have f_dialout := hi.dialout; have f_count := hi.count; have f_orph_virt := hi.orph_virt; have f_incall := hi.incall; clear hi; (intros; (try simp only [hubf] at *); grind [mem_removeL, nodup_removeL, removeL_nil]))
+      | (have f_conn_open := hi.conn_open; have f_conn_iff := hi.conn_iff; clear hi; (intros; (try simp only [hubf] at *); grind [mem_removeL, nodup_removeL, removeL_nil, length_removeL_le]))
+      | (have f_fresh := hi.fresh; have f_mem_room := hi.mem_room; have f_room_mem := hi.room_mem; have f_nonempty := hi.nonempty; have f_nodup := hi.nodup; have f_roomL_iff := hi.roomL_iff; have f_roomL_nodup := hi.roomL_nodup; have f_userL_iff := hi.userL_iff; have f_userL_nodup := hi.userL_nodup; have f_sessL_iff := hi.sessL_iff; have f_rs_fwd := hi.rs_fwd; have f_rs_room := hi.rs_room; have f_virt := hi.virt; have f_children := hi.children; have f_vtable := hi.vtable; have f_conn_iff := hi.conn_iff; have f_conn_open := hi.conn_open; have f_eh := hi.eh; have f_expired := hi.expired; have f_anon := hi.anon; have f_dialout := hi.dialout; have f_count := hi.count; have f_orph_virt := hi.orph_virt; have f_incall := hi.incall; have f_count_le := hi.count_le; clear hi; (intros; (try simp only [hubf] at *); grind [mem_removeL, nodup_removeL, removeL_nil, length_removeL_le]))
   case eh =>
     cases hc : x.conn <;> simp only []
     all_goals first
-      | (have f_eh := hi.eh; have f_conn_iff := hi.conn_iff; have f_conn_open := hi.conn_open; clear hi; (intros; (try simp only [hubf] at *); grind [mem_removeL, nodup_removeL, removeL_nil]))
-      | (have f_fresh := hi.fresh; have f_mem_room := hi.mem_room; have f_room_mem := hi.room_mem; have f_nonempty := hi.nonempty; have f_nodup := hi.nodup; have f_roomL_iff := hi.roomL_iff; have f_roomL_nodup := hi.roomL_nodup; have f_userL_iff := hi.userL_iff; have f_userL_nodup := hi.userL_nodup; have f_sessL_iff := hi.sessL_iff; have f_rs_fwd := hi.rs_fwd; have f_rs_room := hi.rs_room; have f_virt := hi.virt; have f_children := hi.children; have f_vtable := hi.vtable; have f_conn_iff := hi.conn_iff; have f_conn_open := hi.conn_open; have f_eh := hi.eh; have f_expired := hi.expired; have f_anon := hi.anon; have f_dialout := hi.dialout; have f_count := hi.count; have f_orph_virt := hi.orph_virt; have f_incall := hi.incall; clear hi; (intros; (try simp only [hubf] at *); grind [mem_removeL, nodup_removeL, removeL_nil]))
+      | (have f_eh := hi.eh; have f_conn_iff := hi.conn_iff; have f_conn_open := hi.conn_open; clear hi; (intros; (try simp only [hubf] at *); grind [mem_removeL, nodup_removeL, removeL_nil, length_removeL_le]))
+      | (have f_fresh := hi.fresh; have f_mem_room := hi.mem_room; have f_room_mem := hi.room_mem; have f_nonempty := hi.nonempty; have f_nodup := hi.nodup; have f_roomL_iff := hi.roomL_iff; have f_roomL_nodup := hi.roomL_nodup; have f_userL_iff := hi.userL_iff; have f_userL_nodup := hi.userL_nodup; have f_sessL_iff := hi.sessL_iff; have f_rs_fwd := hi.rs_fwd; have f_rs_room := hi.rs_room; have f_virt := hi.virt; have f_children := hi.children; have f_vtable := hi.vtable; have f_conn_iff := hi.conn_iff; have f_conn_open := hi.conn_open; have f_eh := hi.eh; have f_expired := hi.expired; have f_anon := hi.anon; have f_dialout := hi.dialout; have f_count := hi.count; have f_orph_virt := hi.orph_virt; have f_incall := hi.incall; have f_count_le := hi.count_le; clear hi; (intros; (try simp only [hubf] at *); grind [mem_removeL, nodup_removeL, removeL_nil, length_removeL_le]))
   case expired =>
     cases hc : x.conn <;> simp only []
     all_goals first
-      | (have f_expired := hi.expired; have f_fresh := hi.fresh; clear hi; (intros; (try simp only [hubf] at *); grind [mem_removeL, nodup_removeL, removeL_nil]))
-      | (have f_fresh := hi.fresh; have f_mem_room := hi.mem_room; have f_room_mem := hi.room_mem; have f_nonempty := hi.nonempty; have f_nodup := hi.nodup; have f_roomL_iff := hi.roomL_iff; have f_roomL_nodup := hi.roomL_nodup; have f_userL_iff := hi.userL_iff; have f_userL_nodup := hi.userL_nodup; have f_sessL_iff := hi.sessL_iff; have f_rs_fwd := hi.rs_fwd; have f_rs_room := hi.rs_room; have f_virt := hi.virt; have f_children := hi.children; have f_vtable := hi.vtable; have f_conn_iff := hi.conn_iff; have f_conn_open := hi.conn_open; have f_eh := hi.eh; have f_expired := hi.expired; have f_anon := hi.anon; have f_dialout := hi.dialout; have f_count := hi.count; have f_orph_virt := hi.orph_virt; have f_incall := hi.incall; clear hi; (intros; (try simp only [hubf] at *); grind [mem_removeL, nodup_removeL, removeL_nil]))
+      | (have f_expired := hi.expired; have f_fresh := hi.fresh; clear hi; (intros; (try simp only [hubf] at *); grind [mem_removeL, nodup_removeL, removeL_nil, length_removeL_le]))
+      | (have f_fresh := hi.fresh; have f_mem_room := hi.mem_room; have f_room_mem := hi.room_mem; have f_nonempty := hi.nonempty; have f_nodup := hi.nodup; have f_roomL_iff := hi.roomL_iff; have f_roomL_nodup := hi.roomL_nodup; have f_userL_iff := hi.userL_iff; have f_userL_nodup := hi.userL_nodup; have f_sessL_iff := hi.sessL_iff; have f_rs_fwd := hi.rs_fwd; have f_rs_room := hi.rs_room; have f_virt := hi.virt; have f_children := hi.children; have f_vtable := hi.vtable; have f_conn_iff := hi.conn_iff; have f_conn_open := hi.conn_open; have f_eh := hi.eh; have f_expired := hi.expired; have f_anon := hi.anon; have f_dialout := hi.dialout; have f_count := hi.count; have f_orph_virt := hi.orph_virt; have f_incall := hi.incall; have f_count_le := hi.count_le; clear hi; (intros; (try simp only [hubf] at *); grind [mem_removeL, nodup_removeL, removeL_nil, length_removeL_le]))
   case anon =>
     cases hc : x.conn <;> simp only []
     all_goals first
-      | (have f_anon := hi.anon; have f_fresh := hi.fresh; clear hi; (intros; (try simp only [hubf] at *); grind [mem_removeL, nodup_removeL, removeL_nil]))
-      | (have f_fresh := hi.fresh; have f_mem_room := hi.mem_room; have f_room_mem := hi.room_mem; have f_nonempty := hi.nonempty; have f_nodup := hi.nodup; have f_roomL_iff := hi.roomL_iff; have f_roomL_nodup := hi.roomL_nodup; have f_userL_iff := hi.userL_iff; have f_userL_nodup := hi.userL_nodup; have f_sessL_iff := hi.sessL_iff; have f_rs_fwd := hi.rs_fwd; have f_rs_room := hi.rs_room; have f_virt := hi.virt; have f_children := hi.children; have f_vtable := hi.vtable; have f_conn_iff := hi.conn_iff; have f_conn_open := hi.conn_open; have f_eh := hi.eh; have f_expired := hi.expired; have f_anon := hi.anon; have f_dialout := hi.dialout; have f_count := hi.count; have f_orph_virt := hi.orph_virt; have f_incall := hi.incall; clear hi; (intros; (try simp only [hubf] at *); grind [mem_removeL, nodup_removeL, removeL_nil]))
+      | (have f_anon := hi.anon; have f_fresh := hi.fresh; clear hi; (intros; (try simp only [hubf] at *); grind [mem_removeL, nodup_removeL, removeL_nil, length_removeL_le]))
+      | (have f_fresh := hi.fresh; have f_mem_room := hi.mem_room; have f_room_mem := hi.room_mem; have f_nonempty := hi.nonempty; have f_nodup := hi.nodup; have f_roomL_iff := hi.roomL_iff; have f_roomL_nodup := hi.roomL_nodup; have f_userL_iff := hi.userL_iff; have f_userL_nodup := hi.userL_nodup; have f_sessL_iff := hi.sessL_iff; have f_rs_fwd := hi.rs_fwd; have f_rs_room := hi.rs_room; have f_virt := hi.virt; have f_children := hi.children; have f_vtable := hi.vtable; have f_conn_iff := hi.conn_iff; have f_conn_open := hi.conn_open; have f_eh := hi.eh; have f_expired := hi.expired; have f_anon := hi.anon; have f_dialout := hi.dialout; have f_count := hi.count; have f_orph_virt := hi.orph_virt; have f_incall := hi.incall; have f_count_le := hi.count_le; clear hi; (intros; (try simp only [hubf] at *); grind [mem_removeL, nodup_removeL, removeL_nil, length_removeL_le]))
   case dialout =>
     cases hc : x.conn <;> simp only []
     all_goals first
-      | (have f_dialout := hi.dialout; have f_fresh := hi.fresh; clear hi; (intros; (try simp only [hubf] at *); grind [mem_removeL, nodup_removeL, removeL_nil]))
-      | (have f_fresh := hi.fresh; have f_mem_room := hi.mem_room; have f_room_mem := hi.room_mem; have f_nonempty := hi.nonempty; have f_nodup := hi.nodup; have f_roomL_iff := hi.roomL_iff; have f_roomL_nodup := hi.roomL_nodup; have f_userL_iff := hi.userL_iff; have f_userL_nodup := hi.userL_nodup; have f_sessL_iff := hi.sessL_iff; have f_rs_fwd := hi.rs_fwd; have f_rs_room := hi.rs_room; have f_virt := hi.virt; have f_children := hi.children; have f_vtable := hi.vtable; have f_conn_iff := hi.conn_iff; have f_conn_open := hi.conn_open; have f_eh := hi.eh; have f_expired := hi.expired; have f_anon := hi.anon; have f_dialout := hi.dialout; have f_count := hi.count; have f_orph_virt := hi.orph_virt; have f_incall := hi.incall; clear hi; (intros; (try simp only [hubf] at *); grind [mem_removeL, nodup_removeL, removeL_nil]))
+      | (have f_dialout := hi.dialout; have f_fresh := hi.fresh; clear hi; (intros; (try simp only [hubf] at *); grind [mem_removeL, nodup_removeL, removeL_nil, length_removeL_le]))
+      | (have f_fresh := hi.fresh; have f_mem_room := hi.mem_room; have f_room_mem := hi.room_mem; have f_nonempty := hi.nonempty; have f_nodup := hi.nodup; have f_roomL_iff := hi.roomL_iff; have f_roomL_nodup := hi.roomL_nodup; have f_userL_iff := hi.userL_iff; have f_userL_nodup := hi.userL_nodup; have f_sessL_iff := hi.sessL_iff; have f_rs_fwd := hi.rs_fwd; have f_rs_room := hi.rs_room; have f_virt := hi.virt; have f_children := hi.children; have f_vtable := hi.vtable; have f_conn_iff := hi.conn_iff; have f_conn_open := hi.conn_open; have f_eh := hi.eh; have f_expired := hi.expired; have f_anon := hi.anon; have f_dialout := hi.dialout; have f_count := hi.count; have f_orph_virt := hi.orph_virt; have f_incall := hi.incall; have f_count_le := hi.count_le; clear hi; (intros; (try simp only [hubf] at *); grind [mem_removeL, nodup_removeL, removeL_nil, length_removeL_le]))
   case count =>
     cases hc : x.conn <;> simp only []
     all_goals first
-      | (have f_count := hi.count; have f_fresh := hi.fresh; clear hi; (intros; (try simp only [hubf] at *); grind [mem_removeL, nodup_removeL, removeL_nil]))
-      | (have f_fresh := hi.fresh; have f_mem_room := hi.mem_room; have f_room_mem := hi.room_mem; have f_nonempty := hi.nonempty; have f_nodup := hi.nodup; have f_roomL_iff := hi.roomL_iff; have f_roomL_nodup := hi.roomL_nodup; have f_userL_iff := hi.userL_iff; have f_userL_nodup := hi.userL_nodup; have f_sessL_iff := hi.sessL_iff; have f_rs_fwd := hi.rs_fwd; have f_rs_room := hi.rs_room; have f_virt := hi.virt; have f_children := hi.children; have f_vtable := hi.vtable; have f_conn_iff := hi.conn_iff; have f_conn_open := hi.conn_open; have f_eh := hi.eh; have f_expired := hi.expired; have f_anon := hi.anon; have f_dialout := hi.dialout; have f_count := hi.count; have f_orph_virt := hi.orph_virt; have f_incall := hi.incall; clear hi; (intros; (try simp only [hubf] at *); grind [mem_removeL, nodup_removeL, removeL_nil]))
+      | (have f_count := hi.count; have f_fresh := hi.fresh; clear hi; (intros; (try simp only [hubf] at *); grind [mem_removeL, nodup_removeL, removeL_nil, length_removeL_le]))
+      | (have f_fresh := hi.fresh; have f_mem_room := hi.mem_room; have f_room_mem := hi.room_mem; have f_nonempty := hi.nonempty; have f_nodup := hi.nodup; have f_roomL_iff := hi.roomL_iff; have f_roomL_nodup := hi.roomL_nodup; have f_userL_iff := hi.userL_iff; have f_userL_nodup := hi.userL_nodup; have f_sessL_iff := hi.sessL_iff; have f_rs_fwd := hi.rs_fwd; have f_rs_room := hi.rs_room; have f_virt := hi.virt; have f_children := hi.children; have f_vtable := hi.vtable; have f_conn_iff := hi.conn_iff; have f_conn_open := hi.conn_open; have f_eh := hi.eh; have f_expired := hi.expired; have f_anon := hi.anon; have f_dialout := hi.dialout; have f_count := hi.count; have f_orph_virt := hi.orph_virt; have f_incall := hi.incall; have f_count_le := hi.count_le; clear hi; (intros; (try simp only [hubf] at *); grind [mem_removeL, nodup_removeL, removeL_nil, length_removeL_le]))
   case orph_virt =>
     cases hc : x.conn <;> simp only []
     all_goals first
-      | (have f_orph_virt := hi.orph_virt; have f_fresh := hi.fresh; have f_children := hi.children; have f_virt := hi.virt; clear hi; (intros; (try simp only [hubf] at *); grind [mem_removeL, nodup_removeL, removeL_nil]))
-      | (have f_fresh := hi.fresh; have f_mem_room := hi.mem_room; have f_room_mem := hi.room_mem; have f_nonempty := hi.nonempty; have f_nodup := hi.nodup; have f_roomL_iff := hi.roomL_iff; have f_roomL_nodup := hi.roomL_nodup; have f_userL_iff := hi.userL_iff; have f_userL_nodup := hi.userL_nodup; have f_sessL_iff := hi.sessL_iff; have f_rs_fwd := hi.rs_fwd; have f_rs_room := hi.rs_room; have f_virt := hi.virt; have f_children := hi.children; have f_vtable := hi.vtable; have f_conn_iff := hi.conn_iff; have f_conn_open := hi.conn_open; have f_eh := hi.eh; have f_expired := hi.expired; have f_anon := hi.anon; have f_dialout := hi.dialout; have f_count := hi.count; have f_orph_virt := hi.orph_virt; have f_incall := hi.incall; clear hi; (intros; (try simp only [hubf] at *); grind [mem_removeL, nodup_removeL, removeL_nil]))
+      | (have f_orph_virt := hi.orph_virt; have f_fresh := hi.fresh; have f_children := hi.children; have f_virt := hi.virt; clear hi; (intros; (try simp only [hubf] at *); grind [mem_removeL, nodup_removeL, removeL_nil, length_removeL_le]))
+      | (have f_fresh := hi.fresh; have f_mem_room := hi.mem_room; have f_room_mem := hi.room_mem; have f_nonempty := hi.nonempty; have f_nodup := hi.nodup; have f_roomL_iff := hi.roomL_iff; have f_roomL_nodup := hi.roomL_nodup; have f_userL_iff := hi.userL_iff; have f_userL_nodup := hi.userL_nodup; have f_sessL_iff := hi.sessL_iff; have f_rs_fwd := hi.rs_fwd; have f_rs_room := hi.rs_room; have f_virt := hi.virt; have f_children := hi.children; have f_vtable := hi.vtable; have f_conn_iff := hi.conn_iff; have f_conn_open := hi.conn_open; have f_eh := hi.eh; have f_expired := hi.expired; have f_anon := hi.anon; have f_dialout := hi.dialout; have f_count := hi.count; have f_orph_virt := hi.orph_virt; have f_incall := hi.incall; have f_count_le := hi.count_le; clear hi; (intros; (try simp only [hubf] at *); grind [mem_removeL, nodup_removeL, removeL_nil, length_removeL_le]))
   case incall =>
     cases hc : x.conn <;> simp only []
     all_goals first
-      | (have f_incall := hi.incall; have f_mem_room := hi.mem_room; clear hi; (intros; (try simp only [hubf] at *); grind [mem_removeL, nodup_removeL, removeL_nil]))
-      | (have f_fresh := hi.fresh; have f_mem_room := hi.mem_room; have f_room_mem := hi.room_mem; have f_nonempty := hi.nonempty; have f_nodup := hi.nodup; have f_roomL_iff := hi.roomL_iff; have f_roomL_nodup := hi.roomL_nodup; have f_userL_iff := hi.userL_iff; have f_userL_nodup := hi.userL_nodup; have f_sessL_iff := hi.sessL_iff; have f_rs_fwd := hi.rs_fwd; have f_rs_room := hi.rs_room; have f_virt := hi.virt; have f_children := hi.children; have f_vtable := hi.vtable; have f_conn_iff := hi.conn_iff; have f_conn_open := hi.conn_open; have f_eh := hi.eh; have f_expired := hi.expired; have f_anon := hi.anon; have f_dialout := hi.dialout; have f_count := hi.count; have f_orph_virt := hi.orph_virt; have f_incall := hi.incall; clear hi; (intros; (try simp only [hubf] at *); grind [mem_removeL, nodup_removeL, removeL_nil]))
+      | (have f_incall := hi.incall; have f_mem_room := hi.mem_room; clear hi; (intros; (try simp only [hubf] at *); grind [mem_removeL, nodup_removeL, removeL_nil, length_removeL_le]))
+      | (have f_fresh := hi.fresh; have f_mem_room := hi.mem_room; have f_room_mem := hi.room_mem; have f_nonempty := hi.nonempty; have f_nodup := hi.nodup; have f_roomL_iff := hi.roomL_iff; have f_roomL_nodup := hi.roomL_nodup; have f_userL_iff := hi.userL_iff; have f_userL_nodup := hi.userL_nodup; have f_sessL_iff := hi.sessL_iff; have f_rs_fwd := hi.rs_fwd; have f_rs_room := hi.rs_room; have f_virt := hi.virt; have f_children := hi.children; have f_vtable := hi.vtable; have f_conn_iff := hi.conn_iff; have f_conn_open := hi.conn_open; have f_eh := hi.eh; have f_expired := hi.expired; have f_anon := hi.anon; have f_dialout := hi.dialout; have f_count := hi.count; have f_orph_virt := hi.orph_virt; have f_incall := hi.incall; have f_count_le := hi.count_le; clear hi; (intros; (try simp only [hubf] at *); grind [mem_removeL, nodup_removeL, removeL_nil, length_removeL_le]))
+  case count_le =>
+    cases hc : x.conn <;> simp only []
+    all_goals first
+      | (have f_count_le := hi.count_le; clear hi; (intros; (try simp only [hubf] at *); grind [mem_removeL, nodup_removeL, removeL_nil, length_removeL_le]))
+      | (have f_fresh := hi.fresh; have f_mem_room := hi.mem_room; have f_room_mem := hi.room_mem; have f_nonempty := hi.nonempty; have f_nodup := hi.nodup; have f_roomL_iff := hi.roomL_iff; have f_roomL_nodup := hi.roomL_nodup; have f_userL_iff := hi.userL_iff; have f_userL_nodup := hi.userL_nodup; have f_sessL_iff := hi.sessL_iff; have f_rs_fwd := hi.rs_fwd; have f_rs_room := hi.rs_room; have f_virt := hi.virt; have f_children := hi.children; have f_vtable := hi.vtable; have f_conn_iff := hi.conn_iff; have f_conn_open := hi.conn_open; have f_eh := hi.eh; have f_expired := hi.expired; have f_anon := hi.anon; have f_dialout := hi.dialout; have f_count := hi.count; have f_orph_virt := hi.orph_virt; have f_incall := hi.incall; have f_count_le := hi.count_le; clear hi; (intros; (try simp only [hubf] at *); grind [mem_removeL, nodup_removeL, removeL_nil, length_removeL_le]))
 
 theorem flushPending_h (s : Nat) : ∀ (l : List Msg) (a : Acc), (flushPending a s l).h = a.h := by
   intro l
@@ -373,100 +391,104 @@ theorem disconnectTables_inv {h : Hub} (hi : Inv h) {c s : Nat} (hcs : h.connSes
   constructor
   case fresh =>
     first
-      | (have f_fresh := hi.fresh; clear hi; (intros; (try simp only [hubf] at *); grind [mem_removeL, nodup_removeL, removeL_nil]))
-      | (have f_fresh := hi.fresh; have f_mem_room := hi.mem_room; have f_room_mem := hi.room_mem; have f_nonempty := hi.nonempty; have f_nodup := hi.nodup; have f_roomL_iff := hi.roomL_iff; have f_roomL_nodup := hi.roomL_nodup; have f_userL_iff := hi.userL_iff; have f_userL_nodup := hi.userL_nodup; have f_sessL_iff := hi.sessL_iff; have f_rs_fwd := hi.rs_fwd; have f_rs_room := hi.rs_room; have f_virt := hi.virt; have f_children := hi.children; have f_vtable := hi.vtable; have f_conn_iff := hi.conn_iff; have f_conn_open := hi.conn_open; have f_eh := hi.eh; have f_expired := hi.expired; have f_anon := hi.anon; have f_dialout := hi.dialout; have f_count := hi.count; have f_orph_virt := hi.orph_virt; have f_incall := hi.incall; clear hi; (intros; (try simp only [hubf] at *); grind [mem_removeL, nodup_removeL, removeL_nil]))
+      | (have f_fresh := hi.fresh; clear hi; (intros; (try simp only [hubf] at *); grind [mem_removeL, nodup_removeL, removeL_nil, length_removeL_le]))
+      | (have f_fresh := hi.fresh; have f_mem_room := hi.mem_room; have f_room_mem := hi.room_mem; have f_nonempty := hi.nonempty; have f_nodup := hi.nodup; have f_roomL_iff := hi.roomL_iff; have f_roomL_nodup := hi.roomL_nodup; have f_userL_iff := hi.userL_iff; have f_userL_nodup := hi.userL_nodup; have f_sessL_iff := hi.sessL_iff; have f_rs_fwd := hi.rs_fwd; have f_rs_room := hi.rs_room; have f_virt := hi.virt; have f_children := hi.children; have f_vtable := hi.vtable; have f_conn_iff := hi.conn_iff; have f_conn_open := hi.conn_open; have f_eh := hi.eh; have f_expired := hi.expired; have f_anon := hi.anon; have f_dialout := hi.dialout; have f_count := hi.count; have f_orph_virt := hi.orph_virt; have f_incall := hi.incall; have f_count_le := hi.count_le; clear hi; (intros; (try simp only [hubf] at *); grind [mem_removeL, nodup_removeL, removeL_nil, length_removeL_le]))
   case mem_room =>
     first
-      | (have f_mem_room := hi.mem_room; have f_fresh := hi.fresh; clear hi; (intros; (try simp only [hubf] at *); grind [mem_removeL, nodup_removeL, removeL_nil]))
-      | (have f_fresh := hi.fresh; have f_mem_room := hi.mem_room; have f_room_mem := hi.room_mem; have f_nonempty := hi.nonempty; have f_nodup := hi.nodup; have f_roomL_iff := hi.roomL_iff; have f_roomL_nodup := hi.roomL_nodup; have f_userL_iff := hi.userL_iff; have f_userL_nodup := hi.userL_nodup; have f_sessL_iff := hi.sessL_iff; have f_rs_fwd := hi.rs_fwd; have f_rs_room := hi.rs_room; have f_virt := hi.virt; have f_children := hi.children; have f_vtable := hi.vtable; have f_conn_iff := hi.conn_iff; have f_conn_open := hi.conn_open; have f_eh := hi.eh; have f_expired := hi.expired; have f_anon := hi.anon; have f_dialout := hi.dialout; have f_count := hi.count; have f_orph_virt := hi.orph_virt; have f_incall := hi.incall; clear hi; (intros; (try simp only [hubf] at *); grind [mem_removeL, nodup_removeL, removeL_nil]))
+      | (have f_mem_room := hi.mem_room; have f_fresh := hi.fresh; clear hi; (intros; (try simp only [hubf] at *); grind [mem_removeL, nodup_removeL, removeL_nil, length_removeL_le]))
+      | (have f_fresh := hi.fresh; have f_mem_room := hi.mem_room; have f_room_mem := hi.room_mem; have f_nonempty := hi.nonempty; have f_nodup := hi.nodup; have f_roomL_iff := hi.roomL_iff; have f_roomL_nodup := hi.roomL_nodup; have f_userL_iff := hi.userL_iff; have f_userL_nodup := hi.userL_nodup; have f_sessL_iff := hi.sessL_iff; have f_rs_fwd := hi.rs_fwd; have f_rs_room := hi.rs_room; have f_virt := hi.virt; have f_children := hi.children; have f_vtable := hi.vtable; have f_conn_iff := hi.conn_iff; have f_conn_open := hi.conn_open; have f_eh := hi.eh; have f_expired := hi.expired; have f_anon := hi.anon; have f_dialout := hi.dialout; have f_count := hi.count; have f_orph_virt := hi.orph_virt; have f_incall := hi.incall; have f_count_le := hi.count_le; clear hi; (intros; (try simp only [hubf] at *); grind [mem_removeL, nodup_removeL, removeL_nil, length_removeL_le]))
   case room_mem =>
     first
-      | (have f_room_mem := hi.room_mem; have f_mem_room := hi.mem_room; have f_fresh := hi.fresh; clear hi; (intros; (try simp only [hubf] at *); grind [mem_removeL, nodup_removeL, removeL_nil]))
-      | (have f_fresh := hi.fresh; have f_mem_room := hi.mem_room; have f_room_mem := hi.room_mem; have f_nonempty := hi.nonempty; have f_nodup := hi.nodup; have f_roomL_iff := hi.roomL_iff; have f_roomL_nodup := hi.roomL_nodup; have f_userL_iff := hi.userL_iff; have f_userL_nodup := hi.userL_nodup; have f_sessL_iff := hi.sessL_iff; have f_rs_fwd := hi.rs_fwd; have f_rs_room := hi.rs_room; have f_virt := hi.virt; have f_children := hi.children; have f_vtable := hi.vtable; have f_conn_iff := hi.conn_iff; have f_conn_open := hi.conn_open; have f_eh := hi.eh; have f_expired := hi.expired; have f_anon := hi.anon; have f_dialout := hi.dialout; have f_count := hi.count; have f_orph_virt := hi.orph_virt; have f_incall := hi.incall; clear hi; (intros; (try simp only [hubf] at *); grind [mem_removeL, nodup_removeL, removeL_nil]))
+      | (have f_room_mem := hi.room_mem; have f_mem_room := hi.mem_room; have f_fresh := hi.fresh; clear hi; (intros; (try simp only [hubf] at *); grind [mem_removeL, nodup_removeL, removeL_nil, length_removeL_le]))
+      | (have f_fresh := hi.fresh; have f_mem_room := hi.mem_room; have f_room_mem := hi.room_mem; have f_nonempty := hi.nonempty; have f_nodup := hi.nodup; have f_roomL_iff := hi.roomL_iff; have f_roomL_nodup := hi.roomL_nodup; have f_userL_iff := hi.userL_iff; have f_userL_nodup := hi.userL_nodup; have f_sessL_iff := hi.sessL_iff; have f_rs_fwd := hi.rs_fwd; have f_rs_room := hi.rs_room; have f_virt := hi.virt; have f_children := hi.children; have f_vtable := hi.vtable; have f_conn_iff := hi.conn_iff; have f_conn_open := hi.conn_open; have f_eh := hi.eh; have f_expired := hi.expired; have f_anon := hi.anon; have f_dialout := hi.dialout; have f_count := hi.count; have f_orph_virt := hi.orph_virt; have f_incall := hi.incall; have f_count_le := hi.count_le; clear hi; (intros; (try simp only [hubf] at *); grind [mem_removeL, nodup_removeL, removeL_nil, length_removeL_le]))
   case nonempty =>
     first
-      | (have f_nonempty := hi.nonempty; have f_mem_room := hi.mem_room; clear hi; (intros; (try simp only [hubf] at *); grind [mem_removeL, nodup_removeL, removeL_nil]))
-      | (have f_fresh := hi.fresh; have f_mem_room := hi.mem_room; have f_room_mem := hi.room_mem; have f_nonempty := hi.nonempty; have f_nodup := hi.nodup; have f_roomL_iff := hi.roomL_iff; have f_roomL_nodup := hi.roomL_nodup; have f_userL_iff := hi.userL_iff; have f_userL_nodup := hi.userL_nodup; have f_sessL_iff := hi.sessL_iff; have f_rs_fwd := hi.rs_fwd; have f_rs_room := hi.rs_room; have f_virt := hi.virt; have f_children := hi.children; have f_vtable := hi.vtable; have f_conn_iff := hi.conn_iff; have f_conn_open := hi.conn_open; have f_eh := hi.eh; have f_expired := hi.expired; have f_anon := hi.anon; have f_dialout := hi.dialout; have f_count := hi.count; have f_orph_virt := hi.orph_virt; have f_incall := hi.incall; clear hi; (intros; (try simp only [hubf] at *); grind [mem_removeL, nodup_removeL, removeL_nil]))
+      | (have f_nonempty := hi.nonempty; have f_mem_room := hi.mem_room; clear hi; (intros; (try simp only [hubf] at *); grind [mem_removeL, nodup_removeL, removeL_nil, length_removeL_le]))
+      | (have f_fresh := hi.fresh; have f_mem_room := hi.mem_room; have f_room_mem := hi.room_mem; have f_nonempty := hi.nonempty; have f_nodup := hi.nodup; have f_roomL_iff := hi.roomL_iff; have f_roomL_nodup := hi.roomL_nodup; have f_userL_iff := hi.userL_iff; have f_userL_nodup := hi.userL_nodup; have f_sessL_iff := hi.sessL_iff; have f_rs_fwd := hi.rs_fwd; have f_rs_room := hi.rs_room; have f_virt := hi.virt; have f_children := hi.children; have f_vtable := hi.vtable; have f_conn_iff := hi.conn_iff; have f_conn_open := hi.conn_open; have f_eh := hi.eh; have f_expired := hi.expired; have f_anon := hi.anon; have f_dialout := hi.dialout; have f_count := hi.count; have f_orph_virt := hi.orph_virt; have f_incall := hi.incall; have f_count_le := hi.count_le; clear hi; (intros; (try simp only [hubf] at *); grind [mem_removeL, nodup_removeL, removeL_nil, length_removeL_le]))
   case nodup =>
     first
-      | (have f_nodup := hi.nodup; clear hi; (intros; (try simp only [hubf] at *); grind [mem_removeL, nodup_removeL, removeL_nil]))
-      | (have f_fresh := hi.fresh; have f_mem_room := hi.mem_room; have f_room_mem := hi.room_mem; have f_nonempty := hi.nonempty; have f_nodup := hi.nodup; have f_roomL_iff := hi.roomL_iff; have f_roomL_nodup := hi.roomL_nodup; have f_userL_iff := hi.userL_iff; have f_userL_nodup := hi.userL_nodup; have f_sessL_iff := hi.sessL_iff; have f_rs_fwd := hi.rs_fwd; have f_rs_room := hi.rs_room; have f_virt := hi.virt; have f_children := hi.children; have f_vtable := hi.vtable; have f_conn_iff := hi.conn_iff; have f_conn_open := hi.conn_open; have f_eh := hi.eh; have f_expired := hi.expired; have f_anon := hi.anon; have f_dialout := hi.dialout; have f_count := hi.count; have f_orph_virt := hi.orph_virt; have f_incall := hi.incall; clear hi; (intros; (try simp only [hubf] at *); grind [mem_removeL, nodup_removeL, removeL_nil]))
+      | (have f_nodup := hi.nodup; clear hi; (intros; (try simp only [hubf] at *); grind [mem_removeL, nodup_removeL, removeL_nil, length_removeL_le]))
+      | (have f_fresh := hi.fresh; have f_mem_room := hi.mem_room; have f_room_mem := hi.room_mem; have f_nonempty := hi.nonempty; have f_nodup := hi.nodup; have f_roomL_iff := hi.roomL_iff; have f_roomL_nodup := hi.roomL_nodup; have f_userL_iff := hi.userL_iff; have f_userL_nodup := hi.userL_nodup; have f_sessL_iff := hi.sessL_iff; have f_rs_fwd := hi.rs_fwd; have f_rs_room := hi.rs_room; have f_virt := hi.virt; have f_children := hi.children; have f_vtable := hi.vtable; have f_conn_iff := hi.conn_iff; have f_conn_open := hi.conn_open; have f_eh := hi.eh; have f_expired := hi.expired; have f_anon := hi.anon; have f_dialout := hi.dialout; have f_count := hi.count; have f_orph_virt := hi.orph_virt; have f_incall := hi.incall; have f_count_le := hi.count_le; clear hi; (intros; (try simp only [hubf] at *); grind [mem_removeL, nodup_removeL, removeL_nil, length_removeL_le]))
   case roomL_iff =>
     first
-      | (have f_roomL_iff := hi.roomL_iff; have f_fresh := hi.fresh; have f_room_mem := hi.room_mem; have f_mem_room := hi.mem_room; clear hi; (intros; (try simp only [hubf] at *); grind [mem_removeL, nodup_removeL, removeL_nil]))
-      | (have f_fresh := hi.fresh; have f_mem_room := hi.mem_room; have f_room_mem := hi.room_mem; have f_nonempty := hi.nonempty; have f_nodup := hi.nodup; have f_roomL_iff := hi.roomL_iff; have f_roomL_nodup := hi.roomL_nodup; have f_userL_iff := hi.userL_iff; have f_userL_nodup := hi.userL_nodup; have f_sessL_iff := hi.sessL_iff; have f_rs_fwd := hi.rs_fwd; have f_rs_room := hi.rs_room; have f_virt := hi.virt; have f_children := hi.children; have f_vtable := hi.vtable; have f_conn_iff := hi.conn_iff; have f_conn_open := hi.conn_open; have f_eh := hi.eh; have f_expired := hi.expired; have f_anon := hi.anon; have f_dialout := hi.dialout; have f_count := hi.count; have f_orph_virt := hi.orph_virt; have f_incall := hi.incall; clear hi; (intros; (try simp only [hubf] at *); grind [mem_removeL, nodup_removeL, removeL_nil]))
+      | (have f_roomL_iff := hi.roomL_iff; have f_fresh := hi.fresh; have f_room_mem := hi.room_mem; have f_mem_room := hi.mem_room; clear hi; (intros; (try simp only [hubf] at *); grind [mem_removeL, nodup_removeL, removeL_nil, length_removeL_le]))
+      | (have f_fresh := hi.fresh; have f_mem_room := hi.mem_room; have f_room_mem := hi.room_mem; have f_nonempty := hi.nonempty; have f_nodup := hi.nodup; have f_roomL_iff := hi.roomL_iff; have f_roomL_nodup := hi.roomL_nodup; have f_userL_iff := hi.userL_iff; have f_userL_nodup := hi.userL_nodup; have f_sessL_iff := hi.sessL_iff; have f_rs_fwd := hi.rs_fwd; have f_rs_room := hi.rs_room; have f_virt := hi.virt; have f_children := hi.children; have f_vtable := hi.vtable; have f_conn_iff := hi.conn_iff; have f_conn_open := hi.conn_open; have f_eh := hi.eh; have f_expired := hi.expired; have f_anon := hi.anon; have f_dialout := hi.dialout; have f_count := hi.count; have f_orph_virt := hi.orph_virt; have f_incall := hi.incall; have f_count_le := hi.count_le; clear hi; (intros; (try simp only [hubf] at *); grind [mem_removeL, nodup_removeL, removeL_nil, length_removeL_le]))
   case roomL_nodup =>
     first
-      | (have f_roomL_nodup := hi.roomL_nodup; have f_roomL_iff := hi.roomL_iff; clear hi; (intros; (try simp only [hubf] at *); grind [mem_removeL, nodup_removeL, removeL_nil]))
-      | (have f_fresh := hi.fresh; have f_mem_room := hi.mem_room; have f_room_mem := hi.room_mem; have f_nonempty := hi.nonempty; have f_nodup := hi.nodup; have f_roomL_iff := hi.roomL_iff; have f_roomL_nodup := hi.roomL_nodup; have f_userL_iff := hi.userL_iff; have f_userL_nodup := hi.userL_nodup; have f_sessL_iff := hi.sessL_iff; have f_rs_fwd := hi.rs_fwd; have f_rs_room := hi.rs_room; have f_virt := hi.virt; have f_children := hi.children; have f_vtable := hi.vtable; have f_conn_iff := hi.conn_iff; have f_conn_open := hi.conn_open; have f_eh := hi.eh; have f_expired := hi.expired; have f_anon := hi.anon; have f_dialout := hi.dialout; have f_count := hi.count; have f_orph_virt := hi.orph_virt; have f_incall := hi.incall; clear hi; (intros; (try simp only [hubf] at *); grind [mem_removeL, nodup_removeL, removeL_nil]))
+      | (have f_roomL_nodup := hi.roomL_nodup; have f_roomL_iff := hi.roomL_iff; clear hi; (intros; (try simp only [hubf] at *); grind [mem_removeL, nodup_removeL, removeL_nil, length_removeL_le]))
+      | (have f_fresh := hi.fresh; have f_mem_room := hi.mem_room; have f_room_mem := hi.room_mem; have f_nonempty := hi.nonempty; have f_nodup := hi.nodup; have f_roomL_iff := hi.roomL_iff; have f_roomL_nodup := hi.roomL_nodup; have f_userL_iff := hi.userL_iff; have f_userL_nodup := hi.userL_nodup; have f_sessL_iff := hi.sessL_iff; have f_rs_fwd := hi.rs_fwd; have f_rs_room := hi.rs_room; have f_virt := hi.virt; have f_children := hi.children; have f_vtable := hi.vtable; have f_conn_iff := hi.conn_iff; have f_conn_open := hi.conn_open; have f_eh := hi.eh; have f_expired := hi.expired; have f_anon := hi.anon; have f_dialout := hi.dialout; have f_count := hi.count; have f_orph_virt := hi.orph_virt; have f_incall := hi.incall; have f_count_le := hi.count_le; clear hi; (intros; (try simp only [hubf] at *); grind [mem_removeL, nodup_removeL, removeL_nil, length_removeL_le]))
   case userL_iff =>
     first
-      | (have f_userL_iff := hi.userL_iff; have f_fresh := hi.fresh; clear hi; (intros; (try simp only [hubf] at *); grind [mem_removeL, nodup_removeL, removeL_nil]))
-      | (have f_fresh := hi.fresh; have f_mem_room := hi.mem_room; have f_room_mem := hi.room_mem; have f_nonempty := hi.nonempty; have f_nodup := hi.nodup; have f_roomL_iff := hi.roomL_iff; have f_roomL_nodup := hi.roomL_nodup; have f_userL_iff := hi.userL_iff; have f_userL_nodup := hi.userL_nodup; have f_sessL_iff := hi.sessL_iff; have f_rs_fwd := hi.rs_fwd; have f_rs_room := hi.rs_room; have f_virt := hi.virt; have f_children := hi.children; have f_vtable := hi.vtable; have f_conn_iff := hi.conn_iff; have f_conn_open := hi.conn_open; have f_eh := hi.eh; have f_expired := hi.expired; have f_anon := hi.anon; have f_dialout := hi.dialout; have f_count := hi.count; have f_orph_virt := hi.orph_virt; have f_incall := hi.incall; clear hi; (intros; (try simp only [hubf] at *); grind [mem_removeL, nodup_removeL, removeL_nil]))
+      | (have f_userL_iff := hi.userL_iff; have f_fresh := hi.fresh; clear hi; (intros; (try simp only [hubf] at *); grind [mem_removeL, nodup_removeL, removeL_nil, length_removeL_le]))
+      | (have f_fresh := hi.fresh; have f_mem_room := hi.mem_room; have f_room_mem := hi.room_mem; have f_nonempty := hi.nonempty; have f_nodup := hi.nodup; have f_roomL_iff := hi.roomL_iff; have f_roomL_nodup := hi.roomL_nodup; have f_userL_iff := hi.userL_iff; have f_userL_nodup := hi.userL_nodup; have f_sessL_iff := hi.sessL_iff; have f_rs_fwd := hi.rs_fwd; have f_rs_room := hi.rs_room; have f_virt := hi.virt; have f_children := hi.children; have f_vtable := hi.vtable; have f_conn_iff := hi.conn_iff; have f_conn_open := hi.conn_open; have f_eh := hi.eh; have f_expired := hi.expired; have f_anon := hi.anon; have f_dialout := hi.dialout; have f_count := hi.count; have f_orph_virt := hi.orph_virt; have f_incall := hi.incall; have f_count_le := hi.count_le; clear hi; (intros; (try simp only [hubf] at *); grind [mem_removeL, nodup_removeL, removeL_nil, length_removeL_le]))
   case userL_nodup =>
     first
-      | (have f_userL_nodup := hi.userL_nodup; have f_userL_iff := hi.userL_iff; clear hi; (intros; (try simp only [hubf] at *); grind [mem_removeL, nodup_removeL, removeL_nil]))
-      | (have f_fresh := hi.fresh; have f_mem_room := hi.mem_room; have f_room_mem := hi.room_mem; have f_nonempty := hi.nonempty; have f_nodup := hi.nodup; have f_roomL_iff := hi.roomL_iff; have f_roomL_nodup := hi.roomL_nodup; have f_userL_iff := hi.userL_iff; have f_userL_nodup := hi.userL_nodup; have f_sessL_iff := hi.sessL_iff; have f_rs_fwd := hi.rs_fwd; have f_rs_room := hi.rs_room; have f_virt := hi.virt; have f_children := hi.children; have f_vtable := hi.vtable; have f_conn_iff := hi.conn_iff; have f_conn_open := hi.conn_open; have f_eh := hi.eh; have f_expired := hi.expired; have f_anon := hi.anon; have f_dialout := hi.dialout; have f_count := hi.count; have f_orph_virt := hi.orph_virt; have f_incall := hi.incall; clear hi; (intros; (try simp only [hubf] at *); grind [mem_removeL, nodup_removeL, removeL_nil]))
+      | (have f_userL_nodup := hi.userL_nodup; have f_userL_iff := hi.userL_iff; clear hi; (intros; (try simp only [hubf] at *); grind [mem_removeL, nodup_removeL, removeL_nil, length_removeL_le]))
+      | (have f_fresh := hi.fresh; have f_mem_room := hi.mem_room; have f_room_mem := hi.room_mem; have f_nonempty := hi.nonempty; have f_nodup := hi.nodup; have f_roomL_iff := hi.roomL_iff; have f_roomL_nodup := hi.roomL_nodup; have f_userL_iff := hi.userL_iff; have f_userL_nodup := hi.userL_nodup; have f_sessL_iff := hi.sessL_iff; have f_rs_fwd := hi.rs_fwd; have f_rs_room := hi.rs_room; have f_virt := hi.virt; have f_children := hi.children; have f_vtable := hi.vtable; have f_conn_iff := hi.conn_iff; have f_conn_open := hi.conn_open; have f_eh := hi.eh; have f_expired := hi.expired; have f_anon := hi.anon; have f_dialout := hi.dialout; have f_count := hi.count; have f_orph_virt := hi.orph_virt; have f_incall := hi.incall; have f_count_le := hi.count_le; clear hi; (intros; (try simp only [hubf] at *); grind [mem_removeL, nodup_removeL, removeL_nil, length_removeL_le]))
   case sessL_iff =>
     first
-      | (have f_sessL_iff := hi.sessL_iff; have f_fresh := hi.fresh; clear hi; (intros; (try simp only [hubf] at *); grind [mem_removeL, nodup_removeL, removeL_nil]))
-      | (have f_fresh := hi.fresh; have f_mem_room := hi.mem_room; have f_room_mem := hi.room_mem; have f_nonempty := hi.nonempty; have f_nodup := hi.nodup; have f_roomL_iff := hi.roomL_iff; have f_roomL_nodup := hi.roomL_nodup; have f_userL_iff := hi.userL_iff; have f_userL_nodup := hi.userL_nodup; have f_sessL_iff := hi.sessL_iff; have f_rs_fwd := hi.rs_fwd; have f_rs_room := hi.rs_room; have f_virt := hi.virt; have f_children := hi.children; have f_vtable := hi.vtable; have f_conn_iff := hi.conn_iff; have f_conn_open := hi.conn_open; have f_eh := hi.eh; have f_expired := hi.expired; have f_anon := hi.anon; have f_dialout := hi.dialout; have f_count := hi.count; have f_orph_virt := hi.orph_virt; have f_incall := hi.incall; clear hi; (intros; (try simp only [hubf] at *); grind [mem_removeL, nodup_removeL, removeL_nil]))
+      | (have f_sessL_iff := hi.sessL_iff; have f_fresh := hi.fresh; clear hi; (intros; (try simp only [hubf] at *); grind [mem_removeL, nodup_removeL, removeL_nil, length_removeL_le]))
+      | (have f_fresh := hi.fresh; have f_mem_room := hi.mem_room; have f_room_mem := hi.room_mem; have f_nonempty := hi.nonempty; have f_nodup := hi.nodup; have f_roomL_iff := hi.roomL_iff; have f_roomL_nodup := hi.roomL_nodup; have f_userL_iff := hi.userL_iff; have f_userL_nodup := hi.userL_nodup; have f_sessL_iff := hi.sessL_iff; have f_rs_fwd := hi.rs_fwd; have f_rs_room := hi.rs_room; have f_virt := hi.virt; have f_children := hi.children; have f_vtable := hi.vtable; have f_conn_iff := hi.conn_iff; have f_conn_open := hi.conn_open; have f_eh := hi.eh; have f_expired := hi.expired; have f_anon := hi.anon; have f_dialout := hi.dialout; have f_count := hi.count; have f_orph_virt := hi.orph_virt; have f_incall := hi.incall; have f_count_le := hi.count_le; clear hi; (intros; (try simp only [hubf] at *); grind [mem_removeL, nodup_removeL, removeL_nil, length_removeL_le]))
   case rs_fwd =>
     first
-      | (have f_rs_fwd := hi.rs_fwd; have f_rs_room := hi.rs_room; have f_fresh := hi.fresh; clear hi; (intros; (try simp only [hubf] at *); grind [mem_removeL, nodup_removeL, removeL_nil]))
-      | (have f_fresh := hi.fresh; have f_mem_room := hi.mem_room; have f_room_mem := hi.room_mem; have f_nonempty := hi.nonempty; have f_nodup := hi.nodup; have f_roomL_iff := hi.roomL_iff; have f_roomL_nodup := hi.roomL_nodup; have f_userL_iff := hi.userL_iff; have f_userL_nodup := hi.userL_nodup; have f_sessL_iff := hi.sessL_iff; have f_rs_fwd := hi.rs_fwd; have f_rs_room := hi.rs_room; have f_virt := hi.virt; have f_children := hi.children; have f_vtable := hi.vtable; have f_conn_iff := hi.conn_iff; have f_conn_open := hi.conn_open; have f_eh := hi.eh; have f_expired := hi.expired; have f_anon := hi.anon; have f_dialout := hi.dialout; have f_count := hi.count; have f_orph_virt := hi.orph_virt; have f_incall := hi.incall; clear hi; (intros; (try simp only [hubf] at *); grind [mem_removeL, nodup_removeL, removeL_nil]))
+      | (have f_rs_fwd := hi.rs_fwd; have f_rs_room := hi.rs_room; have f_fresh := hi.fresh; clear hi; (intros; (try simp only [hubf] at *); grind [mem_removeL, nodup_removeL, removeL_nil, length_removeL_le]))
+      | (have f_fresh := hi.fresh; have f_mem_room := hi.mem_room; have f_room_mem := hi.room_mem; have f_nonempty := hi.nonempty; have f_nodup := hi.nodup; have f_roomL_iff := hi.roomL_iff; have f_roomL_nodup := hi.roomL_nodup; have f_userL_iff := hi.userL_iff; have f_userL_nodup := hi.userL_nodup; have f_sessL_iff := hi.sessL_iff; have f_rs_fwd := hi.rs_fwd; have f_rs_room := hi.rs_room; have f_virt := hi.virt; have f_children := hi.children; have f_vtable := hi.vtable; have f_conn_iff := hi.conn_iff; have f_conn_open := hi.conn_open; have f_eh := hi.eh; have f_expired := hi.expired; have f_anon := hi.anon; have f_dialout := hi.dialout; have f_count := hi.count; have f_orph_virt := hi.orph_virt; have f_incall := hi.incall; have f_count_le := hi.count_le; clear hi; (intros; (try simp only [hubf] at *); grind [mem_removeL, nodup_removeL, removeL_nil, length_removeL_le]))
   case rs_room =>
     first
-      | (have f_rs_room := hi.rs_room; have f_rs_fwd := hi.rs_fwd; have f_fresh := hi.fresh; have f_room_mem := hi.room_mem; clear hi; (intros; (try simp only [hubf] at *); grind [mem_removeL, nodup_removeL, removeL_nil]))
-      | (have f_fresh := hi.fresh; have f_mem_room := hi.mem_room; have f_room_mem := hi.room_mem; have f_nonempty := hi.nonempty; have f_nodup := hi.nodup; have f_roomL_iff := hi.roomL_iff; have f_roomL_nodup := hi.roomL_nodup; have f_userL_iff := hi.userL_iff; have f_userL_nodup := hi.userL_nodup; have f_sessL_iff := hi.sessL_iff; have f_rs_fwd := hi.rs_fwd; have f_rs_room := hi.rs_room; have f_virt := hi.virt; have f_children := hi.children; have f_vtable := hi.vtable; have f_conn_iff := hi.conn_iff; have f_conn_open := hi.conn_open; have f_eh := hi.eh; have f_expired := hi.expired; have f_anon := hi.anon; have f_dialout := hi.dialout; have f_count := hi.count; have f_orph_virt := hi.orph_virt; have f_incall := hi.incall; clear hi; (intros; (try simp only [hubf] at *); grind [mem_removeL, nodup_removeL, removeL_nil]))
+      | (have f_rs_room := hi.rs_room; have f_rs_fwd := hi.rs_fwd; have f_fresh := hi.fresh; have f_room_mem := hi.room_mem; clear hi; (intros; (try simp only [hubf] at *); grind [mem_removeL, nodup_removeL, removeL_nil, length_removeL_le]))
+      | (have f_fresh := hi.fresh; have f_mem_room := hi.mem_room; have f_room_mem := hi.room_mem; have f_nonempty := hi.nonempty; have f_nodup := hi.nodup; have f_roomL_iff := hi.roomL_iff; have f_roomL_nodup := hi.roomL_nodup; have f_userL_iff := hi.userL_iff; have f_userL_nodup := hi.userL_nodup; have f_sessL_iff := hi.sessL_iff; have f_rs_fwd := hi.rs_fwd; have f_rs_room := hi.rs_room; have f_virt := hi.virt; have f_children := hi.children; have f_vtable := hi.vtable; have f_conn_iff := hi.conn_iff; have f_conn_open := hi.conn_open; have f_eh := hi.eh; have f_expired := hi.expired; have f_anon := hi.anon; have f_dialout := hi.dialout; have f_count := hi.count; have f_orph_virt := hi.orph_virt; have f_incall := hi.incall; have f_count_le := hi.count_le; clear hi; (intros; (try simp only [hubf] at *); grind [mem_removeL, nodup_removeL, removeL_nil, length_removeL_le]))
   case virt =>
     first
-      | (have f_virt := hi.virt; have f_children := hi.children; have f_fresh := hi.fresh; clear hi; (intros; (try simp only [hubf] at *); grind [mem_removeL, nodup_removeL, removeL_nil]))
-      | (have f_fresh := hi.fresh; have f_mem_room := hi.mem_room; have f_room_mem := hi.room_mem; have f_nonempty := hi.nonempty; have f_nodup := hi.nodup; have f_roomL_iff := hi.roomL_iff; have f_roomL_nodup := hi.roomL_nodup; have f_userL_iff := hi.userL_iff; have f_userL_nodup := hi.userL_nodup; have f_sessL_iff := hi.sessL_iff; have f_rs_fwd := hi.rs_fwd; have f_rs_room := hi.rs_room; have f_virt := hi.virt; have f_children := hi.children; have f_vtable := hi.vtable; have f_conn_iff := hi.conn_iff; have f_conn_open := hi.conn_open; have f_eh := hi.eh; have f_expired := hi.expired; have f_anon := hi.anon; have f_dialout := hi.dialout; have f_count := hi.count; have f_orph_virt := hi.orph_virt; have f_incall := hi.incall; clear hi; (intros; (try simp only [hubf] at *); grind [mem_removeL, nodup_removeL, removeL_nil]))
+      | (have f_virt := hi.virt; have f_children := hi.children; have f_fresh := hi.fresh; clear hi; (intros; (try simp only [hubf] at *); grind [mem_removeL, nodup_removeL, removeL_nil, length_removeL_le]))
+      | (have f_fresh := hi.fresh; have f_mem_room := hi.mem_room; have f_room_mem := hi.room_mem; have f_nonempty := hi.nonempty; have f_nodup := hi.nodup; have f_roomL_iff := hi.roomL_iff; have f_roomL_nodup := hi.roomL_nodup; have f_userL_iff := hi.userL_iff; have f_userL_nodup := hi.userL_nodup; have f_sessL_iff := hi.sessL_iff; have f_rs_fwd := hi.rs_fwd; have f_rs_room := hi.rs_room; have f_virt := hi.virt; have f_children := hi.children; have f_vtable := hi.vtable; have f_conn_iff := hi.conn_iff; have f_conn_open := hi.conn_open; have f_eh := hi.eh; have f_expired := hi.expired; have f_anon := hi.anon; have f_dialout := hi.dialout; have f_count := hi.count; have f_orph_virt := hi.orph_virt; have f_incall := hi.incall; have f_count_le := hi.count_le; clear hi; (intros; (try simp only [hubf] at *); grind [mem_removeL, nodup_removeL, removeL_nil, length_removeL_le]))
   case children =>
     first
-      | (have f_children := hi.children; have f_virt := hi.virt; have f_fresh := hi.fresh; clear hi; (intros; (try simp only [hubf] at *); grind [mem_removeL, nodup_removeL, removeL_nil]))
-      | (have f_fresh := hi.fresh; have f_mem_room := hi.mem_room; have f_room_mem := hi.room_mem; have f_nonempty := hi.nonempty; have f_nodup := hi.nodup; have f_roomL_iff := hi.roomL_iff; have f_roomL_nodup := hi.roomL_nodup; have f_userL_iff := hi.userL_iff; have f_userL_nodup := hi.userL_nodup; have f_sessL_iff := hi.sessL_iff; have f_rs_fwd := hi.rs_fwd; have f_rs_room := hi.rs_room; have f_virt := hi.virt; have f_children := hi.children; have f_vtable := hi.vtable; have f_conn_iff := hi.conn_iff; have f_conn_open := hi.conn_open; have f_eh := hi.eh; have f_expired := hi.expired; have f_anon := hi.anon; have f_dialout := hi.dialout; have f_count := hi.count; have f_orph_virt := hi.orph_virt; have f_incall := hi.incall; clear hi; (intros; (try simp only [hubf] at *); grind [mem_removeL, nodup_removeL, removeL_nil]))
+      | (have f_children := hi.children; have f_virt := hi.virt; have f_fresh := hi.fresh; clear hi; (intros; (try simp only [hubf] at *); grind [mem_removeL, nodup_removeL, removeL_nil, length_removeL_le]))
+      | (have f_fresh := hi.fresh; have f_mem_room := hi.mem_room; have f_room_mem := hi.room_mem; have f_nonempty := hi.nonempty; have f_nodup := hi.nodup; have f_roomL_iff := hi.roomL_iff; have f_roomL_nodup := hi.roomL_nodup; have f_userL_iff := hi.userL_iff; have f_userL_nodup := hi.userL_nodup; have f_sessL_iff := hi.sessL_iff; have f_rs_fwd := hi.rs_fwd; have f_rs_room := hi.rs_room; have f_virt := hi.virt; have f_children := hi.children; have f_vtable := hi.vtable; have f_conn_iff := hi.conn_iff; have f_conn_open := hi.conn_open; have f_eh := hi.eh; have f_expired := hi.expired; have f_anon := hi.anon; have f_dialout := hi.dialout; have f_count := hi.count; have f_orph_virt := hi.orph_virt; have f_incall := hi.incall; have f_count_le := hi.count_le; clear hi; (intros; (try simp only [hubf] at *); grind [mem_removeL, nodup_removeL, removeL_nil, length_removeL_le]))
   case vtable =>
     first
-      | (have f_vtable := hi.vtable; have f_virt := hi.virt; have f_fresh := hi.fresh; clear hi; (intros; (try simp only [hubf] at *); grind [mem_removeL, nodup_removeL, removeL_nil]))
-      | (have f_fresh := hi.fresh; have f_mem_room := hi.mem_room; have f_room_mem := hi.room_mem; have f_nonempty := hi.nonempty; have f_nodup := hi.nodup; have f_roomL_iff := hi.roomL_iff; have f_roomL_nodup := hi.roomL_nodup; have f_userL_iff := hi.userL_iff; have f_userL_nodup := hi.userL_nodup; have f_sessL_iff := hi.sessL_iff; have f_rs_fwd := hi.rs_fwd; have f_rs_room := hi.rs_room; have f_virt := hi.virt; have f_children := hi.children; have f_vtable := hi.vtable; have f_conn_iff := hi.conn_iff; have f_conn_open := hi.conn_open; have f_eh := hi.eh; have f_expired := hi.expired; have f_anon := hi.anon; have f_dialout := hi.dialout; have f_count := hi.count; have f_orph_virt := hi.orph_virt; have f_incall := hi.incall; clear hi; (intros; (try simp only [hubf] at *); grind [mem_removeL, nodup_removeL, removeL_nil]))
+      | (have f_vtable := hi.vtable; have f_virt := hi.virt; have f_fresh := hi.fresh; clear hi; (intros; (try simp only [hubf] at *); grind [mem_removeL, nodup_removeL, removeL_nil, length_removeL_le]))
+      | (have f_fresh := hi.fresh; have f_mem_room := hi.mem_room; have f_room_mem := hi.room_mem; have f_nonempty := hi.nonempty; have f_nodup := hi.nodup; have f_roomL_iff := hi.roomL_iff; have f_roomL_nodup := hi.roomL_nodup; have f_userL_iff := hi.userL_iff; have f_userL_nodup := hi.userL_nodup; have f_sessL_iff := hi.sessL_iff; have f_rs_fwd := hi.rs_fwd; have f_rs_room := hi.rs_room; have f_virt := hi.virt; have f_children := hi.children; have f_vtable := hi.vtable; have f_conn_iff := hi.conn_iff; have f_conn_open := hi.conn_open; have f_eh := hi.eh; have f_expired := hi.expired; have f_anon := hi.anon; have f_dialout := hi.dialout; have f_count := hi.count; have f_orph_virt := hi.orph_virt; have f_incall := hi.incall; have f_count_le := hi.count_le; clear hi; (intros; (try simp only [hubf] at *); grind [mem_removeL, nodup_removeL, removeL_nil, length_removeL_le]))
   case conn_iff =>
     first
-      | (have f_conn_iff := hi.conn_iff; have f_fresh := hi.fresh; have f_virt := hi.virt; clear hi; (intros; (try simp only [hubf] at *); grind [mem_removeL, nodup_removeL, removeL_nil]))
-      | (have f_fresh := hi.fresh; have f_mem_room := hi.mem_room; have f_room_mem := hi.room_mem; have f_nonempty := hi.nonempty; have f_nodup := hi.nodup; have f_roomL_iff := hi.roomL_iff; have f_roomL_nodup := hi.roomL_nodup; have f_userL_iff := hi.userL_iff; have f_userL_nodup := hi.userL_nodup; have f_sessL_iff := hi.sessL_iff; have f_rs_fwd := hi.rs_fwd; have f_rs_room := hi.rs_room; have f_virt := hi.virt; have f_children := hi.children; have f_vtable := hi.vtable; have f_conn_iff := hi.conn_iff; have f_conn_open := hi.conn_open; have f_eh := hi.eh; have f_expired := hi.expired; have f_anon := hi.anon; have f_dialout := hi.dialout; have f_count := hi.count; have f_orph_virt := hi.orph_virt; have f_incall := hi.incall; clear hi; (intros; (try simp only [hubf] at *); grind [mem_removeL, nodup_removeL, removeL_nil]))
+      | (have f_conn_iff := hi.conn_iff; have f_fresh := hi.fresh; have f_virt := hi.virt; clear hi; (intros; (try simp only [hubf] at *); grind [mem_removeL, nodup_removeL, removeL_nil, length_removeL_le]))
+      | (have f_fresh := hi.fresh; have f_mem_room := hi.mem_room; have f_room_mem := hi.room_mem; have f_nonempty := hi.nonempty; have f_nodup := hi.nodup; have f_roomL_iff := hi.roomL_iff; have f_roomL_nodup := hi.roomL_nodup; have f_userL_iff := hi.userL_iff; have f_userL_nodup := hi.userL_nodup; have f_sessL_iff := hi.sessL_iff; have f_rs_fwd := hi.rs_fwd; have f_rs_room := hi.rs_room; have f_virt := hi.virt; have f_children := hi.children; have f_vtable := hi.vtable; have f_conn_iff := hi.conn_iff; have f_conn_open := hi.conn_open; have f_eh := hi.eh; have f_expired := hi.expired; have f_anon := hi.anon; have f_dialout := hi.dialout; have f_count := hi.count; have f_orph_virt := hi.orph_virt; have f_incall := hi.incall; have f_count_le := hi.count_le; clear hi; (intros; (try simp only [hubf] at *); grind [mem_removeL, nodup_removeL, removeL_nil, length_removeL_le]))
   case conn_open =>
     first
-      | (have f_conn_open := hi.conn_open; have f_conn_iff := hi.conn_iff; clear hi; (intros; (try simp only [hubf] at *); grind [mem_removeL, nodup_removeL, removeL_nil]))
-      | (have f_fresh := hi.fresh; have f_mem_room := hi.mem_room; have f_room_mem := hi.room_mem; have f_nonempty := hi.nonempty; have f_nodup := hi.nodup; have f_roomL_iff := hi.roomL_iff; have f_roomL_nodup := hi.roomL_nodup; have f_userL_iff := hi.userL_iff; have f_userL_nodup := hi.userL_nodup; have f_sessL_iff := hi.sessL_iff; have f_rs_fwd := hi.rs_fwd; have f_rs_room := hi.rs_room; have f_virt := hi.virt; have f_children := hi.children; have f_vtable := hi.vtable; have f_conn_iff := hi.conn_iff; have f_conn_open := hi.conn_open; have f_eh := hi.eh; have f_expired := hi.expired; have f_anon := hi.anon; have f_dialout := hi.dialout; have f_count := hi.count; have f_orph_virt := hi.orph_virt; have f_incall := hi.incall; clear hi; (intros; (try simp only [hubf] at *); grind [mem_removeL, nodup_removeL, removeL_nil]))
+      | (have f_conn_open := hi.conn_open; have f_conn_iff := hi.conn_iff; clear hi; (intros; (try simp only [hubf] at *); grind [mem_removeL, nodup_removeL, removeL_nil, length_removeL_le]))
+      | (have f_fresh := hi.fresh; have f_mem_room := hi.mem_room; have f_room_mem := hi.room_mem; have f_nonempty := hi.nonempty; have f_nodup := hi.nodup; have f_roomL_iff := hi.roomL_iff; have f_roomL_nodup := hi.roomL_nodup; have f_userL_iff := hi.userL_iff; have f_userL_nodup := hi.userL_nodup; have f_sessL_iff := hi.sessL_iff; have f_rs_fwd := hi.rs_fwd; have f_rs_room := hi.rs_room; have f_virt := hi.virt; have f_children := hi.children; have f_vtable := hi.vtable; have f_conn_iff := hi.conn_iff; have f_conn_open := hi.conn_open; have f_eh := hi.eh; have f_expired := hi.expired; have f_anon := hi.anon; have f_dialout := hi.dialout; have f_count := hi.count; have f_orph_virt := hi.orph_virt; have f_incall := hi.incall; have f_count_le := hi.count_le; clear hi; (intros; (try simp only [hubf] at *); grind [mem_removeL, nodup_removeL, removeL_nil, length_removeL_le]))
   case eh =>
     first
-      | (have f_eh := hi.eh; have f_conn_iff := hi.conn_iff; have f_conn_open := hi.conn_open; clear hi; (intros; (try simp only [hubf] at *); grind [mem_removeL, nodup_removeL, removeL_nil]))
-      | (have f_fresh := hi.fresh; have f_mem_room := hi.mem_room; have f_room_mem := hi.room_mem; have f_nonempty := hi.nonempty; have f_nodup := hi.nodup; have f_roomL_iff := hi.roomL_iff; have f_roomL_nodup := hi.roomL_nodup; have f_userL_iff := hi.userL_iff; have f_userL_nodup := hi.userL_nodup; have f_sessL_iff := hi.sessL_iff; have f_rs_fwd := hi.rs_fwd; have f_rs_room := hi.rs_room; have f_virt := hi.virt; have f_children := hi.children; have f_vtable := hi.vtable; have f_conn_iff := hi.conn_iff; have f_conn_open := hi.conn_open; have f_eh := hi.eh; have f_expired := hi.expired; have f_anon := hi.anon; have f_dialout := hi.dialout; have f_count := hi.count; have f_orph_virt := hi.orph_virt; have f_incall := hi.incall; clear hi; (intros; (try simp only [hubf] at *); grind [mem_removeL, nodup_removeL, removeL_nil]))
+      | (have f_eh := hi.eh; have f_conn_iff := hi.conn_iff; have f_conn_open := hi.conn_open; clear hi; (intros; (try simp only [hubf] at *); grind [mem_removeL, nodup_removeL, removeL_nil, length_removeL_le]))
+      | (have f_fresh := hi.fresh; have f_mem_room := hi.mem_room; have f_room_mem := hi.room_mem; have f_nonempty := hi.nonempty; have f_nodup := hi.nodup; have f_roomL_iff := hi.roomL_iff; have f_roomL_nodup := hi.roomL_nodup; have f_userL_iff := hi.userL_iff; have f_userL_nodup := hi.userL_nodup; have f_sessL_iff := hi.sessL_iff; have f_rs_fwd := hi.rs_fwd; have f_rs_room := hi.rs_room; have f_virt := hi.virt; have f_children := hi.children; have f_vtable := hi.vtable; have f_conn_iff := hi.conn_iff; have f_conn_open := hi.conn_open; have f_eh := hi.eh; have f_expired := hi.expired; have f_anon := hi.anon; have f_dialout := hi.dialout; have f_count := hi.count; have f_orph_virt := hi.orph_virt; have f_incall := hi.incall; have f_count_le := hi.count_le; clear hi; (intros; (try simp only [hubf] at *); grind [mem_removeL, nodup_removeL, removeL_nil, length_removeL_le]))
   case expired =>
     first
-      | (have f_expired := hi.expired; have f_fresh := hi.fresh; clear hi; (intros; (try simp only [hubf] at *); grind [mem_removeL, nodup_removeL, removeL_nil]))
-      | (have f_fresh := hi.fresh; have f_mem_room := hi.mem_room; have f_room_mem := hi.room_mem; have f_nonempty := hi.nonempty; have f_nodup := hi.nodup; have f_roomL_iff := hi.roomL_iff; have f_roomL_nodup := hi.roomL_nodup; have f_userL_iff := hi.userL_iff; have f_userL_nodup := hi.userL_nodup; have f_sessL_iff := hi.sessL_iff; have f_rs_fwd := hi.rs_fwd; have f_rs_room := hi.rs_room; have f_virt := hi.virt; have f_children := hi.children; have f_vtable := hi.vtable; have f_conn_iff := hi.conn_iff; have f_conn_open := hi.conn_open; have f_eh := hi.eh; have f_expired := hi.expired; have f_anon := hi.anon; have f_dialout := hi.dialout; have f_count := hi.count; have f_orph_virt := hi.orph_virt; have f_incall := hi.incall; clear hi; (intros; (try simp only [hubf] at *); grind [mem_removeL, nodup_removeL, removeL_nil]))
+      | (have f_expired := hi.expired; have f_fresh := hi.fresh; clear hi; (intros; (try simp only [hubf] at *); grind [mem_removeL, nodup_removeL, removeL_nil, length_removeL_le]))
+      | (have f_fresh := hi.fresh; have f_mem_room := hi.mem_room; have f_room_mem := hi.room_mem; have f_nonempty := hi.nonempty; have f_nodup := hi.nodup; have f_roomL_iff := hi.roomL_iff; have f_roomL_nodup := hi.roomL_nodup; have f_userL_iff := hi.userL_iff; have f_userL_nodup := hi.userL_nodup; have f_sessL_iff := hi.sessL_iff; have f_rs_fwd := hi.rs_fwd; have f_rs_room := hi.rs_room; have f_virt := hi.virt; have f_children := hi.children; have f_vtable := hi.vtable; have f_conn_iff := hi.conn_iff; have f_conn_open := hi.conn_open; have f_eh := hi.eh; have f_expired := hi.expired; have f_anon := hi.anon; have f_dialout := hi.dialout; have f_count := hi.count; have f_orph_virt := hi.orph_virt; have f_incall := hi.incall; have f_count_le := hi.count_le; clear hi; (intros; (try simp only [hubf] at *); grind [mem_removeL, nodup_removeL, removeL_nil, length_removeL_le]))
   case anon =>
     first
-      | (have f_anon := hi.anon; have f_fresh := hi.fresh; clear hi; (intros; (try simp only [hubf] at *); grind [mem_removeL, nodup_removeL, removeL_nil]))
-      | (have f_fresh := hi.fresh; have f_mem_room := hi.mem_room; have f_room_mem := hi.room_mem; have f_nonempty := hi.nonempty; have f_nodup := hi.nodup; have f_roomL_iff := hi.roomL_iff; have f_roomL_nodup := hi.roomL_nodup; have f_userL_iff := hi.userL_iff; have f_userL_nodup := hi.userL_nodup; have f_sessL_iff := hi.sessL_iff; have f_rs_fwd := hi.rs_fwd; have f_rs_room := hi.rs_room; have f_virt := hi.virt; have f_children := hi.children; have f_vtable := hi.vtable; have f_conn_iff := hi.conn_iff; have f_conn_open := hi.conn_open; have f_eh := hi.eh; have f_expired := hi.expired; have f_anon := hi.anon; have f_dialout := hi.dialout; have f_count := hi.count; have f_orph_virt := hi.orph_virt; have f_incall := hi.incall; clear hi; (intros; (try simp only [hubf] at *); grind [mem_removeL, nodup_removeL, removeL_nil]))
+      | (have f_anon := hi.anon; have f_fresh := hi.fresh; clear hi; (intros; (try simp only [hubf] at *); grind [mem_removeL, nodup_removeL, removeL_nil, length_removeL_le]))
+      | (have f_fresh := hi.fresh; have f_mem_room := hi.mem_room; have f_room_mem := hi.room_mem; have f_nonempty := hi.nonempty; have f_nodup := hi.nodup; have f_roomL_iff := hi.roomL_iff; have f_roomL_nodup := hi.roomL_nodup; have f_userL_iff := hi.userL_iff; have f_userL_nodup := hi.userL_nodup; have f_sessL_iff := hi.sessL_iff; have f_rs_fwd := hi.rs_fwd; have f_rs_room := hi.rs_room; have f_virt := hi.virt; have f_children := hi.children; have f_vtable := hi.vtable; have f_conn_iff := hi.conn_iff; have f_conn_open := hi.conn_open; have f_eh := hi.eh; have f_expired := hi.expired; have f_anon := hi.anon; have f_dialout := hi.dialout; have f_count := hi.count; have f_orph_virt := hi.orph_virt; have f_incall := hi.incall; have f_count_le := hi.count_le; clear hi; (intros; (try simp only [hubf] at *); grind [mem_removeL, nodup_removeL, removeL_nil, length_removeL_le]))
   case dialout =>
     first
-      | (have f_dialout := hi.dialout; have f_fresh := hi.fresh; clear hi; (intros; (try simp only [hubf] at *); grind [mem_removeL, nodup_removeL, removeL_nil]))
-      | (have f_fresh := hi.fresh; have f_mem_room := hi.mem_room; have f_room_mem := hi.room_mem; have f_nonempty := hi.nonempty; have f_nodup := hi.nodup; have f_roomL_iff := hi.roomL_iff; have f_roomL_nodup := hi.roomL_nodup; have f_userL_iff := hi.userL_iff; have f_userL_nodup := hi.userL_nodup; have f_sessL_iff := hi.sessL_iff; have f_rs_fwd := hi.rs_fwd; have f_rs_room := hi.rs_room; have f_virt := hi.virt; have f_children := hi.children; have f_vtable := hi.vtable; have f_conn_iff := hi.conn_iff; have f_conn_open := hi.conn_open; have f_eh := hi.eh; have f_expired := hi.expired; have f_anon := hi.anon; have f_dialout := hi.dialout; have f_count := hi.count; have f_orph_virt := hi.orph_virt; have f_incall := hi.incall; clear hi; (intros; (try simp only [hubf] at *); grind [mem_removeL, nodup_removeL, removeL_nil]))
+      | (have f_dialout := hi.dialout; have f_fresh := hi.fresh; clear hi; (intros; (try simp only [hubf] at *); grind [mem_removeL, nodup_removeL, removeL_nil, length_removeL_le]))
+      | (have f_fresh := hi.fresh; have f_mem_room := hi.mem_room; have f_room_mem := hi.room_mem; have f_nonempty := hi.nonempty; have f_nodup := hi.nodup; have f_roomL_iff := hi.roomL_iff; have f_roomL_nodup := hi.roomL_nodup; have f_userL_iff := hi.userL_iff; have f_userL_nodup := hi.userL_nodup; have f_sessL_iff := hi.sessL_iff; have f_rs_fwd := hi.rs_fwd; have f_rs_room := hi.rs_room; have f_virt := hi.virt; have f_children := hi.children; have f_vtable := hi.vtable; have f_conn_iff := hi.conn_iff; have f_conn_open := hi.conn_open; have f_eh := hi.eh; have f_expired := hi.expired; have f_anon := hi.anon; have f_dialout := hi.dialout; have f_count := hi.count; have f_orph_virt := hi.orph_virt; have f_incall := hi.incall; have f_count_le := hi.count_le; clear hi; (intros; (try simp only [hubf] at *); grind [mem_removeL, nodup_removeL, removeL_nil, length_removeL_le]))
   case count =>
     first
-      | (have f_count := hi.count; have f_fresh := hi.fresh; clear hi; (intros; (try simp only [hubf] at *); grind [mem_removeL, nodup_removeL, removeL_nil]))
-      | (have f_fresh := hi.fresh; have f_mem_room := hi.mem_room; have f_room_mem := hi.room_mem; have f_nonempty := hi.nonempty; have f_nodup := hi.nodup; have f_roomL_iff := hi.roomL_iff; have f_roomL_nodup := hi.roomL_nodup; have f_userL_iff := hi.userL_iff; have f_userL_nodup := hi.userL_nodup; have f_sessL_iff := hi.sessL_iff; have f_rs_fwd := hi.rs_fwd; have f_rs_room := hi.rs_room; have f_virt := hi.virt; have f_children := hi.children; have f_vtable := hi.vtable; have f_conn_iff := hi.conn_iff; have f_conn_open := hi.conn_open; have f_eh := hi.eh; have f_expired := hi.expired; have f_anon := hi.anon; have f_dialout := hi.dialout; have f_count := hi.count; have f_orph_virt := hi.orph_virt; have f_incall := hi.incall; clear hi; (intros; (try simp only [hubf] at *); grind [mem_removeL, nodup_removeL, removeL_nil]))
+      | (have f_count := hi.count; have f_fresh := hi.fresh; clear hi; (intros; (try simp only [hubf] at *); grind [mem_removeL, nodup_removeL, removeL_nil, length_removeL_le]))
+      | (have f_fresh := hi.fresh; have f_mem_room := hi.mem_room; have f_room_mem := hi.room_mem; have f_nonempty := hi.nonempty; have f_nodup := hi.nodup; have f_roomL_iff := hi.roomL_iff; have f_roomL_nodup := hi.roomL_nodup; have f_userL_iff := hi.userL_iff; have f_userL_nodup := hi.userL_nodup; have f_sessL_iff := hi.sessL_iff; have f_rs_fwd := hi.rs_fwd; have f_rs_room := hi.rs_room; have f_virt := hi.virt; have f_children := hi.children; have f_vtable := hi.vtable; have f_conn_iff := hi.conn_iff; have f_conn_open := hi.conn_open; have f_eh := hi.eh; have f_expired := hi.expired; have f_anon := hi.anon; have f_dialout := hi.dialout; have f_count := hi.count; have f_orph_virt := hi.orph_virt; have f_incall := hi.incall; have f_count_le := hi.count_le; clear hi; (intros; (try simp only [hubf] at *); grind [mem_removeL, nodup_removeL, removeL_nil, length_removeL_le]))
   case orph_virt =>
     first
-      | (have f_orph_virt := hi.orph_virt; have f_fresh := hi.fresh; have f_children := hi.children; have f_virt := hi.virt; clear hi; (intros; (try simp only [hubf] at *); grind [mem_removeL, nodup_removeL, removeL_nil]))
-      | (have f_fresh := hi.fresh; have f_mem_room := hi.mem_room; have f_room_mem := hi.room_mem; have f_nonempty := hi.nonempty; have f_nodup := hi.nodup; have f_roomL_iff := hi.roomL_iff; have f_roomL_nodup := hi.roomL_nodup; have f_userL_iff := hi.userL_iff; have f_userL_nodup := hi.userL_nodup; have f_sessL_iff := hi.sessL_iff; have f_rs_fwd := hi.rs_fwd; have f_rs_room := hi.rs_room; have f_virt := hi.virt; have f_children := hi.children; have f_vtable := hi.vtable; have f_conn_iff := hi.conn_iff; have f_conn_open := hi.conn_open; have f_eh := hi.eh; have f_expired := hi.expired; have f_anon := hi.anon; have f_dialout := hi.dialout; have f_count := hi.count; have f_orph_virt := hi.orph_virt; have f_incall := hi.incall; clear hi; (intros; (try simp only [hubf] at *); grind [mem_removeL, nodup_removeL, removeL_nil]))
+      | (have f_orph_virt := hi.orph_virt; have f_fresh := hi.fresh; have f_children := hi.children; have f_virt := hi.virt; clear hi; (intros; (try simp only [hubf] at *); grind [mem_removeL, nodup_removeL, removeL_nil, length_removeL_le]))
+      | (have f_fresh := hi.fresh; have f_mem_room := hi.mem_room; have f_room_mem := hi.room_mem; have f_nonempty := hi.nonempty; have f_nodup := hi.nodup; have f_roomL_iff := hi.roomL_iff; have f_roomL_nodup := hi.roomL_nodup; have f_userL_iff := hi.userL_iff; have f_userL_nodup := hi.userL_nodup; have f_sessL_iff := hi.sessL_iff; have f_rs_fwd := hi.rs_fwd; have f_rs_room := hi.rs_room; have f_virt := hi.virt; have f_children := hi.children; have f_vtable := hi.vtable; have f_conn_iff := hi.conn_iff; have f_conn_open := hi.conn_open; have f_eh := hi.eh; have f_expired := hi.expired; have f_anon := hi.anon; have f_dialout := hi.dialout; have f_count := hi.count; have f_orph_virt := hi.orph_virt; have f_incall := hi.incall; have f_count_le := hi.count_le; clear hi; (intros; (try simp only [hubf] at *); grind [mem_removeL, nodup_removeL, removeL_nil, length_removeL_le]))
   case incall =>
     first
-      | (have f_incall := hi.incall; have f_mem_room := hi.mem_room; clear hi; (intros; (try simp only [hubf] at *); grind [mem_removeL, nodup_removeL, removeL_nil]))
-      | (have f_fresh := hi.fresh; have f_mem_room := hi.mem_room; have f_room_mem := hi.room_mem; have f_nonempty := hi.nonempty; have f_nodup := hi.nodup; have f_roomL_iff := hi.roomL_iff; have f_roomL_nodup := hi.roomL_nodup; have f_userL_iff := hi.userL_iff; have f_userL_nodup := hi.userL_nodup; have f_sessL_iff := hi.sessL_iff; have f_rs_fwd := hi.rs_fwd; have f_rs_room := hi.rs_room; have f_virt := hi.virt; have f_children := hi.children; have f_vtable := hi.vtable; have f_conn_iff := hi.conn_iff; have f_conn_open := hi.conn_open; have f_eh := hi.eh; have f_expired := hi.expired; have f_anon := hi.anon; have f_dialout := hi.dialout; have f_count := hi.count; have f_orph_virt := hi.orph_virt; have f_incall := hi.incall; clear hi; (intros; (try simp only [hubf] at *); grind [mem_removeL, nodup_removeL, removeL_nil]))
+      | (have f_incall := hi.incall; have f_mem_room := hi.mem_room; clear hi; (intros; (try simp only [hubf] at *); grind [mem_removeL, nodup_removeL, removeL_nil, length_removeL_le]))
+      | (have f_fresh := hi.fresh; have f_mem_room := hi.mem_room; have f_room_mem := hi.room_mem; have f_nonempty := hi.nonempty; have f_nodup := hi.nodup; have f_roomL_iff := hi.roomL_iff; have f_roomL_nodup := hi.roomL_nodup; have f_userL_iff := hi.userL_iff; have f_userL_nodup := hi.userL_nodup; have f_sessL_iff := hi.sessL_iff; have f_rs_fwd := hi.rs_fwd; have f_rs_room := hi.rs_room; have f_virt := hi.virt; have f_children := hi.children; have f_vtable := hi.vtable; have f_conn_iff := hi.conn_iff; have f_conn_open := hi.conn_open; have f_eh := hi.eh; have f_expired := hi.expired; have f_anon := hi.anon; have f_dialout := hi.dialout; have f_count := hi.count; have f_orph_virt := hi.orph_virt; have f_incall := hi.incall; have f_count_le := hi.count_le; clear hi; (intros; (try simp only [hubf] at *); grind [mem_removeL, nodup_removeL, removeL_nil, length_removeL_le]))
+  case count_le =>
+    first
+      | (have f_count_le := hi.count_le; clear hi; (intros; (try simp only [hubf] at *); grind [mem_removeL, nodup_removeL, removeL_nil, length_removeL_le]))
+      | (have f_fresh := hi.fresh; have f_mem_room := hi.mem_room; have f_room_mem := hi.room_mem; have f_nonempty := hi.nonempty; have f_nodup := hi.nodup; have f_roomL_iff := hi.roomL_iff; have f_roomL_nodup := hi.roomL_nodup; have f_userL_iff := hi.userL_iff; have f_userL_nodup := hi.userL_nodup; have f_sessL_iff := hi.sessL_iff; have f_rs_fwd := hi.rs_fwd; have f_rs_room := hi.rs_room; have f_virt := hi.virt; have f_children := hi.children; have f_vtable := hi.vtable; have f_conn_iff := hi.conn_iff; have f_conn_open := hi.conn_open; have f_eh := hi.eh; have f_expired := hi.expired; have f_anon := hi.anon; have f_dialout := hi.dialout; have f_count := hi.count; have f_orph_virt := hi.orph_virt; have f_incall := hi.incall; have f_count_le := hi.count_le; clear hi; (intros; (try simp only [hubf] at *); grind [mem_removeL, nodup_removeL, removeL_nil, length_removeL_le]))
 
 theorem processDisconnect_inv (a : Acc) (c : Nat) (hi : Inv a.h) : Inv (processDisconnect a c).h := by
   unfold processDisconnect
@@ -599,100 +621,104 @@ theorem virtual_inv {h : Hub} (hi : Inv h) {s : Nat} {x : Sess} (hx : h.sess s =
   constructor
   case fresh =>
     first
-      | (have f_fresh := hi.fresh; clear hi; (intros; (try simp only [hubf, rsSet_sid2rs _ _ _ hrs, rsSet_rs2sid _ _ _ hrs] at *); grind [mem_removeL, nodup_removeL, removeL_nil]))
-      | (have f_fresh := hi.fresh; have f_mem_room := hi.mem_room; have f_room_mem := hi.room_mem; have f_nonempty := hi.nonempty; have f_nodup := hi.nodup; have f_roomL_iff := hi.roomL_iff; have f_roomL_nodup := hi.roomL_nodup; have f_userL_iff := hi.userL_iff; have f_userL_nodup := hi.userL_nodup; have f_sessL_iff := hi.sessL_iff; have f_rs_fwd := hi.rs_fwd; have f_rs_room := hi.rs_room; have f_virt := hi.virt; have f_children := hi.children; have f_vtable := hi.vtable; have f_conn_iff := hi.conn_iff; have f_conn_open := hi.conn_open; have f_eh := hi.eh; have f_expired := hi.expired; have f_anon := hi.anon; have f_dialout := hi.dialout; have f_count := hi.count; have f_orph_virt := hi.orph_virt; have f_incall := hi.incall; clear hi; (intros; (try simp only [hubf, rsSet_sid2rs _ _ _ hrs, rsSet_rs2sid _ _ _ hrs] at *); grind [mem_removeL, nodup_removeL, removeL_nil]))
+      | (have f_fresh := hi.fresh; clear hi; (intros; (try simp only [hubf, rsSet_sid2rs _ _ _ hrs, rsSet_rs2sid _ _ _ hrs] at *); grind [mem_removeL, nodup_removeL, removeL_nil, length_removeL_le]))
+      | (have f_fresh := hi.fresh; have f_mem_room := hi.mem_room; have f_room_mem := hi.room_mem; have f_nonempty := hi.nonempty; have f_nodup := hi.nodup; have f_roomL_iff := hi.roomL_iff; have f_roomL_nodup := hi.roomL_nodup; have f_userL_iff := hi.userL_iff; have f_userL_nodup := hi.userL_nodup; have f_sessL_iff := hi.sessL_iff; have f_rs_fwd := hi.rs_fwd; have f_rs_room := hi.rs_room; have f_virt := hi.virt; have f_children := hi.children; have f_vtable := hi.vtable; have f_conn_iff := hi.conn_iff; have f_conn_open := hi.conn_open; have f_eh := hi.eh; have f_expired := hi.expired; have f_anon := hi.anon; have f_dialout := hi.dialout; have f_count := hi.count; have f_orph_virt := hi.orph_virt; have f_incall := hi.incall; have f_count_le := hi.count_le; clear hi; (intros; (try simp only [hubf, rsSet_sid2rs _ _ _ hrs, rsSet_rs2sid _ _ _ hrs] at *); grind [mem_removeL, nodup_removeL, removeL_nil, length_removeL_le]))
   case mem_room =>
     first
-      | (have f_mem_room := hi.mem_room; have f_fresh := hi.fresh; clear hi; (intros; (try simp only [hubf, rsSet_sid2rs _ _ _ hrs, rsSet_rs2sid _ _ _ hrs] at *); grind [mem_removeL, nodup_removeL, removeL_nil]))
-      | (have f_fresh := hi.fresh; have f_mem_room := hi.mem_room; have f_room_mem := hi.room_mem; have f_nonempty := hi.nonempty; have f_nodup := hi.nodup; have f_roomL_iff := hi.roomL_iff; have f_roomL_nodup := hi.roomL_nodup; have f_userL_iff := hi.userL_iff; have f_userL_nodup := hi.userL_nodup; have f_sessL_iff := hi.sessL_iff; have f_rs_fwd := hi.rs_fwd; have f_rs_room := hi.rs_room; have f_virt := hi.virt; have f_children := hi.children; have f_vtable := hi.vtable; have f_conn_iff := hi.conn_iff; have f_conn_open := hi.conn_open; have f_eh := hi.eh; have f_expired := hi.expired; have f_anon := hi.anon; have f_dialout := hi.dialout; have f_count := hi.count; have f_orph_virt := hi.orph_virt; have f_incall := hi.incall; clear hi; (intros; (try simp only [hubf, rsSet_sid2rs _ _ _ hrs, rsSet_rs2sid _ _ _ hrs] at *); grind [mem_removeL, nodup_removeL, removeL_nil]))
+      | (have f_mem_room := hi.mem_room; have f_fresh := hi.fresh; clear hi; (intros; (try simp only [hubf, rsSet_sid2rs _ _ _ hrs, rsSet_rs2sid _ _ _ hrs] at *); grind [mem_removeL, nodup_removeL, removeL_nil, length_removeL_le]))
+      | (have f_fresh := hi.fresh; have f_mem_room := hi.mem_room; have f_room_mem := hi.room_mem; have f_nonempty := hi.nonempty; have f_nodup := hi.nodup; have f_roomL_iff := hi.roomL_iff; have f_roomL_nodup := hi.roomL_nodup; have f_userL_iff := hi.userL_iff; have f_userL_nodup := hi.userL_nodup; have f_sessL_iff := hi.sessL_iff; have f_rs_fwd := hi.rs_fwd; have f_rs_room := hi.rs_room; have f_virt := hi.virt; have f_children := hi.children; have f_vtable := hi.vtable; have f_conn_iff := hi.conn_iff; have f_conn_open := hi.conn_open; have f_eh := hi.eh; have f_expired := hi.expired; have f_anon := hi.anon; have f_dialout := hi.dialout; have f_count := hi.count; have f_orph_virt := hi.orph_virt; have f_incall := hi.incall; have f_count_le := hi.count_le; clear hi; (intros; (try simp only [hubf, rsSet_sid2rs _ _ _ hrs, rsSet_rs2sid _ _ _ hrs] at *); grind [mem_removeL, nodup_removeL, removeL_nil, length_removeL_le]))
   case room_mem =>
     first
-      | (have f_room_mem := hi.room_mem; have f_mem_room := hi.mem_room; have f_fresh := hi.fresh; clear hi; (intros; (try simp only [hubf, rsSet_sid2rs _ _ _ hrs, rsSet_rs2sid _ _ _ hrs] at *); grind [mem_removeL, nodup_removeL, removeL_nil]))
-      | (have f_fresh := hi.fresh; have f_mem_room := hi.mem_room; have f_room_mem := hi.room_mem; have f_nonempty := hi.nonempty; have f_nodup := hi.nodup; have f_roomL_iff := hi.roomL_iff; have f_roomL_nodup := hi.roomL_nodup; have f_userL_iff := hi.userL_iff; have f_userL_nodup := hi.userL_nodup; have f_sessL_iff := hi.sessL_iff; have f_rs_fwd := hi.rs_fwd; have f_rs_room := hi.rs_room; have f_virt := hi.virt; have f_children := hi.children; have f_vtable := hi.vtable; have f_conn_iff := hi.conn_iff; have f_conn_open := hi.conn_open; have f_eh := hi.eh; have f_expired := hi.expired; have f_anon := hi.anon; have f_dialout := hi.dialout; have f_count := hi.count; have f_orph_virt := hi.orph_virt; have f_incall := hi.incall; clear hi; (intros; (try simp only [hubf, rsSet_sid2rs _ _ _ hrs, rsSet_rs2sid _ _ _ hrs] at *); grind [mem_removeL, nodup_removeL, removeL_nil]))
+      | (have f_room_mem := hi.room_mem; have f_mem_room := hi.mem_room; have f_fresh := hi.fresh; clear hi; (intros; (try simp only [hubf, rsSet_sid2rs _ _ _ hrs, rsSet_rs2sid _ _ _ hrs] at *); grind [mem_removeL, nodup_removeL, removeL_nil, length_removeL_le]))
+      | (have f_fresh := hi.fresh; have f_mem_room := hi.mem_room; have f_room_mem := hi.room_mem; have f_nonempty := hi.nonempty; have f_nodup := hi.nodup; have f_roomL_iff := hi.roomL_iff; have f_roomL_nodup := hi.roomL_nodup; have f_userL_iff := hi.userL_iff; have f_userL_nodup := hi.userL_nodup; have f_sessL_iff := hi.sessL_iff; have f_rs_fwd := hi.rs_fwd; have f_rs_room := hi.rs_room; have f_virt := hi.virt; have f_children := hi.children; have f_vtable := hi.vtable; have f_conn_iff := hi.conn_iff; have f_conn_open := hi.conn_open; have f_eh := hi.eh; have f_expired := hi.expired; have f_anon := hi.anon; have f_dialout := hi.dialout; have f_count := hi.count; have f_orph_virt := hi.orph_virt; have f_incall := hi.incall; have f_count_le := hi.count_le; clear hi; (intros; (try simp only [hubf, rsSet_sid2rs _ _ _ hrs, rsSet_rs2sid _ _ _ hrs] at *); grind [mem_removeL, nodup_removeL, removeL_nil, length_removeL_le]))
   case nonempty =>
     first
-      | (have f_nonempty := hi.nonempty; have f_mem_room := hi.mem_room; clear hi; (intros; (try simp only [hubf, rsSet_sid2rs _ _ _ hrs, rsSet_rs2sid _ _ _ hrs] at *); grind [mem_removeL, nodup_removeL, removeL_nil]))
-      | (have f_fresh := hi.fresh; have f_mem_room := hi.mem_room; have f_room_mem := hi.room_mem; have f_nonempty := hi.nonempty; have f_nodup := hi.nodup; have f_roomL_iff := hi.roomL_iff; have f_roomL_nodup := hi.roomL_nodup; have f_userL_iff := hi.userL_iff; have f_userL_nodup := hi.userL_nodup; have f_sessL_iff := hi.sessL_iff; have f_rs_fwd := hi.rs_fwd; have f_rs_room := hi.rs_room; have f_virt := hi.virt; have f_children := hi.children; have f_vtable := hi.vtable; have f_conn_iff := hi.conn_iff; have f_conn_open := hi.conn_open; have f_eh := hi.eh; have f_expired := hi.expired; have f_anon := hi.anon; have f_dialout := hi.dialout; have f_count := hi.count; have f_orph_virt := hi.orph_virt; have f_incall := hi.incall; clear hi; (intros; (try simp only [hubf, rsSet_sid2rs _ _ _ hrs, rsSet_rs2sid _ _ _ hrs] at *); grind [mem_removeL, nodup_removeL, removeL_nil]))
+      | (have f_nonempty := hi.nonempty; have f_mem_room := hi.mem_room; clear hi; (intros; (try simp only [hubf, rsSet_sid2rs _ _ _ hrs, rsSet_rs2sid _ _ _ hrs] at *); grind [mem_removeL, nodup_removeL, removeL_nil, length_removeL_le]))
+      | (have f_fresh := hi.fresh; have f_mem_room := hi.mem_room; have f_room_mem := hi.room_mem; have f_nonempty := hi.nonempty; have f_nodup := hi.nodup; have f_roomL_iff := hi.roomL_iff; have f_roomL_nodup := hi.roomL_nodup; have f_userL_iff := hi.userL_iff; have f_userL_nodup := hi.userL_nodup; have f_sessL_iff := hi.sessL_iff; have f_rs_fwd := hi.rs_fwd; have f_rs_room := hi.rs_room; have f_virt := hi.virt; have f_children := hi.children; have f_vtable := hi.vtable; have f_conn_iff := hi.conn_iff; have f_conn_open := hi.conn_open; have f_eh := hi.eh; have f_expired := hi.expired; have f_anon := hi.anon; have f_dialout := hi.dialout; have f_count := hi.count; have f_orph_virt := hi.orph_virt; have f_incall := hi.incall; have f_count_le := hi.count_le; clear hi; (intros; (try simp only [hubf, rsSet_sid2rs _ _ _ hrs, rsSet_rs2sid _ _ _ hrs] at *); grind [mem_removeL, nodup_removeL, removeL_nil, length_removeL_le]))
   case nodup =>
     first
-      | (have f_nodup := hi.nodup; clear hi; (intros; (try simp only [hubf, rsSet_sid2rs _ _ _ hrs, rsSet_rs2sid _ _ _ hrs] at *); grind [mem_removeL, nodup_removeL, removeL_nil]))
-      | (have f_fresh := hi.fresh; have f_mem_room := hi.mem_room; have f_room_mem := hi.room_mem; have f_nonempty := hi.nonempty; have f_nodup := hi.nodup; have f_roomL_iff := hi.roomL_iff; have f_roomL_nodup := hi.roomL_nodup; have f_userL_iff := hi.userL_iff; have f_userL_nodup := hi.userL_nodup; have f_sessL_iff := hi.sessL_iff; have f_rs_fwd := hi.rs_fwd; have f_rs_room := hi.rs_room; have f_virt := hi.virt; have f_children := hi.children; have f_vtable := hi.vtable; have f_conn_iff := hi.conn_iff; have f_conn_open := hi.conn_open; have f_eh := hi.eh; have f_expired := hi.expired; have f_anon := hi.anon; have f_dialout := hi.dialout; have f_count := hi.count; have f_orph_virt := hi.orph_virt; have f_incall := hi.incall; clear hi; (intros; (try simp only [hubf, rsSet_sid2rs _ _ _ hrs, rsSet_rs2sid _ _ _ hrs] at *); grind [mem_removeL, nodup_removeL, removeL_nil]))
+      | (have f_nodup := hi.nodup; clear hi; (intros; (try simp only [hubf, rsSet_sid2rs _ _ _ hrs, rsSet_rs2sid _ _ _ hrs] at *); grind [mem_removeL, nodup_removeL, removeL_nil, length_removeL_le]))
+      | (have f_fresh := hi.fresh; have f_mem_room := hi.mem_room; have f_room_mem := hi.room_mem; have f_nonempty := hi.nonempty; have f_nodup := hi.nodup; have f_roomL_iff := hi.roomL_iff; have f_roomL_nodup := hi.roomL_nodup; have f_userL_iff := hi.userL_iff; have f_userL_nodup := hi.userL_nodup; have f_sessL_iff := hi.sessL_iff; have f_rs_fwd := hi.rs_fwd; have f_rs_room := hi.rs_room; have f_virt := hi.virt; have f_children := hi.children; have f_vtable := hi.vtable; have f_conn_iff := hi.conn_iff; have f_conn_open := hi.conn_open; have f_eh := hi.eh; have f_expired := hi.expired; have f_anon := hi.anon; have f_dialout := hi.dialout; have f_count := hi.count; have f_orph_virt := hi.orph_virt; have f_incall := hi.incall; have f_count_le := hi.count_le; clear hi; (intros; (try simp only [hubf, rsSet_sid2rs _ _ _ hrs, rsSet_rs2sid _ _ _ hrs] at *); grind [mem_removeL, nodup_removeL, removeL_nil, length_removeL_le]))
   case roomL_iff =>
     first
-      | (have f_roomL_iff := hi.roomL_iff; have f_fresh := hi.fresh; have f_room_mem := hi.room_mem; have f_mem_room := hi.mem_room; clear hi; (intros; (try simp only [hubf, rsSet_sid2rs _ _ _ hrs, rsSet_rs2sid _ _ _ hrs] at *); grind [mem_removeL, nodup_removeL, removeL_nil]))
-      | (have f_fresh := hi.fresh; have f_mem_room := hi.mem_room; have f_room_mem := hi.room_mem; have f_nonempty := hi.nonempty; have f_nodup := hi.nodup; have f_roomL_iff := hi.roomL_iff; have f_roomL_nodup := hi.roomL_nodup; have f_userL_iff := hi.userL_iff; have f_userL_nodup := hi.userL_nodup; have f_sessL_iff := hi.sessL_iff; have f_rs_fwd := hi.rs_fwd; have f_rs_room := hi.rs_room; have f_virt := hi.virt; have f_children := hi.children; have f_vtable := hi.vtable; have f_conn_iff := hi.conn_iff; have f_conn_open := hi.conn_open; have f_eh := hi.eh; have f_expired := hi.expired; have f_anon := hi.anon; have f_dialout := hi.dialout; have f_count := hi.count; have f_orph_virt := hi.orph_virt; have f_incall := hi.incall; clear hi; (intros; (try simp only [hubf, rsSet_sid2rs _ _ _ hrs, rsSet_rs2sid _ _ _ hrs] at *); grind [mem_removeL, nodup_removeL, removeL_nil]))
+      | (have f_roomL_iff := hi.roomL_iff; have f_fresh := hi.fresh; have f_room_mem := hi.room_mem; have f_mem_room := hi.mem_room; clear hi; (intros; (try simp only [hubf, rsSet_sid2rs _ _ _ hrs, rsSet_rs2sid _ _ _ hrs] at *); grind [mem_removeL, nodup_removeL, removeL_nil, length_removeL_le]))
+      | (have f_fresh := hi.fresh; have f_mem_room := hi.mem_room; have f_room_mem := hi.room_mem; have f_nonempty := hi.nonempty; have f_nodup := hi.nodup; have f_roomL_iff := hi.roomL_iff; have f_roomL_nodup := hi.roomL_nodup; have f_userL_iff := hi.userL_iff; have f_userL_nodup := hi.userL_nodup; have f_sessL_iff := hi.sessL_iff; have f_rs_fwd := hi.rs_fwd; have f_rs_room := hi.rs_room; have f_virt := hi.virt; have f_children := hi.children; have f_vtable := hi.vtable; have f_conn_iff := hi.conn_iff; have f_conn_open := hi.conn_open; have f_eh := hi.eh; have f_expired := hi.expired; have f_anon := hi.anon; have f_dialout := hi.dialout; have f_count := hi.count; have f_orph_virt := hi.orph_virt; have f_incall := hi.incall; have f_count_le := hi.count_le; clear hi; (intros; (try simp only [hubf, rsSet_sid2rs _ _ _ hrs, rsSet_rs2sid _ _ _ hrs] at *); grind [mem_removeL, nodup_removeL, removeL_nil, length_removeL_le]))
   case roomL_nodup =>
     first
-      | (have f_roomL_nodup := hi.roomL_nodup; have f_roomL_iff := hi.roomL_iff; clear hi; (intros; (try simp only [hubf, rsSet_sid2rs _ _ _ hrs, rsSet_rs2sid _ _ _ hrs] at *); grind [mem_removeL, nodup_removeL, removeL_nil]))
-      | (have f_fresh := hi.fresh; have f_mem_room := hi.mem_room; have f_room_mem := hi.room_mem; have f_nonempty := hi.nonempty; have f_nodup := hi.nodup; have f_roomL_iff := hi.roomL_iff; have f_roomL_nodup := hi.roomL_nodup; have f_userL_iff := hi.userL_iff; have f_userL_nodup := hi.userL_nodup; have f_sessL_iff := hi.sessL_iff; have f_rs_fwd := hi.rs_fwd; have f_rs_room := hi.rs_room; have f_virt := hi.virt; have f_children := hi.children; have f_vtable := hi.vtable; have f_conn_iff := hi.conn_iff; have f_conn_open := hi.conn_open; have f_eh := hi.eh; have f_expired := hi.expired; have f_anon := hi.anon; have f_dialout := hi.dialout; have f_count := hi.count; have f_orph_virt := hi.orph_virt; have f_incall := hi.incall; clear hi; (intros; (try simp only [hubf, rsSet_sid2rs _ _ _ hrs, rsSet_rs2sid _ _ _ hrs] at *); grind [mem_removeL, nodup_removeL, removeL_nil]))
+      | (have f_roomL_nodup := hi.roomL_nodup; have f_roomL_iff := hi.roomL_iff; clear hi; (intros; (try simp only [hubf, rsSet_sid2rs _ _ _ hrs, rsSet_rs2sid _ _ _ hrs] at *); grind [mem_removeL, nodup_removeL, removeL_nil, length_removeL_le]))
+      | (have f_fresh := hi.fresh; have f_mem_room := hi.mem_room; have f_room_mem := hi.room_mem; have f_nonempty := hi.nonempty; have f_nodup := hi.nodup; have f_roomL_iff := hi.roomL_iff; have f_roomL_nodup := hi.roomL_nodup; have f_userL_iff := hi.userL_iff; have f_userL_nodup := hi.userL_nodup; have f_sessL_iff := hi.sessL_iff; have f_rs_fwd := hi.rs_fwd; have f_rs_room := hi.rs_room; have f_virt := hi.virt; have f_children := hi.children; have f_vtable := hi.vtable; have f_conn_iff := hi.conn_iff; have f_conn_open := hi.conn_open; have f_eh := hi.eh; have f_expired := hi.expired; have f_anon := hi.anon; have f_dialout := hi.dialout; have f_count := hi.count; have f_orph_virt := hi.orph_virt; have f_incall := hi.incall; have f_count_le := hi.count_le; clear hi; (intros; (try simp only [hubf, rsSet_sid2rs _ _ _ hrs, rsSet_rs2sid _ _ _ hrs] at *); grind [mem_removeL, nodup_removeL, removeL_nil, length_removeL_le]))
   case userL_iff =>
     first
-      | (have f_userL_iff := hi.userL_iff; have f_fresh := hi.fresh; clear hi; (intros; (try simp only [hubf, rsSet_sid2rs _ _ _ hrs, rsSet_rs2sid _ _ _ hrs] at *); grind [mem_removeL, nodup_removeL, removeL_nil]))
-      | (have f_fresh := hi.fresh; have f_mem_room := hi.mem_room; have f_room_mem := hi.room_mem; have f_nonempty := hi.nonempty; have f_nodup := hi.nodup; have f_roomL_iff := hi.roomL_iff; have f_roomL_nodup := hi.roomL_nodup; have f_userL_iff := hi.userL_iff; have f_userL_nodup := hi.userL_nodup; have f_sessL_iff := hi.sessL_iff; have f_rs_fwd := hi.rs_fwd; have f_rs_room := hi.rs_room; have f_virt := hi.virt; have f_children := hi.children; have f_vtable := hi.vtable; have f_conn_iff := hi.conn_iff; have f_conn_open := hi.conn_open; have f_eh := hi.eh; have f_expired := hi.expired; have f_anon := hi.anon; have f_dialout := hi.dialout; have f_count := hi.count; have f_orph_virt := hi.orph_virt; have f_incall := hi.incall; clear hi; (intros; (try simp only [hubf, rsSet_sid2rs _ _ _ hrs, rsSet_rs2sid _ _ _ hrs] at *); grind [mem_removeL, nodup_removeL, removeL_nil]))
+      | (have f_userL_iff := hi.userL_iff; have f_fresh := hi.fresh; clear hi; (intros; (try simp only [hubf, rsSet_sid2rs _ _ _ hrs, rsSet_rs2sid _ _ _ hrs] at *); grind [mem_removeL, nodup_removeL, removeL_nil, length_removeL_le]))
+      | (have f_fresh := hi.fresh; have f_mem_room := hi.mem_room; have f_room_mem := hi.room_mem; have f_nonempty := hi.nonempty; have f_nodup := hi.nodup; have f_roomL_iff := hi.roomL_iff; have f_roomL_nodup := hi.roomL_nodup; have f_userL_iff := hi.userL_iff; have f_userL_nodup := hi.userL_nodup; have f_sessL_iff := hi.sessL_iff; have f_rs_fwd := hi.rs_fwd; have f_rs_room := hi.rs_room; have f_virt := hi.virt; have f_children := hi.children; have f_vtable := hi.vtable; have f_conn_iff := hi.conn_iff; have f_conn_open := hi.conn_open; have f_eh := hi.eh; have f_expired := hi.expired; have f_anon := hi.anon; have f_dialout := hi.dialout; have f_count := hi.count; have f_orph_virt := hi.orph_virt; have f_incall := hi.incall; have f_count_le := hi.count_le; clear hi; (intros; (try simp only [hubf, rsSet_sid2rs _ _ _ hrs, rsSet_rs2sid _ _ _ hrs] at *); grind [mem_removeL, nodup_removeL, removeL_nil, length_removeL_le]))
   case userL_nodup =>
     first
-      | (have f_userL_nodup := hi.userL_nodup; have f_userL_iff := hi.userL_iff; clear hi; (intros; (try simp only [hubf, rsSet_sid2rs _ _ _ hrs, rsSet_rs2sid _ _ _ hrs] at *); grind [mem_removeL, nodup_removeL, removeL_nil]))
-      | (have f_fresh := hi.fresh; have f_mem_room := hi.mem_room; have f_room_mem := hi.room_mem; have f_nonempty := hi.nonempty; have f_nodup := hi.nodup; have f_roomL_iff := hi.roomL_iff; have f_roomL_nodup := hi.roomL_nodup; have f_userL_iff := hi.userL_iff; have f_userL_nodup := hi.userL_nodup; have f_sessL_iff := hi.sessL_iff; have f_rs_fwd := hi.rs_fwd; have f_rs_room := hi.rs_room; have f_virt := hi.virt; have f_children := hi.children; have f_vtable := hi.vtable; have f_conn_iff := hi.conn_iff; have f_conn_open := hi.conn_open; have f_eh := hi.eh; have f_expired := hi.expired; have f_anon := hi.anon; have f_dialout := hi.dialout; have f_count := hi.count; have f_orph_virt := hi.orph_virt; have f_incall := hi.incall; clear hi; (intros; (try simp only [hubf, rsSet_sid2rs _ _ _ hrs, rsSet_rs2sid _ _ _ hrs] at *); grind [mem_removeL, nodup_removeL, removeL_nil]))
+      | (have f_userL_nodup := hi.userL_nodup; have f_userL_iff := hi.userL_iff; clear hi; (intros; (try simp only [hubf, rsSet_sid2rs _ _ _ hrs, rsSet_rs2sid _ _ _ hrs] at *); grind [mem_removeL, nodup_removeL, removeL_nil, length_removeL_le]))
+      | (have f_fresh := hi.fresh; have f_mem_room := hi.mem_room; have f_room_mem := hi.room_mem; have f_nonempty := hi.nonempty; have f_nodup := hi.nodup; have f_roomL_iff := hi.roomL_iff; have f_roomL_nodup := hi.roomL_nodup; have f_userL_iff := hi.userL_iff; have f_userL_nodup := hi.userL_nodup; have f_sessL_iff := hi.sessL_iff; have f_rs_fwd := hi.rs_fwd; have f_rs_room := hi.rs_room; have f_virt := hi.virt; have f_children := hi.children; have f_vtable := hi.vtable; have f_conn_iff := hi.conn_iff; have f_conn_open := hi.conn_open; have f_eh := hi.eh; have f_expired := hi.expired; have f_anon := hi.anon; have f_dialout := hi.dialout; have f_count := hi.count; have f_orph_virt := hi.orph_virt; have f_incall := hi.incall; have f_count_le := hi.count_le; clear hi; (intros; (try simp only [hubf, rsSet_sid2rs _ _ _ hrs, rsSet_rs2sid _ _ _ hrs] at *); grind [mem_removeL, nodup_removeL, removeL_nil, length_removeL_le]))
   case sessL_iff =>
     first
-      | (have f_sessL_iff := hi.sessL_iff; have f_fresh := hi.fresh; clear hi; (intros; (try simp only [hubf, rsSet_sid2rs _ _ _ hrs, rsSet_rs2sid _ _ _ hrs] at *); grind [mem_removeL, nodup_removeL, removeL_nil]))
-      | (have f_fresh := hi.fresh; have f_mem_room := hi.mem_room; have f_room_mem := hi.room_mem; have f_nonempty := hi.nonempty; have f_nodup := hi.nodup; have f_roomL_iff := hi.roomL_iff; have f_roomL_nodup := hi.roomL_nodup; have f_userL_iff := hi.userL_iff; have f_userL_nodup := hi.userL_nodup; have f_sessL_iff := hi.sessL_iff; have f_rs_fwd := hi.rs_fwd; have f_rs_room := hi.rs_room; have f_virt := hi.virt; have f_children := hi.children; have f_vtable := hi.vtable; have f_conn_iff := hi.conn_iff; have f_conn_open := hi.conn_open; have f_eh := hi.eh; have f_expired := hi.expired; have f_anon := hi.anon; have f_dialout := hi.dialout; have f_count := hi.count; have f_orph_virt := hi.orph_virt; have f_incall := hi.incall; clear hi; (intros; (try simp only [hubf, rsSet_sid2rs _ _ _ hrs, rsSet_rs2sid _ _ _ hrs] at *); grind [mem_removeL, nodup_removeL, removeL_nil]))
+      | (have f_sessL_iff := hi.sessL_iff; have f_fresh := hi.fresh; clear hi; (intros; (try simp only [hubf, rsSet_sid2rs _ _ _ hrs, rsSet_rs2sid _ _ _ hrs] at *); grind [mem_removeL, nodup_removeL, removeL_nil, length_removeL_le]))
+      | (have f_fresh := hi.fresh; have f_mem_room := hi.mem_room; have f_room_mem := hi.room_mem; have f_nonempty := hi.nonempty; have f_nodup := hi.nodup; have f_roomL_iff := hi.roomL_iff; have f_roomL_nodup := hi.roomL_nodup; have f_userL_iff := hi.userL_iff; have f_userL_nodup := hi.userL_nodup; have f_sessL_iff := hi.sessL_iff; have f_rs_fwd := hi.rs_fwd; have f_rs_room := hi.rs_room; have f_virt := hi.virt; have f_children := hi.children; have f_vtable := hi.vtable; have f_conn_iff := hi.conn_iff; have f_conn_open := hi.conn_open; have f_eh := hi.eh; have f_expired := hi.expired; have f_anon := hi.anon; have f_dialout := hi.dialout; have f_count := hi.count; have f_orph_virt := hi.orph_virt; have f_incall := hi.incall; have f_count_le := hi.count_le; clear hi; (intros; (try simp only [hubf, rsSet_sid2rs _ _ _ hrs, rsSet_rs2sid _ _ _ hrs] at *); grind [mem_removeL, nodup_removeL, removeL_nil, length_removeL_le]))
   case rs_fwd =>
     first
-      | (have f_rs_fwd := hi.rs_fwd; have f_rs_room := hi.rs_room; have f_fresh := hi.fresh; clear hi; (intros; (try simp only [hubf, rsSet_sid2rs _ _ _ hrs, rsSet_rs2sid _ _ _ hrs] at *); grind [mem_removeL, nodup_removeL, removeL_nil]))
-      | (have f_fresh := hi.fresh; have f_mem_room := hi.mem_room; have f_room_mem := hi.room_mem; have f_nonempty := hi.nonempty; have f_nodup := hi.nodup; have f_roomL_iff := hi.roomL_iff; have f_roomL_nodup := hi.roomL_nodup; have f_userL_iff := hi.userL_iff; have f_userL_nodup := hi.userL_nodup; have f_sessL_iff := hi.sessL_iff; have f_rs_fwd := hi.rs_fwd; have f_rs_room := hi.rs_room; have f_virt := hi.virt; have f_children := hi.children; have f_vtable := hi.vtable; have f_conn_iff := hi.conn_iff; have f_conn_open := hi.conn_open; have f_eh := hi.eh; have f_expired := hi.expired; have f_anon := hi.anon; have f_dialout := hi.dialout; have f_count := hi.count; have f_orph_virt := hi.orph_virt; have f_incall := hi.incall; clear hi; (intros; (try simp only [hubf, rsSet_sid2rs _ _ _ hrs, rsSet_rs2sid _ _ _ hrs] at *); grind [mem_removeL, nodup_removeL, removeL_nil]))
+      | (have f_rs_fwd := hi.rs_fwd; have f_rs_room := hi.rs_room; have f_fresh := hi.fresh; clear hi; (intros; (try simp only [hubf, rsSet_sid2rs _ _ _ hrs, rsSet_rs2sid _ _ _ hrs] at *); grind [mem_removeL, nodup_removeL, removeL_nil, length_removeL_le]))
+      | (have f_fresh := hi.fresh; have f_mem_room := hi.mem_room; have f_room_mem := hi.room_mem; have f_nonempty := hi.nonempty; have f_nodup := hi.nodup; have f_roomL_iff := hi.roomL_iff; have f_roomL_nodup := hi.roomL_nodup; have f_userL_iff := hi.userL_iff; have f_userL_nodup := hi.userL_nodup; have f_sessL_iff := hi.sessL_iff; have f_rs_fwd := hi.rs_fwd; have f_rs_room := hi.rs_room; have f_virt := hi.virt; have f_children := hi.children; have f_vtable := hi.vtable; have f_conn_iff := hi.conn_iff; have f_conn_open := hi.conn_open; have f_eh := hi.eh; have f_expired := hi.expired; have f_anon := hi.anon; have f_dialout := hi.dialout; have f_count := hi.count; have f_orph_virt := hi.orph_virt; have f_incall := hi.incall; have f_count_le := hi.count_le; clear hi; (intros; (try simp only [hubf, rsSet_sid2rs _ _ _ hrs, rsSet_rs2sid _ _ _ hrs] at *); grind [mem_removeL, nodup_removeL, removeL_nil, length_removeL_le]))
   case rs_room =>
     first
-      | (have f_rs_room := hi.rs_room; have f_rs_fwd := hi.rs_fwd; have f_fresh := hi.fresh; have f_room_mem := hi.room_mem; clear hi; (intros; (try simp only [hubf, rsSet_sid2rs _ _ _ hrs, rsSet_rs2sid _ _ _ hrs] at *); grind [mem_removeL, nodup_removeL, removeL_nil]))
-      | (have f_fresh := hi.fresh; have f_mem_room := hi.mem_room; have f_room_mem := hi.room_mem; have f_nonempty := hi.nonempty; have f_nodup := hi.nodup; have f_roomL_iff := hi.roomL_iff; have f_roomL_nodup := hi.roomL_nodup; have f_userL_iff := hi.userL_iff; have f_userL_nodup := hi.userL_nodup; have f_sessL_iff := hi.sessL_iff; have f_rs_fwd := hi.rs_fwd; have f_rs_room := hi.rs_room; have f_virt := hi.virt; have f_children := hi.children; have f_vtable := hi.vtable; have f_conn_iff := hi.conn_iff; have f_conn_open := hi.conn_open; have f_eh := hi.eh; have f_expired := hi.expired; have f_anon := hi.anon; have f_dialout := hi.dialout; have f_count := hi.count; have f_orph_virt := hi.orph_virt; have f_incall := hi.incall; clear hi; (intros; (try simp only [hubf, rsSet_sid2rs _ _ _ hrs, rsSet_rs2sid _ _ _ hrs] at *); grind [mem_removeL, nodup_removeL, removeL_nil]))
+      | (have f_rs_room := hi.rs_room; have f_rs_fwd := hi.rs_fwd; have f_fresh := hi.fresh; have f_room_mem := hi.room_mem; clear hi; (intros; (try simp only [hubf, rsSet_sid2rs _ _ _ hrs, rsSet_rs2sid _ _ _ hrs] at *); grind [mem_removeL, nodup_removeL, removeL_nil, length_removeL_le]))
+      | (have f_fresh := hi.fresh; have f_mem_room := hi.mem_room; have f_room_mem := hi.room_mem; have f_nonempty := hi.nonempty; have f_nodup := hi.nodup; have f_roomL_iff := hi.roomL_iff; have f_roomL_nodup := hi.roomL_nodup; have f_userL_iff := hi.userL_iff; have f_userL_nodup := hi.userL_nodup; have f_sessL_iff := hi.sessL_iff; have f_rs_fwd := hi.rs_fwd; have f_rs_room := hi.rs_room; have f_virt := hi.virt; have f_children := hi.children; have f_vtable := hi.vtable; have f_conn_iff := hi.conn_iff; have f_conn_open := hi.conn_open; have f_eh := hi.eh; have f_expired := hi.expired; have f_anon := hi.anon; have f_dialout := hi.dialout; have f_count := hi.count; have f_orph_virt := hi.orph_virt; have f_incall := hi.incall; have f_count_le := hi.count_le; clear hi; (intros; (try simp only [hubf, rsSet_sid2rs _ _ _ hrs, rsSet_rs2sid _ _ _ hrs] at *); grind [mem_removeL, nodup_removeL, removeL_nil, length_removeL_le]))
   case virt =>
     first
-      | (have f_virt := hi.virt; have f_children := hi.children; have f_fresh := hi.fresh; clear hi; (intros; (try simp only [hubf, rsSet_sid2rs _ _ _ hrs, rsSet_rs2sid _ _ _ hrs] at *); grind [mem_removeL, nodup_removeL, removeL_nil]))
-      | (have f_fresh := hi.fresh; have f_mem_room := hi.mem_room; have f_room_mem := hi.room_mem; have f_nonempty := hi.nonempty; have f_nodup := hi.nodup; have f_roomL_iff := hi.roomL_iff; have f_roomL_nodup := hi.roomL_nodup; have f_userL_iff := hi.userL_iff; have f_userL_nodup := hi.userL_nodup; have f_sessL_iff := hi.sessL_iff; have f_rs_fwd := hi.rs_fwd; have f_rs_room := hi.rs_room; have f_virt := hi.virt; have f_children := hi.children; have f_vtable := hi.vtable; have f_conn_iff := hi.conn_iff; have f_conn_open := hi.conn_open; have f_eh := hi.eh; have f_expired := hi.expired; have f_anon := hi.anon; have f_dialout := hi.dialout; have f_count := hi.count; have f_orph_virt := hi.orph_virt; have f_incall := hi.incall; clear hi; (intros; (try simp only [hubf, rsSet_sid2rs _ _ _ hrs, rsSet_rs2sid _ _ _ hrs] at *); grind [mem_removeL, nodup_removeL, removeL_nil]))
+      | (have f_virt := hi.virt; have f_children := hi.children; have f_fresh := hi.fresh; clear hi; (intros; (try simp only [hubf, rsSet_sid2rs _ _ _ hrs, rsSet_rs2sid _ _ _ hrs] at *); grind [mem_removeL, nodup_removeL, removeL_nil, length_removeL_le]))
+      | (have f_fresh := hi.fresh; have f_mem_room := hi.mem_room; have f_room_mem := hi.room_mem; have f_nonempty := hi.nonempty; have f_nodup := hi.nodup; have f_roomL_iff := hi.roomL_iff; have f_roomL_nodup := hi.roomL_nodup; have f_userL_iff := hi.userL_iff; have f_userL_nodup := hi.userL_nodup; have f_sessL_iff := hi.sessL_iff; have f_rs_fwd := hi.rs_fwd; have f_rs_room := hi.rs_room; have f_virt := hi.virt; have f_children := hi.children; have f_vtable := hi.vtable; have f_conn_iff := hi.conn_iff; have f_conn_open := hi.conn_open; have f_eh := hi.eh; have f_expired := hi.expired; have f_anon := hi.anon; have f_dialout := hi.dialout; have f_count := hi.count; have f_orph_virt := hi.orph_virt; have f_incall := hi.incall; have f_count_le := hi.count_le; clear hi; (intros; (try simp only [hubf, rsSet_sid2rs _ _ _ hrs, rsSet_rs2sid _ _ _ hrs] at *); grind [mem_removeL, nodup_removeL, removeL_nil, length_removeL_le]))
   case children =>
     first
-      | (have f_children := hi.children; have f_virt := hi.virt; have f_fresh := hi.fresh; clear hi; (intros; (try simp only [hubf, rsSet_sid2rs _ _ _ hrs, rsSet_rs2sid _ _ _ hrs] at *); grind [mem_removeL, nodup_removeL, removeL_nil]))
-      | (have f_fresh := hi.fresh; have f_mem_room := hi.mem_room; have f_room_mem := hi.room_mem; have f_nonempty := hi.nonempty; have f_nodup := hi.nodup; have f_roomL_iff := hi.roomL_iff; have f_roomL_nodup := hi.roomL_nodup; have f_userL_iff := hi.userL_iff; have f_userL_nodup := hi.userL_nodup; have f_sessL_iff := hi.sessL_iff; have f_rs_fwd := hi.rs_fwd; have f_rs_room := hi.rs_room; have f_virt := hi.virt; have f_children := hi.children; have f_vtable := hi.vtable; have f_conn_iff := hi.conn_iff; have f_conn_open := hi.conn_open; have f_eh := hi.eh; have f_expired := hi.expired; have f_anon := hi.anon; have f_dialout := hi.dialout; have f_count := hi.count; have f_orph_virt := hi.orph_virt; have f_incall := hi.incall; clear hi; (intros; (try simp only [hubf, rsSet_sid2rs _ _ _ hrs, rsSet_rs2sid _ _ _ hrs] at *); grind [mem_removeL, nodup_removeL, removeL_nil]))
+      | (have f_children := hi.children; have f_virt := hi.virt; have f_fresh := hi.fresh; clear hi; (intros; (try simp only [hubf, rsSet_sid2rs _ _ _ hrs, rsSet_rs2sid _ _ _ hrs] at *); grind [mem_removeL, nodup_removeL, removeL_nil, length_removeL_le]))
+      | (have f_fresh := hi.fresh; have f_mem_room := hi.mem_room; have f_room_mem := hi.room_mem; have f_nonempty := hi.nonempty; have f_nodup := hi.nodup; have f_roomL_iff := hi.roomL_iff; have f_roomL_nodup := hi.roomL_nodup; have f_userL_iff := hi.userL_iff; have f_userL_nodup := hi.userL_nodup; have f_sessL_iff := hi.sessL_iff; have f_rs_fwd := hi.rs_fwd; have f_rs_room := hi.rs_room; have f_virt := hi.virt; have f_children := hi.children; have f_vtable := hi.vtable; have f_conn_iff := hi.conn_iff; have f_conn_open := hi.conn_open; have f_eh := hi.eh; have f_expired := hi.expired; have f_anon := hi.anon; have f_dialout := hi.dialout; have f_count := hi.count; have f_orph_virt := hi.orph_virt; have f_incall := hi.incall; have f_count_le := hi.count_le; clear hi; (intros; (try simp only [hubf, rsSet_sid2rs _ _ _ hrs, rsSet_rs2sid _ _ _ hrs] at *); grind [mem_removeL, nodup_removeL, removeL_nil, length_removeL_le]))
   case vtable =>
     first
-      | (have f_vtable := hi.vtable; have f_virt := hi.virt; have f_fresh := hi.fresh; clear hi; (intros; (try simp only [hubf, rsSet_sid2rs _ _ _ hrs, rsSet_rs2sid _ _ _ hrs] at *); grind [mem_removeL, nodup_removeL, removeL_nil]))
-      | (have f_fresh := hi.fresh; have f_mem_room := hi.mem_room; have f_room_mem := hi.room_mem; have f_nonempty := hi.nonempty; have f_nodup := hi.nodup; have f_roomL_iff := hi.roomL_iff; have f_roomL_nodup := hi.roomL_nodup; have f_userL_iff := hi.userL_iff; have f_userL_nodup := hi.userL_nodup; have f_sessL_iff := hi.sessL_iff; have f_rs_fwd := hi.rs_fwd; have f_rs_room := hi.rs_room; have f_virt := hi.virt; have f_children := hi.children; have f_vtable := hi.vtable; have f_conn_iff := hi.conn_iff; have f_conn_open := hi.conn_open; have f_eh := hi.eh; have f_expired := hi.expired; have f_anon := hi.anon; have f_dialout := hi.dialout; have f_count := hi.count; have f_orph_virt := hi.orph_virt; have f_incall := hi.incall; clear hi; (intros; (try simp only [hubf, rsSet_sid2rs _ _ _ hrs, rsSet_rs2sid _ _ _ hrs] at *); grind [mem_removeL, nodup_removeL, removeL_nil]))
+      | (have f_vtable := hi.vtable; have f_virt := hi.virt; have f_fresh := hi.fresh; clear hi; (intros; (try simp only [hubf, rsSet_sid2rs _ _ _ hrs, rsSet_rs2sid _ _ _ hrs] at *); grind [mem_removeL, nodup_removeL, removeL_nil, length_removeL_le]))
+      | (have f_fresh := hi.fresh; have f_mem_room := hi.mem_room; have f_room_mem := hi.room_mem; have f_nonempty := hi.nonempty; have f_nodup := hi.nodup; have f_roomL_iff := hi.roomL_iff; have f_roomL_nodup := hi.roomL_nodup; have f_userL_iff := hi.userL_iff; have f_userL_nodup := hi.userL_nodup; have f_sessL_iff := hi.sessL_iff; have f_rs_fwd := hi.rs_fwd; have f_rs_room := hi.rs_room; have f_virt := hi.virt; have f_children := hi.children; have f_vtable := hi.vtable; have f_conn_iff := hi.conn_iff; have f_conn_open := hi.conn_open; have f_eh := hi.eh; have f_expired := hi.expired; have f_anon := hi.anon; have f_dialout := hi.dialout; have f_count := hi.count; have f_orph_virt := hi.orph_virt; have f_incall := hi.incall; have f_count_le := hi.count_le; clear hi; (intros; (try simp only [hubf, rsSet_sid2rs _ _ _ hrs, rsSet_rs2sid _ _ _ hrs] at *); grind [mem_removeL, nodup_removeL, removeL_nil, length_removeL_le]))
   case conn_iff =>
     first
-      | (have f_conn_iff := hi.conn_iff; have f_fresh := hi.fresh; have f_virt := hi.virt; clear hi; (intros; (try simp only [hubf, rsSet_sid2rs _ _ _ hrs, rsSet_rs2sid _ _ _ hrs] at *); grind [mem_removeL, nodup_removeL, removeL_nil]))
-      | (have f_fresh := hi.fresh; have f_mem_room := hi.mem_room; have f_room_mem := hi.room_mem; have f_nonempty := hi.nonempty; have f_nodup := hi.nodup; have f_roomL_iff := hi.roomL_iff; have f_roomL_nodup := hi.roomL_nodup; have f_userL_iff := hi.userL_iff; have f_userL_nodup := hi.userL_nodup; have f_sessL_iff := hi.sessL_iff; have f_rs_fwd := hi.rs_fwd; have f_rs_room := hi.rs_room; have f_virt := hi.virt; have f_children := hi.children; have f_vtable := hi.vtable; have f_conn_iff := hi.conn_iff; have f_conn_open := hi.conn_open; have f_eh := hi.eh; have f_expired := hi.expired; have f_anon := hi.anon; have f_dialout := hi.dialout; have f_count := hi.count; have f_orph_virt := hi.orph_virt; have f_incall := hi.incall; clear hi; (intros; (try simp only [hubf, rsSet_sid2rs _ _ _ hrs, rsSet_rs2sid _ _ _ hrs] at *); grind [mem_removeL, nodup_removeL, removeL_nil]))
+      | (have f_conn_iff := hi.conn_iff; have f_fresh := hi.fresh; have f_virt := hi.virt; clear hi; (intros; (try simp only [hubf, rsSet_sid2rs _ _ _ hrs, rsSet_rs2sid _ _ _ hrs] at *); grind [mem_removeL, nodup_removeL, removeL_nil, length_removeL_le]))
+      | (have f_fresh := hi.fresh; have f_mem_room := hi.mem_room; have f_room_mem := hi.room_mem; have f_nonempty := hi.nonempty; have f_nodup := hi.nodup; have f_roomL_iff := hi.roomL_iff; have f_roomL_nodup := hi.roomL_nodup; have f_userL_iff := hi.userL_iff; have f_userL_nodup := hi.userL_nodup; have f_sessL_iff := hi.sessL_iff; have f_rs_fwd := hi.rs_fwd; have f_rs_room := hi.rs_room; have f_virt := hi.virt; have f_children := hi.children; have f_vtable := hi.vtable; have f_conn_iff := hi.conn_iff; have f_conn_open := hi.conn_open; have f_eh := hi.eh; have f_expired := hi.expired; have f_anon := hi.anon; have f_dialout := hi.dialout; have f_count := hi.count; have f_orph_virt := hi.orph_virt; have f_incall := hi.incall; have f_count_le := hi.count_le; clear hi; (intros; (try simp only [hubf, rsSet_sid2rs _ _ _ hrs, rsSet_rs2sid _ _ _ hrs] at *); grind [mem_removeL, nodup_removeL, removeL_nil, length_removeL_le]))
   case conn_open =>
     first
-      | (have f_conn_open := hi.conn_open; have f_conn_iff := hi.conn_iff; clear hi; (intros; (try simp only [hubf, rsSet_sid2rs _ _ _ hrs, rsSet_rs2sid _ _ _ hrs] at *); grind [mem_removeL, nodup_removeL, removeL_nil]))
-      | (have f_fresh := hi.fresh; have f_mem_room := hi.mem_room; have f_room_mem := hi.room_mem; have f_nonempty := hi.nonempty; have f_nodup := hi.nodup; have f_roomL_iff := hi.roomL_iff; have f_roomL_nodup := hi.roomL_nodup; have f_userL_iff := hi.userL_iff; have f_userL_nodup := hi.userL_nodup; have f_sessL_iff := hi.sessL_iff; have f_rs_fwd := hi.rs_fwd; have f_rs_room := hi.rs_room; have f_virt := hi.virt; have f_children := hi.children; have f_vtable := hi.vtable; have f_conn_iff := hi.conn_iff; have f_conn_open := hi.conn_open; have f_eh := hi.eh; have f_expired := hi.expired; have f_anon := hi.anon; have f_dialout := hi.dialout; have f_count := hi.count; have f_orph_virt := hi.orph_virt; have f_incall := hi.incall; clear hi; (intros; (try simp only [hubf, rsSet_sid2rs _ _ _ hrs, rsSet_rs2sid _ _ _ hrs] at *); grind [mem_removeL, nodup_removeL, removeL_nil]))
+      | (have f_conn_open := hi.conn_open; have f_conn_iff := hi.conn_iff; clear hi; (intros; (try simp only [hubf, rsSet_sid2rs _ _ _ hrs, rsSet_rs2sid _ _ _ hrs] at *); grind [mem_removeL, nodup_removeL, removeL_nil, length_removeL_le]))
+      | (have f_fresh := hi.fresh; have f_mem_room := hi.mem_room; have f_room_mem := hi.room_mem; have f_nonempty := hi.nonempty; have f_nodup := hi.nodup; have f_roomL_iff := hi.roomL_iff; have f_roomL_nodup := hi.roomL_nodup; have f_userL_iff := hi.userL_iff; have f_userL_nodup := hi.userL_nodup; have f_sessL_iff := hi.sessL_iff; have f_rs_fwd := hi.rs_fwd; have f_rs_room := hi.rs_room; have f_virt := hi.virt; have f_children := hi.children; have f_vtable := hi.vtable; have f_conn_iff := hi.conn_iff; have f_conn_open := hi.conn_open; have f_eh := hi.eh; have f_expired := hi.expired; have f_anon := hi.anon; have f_dialout := hi.dialout; have f_count := hi.count; have f_orph_virt := hi.orph_virt; have f_incall := hi.incall; have f_count_le := hi.count_le; clear hi; (intros; (try simp only [hubf, rsSet_sid2rs _ _ _ hrs, rsSet_rs2sid _ _ _ hrs] at *); grind [mem_removeL, nodup_removeL, removeL_nil, length_removeL_le]))
   case eh =>
     first
-      | (have f_eh := hi.eh; have f_conn_iff := hi.conn_iff; have f_conn_open := hi.conn_open; clear hi; (intros; (try simp only [hubf, rsSet_sid2rs _ _ _ hrs, rsSet_rs2sid _ _ _ hrs] at *); grind [mem_removeL, nodup_removeL, removeL_nil]))
-      | (have f_fresh := hi.fresh; have f_mem_room := hi.mem_room; have f_room_mem := hi.room_mem; have f_nonempty := hi.nonempty; have f_nodup := hi.nodup; have f_roomL_iff := hi.roomL_iff; have f_roomL_nodup := hi.roomL_nodup; have f_userL_iff := hi.userL_iff; have f_userL_nodup := hi.userL_nodup; have f_sessL_iff := hi.sessL_iff; have f_rs_fwd := hi.rs_fwd; have f_rs_room := hi.rs_room; have f_virt := hi.virt; have f_children := hi.children; have f_vtable := hi.vtable; have f_conn_iff := hi.conn_iff; have f_conn_open := hi.conn_open; have f_eh := hi.eh; have f_expired := hi.expired; have f_anon := hi.anon; have f_dialout := hi.dialout; have f_count := hi.count; have f_orph_virt := hi.orph_virt; have f_incall := hi.incall; clear hi; (intros; (try simp only [hubf, rsSet_sid2rs _ _ _ hrs, rsSet_rs2sid _ _ _ hrs] at *); grind [mem_removeL, nodup_removeL, removeL_nil]))
+      | (have f_eh := hi.eh; have f_conn_iff := hi.conn_iff; have f_conn_open := hi.conn_open; clear hi; (intros; (try simp only [hubf, rsSet_sid2rs _ _ _ hrs, rsSet_rs2sid _ _ _ hrs] at *); grind [mem_removeL, nodup_removeL, removeL_nil, length_removeL_le]))
+      | (have f_fresh := hi.fresh; have f_mem_room := hi.mem_room; have f_room_mem := hi.room_mem; have f_nonempty := hi.nonempty; have f_nodup := hi.nodup; have f_roomL_iff := hi.roomL_iff; have f_roomL_nodup := hi.roomL_nodup; have f_userL_iff := hi.userL_iff; have f_userL_nodup := hi.userL_nodup; have f_sessL_iff := hi.sessL_iff; have f_rs_fwd := hi.rs_fwd; have f_rs_room := hi.rs_room; have f_virt := hi.virt; have f_children := hi.children; have f_vtable := hi.vtable; have f_conn_iff := hi.conn_iff; have f_conn_open := hi.conn_open; have f_eh := hi.eh; have f_expired := hi.expired; have f_anon := hi.anon; have f_dialout := hi.dialout; have f_count := hi.count; have f_orph_virt := hi.orph_virt; have f_incall := hi.incall; have f_count_le := hi.count_le; clear hi; (intros; (try simp only [hubf, rsSet_sid2rs _ _ _ hrs, rsSet_rs2sid _ _ _ hrs] at *); grind [mem_removeL, nodup_removeL, removeL_nil, length_removeL_le]))
   case expired =>
     first
-      | (have f_expired := hi.expired; have f_fresh := hi.fresh; clear hi; (intros; (try simp only [hubf, rsSet_sid2rs _ _ _ hrs, rsSet_rs2sid _ _ _ hrs] at *); grind [mem_removeL, nodup_removeL, removeL_nil]))
-      | (have f_fresh := hi.fresh; have f_mem_room := hi.mem_room; have f_room_mem := hi.room_mem; have f_nonempty := hi.nonempty; have f_nodup := hi.nodup; have f_roomL_iff := hi.roomL_iff; have f_roomL_nodup := hi.roomL_nodup; have f_userL_iff := hi.userL_iff; have f_userL_nodup := hi.userL_nodup; have f_sessL_iff := hi.sessL_iff; have f_rs_fwd := hi.rs_fwd; have f_rs_room := hi.rs_room; have f_virt := hi.virt; have f_children := hi.children; have f_vtable := hi.vtable; have f_conn_iff := hi.conn_iff; have f_conn_open := hi.conn_open; have f_eh := hi.eh; have f_expired := hi.expired; have f_anon := hi.anon; have f_dialout := hi.dialout; have f_count := hi.count; have f_orph_virt := hi.orph_virt; have f_incall := hi.incall; clear hi; (intros; (try simp only [hubf, rsSet_sid2rs _ _ _ hrs, rsSet_rs2sid _ _ _ hrs] at *); grind [mem_removeL, nodup_removeL, removeL_nil]))
+      | (have f_expired := hi.expired; have f_fresh := hi.fresh; clear hi; (intros; (try simp only [hubf, rsSet_sid2rs _ _ _ hrs, rsSet_rs2sid _ _ _ hrs] at *); grind [mem_removeL, nodup_removeL, removeL_nil, length_removeL_le]))
+      | (have f_fresh := hi.fresh; have f_mem_room := hi.mem_room; have f_room_mem := hi.room_mem; have f_nonempty := hi.nonempty; have f_nodup := hi.nodup; have f_roomL_iff := hi.roomL_iff; have f_roomL_nodup := hi.roomL_nodup; have f_userL_iff := hi.userL_iff; have f_userL_nodup := hi.userL_nodup; have f_sessL_iff := hi.sessL_iff; have f_rs_fwd := hi.rs_fwd; have f_rs_room := hi.rs_room; have f_virt := hi.virt; have f_children := hi.children; have f_vtable := hi.vtable; have f_conn_iff := hi.conn_iff; have f_conn_open := hi.conn_open; have f_eh := hi.eh; have f_expired := hi.expired; have f_anon := hi.anon; have f_dialout := hi.dialout; have f_count := hi.count; have f_orph_virt := hi.orph_virt; have f_incall := hi.incall; have f_count_le := hi.count_le; clear hi; (intros; (try simp only [hubf, rsSet_sid2rs _ _ _ hrs, rsSet_rs2sid _ _ _ hrs] at *); grind [mem_removeL, nodup_removeL, removeL_nil, length_removeL_le]))
   case anon =>
     first
-      | (have f_anon := hi.anon; have f_fresh := hi.fresh; clear hi; (intros; (try simp only [hubf, rsSet_sid2rs _ _ _ hrs, rsSet_rs2sid _ _ _ hrs] at *); grind [mem_removeL, nodup_removeL, removeL_nil]))
-      | (have f_fresh := hi.fresh; have f_mem_room := hi.mem_room; have f_room_mem := hi.room_mem; have f_nonempty := hi.nonempty; have f_nodup := hi.nodup; have f_roomL_iff := hi.roomL_iff; have f_roomL_nodup := hi.roomL_nodup; have f_userL_iff := hi.userL_iff; have f_userL_nodup := hi.userL_nodup; have f_sessL_iff := hi.sessL_iff; have f_rs_fwd := hi.rs_fwd; have f_rs_room := hi.rs_room; have f_virt := hi.virt; have f_children := hi.children; have f_vtable := hi.vtable; have f_conn_iff := hi.conn_iff; have f_conn_open := hi.conn_open; have f_eh := hi.eh; have f_expired := hi.expired; have f_anon := hi.anon; have f_dialout := hi.dialout; have f_count := hi.count; have f_orph_virt := hi.orph_virt; have f_incall := hi.incall; clear hi; (intros; (try simp only [hubf, rsSet_sid2rs _ _ _ hrs, rsSet_rs2sid _ _ _ hrs] at *); grind [mem_removeL, nodup_removeL, removeL_nil]))
+      | (have f_anon := hi.anon; have f_fresh := hi.fresh; clear hi; (intros; (try simp only [hubf, rsSet_sid2rs _ _ _ hrs, rsSet_rs2sid _ _ _ hrs] at *); grind [mem_removeL, nodup_removeL, removeL_nil, length_removeL_le]))
+      | (have f_fresh := hi.fresh; have f_mem_room := hi.mem_room; have f_room_mem := hi.room_mem; have f_nonempty := hi.nonempty; have f_nodup := hi.nodup; have f_roomL_iff := hi.roomL_iff; have f_roomL_nodup := hi.roomL_nodup; have f_userL_iff := hi.userL_iff; have f_userL_nodup := hi.userL_nodup; have f_sessL_iff := hi.sessL_iff; have f_rs_fwd := hi.rs_fwd; have f_rs_room := hi.rs_room; have f_virt := hi.virt; have f_children := hi.children; have f_vtable := hi.vtable; have f_conn_iff := hi.conn_iff; have f_conn_open := hi.conn_open; have f_eh := hi.eh; have f_expired := hi.expired; have f_anon := hi.anon; have f_dialout := hi.dialout; have f_count := hi.count; have f_orph_virt := hi.orph_virt; have f_incall := hi.incall; have f_count_le := hi.count_le; clear hi; (intros; (try simp only [hubf, rsSet_sid2rs _ _ _ hrs, rsSet_rs2sid _ _ _ hrs] at *); grind [mem_removeL, nodup_removeL, removeL_nil, length_removeL_le]))
   case dialout =>
     first
-      | (have f_dialout := hi.dialout; have f_fresh := hi.fresh; clear hi; (intros; (try simp only [hubf, rsSet_sid2rs _ _ _ hrs, rsSet_rs2sid _ _ _ hrs] at *); grind [mem_removeL, nodup_removeL, removeL_nil]))
-      | (have f_fresh := hi.fresh; have f_mem_room := hi.mem_room; have f_room_mem := hi.room_mem; have f_nonempty := hi.nonempty; have f_nodup := hi.nodup; have f_roomL_iff := hi.roomL_iff; have f_roomL_nodup := hi.roomL_nodup; have f_userL_iff := hi.userL_iff; have f_userL_nodup := hi.userL_nodup; have f_sessL_iff := hi.sessL_iff; have f_rs_fwd := hi.rs_fwd; have f_rs_room := hi.rs_room; have f_virt := hi.virt; have f_children := hi.children; have f_vtable := hi.vtable; have f_conn_iff := hi.conn_iff; have f_conn_open := hi.conn_open; have f_eh := hi.eh; have f_expired := hi.expired; have f_anon := hi.anon; have f_dialout := hi.dialout; have f_count := hi.count; have f_orph_virt := hi.orph_virt; have f_incall := hi.incall; clear hi; (intros; (try simp only [hubf, rsSet_sid2rs _ _ _ hrs, rsSet_rs2sid _ _ _ hrs] at *); grind [mem_removeL, nodup_removeL, removeL_nil]))
+      | (have f_dialout := hi.dialout; have f_fresh := hi.fresh; clear hi; (intros; (try simp only [hubf, rsSet_sid2rs _ _ _ hrs, rsSet_rs2sid _ _ _ hrs] at *); grind [mem_removeL, nodup_removeL, removeL_nil, length_removeL_le]))
+      | (have f_fresh := hi.fresh; have f_mem_room := hi.mem_room; have f_room_mem := hi.room_mem; have f_nonempty := hi.nonempty; have f_nodup := hi.nodup; have f_roomL_iff := hi.roomL_iff; have f_roomL_nodup := hi.roomL_nodup; have f_userL_iff := hi.userL_iff; have f_userL_nodup := hi.userL_nodup; have f_sessL_iff := hi.sessL_iff; have f_rs_fwd := hi.rs_fwd; have f_rs_room := hi.rs_room; have f_virt := hi.virt; have f_children := hi.children; have f_vtable := hi.vtable; have f_conn_iff := hi.conn_iff; have f_conn_open := hi.conn_open; have f_eh := hi.eh; have f_expired := hi.expired; have f_anon := hi.anon; have f_dialout := hi.dialout; have f_count := hi.count; have f_orph_virt := hi.orph_virt; have f_incall := hi.incall; have f_count_le := hi.count_le; clear hi; (intros; (try simp only [hubf, rsSet_sid2rs _ _ _ hrs, rsSet_rs2sid _ _ _ hrs] at *); grind [mem_removeL, nodup_removeL, removeL_nil, length_removeL_le]))
   case count =>
     first
-      | (have f_count := hi.count; have f_fresh := hi.fresh; clear hi; (intros; (try simp only [hubf, rsSet_sid2rs _ _ _ hrs, rsSet_rs2sid _ _ _ hrs] at *); grind [mem_removeL, nodup_removeL, removeL_nil]))
-      | (have f_fresh := hi.fresh; have f_mem_room := hi.mem_room; have f_room_mem := hi.room_mem; have f_nonempty := hi.nonempty; have f_nodup := hi.nodup; have f_roomL_iff := hi.roomL_iff; have f_roomL_nodup := hi.roomL_nodup; have f_userL_iff := hi.userL_iff; have f_userL_nodup := hi.userL_nodup; have f_sessL_iff := hi.sessL_iff; have f_rs_fwd := hi.rs_fwd; have f_rs_room := hi.rs_room; have f_virt := hi.virt; have f_children := hi.children; have f_vtable := hi.vtable; have f_conn_iff := hi.conn_iff; have f_conn_open := hi.conn_open; have f_eh := hi.eh; have f_expired := hi.expired; have f_anon := hi.anon; have f_dialout := hi.dialout; have f_count := hi.count; have f_orph_virt := hi.orph_virt; have f_incall := hi.incall; clear hi; (intros; (try simp only [hubf, rsSet_sid2rs _ _ _ hrs, rsSet_rs2sid _ _ _ hrs] at *); grind [mem_removeL, nodup_removeL, removeL_nil]))
+      | (have f_count := hi.count; have f_fresh := hi.fresh; clear hi; (intros; (try simp only [hubf, rsSet_sid2rs _ _ _ hrs, rsSet_rs2sid _ _ _ hrs] at *); grind [mem_removeL, nodup_removeL, removeL_nil, length_removeL_le]))
+      | (have f_fresh := hi.fresh; have f_mem_room := hi.mem_room; have f_room_mem := hi.room_mem; have f_nonempty := hi.nonempty; have f_nodup := hi.nodup; have f_roomL_iff := hi.roomL_iff; have f_roomL_nodup := hi.roomL_nodup; have f_userL_iff := hi.userL_iff; have f_userL_nodup := hi.userL_nodup; have f_sessL_iff := hi.sessL_iff; have f_rs_fwd := hi.rs_fwd; have f_rs_room := hi.rs_room; have f_virt := hi.virt; have f_children := hi.children; have f_vtable := hi.vtable; have f_conn_iff := hi.conn_iff; have f_conn_open := hi.conn_open; have f_eh := hi.eh; have f_expired := hi.expired; have f_anon := hi.anon; have f_dialout := hi.dialout; have f_count := hi.count; have f_orph_virt := hi.orph_virt; have f_incall := hi.incall; have f_count_le := hi.count_le; clear hi; (intros; (try simp only [hubf, rsSet_sid2rs _ _ _ hrs, rsSet_rs2sid _ _ _ hrs] at *); grind [mem_removeL, nodup_removeL, removeL_nil, length_removeL_le]))
   case orph_virt =>
     first
-      | (have f_orph_virt := hi.orph_virt; have f_fresh := hi.fresh; have f_children := hi.children; have f_virt := hi.virt; clear hi; (intros; (try simp only [hubf, rsSet_sid2rs _ _ _ hrs, rsSet_rs2sid _ _ _ hrs] at *); grind [mem_removeL, nodup_removeL, removeL_nil]))
-      | (have f_fresh := hi.fresh; have f_mem_room := hi.mem_room; have f_room_mem := hi.room_mem; have f_nonempty := hi.nonempty; have f_nodup := hi.nodup; have f_roomL_iff := hi.roomL_iff; have f_roomL_nodup := hi.roomL_nodup; have f_userL_iff := hi.userL_iff; have f_userL_nodup := hi.userL_nodup; have f_sessL_iff := hi.sessL_iff; have f_rs_fwd := hi.rs_fwd; have f_rs_room := hi.rs_room; have f_virt := hi.virt; have f_children := hi.children; have f_vtable := hi.vtable; have f_conn_iff := hi.conn_iff; have f_conn_open := hi.conn_open; have f_eh := hi.eh; have f_expired := hi.expired; have f_anon := hi.anon; have f_dialout := hi.dialout; have f_count := hi.count; have f_orph_virt := hi.orph_virt; have f_incall := hi.incall; clear hi; (intros; (try simp only [hubf, rsSet_sid2rs _ _ _ hrs, rsSet_rs2sid _ _ _ hrs] at *); grind [mem_removeL, nodup_removeL, removeL_nil]))
+      | (have f_orph_virt := hi.orph_virt; have f_fresh := hi.fresh; have f_children := hi.children; have f_virt := hi.virt; clear hi; (intros; (try simp only [hubf, rsSet_sid2rs _ _ _ hrs, rsSet_rs2sid _ _ _ hrs] at *); grind [mem_removeL, nodup_removeL, removeL_nil, length_removeL_le]))
+      | (have f_fresh := hi.fresh; have f_mem_room := hi.mem_room; have f_room_mem := hi.room_mem; have f_nonempty := hi.nonempty; have f_nodup := hi.nodup; have f_roomL_iff := hi.roomL_iff; have f_roomL_nodup := hi.roomL_nodup; have f_userL_iff := hi.userL_iff; have f_userL_nodup := hi.userL_nodup; have f_sessL_iff := hi.sessL_iff; have f_rs_fwd := hi.rs_fwd; have f_rs_room := hi.rs_room; have f_virt := hi.virt; have f_children := hi.children; have f_vtable := hi.vtable; have f_conn_iff := hi.conn_iff; have f_conn_open := hi.conn_open; have f_eh := hi.eh; have f_expired := hi.expired; have f_anon := hi.anon; have f_dialout := hi.dialout; have f_count := hi.count; have f_orph_virt := hi.orph_virt; have f_incall := hi.incall; have f_count_le := hi.count_le; clear hi; (intros; (try simp only [hubf, rsSet_sid2rs _ _ _ hrs, rsSet_rs2sid _ _ _ hrs] at *); grind [mem_removeL, nodup_removeL, removeL_nil, length_removeL_le]))
   case incall =>
     first
-      | (have f_incall := hi.incall; have f_mem_room := hi.mem_room; clear hi; (intros; (try simp only [hubf, rsSet_sid2rs _ _ _ hrs, rsSet_rs2sid _ _ _ hrs] at *); grind [mem_removeL, nodup_removeL, removeL_nil]))
-      | (have f_fresh := hi.fresh; have f_mem_room := hi.mem_room; have f_room_mem := hi.room_mem; have f_nonempty := hi.nonempty; have f_nodup := hi.nodup; have f_roomL_iff := hi.roomL_iff; have f_roomL_nodup := hi.roomL_nodup; have f_userL_iff := hi.userL_iff; have f_userL_nodup := hi.userL_nodup; have f_sessL_iff := hi.sessL_iff; have f_rs_fwd := hi.rs_fwd; have f_rs_room := hi.rs_room; have f_virt := hi.virt; have f_children := hi.children; have f_vtable := hi.vtable; have f_conn_iff := hi.conn_iff; have f_conn_open := hi.conn_open; have f_eh := hi.eh; have f_expired := hi.expired; have f_anon := hi.anon; have f_dialout := hi.dialout; have f_count := hi.count; have f_orph_virt := hi.orph_virt; have f_incall := hi.incall; clear hi; (intros; (try simp only [hubf, rsSet_sid2rs _ _ _ hrs, rsSet_rs2sid _ _ _ hrs] at *); grind [mem_removeL, nodup_removeL, removeL_nil]))
+      | (have f_incall := hi.incall; have f_mem_room := hi.mem_room; clear hi; (intros; (try simp only [hubf, rsSet_sid2rs _ _ _ hrs, rsSet_rs2sid _ _ _ hrs] at *); grind [mem_removeL, nodup_removeL, removeL_nil, length_removeL_le]))
+      | (have f_fresh := hi.fresh; have f_mem_room := hi.mem_room; have f_room_mem := hi.room_mem; have f_nonempty := hi.nonempty; have f_nodup := hi.nodup; have f_roomL_iff := hi.roomL_iff; have f_roomL_nodup := hi.roomL_nodup; have f_userL_iff := hi.userL_iff; have f_userL_nodup := hi.userL_nodup; have f_sessL_iff := hi.sessL_iff; have f_rs_fwd := hi.rs_fwd; have f_rs_room := hi.rs_room; have f_virt := hi.virt; have f_children := hi.children; have f_vtable := hi.vtable; have f_conn_iff := hi.conn_iff; have f_conn_open := hi.conn_open; have f_eh := hi.eh; have f_expired := hi.expired; have f_anon := hi.anon; have f_dialout := hi.dialout; have f_count := hi.count; have f_orph_virt := hi.orph_virt; have f_incall := hi.incall; have f_count_le := hi.count_le; clear hi; (intros; (try simp only [hubf, rsSet_sid2rs _ _ _ hrs, rsSet_rs2sid _ _ _ hrs] at *); grind [mem_removeL, nodup_removeL, removeL_nil, length_removeL_le]))
+  case count_le =>
+    first
+      | (have f_count_le := hi.count_le; clear hi; (intros; (try simp only [hubf, rsSet_sid2rs _ _ _ hrs, rsSet_rs2sid _ _ _ hrs] at *); grind [mem_removeL, nodup_removeL, removeL_nil, length_removeL_le]))
+      | (have f_fresh := hi.fresh; have f_mem_room := hi.mem_room; have f_room_mem := hi.room_mem; have f_nonempty := hi.nonempty; have f_nodup := hi.nodup; have f_roomL_iff := hi.roomL_iff; have f_roomL_nodup := hi.roomL_nodup; have f_userL_iff := hi.userL_iff; have f_userL_nodup := hi.userL_nodup; have f_sessL_iff := hi.sessL_iff; have f_rs_fwd := hi.rs_fwd; have f_rs_room := hi.rs_room; have f_virt := hi.virt; have f_children := hi.children; have f_vtable := hi.vtable; have f_conn_iff := hi.conn_iff; have f_conn_open := hi.conn_open; have f_eh := hi.eh; have f_expired := hi.expired; have f_anon := hi.anon; have f_dialout := hi.dialout; have f_count := hi.count; have f_orph_virt := hi.orph_virt; have f_incall := hi.incall; have f_count_le := hi.count_le; clear hi; (intros; (try simp only [hubf, rsSet_sid2rs _ _ _ hrs, rsSet_rs2sid _ _ _ hrs] at *); grind [mem_removeL, nodup_removeL, removeL_nil, length_removeL_le]))
 
 theorem addVirtual_inv (a : Acc) (s : Nat) (r vkey user : String) (ic : Option Nat) (ok : Bool) (hi : Inv a.h) :
     Inv (addVirtual a s r vkey user ic ok).h := by
@@ -734,7 +760,7 @@ theorem removeVirtual_inv (a : Acc) (s : Nat) (r vkey : String) (hi : Inv a.h) :
           simp only []
           apply closeSession_inv
           -- forgetting a `Hub.virtualSessions` entry only weakens what the invariant has to show
-          obtain ⟨f1, f2, f3, f4, f5, f6, f7, f8, f9, f10, f11, f12, f13, f14, f15, f16, f17, f18, f19, f20, f21, f22, f23, f24⟩ := hi
+          obtain ⟨f1, f2, f3, f4, f5, f6, f7, f8, f9, f10, f11, f12, f13, f14, f15, f16, f17, f18, f19, f20, f21, f22, f23, f24, f25⟩ := hi
           constructor
           all_goals first | assumption | skip
           · intro p k v' hv'
@@ -754,100 +780,104 @@ theorem InvG.setSess_same {orph : List Nat} {h : Hub} (hi : InvX orph h) {s : Na
   constructor
   case fresh =>
     first
-      | (have f_fresh := hi.fresh; clear hi; (intros; (try simp only [hubf] at *); grind [mem_removeL, nodup_removeL, removeL_nil]))
-      | (have f_fresh := hi.fresh; have f_mem_room := hi.mem_room; have f_room_mem := hi.room_mem; have f_nonempty := hi.nonempty; have f_nodup := hi.nodup; have f_roomL_iff := hi.roomL_iff; have f_roomL_nodup := hi.roomL_nodup; have f_userL_iff := hi.userL_iff; have f_userL_nodup := hi.userL_nodup; have f_sessL_iff := hi.sessL_iff; have f_rs_fwd := hi.rs_fwd; have f_rs_room := hi.rs_room; have f_virt := hi.virt; have f_children := hi.children; have f_vtable := hi.vtable; have f_conn_iff := hi.conn_iff; have f_conn_open := hi.conn_open; have f_eh := hi.eh; have f_expired := hi.expired; have f_anon := hi.anon; have f_dialout := hi.dialout; have f_count := hi.count; have f_orph_virt := hi.orph_virt; have f_incall := hi.incall; clear hi; (intros; (try simp only [hubf] at *); grind [mem_removeL, nodup_removeL, removeL_nil]))
+      | (have f_fresh := hi.fresh; clear hi; (intros; (try simp only [hubf] at *); grind [mem_removeL, nodup_removeL, removeL_nil, length_removeL_le]))
+      | (have f_fresh := hi.fresh; have f_mem_room := hi.mem_room; have f_room_mem := hi.room_mem; have f_nonempty := hi.nonempty; have f_nodup := hi.nodup; have f_roomL_iff := hi.roomL_iff; have f_roomL_nodup := hi.roomL_nodup; have f_userL_iff := hi.userL_iff; have f_userL_nodup := hi.userL_nodup; have f_sessL_iff := hi.sessL_iff; have f_rs_fwd := hi.rs_fwd; have f_rs_room := hi.rs_room; have f_virt := hi.virt; have f_children := hi.children; have f_vtable := hi.vtable; have f_conn_iff := hi.conn_iff; have f_conn_open := hi.conn_open; have f_eh := hi.eh; have f_expired := hi.expired; have f_anon := hi.anon; have f_dialout := hi.dialout; have f_count := hi.count; have f_orph_virt := hi.orph_virt; have f_incall := hi.incall; have f_count_le := hi.count_le; clear hi; (intros; (try simp only [hubf] at *); grind [mem_removeL, nodup_removeL, removeL_nil, length_removeL_le]))
   case mem_room =>
     first
-      | (have f_mem_room := hi.mem_room; have f_fresh := hi.fresh; clear hi; (intros; (try simp only [hubf] at *); grind [mem_removeL, nodup_removeL, removeL_nil]))
-      | (have f_fresh := hi.fresh; have f_mem_room := hi.mem_room; have f_room_mem := hi.room_mem; have f_nonempty := hi.nonempty; have f_nodup := hi.nodup; have f_roomL_iff := hi.roomL_iff; have f_roomL_nodup := hi.roomL_nodup; have f_userL_iff := hi.userL_iff; have f_userL_nodup := hi.userL_nodup; have f_sessL_iff := hi.sessL_iff; have f_rs_fwd := hi.rs_fwd; have f_rs_room := hi.rs_room; have f_virt := hi.virt; have f_children := hi.children; have f_vtable := hi.vtable; have f_conn_iff := hi.conn_iff; have f_conn_open := hi.conn_open; have f_eh := hi.eh; have f_expired := hi.expired; have f_anon := hi.anon; have f_dialout := hi.dialout; have f_count := hi.count; have f_orph_virt := hi.orph_virt; have f_incall := hi.incall; clear hi; (intros; (try simp only [hubf] at *); grind [mem_removeL, nodup_removeL, removeL_nil]))
+      | (have f_mem_room := hi.mem_room; have f_fresh := hi.fresh; clear hi; (intros; (try simp only [hubf] at *); grind [mem_removeL, nodup_removeL, removeL_nil, length_removeL_le]))
+      | (have f_fresh := hi.fresh; have f_mem_room := hi.mem_room; have f_room_mem := hi.room_mem; have f_nonempty := hi.nonempty; have f_nodup := hi.nodup; have f_roomL_iff := hi.roomL_iff; have f_roomL_nodup := hi.roomL_nodup; have f_userL_iff := hi.userL_iff; have f_userL_nodup := hi.userL_nodup; have f_sessL_iff := hi.sessL_iff; have f_rs_fwd := hi.rs_fwd; have f_rs_room := hi.rs_room; have f_virt := hi.virt; have f_children := hi.children; have f_vtable := hi.vtable; have f_conn_iff := hi.conn_iff; have f_conn_open := hi.conn_open; have f_eh := hi.eh; have f_expired := hi.expired; have f_anon := hi.anon; have f_dialout := hi.dialout; have f_count := hi.count; have f_orph_virt := hi.orph_virt; have f_incall := hi.incall; have f_count_le := hi.count_le; clear hi; (intros; (try simp only [hubf] at *); grind [mem_removeL, nodup_removeL, removeL_nil, length_removeL_le]))
   case room_mem =>
     first
-      | (have f_room_mem := hi.room_mem; have f_mem_room := hi.mem_room; have f_fresh := hi.fresh; clear hi; (intros; (try simp only [hubf] at *); grind [mem_removeL, nodup_removeL, removeL_nil]))
-      | (have f_fresh := hi.fresh; have f_mem_room := hi.mem_room; have f_room_mem := hi.room_mem; have f_nonempty := hi.nonempty; have f_nodup := hi.nodup; have f_roomL_iff := hi.roomL_iff; have f_roomL_nodup := hi.roomL_nodup; have f_userL_iff := hi.userL_iff; have f_userL_nodup := hi.userL_nodup; have f_sessL_iff := hi.sessL_iff; have f_rs_fwd := hi.rs_fwd; have f_rs_room := hi.rs_room; have f_virt := hi.virt; have f_children := hi.children; have f_vtable := hi.vtable; have f_conn_iff := hi.conn_iff; have f_conn_open := hi.conn_open; have f_eh := hi.eh; have f_expired := hi.expired; have f_anon := hi.anon; have f_dialout := hi.dialout; have f_count := hi.count; have f_orph_virt := hi.orph_virt; have f_incall := hi.incall; clear hi; (intros; (try simp only [hubf] at *); grind [mem_removeL, nodup_removeL, removeL_nil]))
+      | (have f_room_mem := hi.room_mem; have f_mem_room := hi.mem_room; have f_fresh := hi.fresh; clear hi; (intros; (try simp only [hubf] at *); grind [mem_removeL, nodup_removeL, removeL_nil, length_removeL_le]))
+      | (have f_fresh := hi.fresh; have f_mem_room := hi.mem_room; have f_room_mem := hi.room_mem; have f_nonempty := hi.nonempty; have f_nodup := hi.nodup; have f_roomL_iff := hi.roomL_iff; have f_roomL_nodup := hi.roomL_nodup; have f_userL_iff := hi.userL_iff; have f_userL_nodup := hi.userL_nodup; have f_sessL_iff := hi.sessL_iff; have f_rs_fwd := hi.rs_fwd; have f_rs_room := hi.rs_room; have f_virt := hi.virt; have f_children := hi.children; have f_vtable := hi.vtable; have f_conn_iff := hi.conn_iff; have f_conn_open := hi.conn_open; have f_eh := hi.eh; have f_expired := hi.expired; have f_anon := hi.anon; have f_dialout := hi.dialout; have f_count := hi.count; have f_orph_virt := hi.orph_virt; have f_incall := hi.incall; have f_count_le := hi.count_le; clear hi; (intros; (try simp only [hubf] at *); grind [mem_removeL, nodup_removeL, removeL_nil, length_removeL_le]))
   case nonempty =>
     first
-      | (have f_nonempty := hi.nonempty; have f_mem_room := hi.mem_room; clear hi; (intros; (try simp only [hubf] at *); grind [mem_removeL, nodup_removeL, removeL_nil]))
-      | (have f_fresh := hi.fresh; have f_mem_room := hi.mem_room; have f_room_mem := hi.room_mem; have f_nonempty := hi.nonempty; have f_nodup := hi.nodup; have f_roomL_iff := hi.roomL_iff; have f_roomL_nodup := hi.roomL_nodup; have f_userL_iff := hi.userL_iff; have f_userL_nodup := hi.userL_nodup; have f_sessL_iff := hi.sessL_iff; have f_rs_fwd := hi.rs_fwd; have f_rs_room := hi.rs_room; have f_virt := hi.virt; have f_children := hi.children; have f_vtable := hi.vtable; have f_conn_iff := hi.conn_iff; have f_conn_open := hi.conn_open; have f_eh := hi.eh; have f_expired := hi.expired; have f_anon := hi.anon; have f_dialout := hi.dialout; have f_count := hi.count; have f_orph_virt := hi.orph_virt; have f_incall := hi.incall; clear hi; (intros; (try simp only [hubf] at *); grind [mem_removeL, nodup_removeL, removeL_nil]))
+      | (have f_nonempty := hi.nonempty; have f_mem_room := hi.mem_room; clear hi; (intros; (try simp only [hubf] at *); grind [mem_removeL, nodup_removeL, removeL_nil, length_removeL_le]))
+      | (have f_fresh := hi.fresh; have f_mem_room := hi.mem_room; have f_room_mem := hi.room_mem; have f_nonempty := hi.nonempty; have f_nodup := hi.nodup; have f_roomL_iff := hi.roomL_iff; have f_roomL_nodup := hi.roomL_nodup; have f_userL_iff := hi.userL_iff; have f_userL_nodup := hi.userL_nodup; have f_sessL_iff := hi.sessL_iff; have f_rs_fwd := hi.rs_fwd; have f_rs_room := hi.rs_room; have f_virt := hi.virt; have f_children := hi.children; have f_vtable := hi.vtable; have f_conn_iff := hi.conn_iff; have f_conn_open := hi.conn_open; have f_eh := hi.eh; have f_expired := hi.expired; have f_anon := hi.anon; have f_dialout := hi.dialout; have f_count := hi.count; have f_orph_virt := hi.orph_virt; have f_incall := hi.incall; have f_count_le := hi.count_le; clear hi; (intros; (try simp only [hubf] at *); grind [mem_removeL, nodup_removeL, removeL_nil, length_removeL_le]))
   case nodup =>
     first
-      | (have f_nodup := hi.nodup; clear hi; (intros; (try simp only [hubf] at *); grind [mem_removeL, nodup_removeL, removeL_nil]))
-      | (have f_fresh := hi.fresh; have f_mem_room := hi.mem_room; have f_room_mem := hi.room_mem; have f_nonempty := hi.nonempty; have f_nodup := hi.nodup; have f_roomL_iff := hi.roomL_iff; have f_roomL_nodup := hi.roomL_nodup; have f_userL_iff := hi.userL_iff; have f_userL_nodup := hi.userL_nodup; have f_sessL_iff := hi.sessL_iff; have f_rs_fwd := hi.rs_fwd; have f_rs_room := hi.rs_room; have f_virt := hi.virt; have f_children := hi.children; have f_vtable := hi.vtable; have f_conn_iff := hi.conn_iff; have f_conn_open := hi.conn_open; have f_eh := hi.eh; have f_expired := hi.expired; have f_anon := hi.anon; have f_dialout := hi.dialout; have f_count := hi.count; have f_orph_virt := hi.orph_virt; have f_incall := hi.incall; clear hi; (intros; (try simp only [hubf] at *); grind [mem_removeL, nodup_removeL, removeL_nil]))
+      | (have f_nodup := hi.nodup; clear hi; (intros; (try simp only [hubf] at *); grind [mem_removeL, nodup_removeL, removeL_nil, length_removeL_le]))
+      | (have f_fresh := hi.fresh; have f_mem_room := hi.mem_room; have f_room_mem := hi.room_mem; have f_nonempty := hi.nonempty; have f_nodup := hi.nodup; have f_roomL_iff := hi.roomL_iff; have f_roomL_nodup := hi.roomL_nodup; have f_userL_iff := hi.userL_iff; have f_userL_nodup := hi.userL_nodup; have f_sessL_iff := hi.sessL_iff; have f_rs_fwd := hi.rs_fwd; have f_rs_room := hi.rs_room; have f_virt := hi.virt; have f_children := hi.children; have f_vtable := hi.vtable; have f_conn_iff := hi.conn_iff; have f_conn_open := hi.conn_open; have f_eh := hi.eh; have f_expired := hi.expired; have f_anon := hi.anon; have f_dialout := hi.dialout; have f_count := hi.count; have f_orph_virt := hi.orph_virt; have f_incall := hi.incall; have f_count_le := hi.count_le; clear hi; (intros; (try simp only [hubf] at *); grind [mem_removeL, nodup_removeL, removeL_nil, length_removeL_le]))
   case roomL_iff =>
     first
-      | (have f_roomL_iff := hi.roomL_iff; have f_fresh := hi.fresh; have f_room_mem := hi.room_mem; have f_mem_room := hi.mem_room; clear hi; (intros; (try simp only [hubf] at *); grind [mem_removeL, nodup_removeL, removeL_nil]))
-      | (have f_fresh := hi.fresh; have f_mem_room := hi.mem_room; have f_room_mem := hi.room_mem; have f_nonempty := hi.nonempty; have f_nodup := hi.nodup; have f_roomL_iff := hi.roomL_iff; have f_roomL_nodup := hi.roomL_nodup; have f_userL_iff := hi.userL_iff; have f_userL_nodup := hi.userL_nodup; have f_sessL_iff := hi.sessL_iff; have f_rs_fwd := hi.rs_fwd; have f_rs_room := hi.rs_room; have f_virt := hi.virt; have f_children := hi.children; have f_vtable := hi.vtable; have f_conn_iff := hi.conn_iff; have f_conn_open := hi.conn_open; have f_eh := hi.eh; have f_expired := hi.expired; have f_anon := hi.anon; have f_dialout := hi.dialout; have f_count := hi.count; have f_orph_virt := hi.orph_virt; have f_incall := hi.incall; clear hi; (intros; (try simp only [hubf] at *); grind [mem_removeL, nodup_removeL, removeL_nil]))
+      | (have f_roomL_iff := hi.roomL_iff; have f_fresh := hi.fresh; have f_room_mem := hi.room_mem; have f_mem_room := hi.mem_room; clear hi; (intros; (try simp only [hubf] at *); grind [mem_removeL, nodup_removeL, removeL_nil, length_removeL_le]))
+      | (have f_fresh := hi.fresh; have f_mem_room := hi.mem_room; have f_room_mem := hi.room_mem; have f_nonempty := hi.nonempty; have f_nodup := hi.nodup; have f_roomL_iff := hi.roomL_iff; have f_roomL_nodup := hi.roomL_nodup; have f_userL_iff := hi.userL_iff; have f_userL_nodup := hi.userL_nodup; have f_sessL_iff := hi.sessL_iff; have f_rs_fwd := hi.rs_fwd; have f_rs_room := hi.rs_room; have f_virt := hi.virt; have f_children := hi.children; have f_vtable := hi.vtable; have f_conn_iff := hi.conn_iff; have f_conn_open := hi.conn_open; have f_eh := hi.eh; have f_expired := hi.expired; have f_anon := hi.anon; have f_dialout := hi.dialout; have f_count := hi.count; have f_orph_virt := hi.orph_virt; have f_incall := hi.incall; have f_count_le := hi.count_le; clear hi; (intros; (try simp only [hubf] at *); grind [mem_removeL, nodup_removeL, removeL_nil, length_removeL_le]))
   case roomL_nodup =>
     first
-      | (have f_roomL_nodup := hi.roomL_nodup; have f_roomL_iff := hi.roomL_iff; clear hi; (intros; (try simp only [hubf] at *); grind [mem_removeL, nodup_removeL, removeL_nil]))
-      | (have f_fresh := hi.fresh; have f_mem_room := hi.mem_room; have f_room_mem := hi.room_mem; have f_nonempty := hi.nonempty; have f_nodup := hi.nodup; have f_roomL_iff := hi.roomL_iff; have f_roomL_nodup := hi.roomL_nodup; have f_userL_iff := hi.userL_iff; have f_userL_nodup := hi.userL_nodup; have f_sessL_iff := hi.sessL_iff; have f_rs_fwd := hi.rs_fwd; have f_rs_room := hi.rs_room; have f_virt := hi.virt; have f_children := hi.children; have f_vtable := hi.vtable; have f_conn_iff := hi.conn_iff; have f_conn_open := hi.conn_open; have f_eh := hi.eh; have f_expired := hi.expired; have f_anon := hi.anon; have f_dialout := hi.dialout; have f_count := hi.count; have f_orph_virt := hi.orph_virt; have f_incall := hi.incall; clear hi; (intros; (try simp only [hubf] at *); grind [mem_removeL, nodup_removeL, removeL_nil]))
+      | (have f_roomL_nodup := hi.roomL_nodup; have f_roomL_iff := hi.roomL_iff; clear hi; (intros; (try simp only [hubf] at *); grind [mem_removeL, nodup_removeL, removeL_nil, length_removeL_le]))
+      | (have f_fresh := hi.fresh; have f_mem_room := hi.mem_room; have f_room_mem := hi.room_mem; have f_nonempty := hi.nonempty; have f_nodup := hi.nodup; have f_roomL_iff := hi.roomL_iff; have f_roomL_nodup := hi.roomL_nodup; have f_userL_iff := hi.userL_iff; have f_userL_nodup := hi.userL_nodup; have f_sessL_iff := hi.sessL_iff; have f_rs_fwd := hi.rs_fwd; have f_rs_room := hi.rs_room; have f_virt := hi.virt; have f_children := hi.children; have f_vtable := hi.vtable; have f_conn_iff := hi.conn_iff; have f_conn_open := hi.conn_open; have f_eh := hi.eh; have f_expired := hi.expired; have f_anon := hi.anon; have f_dialout := hi.dialout; have f_count := hi.count; have f_orph_virt := hi.orph_virt; have f_incall := hi.incall; have f_count_le := hi.count_le; clear hi; (intros; (try simp only [hubf] at *); grind [mem_removeL, nodup_removeL, removeL_nil, length_removeL_le]))
   case userL_iff =>
     first
-      | (have f_userL_iff := hi.userL_iff; have f_fresh := hi.fresh; clear hi; (intros; (try simp only [hubf] at *); grind [mem_removeL, nodup_removeL, removeL_nil]))
-      | (have f_fresh := hi.fresh; have f_mem_room := hi.mem_room; have f_room_mem := hi.room_mem; have f_nonempty := hi.nonempty; have f_nodup := hi.nodup; have f_roomL_iff := hi.roomL_iff; have f_roomL_nodup := hi.roomL_nodup; have f_userL_iff := hi.userL_iff; have f_userL_nodup := hi.userL_nodup; have f_sessL_iff := hi.sessL_iff; have f_rs_fwd := hi.rs_fwd; have f_rs_room := hi.rs_room; have f_virt := hi.virt; have f_children := hi.children; have f_vtable := hi.vtable; have f_conn_iff := hi.conn_iff; have f_conn_open := hi.conn_open; have f_eh := hi.eh; have f_expired := hi.expired; have f_anon := hi.anon; have f_dialout := hi.dialout; have f_count := hi.count; have f_orph_virt := hi.orph_virt; have f_incall := hi.incall; clear hi; (intros; (try simp only [hubf] at *); grind [mem_removeL, nodup_removeL, removeL_nil]))
+      | (have f_userL_iff := hi.userL_iff; have f_fresh := hi.fresh; clear hi; (intros; (try simp only [hubf] at *); grind [mem_removeL, nodup_removeL, removeL_nil, length_removeL_le]))
+      | (have f_fresh := hi.fresh; have f_mem_room := hi.mem_room; have f_room_mem := hi.room_mem; have f_nonempty := hi.nonempty; have f_nodup := hi.nodup; have f_roomL_iff := hi.roomL_iff; have f_roomL_nodup := hi.roomL_nodup; have f_userL_iff := hi.userL_iff; have f_userL_nodup := hi.userL_nodup; have f_sessL_iff := hi.sessL_iff; have f_rs_fwd := hi.rs_fwd; have f_rs_room := hi.rs_room; have f_virt := hi.virt; have f_children := hi.children; have f_vtable := hi.vtable; have f_conn_iff := hi.conn_iff; have f_conn_open := hi.conn_open; have f_eh := hi.eh; have f_expired := hi.expired; have f_anon := hi.anon; have f_dialout := hi.dialout; have f_count := hi.count; have f_orph_virt := hi.orph_virt; have f_incall := hi.incall; have f_count_le := hi.count_le; clear hi; (intros; (try simp only [hubf] at *); grind [mem_removeL, nodup_removeL, removeL_nil, length_removeL_le]))
   case userL_nodup =>
     first
-      | (have f_userL_nodup := hi.userL_nodup; have f_userL_iff := hi.userL_iff; clear hi; (intros; (try simp only [hubf] at *); grind [mem_removeL, nodup_removeL, removeL_nil]))
-      | (have f_fresh := hi.fresh; have f_mem_room := hi.mem_room; have f_room_mem := hi.room_mem; have f_nonempty := hi.nonempty; have f_nodup := hi.nodup; have f_roomL_iff := hi.roomL_iff; have f_roomL_nodup := hi.roomL_nodup; have f_userL_iff := hi.userL_iff; have f_userL_nodup := hi.userL_nodup; have f_sessL_iff := hi.sessL_iff; have f_rs_fwd := hi.rs_fwd; have f_rs_room := hi.rs_room; have f_virt := hi.virt; have f_children := hi.children; have f_vtable := hi.vtable; have f_conn_iff := hi.conn_iff; have f_conn_open := hi.conn_open; have f_eh := hi.eh; have f_expired := hi.expired; have f_anon := hi.anon; have f_dialout := hi.dialout; have f_count := hi.count; have f_orph_virt := hi.orph_virt; have f_incall := hi.incall; clear hi; (intros; (try simp only [hubf] at *); grind [mem_removeL, nodup_removeL, removeL_nil]))
+      | (have f_userL_nodup := hi.userL_nodup; have f_userL_iff := hi.userL_iff; clear hi; (intros; (try simp only [hubf] at *); grind [mem_removeL, nodup_removeL, removeL_nil, length_removeL_le]))
+      | (have f_fresh := hi.fresh; have f_mem_room := hi.mem_room; have f_room_mem := hi.room_mem; have f_nonempty := hi.nonempty; have f_nodup := hi.nodup; have f_roomL_iff := hi.roomL_iff; have f_roomL_nodup := hi.roomL_nodup; have f_userL_iff := hi.userL_iff; have f_userL_nodup := hi.userL_nodup; have f_sessL_iff := hi.sessL_iff; have f_rs_fwd := hi.rs_fwd; have f_rs_room := hi.rs_room; have f_virt := hi.virt; have f_children := hi.children; have f_vtable := hi.vtable; have f_conn_iff := hi.conn_iff; have f_conn_open := hi.conn_open; have f_eh := hi.eh; have f_expired := hi.expired; have f_anon := hi.anon; have f_dialout := hi.dialout; have f_count := hi.count; have f_orph_virt := hi.orph_virt; have f_incall := hi.incall; have f_count_le := hi.count_le; clear hi; (intros; (try simp only [hubf] at *); grind [mem_removeL, nodup_removeL, removeL_nil, length_removeL_le]))
   case sessL_iff =>
     first
-      | (have f_sessL_iff := hi.sessL_iff; have f_fresh := hi.fresh; clear hi; (intros; (try simp only [hubf] at *); grind [mem_removeL, nodup_removeL, removeL_nil]))
-      | (have f_fresh := hi.fresh; have f_mem_room := hi.mem_room; have f_room_mem := hi.room_mem; have f_nonempty := hi.nonempty; have f_nodup := hi.nodup; have f_roomL_iff := hi.roomL_iff; have f_roomL_nodup := hi.roomL_nodup; have f_userL_iff := hi.userL_iff; have f_userL_nodup := hi.userL_nodup; have f_sessL_iff := hi.sessL_iff; have f_rs_fwd := hi.rs_fwd; have f_rs_room := hi.rs_room; have f_virt := hi.virt; have f_children := hi.children; have f_vtable := hi.vtable; have f_conn_iff := hi.conn_iff; have f_conn_open := hi.conn_open; have f_eh := hi.eh; have f_expired := hi.expired; have f_anon := hi.anon; have f_dialout := hi.dialout; have f_count := hi.count; have f_orph_virt := hi.orph_virt; have f_incall := hi.incall; clear hi; (intros; (try simp only [hubf] at *); grind [mem_removeL, nodup_removeL, removeL_nil]))
+      | (have f_sessL_iff := hi.sessL_iff; have f_fresh := hi.fresh; clear hi; (intros; (try simp only [hubf] at *); grind [mem_removeL, nodup_removeL, removeL_nil, length_removeL_le]))
+      | (have f_fresh := hi.fresh; have f_mem_room := hi.mem_room; have f_room_mem := hi.room_mem; have f_nonempty := hi.nonempty; have f_nodup := hi.nodup; have f_roomL_iff := hi.roomL_iff; have f_roomL_nodup := hi.roomL_nodup; have f_userL_iff := hi.userL_iff; have f_userL_nodup := hi.userL_nodup; have f_sessL_iff := hi.sessL_iff; have f_rs_fwd := hi.rs_fwd; have f_rs_room := hi.rs_room; have f_virt := hi.virt; have f_children := hi.children; have f_vtable := hi.vtable; have f_conn_iff := hi.conn_iff; have f_conn_open := hi.conn_open; have f_eh := hi.eh; have f_expired := hi.expired; have f_anon := hi.anon; have f_dialout := hi.dialout; have f_count := hi.count; have f_orph_virt := hi.orph_virt; have f_incall := hi.incall; have f_count_le := hi.count_le; clear hi; (intros; (try simp only [hubf] at *); grind [mem_removeL, nodup_removeL, removeL_nil, length_removeL_le]))
   case rs_fwd =>
     first
-      | (have f_rs_fwd := hi.rs_fwd; have f_rs_room := hi.rs_room; have f_fresh := hi.fresh; clear hi; (intros; (try simp only [hubf] at *); grind [mem_removeL, nodup_removeL, removeL_nil]))
-      | (have f_fresh := hi.fresh; have f_mem_room := hi.mem_room; have f_room_mem := hi.room_mem; have f_nonempty := hi.nonempty; have f_nodup := hi.nodup; have f_roomL_iff := hi.roomL_iff; have f_roomL_nodup := hi.roomL_nodup; have f_userL_iff := hi.userL_iff; have f_userL_nodup := hi.userL_nodup; have f_sessL_iff := hi.sessL_iff; have f_rs_fwd := hi.rs_fwd; have f_rs_room := hi.rs_room; have f_virt := hi.virt; have f_children := hi.children; have f_vtable := hi.vtable; have f_conn_iff := hi.conn_iff; have f_conn_open := hi.conn_open; have f_eh := hi.eh; have f_expired := hi.expired; have f_anon := hi.anon; have f_dialout := hi.dialout; have f_count := hi.count; have f_orph_virt := hi.orph_virt; have f_incall := hi.incall; clear hi; (intros; (try simp only [hubf] at *); grind [mem_removeL, nodup_removeL, removeL_nil]))
+      | (have f_rs_fwd := hi.rs_fwd; have f_rs_room := hi.rs_room; have f_fresh := hi.fresh; clear hi; (intros; (try simp only [hubf] at *); grind [mem_removeL, nodup_removeL, removeL_nil, length_removeL_le]))
+      | (have f_fresh := hi.fresh; have f_mem_room := hi.mem_room; have f_room_mem := hi.room_mem; have f_nonempty := hi.nonempty; have f_nodup := hi.nodup; have f_roomL_iff := hi.roomL_iff; have f_roomL_nodup := hi.roomL_nodup; have f_userL_iff := hi.userL_iff; have f_userL_nodup := hi.userL_nodup; have f_sessL_iff := hi.sessL_iff; have f_rs_fwd := hi.rs_fwd; have f_rs_room := hi.rs_room; have f_virt := hi.virt; have f_children := hi.children; have f_vtable := hi.vtable; have f_conn_iff := hi.conn_iff; have f_conn_open := hi.conn_open; have f_eh := hi.eh; have f_expired := hi.expired; have f_anon := hi.anon; have f_dialout := hi.dialout; have f_count := hi.count; have f_orph_virt := hi.orph_virt; have f_incall := hi.incall; have f_count_le := hi.count_le; clear hi; (intros; (try simp only [hubf] at *); grind [mem_removeL, nodup_removeL, removeL_nil, length_removeL_le]))
   case rs_room =>
     first
-      | (have f_rs_room := hi.rs_room; have f_rs_fwd := hi.rs_fwd; have f_fresh := hi.fresh; have f_room_mem := hi.room_mem; clear hi; (intros; (try simp only [hubf] at *); grind [mem_removeL, nodup_removeL, removeL_nil]))
-      | (have f_fresh := hi.fresh; have f_mem_room := hi.mem_room; have f_room_mem := hi.room_mem; have f_nonempty := hi.nonempty; have f_nodup := hi.nodup; have f_roomL_iff := hi.roomL_iff; have f_roomL_nodup := hi.roomL_nodup; have f_userL_iff := hi.userL_iff; have f_userL_nodup := hi.userL_nodup; have f_sessL_iff := hi.sessL_iff; have f_rs_fwd := hi.rs_fwd; have f_rs_room := hi.rs_room; have f_virt := hi.virt; have f_children := hi.children; have f_vtable := hi.vtable; have f_conn_iff := hi.conn_iff; have f_conn_open := hi.conn_open; have f_eh := hi.eh; have f_expired := hi.expired; have f_anon := hi.anon; have f_dialout := hi.dialout; have f_count := hi.count; have f_orph_virt := hi.orph_virt; have f_incall := hi.incall; clear hi; (intros; (try simp only [hubf] at *); grind [mem_removeL, nodup_removeL, removeL_nil]))
+      | (have f_rs_room := hi.rs_room; have f_rs_fwd := hi.rs_fwd; have f_fresh := hi.fresh; have f_room_mem := hi.room_mem; clear hi; (intros; (try simp only [hubf] at *); grind [mem_removeL, nodup_removeL, removeL_nil, length_removeL_le]))
+      | (have f_fresh := hi.fresh; have f_mem_room := hi.mem_room; have f_room_mem := hi.room_mem; have f_nonempty := hi.nonempty; have f_nodup := hi.nodup; have f_roomL_iff := hi.roomL_iff; have f_roomL_nodup := hi.roomL_nodup; have f_userL_iff := hi.userL_iff; have f_userL_nodup := hi.userL_nodup; have f_sessL_iff := hi.sessL_iff; have f_rs_fwd := hi.rs_fwd; have f_rs_room := hi.rs_room; have f_virt := hi.virt; have f_children := hi.children; have f_vtable := hi.vtable; have f_conn_iff := hi.conn_iff; have f_conn_open := hi.conn_open; have f_eh := hi.eh; have f_expired := hi.expired; have f_anon := hi.anon; have f_dialout := hi.dialout; have f_count := hi.count; have f_orph_virt := hi.orph_virt; have f_incall := hi.incall; have f_count_le := hi.count_le; clear hi; (intros; (try simp only [hubf] at *); grind [mem_removeL, nodup_removeL, removeL_nil, length_removeL_le]))
   case virt =>
     first
-      | (have f_virt := hi.virt; have f_children := hi.children; have f_fresh := hi.fresh; clear hi; (intros; (try simp only [hubf] at *); grind [mem_removeL, nodup_removeL, removeL_nil]))
-      | (have f_fresh := hi.fresh; have f_mem_room := hi.mem_room; have f_room_mem := hi.room_mem; have f_nonempty := hi.nonempty; have f_nodup := hi.nodup; have f_roomL_iff := hi.roomL_iff; have f_roomL_nodup := hi.roomL_nodup; have f_userL_iff := hi.userL_iff; have f_userL_nodup := hi.userL_nodup; have f_sessL_iff := hi.sessL_iff; have f_rs_fwd := hi.rs_fwd; have f_rs_room := hi.rs_room; have f_virt := hi.virt; have f_children := hi.children; have f_vtable := hi.vtable; have f_conn_iff := hi.conn_iff; have f_conn_open := hi.conn_open; have f_eh := hi.eh; have f_expired := hi.expired; have f_anon := hi.anon; have f_dialout := hi.dialout; have f_count := hi.count; have f_orph_virt := hi.orph_virt; have f_incall := hi.incall; clear hi; (intros; (try simp only [hubf] at *); grind [mem_removeL, nodup_removeL, removeL_nil]))
+      | (have f_virt := hi.virt; have f_children := hi.children; have f_fresh := hi.fresh; clear hi; (intros; (try simp only [hubf] at *); grind [mem_removeL, nodup_removeL, removeL_nil, length_removeL_le]))
+      | (have f_fresh := hi.fresh; have f_mem_room := hi.mem_room; have f_room_mem := hi.room_mem; have f_nonempty := hi.nonempty; have f_nodup := hi.nodup; have f_roomL_iff := hi.roomL_iff; have f_roomL_nodup := hi.roomL_nodup; have f_userL_iff := hi.userL_iff; have f_userL_nodup := hi.userL_nodup; have f_sessL_iff := hi.sessL_iff; have f_rs_fwd := hi.rs_fwd; have f_rs_room := hi.rs_room; have f_virt := hi.virt; have f_children := hi.children; have f_vtable := hi.vtable; have f_conn_iff := hi.conn_iff; have f_conn_open := hi.conn_open; have f_eh := hi.eh; have f_expired := hi.expired; have f_anon := hi.anon; have f_dialout := hi.dialout; have f_count := hi.count; have f_orph_virt := hi.orph_virt; have f_incall := hi.incall; have f_count_le := hi.count_le; clear hi; (intros; (try simp only [hubf] at *); grind [mem_removeL, nodup_removeL, removeL_nil, length_removeL_le]))
   case children =>
     first
-      | (have f_children := hi.children; have f_virt := hi.virt; have f_fresh := hi.fresh; clear hi; (intros; (try simp only [hubf] at *); grind [mem_removeL, nodup_removeL, removeL_nil]))
-      | (have f_fresh := hi.fresh; have f_mem_room := hi.mem_room; have f_room_mem := hi.room_mem; have f_nonempty := hi.nonempty; have f_nodup := hi.nodup; have f_roomL_iff := hi.roomL_iff; have f_roomL_nodup := hi.roomL_nodup; have f_userL_iff := hi.userL_iff; have f_userL_nodup := hi.userL_nodup; have f_sessL_iff := hi.sessL_iff; have f_rs_fwd := hi.rs_fwd; have f_rs_room := hi.rs_room; have f_virt := hi.virt; have f_children := hi.children; have f_vtable := hi.vtable; have f_conn_iff := hi.conn_iff; have f_conn_open := hi.conn_open; have f_eh := hi.eh; have f_expired := hi.expired; have f_anon := hi.anon; have f_dialout := hi.dialout; have f_count := hi.count; have f_orph_virt := hi.orph_virt; have f_incall := hi.incall; clear hi; (intros; (try simp only [hubf] at *); grind [mem_removeL, nodup_removeL, removeL_nil]))
+      | (have f_children := hi.children; have f_virt := hi.virt; have f_fresh := hi.fresh; clear hi; (intros; (try simp only [hubf] at *); grind [mem_removeL, nodup_removeL, removeL_nil, length_removeL_le]))
+      | (have f_fresh := hi.fresh; have f_mem_room := hi.mem_room; have f_room_mem := hi.room_mem; have f_nonempty := hi.nonempty; have f_nodup := hi.nodup; have f_roomL_iff := hi.roomL_iff; have f_roomL_nodup := hi.roomL_nodup; have f_userL_iff := hi.userL_iff; have f_userL_nodup := hi.userL_nodup; have f_sessL_iff := hi.sessL_iff; have f_rs_fwd := hi.rs_fwd; have f_rs_room := hi.rs_room; have f_virt := hi.virt; have f_children := hi.children; have f_vtable := hi.vtable; have f_conn_iff := hi.conn_iff; have f_conn_open := hi.conn_open; have f_eh := hi.eh; have f_expired := hi.expired; have f_anon := hi.anon; have f_dialout := hi.dialout; have f_count := hi.count; have f_orph_virt := hi.orph_virt; have f_incall := hi.incall; have f_count_le := hi.count_le; clear hi; (intros; (try simp only [hubf] at *); grind [mem_removeL, nodup_removeL, removeL_nil, length_removeL_le]))
   case vtable =>
     first
-      | (have f_vtable := hi.vtable; have f_virt := hi.virt; have f_fresh := hi.fresh; clear hi; (intros; (try simp only [hubf] at *); grind [mem_removeL, nodup_removeL, removeL_nil]))
-      | (have f_fresh := hi.fresh; have f_mem_room := hi.mem_room; have f_room_mem := hi.room_mem; have f_nonempty := hi.nonempty; have f_nodup := hi.nodup; have f_roomL_iff := hi.roomL_iff; have f_roomL_nodup := hi.roomL_nodup; have f_userL_iff := hi.userL_iff; have f_userL_nodup := hi.userL_nodup; have f_sessL_iff := hi.sessL_iff; have f_rs_fwd := hi.rs_fwd; have f_rs_room := hi.rs_room; have f_virt := hi.virt; have f_children := hi.children; have f_vtable := hi.vtable; have f_conn_iff := hi.conn_iff; have f_conn_open := hi.conn_open; have f_eh := hi.eh; have f_expired := hi.expired; have f_anon := hi.anon; have f_dialout := hi.dialout; have f_count := hi.count; have f_orph_virt := hi.orph_virt; have f_incall := hi.incall; clear hi; (intros; (try simp only [hubf] at *); grind [mem_removeL, nodup_removeL, removeL_nil]))
+      | (have f_vtable := hi.vtable; have f_virt := hi.virt; have f_fresh := hi.fresh; clear hi; (intros; (try simp only [hubf] at *); grind [mem_removeL, nodup_removeL, removeL_nil, length_removeL_le]))
+      | (have f_fresh := hi.fresh; have f_mem_room := hi.mem_room; have f_room_mem := hi.room_mem; have f_nonempty := hi.nonempty; have f_nodup := hi.nodup; have f_roomL_iff := hi.roomL_iff; have f_roomL_nodup := hi.roomL_nodup; have f_userL_iff := hi.userL_iff; have f_userL_nodup := hi.userL_nodup; have f_sessL_iff := hi.sessL_iff; have f_rs_fwd := hi.rs_fwd; have f_rs_room := hi.rs_room; have f_virt := hi.virt; have f_children := hi.children; have f_vtable := hi.vtable; have f_conn_iff := hi.conn_iff; have f_conn_open := hi.conn_open; have f_eh := hi.eh; have f_expired := hi.expired; have f_anon := hi.anon; have f_dialout := hi.dialout; have f_count := hi.count; have f_orph_virt := hi.orph_virt; have f_incall := hi.incall; have f_count_le := hi.count_le; clear hi; (intros; (try simp only [hubf] at *); grind [mem_removeL, nodup_removeL, removeL_nil, length_removeL_le]))
   case conn_iff =>
     first
-      | (have f_conn_iff := hi.conn_iff; have f_fresh := hi.fresh; have f_virt := hi.virt; clear hi; (intros; (try simp only [hubf] at *); grind [mem_removeL, nodup_removeL, removeL_nil]))
-      | (have f_fresh := hi.fresh; have f_mem_room := hi.mem_room; have f_room_mem := hi.room_mem; have f_nonempty := hi.nonempty; have f_nodup := hi.nodup; have f_roomL_iff := hi.roomL_iff; have f_roomL_nodup := hi.roomL_nodup; have f_userL_iff := hi.userL_iff; have f_userL_nodup := hi.userL_nodup; have f_sessL_iff := hi.sessL_iff; have f_rs_fwd := hi.rs_fwd; have f_rs_room := hi.rs_room; have f_virt := hi.virt; have f_children := hi.children; have f_vtable := hi.vtable; have f_conn_iff := hi.conn_iff; have f_conn_open := hi.conn_open; have f_eh := hi.eh; have f_expired := hi.expired; have f_anon := hi.anon; have f_dialout := hi.dialout; have f_count := hi.count; have f_orph_virt := hi.orph_virt; have f_incall := hi.incall; clear hi; (intros; (try simp only [hubf] at *); grind [mem_removeL, nodup_removeL, removeL_nil]))
+      | (have f_conn_iff := hi.conn_iff; have f_fresh := hi.fresh; have f_virt := hi.virt; clear hi; (intros; (try simp only [hubf] at *); grind [mem_removeL, nodup_removeL, removeL_nil, length_removeL_le]))
+      | (have f_fresh := hi.fresh; have f_mem_room := hi.mem_room; have f_room_mem := hi.room_mem; have f_nonempty := hi.nonempty; have f_nodup := hi.nodup; have f_roomL_iff := hi.roomL_iff; have f_roomL_nodup := hi.roomL_nodup; have f_userL_iff := hi.userL_iff; have f_userL_nodup := hi.userL_nodup; have f_sessL_iff := hi.sessL_iff; have f_rs_fwd := hi.rs_fwd; have f_rs_room := hi.rs_room; have f_virt := hi.virt; have f_children := hi.children; have f_vtable := hi.vtable; have f_conn_iff := hi.conn_iff; have f_conn_open := hi.conn_open; have f_eh := hi.eh; have f_expired := hi.expired; have f_anon := hi.anon; have f_dialout := hi.dialout; have f_count := hi.count; have f_orph_virt := hi.orph_virt; have f_incall := hi.incall; have f_count_le := hi.count_le; clear hi; (intros; (try simp only [hubf] at *); grind [mem_removeL, nodup_removeL, removeL_nil, length_removeL_le]))
   case conn_open =>
     first
-      | (have f_conn_open := hi.conn_open; have f_conn_iff := hi.conn_iff; clear hi; (intros; (try simp only [hubf] at *); grind [mem_removeL, nodup_removeL, removeL_nil]))
-      | (have f_fresh := hi.fresh; have f_mem_room := hi.mem_room; have f_room_mem := hi.room_mem; have f_nonempty := hi.nonempty; have f_nodup := hi.nodup; have f_roomL_iff := hi.roomL_iff; have f_roomL_nodup := hi.roomL_nodup; have f_userL_iff := hi.userL_iff; have f_userL_nodup := hi.userL_nodup; have f_sessL_iff := hi.sessL_iff; have f_rs_fwd := hi.rs_fwd; have f_rs_room := hi.rs_room; have f_virt := hi.virt; have f_children := hi.children; have f_vtable := hi.vtable; have f_conn_iff := hi.conn_iff; have f_conn_open := hi.conn_open; have f_eh := hi.eh; have f_expired := hi.expired; have f_anon := hi.anon; have f_dialout := hi.dialout; have f_count := hi.count; have f_orph_virt := hi.orph_virt; have f_incall := hi.incall; clear hi; (intros; (try simp only [hubf] at *); grind [mem_removeL, nodup_removeL, removeL_nil]))
+      | (have f_conn_open := hi.conn_open; have f_conn_iff := hi.conn_iff; clear hi; (intros; (try simp only [hubf] at *); grind [mem_removeL, nodup_removeL, removeL_nil, length_removeL_le]))
+      | (have f_fresh := hi.fresh; have f_mem_room := hi.mem_room; have f_room_mem := hi.room_mem; have f_nonempty := hi.nonempty; have f_nodup := hi.nodup; have f_roomL_iff := hi.roomL_iff; have f_roomL_nodup := hi.roomL_nodup; have f_userL_iff := hi.userL_iff; have f_userL_nodup := hi.userL_nodup; have f_sessL_iff := hi.sessL_iff; have f_rs_fwd := hi.rs_fwd; have f_rs_room := hi.rs_room; have f_virt := hi.virt; have f_children := hi.children; have f_vtable := hi.vtable; have f_conn_iff := hi.conn_iff; have f_conn_open := hi.conn_open; have f_eh := hi.eh; have f_expired := hi.expired; have f_anon := hi.anon; have f_dialout := hi.dialout; have f_count := hi.count; have f_orph_virt := hi.orph_virt; have f_incall := hi.incall; have f_count_le := hi.count_le; clear hi; (intros; (try simp only [hubf] at *); grind [mem_removeL, nodup_removeL, removeL_nil, length_removeL_le]))
   case eh =>
     first
-      | (have f_eh := hi.eh; have f_conn_iff := hi.conn_iff; have f_conn_open := hi.conn_open; clear hi; (intros; (try simp only [hubf] at *); grind [mem_removeL, nodup_removeL, removeL_nil]))
-      | (have f_fresh := hi.fresh; have f_mem_room := hi.mem_room; have f_room_mem := hi.room_mem; have f_nonempty := hi.nonempty; have f_nodup := hi.nodup; have f_roomL_iff := hi.roomL_iff; have f_roomL_nodup := hi.roomL_nodup; have f_userL_iff := hi.userL_iff; have f_userL_nodup := hi.userL_nodup; have f_sessL_iff := hi.sessL_iff; have f_rs_fwd := hi.rs_fwd; have f_rs_room := hi.rs_room; have f_virt := hi.virt; have f_children := hi.children; have f_vtable := hi.vtable; have f_conn_iff := hi.conn_iff; have f_conn_open := hi.conn_open; have f_eh := hi.eh; have f_expired := hi.expired; have f_anon := hi.anon; have f_dialout := hi.dialout; have f_count := hi.count; have f_orph_virt := hi.orph_virt; have f_incall := hi.incall; clear hi; (intros; (try simp only [hubf] at *); grind [mem_removeL, nodup_removeL, removeL_nil]))
+      | (have f_eh := hi.eh; have f_conn_iff := hi.conn_iff; have f_conn_open := hi.conn_open; clear hi; (intros; (try simp only [hubf] at *); grind [mem_removeL, nodup_removeL, removeL_nil, length_removeL_le]))
+      | (have f_fresh := hi.fresh; have f_mem_room := hi.mem_room; have f_room_mem := hi.room_mem; have f_nonempty := hi.nonempty; have f_nodup := hi.nodup; have f_roomL_iff := hi.roomL_iff; have f_roomL_nodup := hi.roomL_nodup; have f_userL_iff := hi.userL_iff; have f_userL_nodup := hi.userL_nodup; have f_sessL_iff := hi.sessL_iff; have f_rs_fwd := hi.rs_fwd; have f_rs_room := hi.rs_room; have f_virt := hi.virt; have f_children := hi.children; have f_vtable := hi.vtable; have f_conn_iff := hi.conn_iff; have f_conn_open := hi.conn_open; have f_eh := hi.eh; have f_expired := hi.expired; have f_anon := hi.anon; have f_dialout := hi.dialout; have f_count := hi.count; have f_orph_virt := hi.orph_virt; have f_incall := hi.incall; have f_count_le := hi.count_le; clear hi; (intros; (try simp only [hubf] at *); grind [mem_removeL, nodup_removeL, removeL_nil, length_removeL_le]))
   case expired =>
     first
-      | (have f_expired := hi.expired; have f_fresh := hi.fresh; clear hi; (intros; (try simp only [hubf] at *); grind [mem_removeL, nodup_removeL, removeL_nil]))
-      | (have f_fresh := hi.fresh; have f_mem_room := hi.mem_room; have f_room_mem := hi.room_mem; have f_nonempty := hi.nonempty; have f_nodup := hi.nodup; have f_roomL_iff := hi.roomL_iff; have f_roomL_nodup := hi.roomL_nodup; have f_userL_iff := hi.userL_iff; have f_userL_nodup := hi.userL_nodup; have f_sessL_iff := hi.sessL_iff; have f_rs_fwd := hi.rs_fwd; have f_rs_room := hi.rs_room; have f_virt := hi.virt; have f_children := hi.children; have f_vtable := hi.vtable; have f_conn_iff := hi.conn_iff; have f_conn_open := hi.conn_open; have f_eh := hi.eh; have f_expired := hi.expired; have f_anon := hi.anon; have f_dialout := hi.dialout; have f_count := hi.count; have f_orph_virt := hi.orph_virt; have f_incall := hi.incall; clear hi; (intros; (try simp only [hubf] at *); grind [mem_removeL, nodup_removeL, removeL_nil]))
+      | (have f_expired := hi.expired; have f_fresh := hi.fresh; clear hi; (intros; (try simp only [hubf] at *); grind [mem_removeL, nodup_removeL, removeL_nil, length_removeL_le]))
+      | (have f_fresh := hi.fresh; have f_mem_room := hi.mem_room; have f_room_mem := hi.room_mem; have f_nonempty := hi.nonempty; have f_nodup := hi.nodup; have f_roomL_iff := hi.roomL_iff; have f_roomL_nodup := hi.roomL_nodup; have f_userL_iff := hi.userL_iff; have f_userL_nodup := hi.userL_nodup; have f_sessL_iff := hi.sessL_iff; have f_rs_fwd := hi.rs_fwd; have f_rs_room := hi.rs_room; have f_virt := hi.virt; have f_children := hi.children; have f_vtable := hi.vtable; have f_conn_iff := hi.conn_iff; have f_conn_open := hi.conn_open; have f_eh := hi.eh; have f_expired := hi.expired; have f_anon := hi.anon; have f_dialout := hi.dialout; have f_count := hi.count; have f_orph_virt := hi.orph_virt; have f_incall := hi.incall; have f_count_le := hi.count_le; clear hi; (intros; (try simp only [hubf] at *); grind [mem_removeL, nodup_removeL, removeL_nil, length_removeL_le]))
   case anon =>
     first
-      | (have f_anon := hi.anon; have f_fresh := hi.fresh; clear hi; (intros; (try simp only [hubf] at *); grind [mem_removeL, nodup_removeL, removeL_nil]))
-      | (have f_fresh := hi.fresh; have f_mem_room := hi.mem_room; have f_room_mem := hi.room_mem; have f_nonempty := hi.nonempty; have f_nodup := hi.nodup; have f_roomL_iff := hi.roomL_iff; have f_roomL_nodup := hi.roomL_nodup; have f_userL_iff := hi.userL_iff; have f_userL_nodup := hi.userL_nodup; have f_sessL_iff := hi.sessL_iff; have f_rs_fwd := hi.rs_fwd; have f_rs_room := hi.rs_room; have f_virt := hi.virt; have f_children := hi.children; have f_vtable := hi.vtable; have f_conn_iff := hi.conn_iff; have f_conn_open := hi.conn_open; have f_eh := hi.eh; have f_expired := hi.expired; have f_anon := hi.anon; have f_dialout := hi.dialout; have f_count := hi.count; have f_orph_virt := hi.orph_virt; have f_incall := hi.incall; clear hi; (intros; (try simp only [hubf] at *); grind [mem_removeL, nodup_removeL, removeL_nil]))
+      | (have f_anon := hi.anon; have f_fresh := hi.fresh; clear hi; (intros; (try simp only [hubf] at *); grind [mem_removeL, nodup_removeL, removeL_nil, length_removeL_le]))
+      | (have f_fresh := hi.fresh; have f_mem_room := hi.mem_room; have f_room_mem := hi.room_mem; have f_nonempty := hi.nonempty; have f_nodup := hi.nodup; have f_roomL_iff := hi.roomL_iff; have f_roomL_nodup := hi.roomL_nodup; have f_userL_iff := hi.userL_iff; have f_userL_nodup := hi.userL_nodup; have f_sessL_iff := hi.sessL_iff; have f_rs_fwd := hi.rs_fwd; have f_rs_room := hi.rs_room; have f_virt := hi.virt; have f_children := hi.children; have f_vtable := hi.vtable; have f_conn_iff := hi.conn_iff; have f_conn_open := hi.conn_open; have f_eh := hi.eh; have f_expired := hi.expired; have f_anon := hi.anon; have f_dialout := hi.dialout; have f_count := hi.count; have f_orph_virt := hi.orph_virt; have f_incall := hi.incall; have f_count_le := hi.count_le; clear hi; (intros; (try simp only [hubf] at *); grind [mem_removeL, nodup_removeL, removeL_nil, length_removeL_le]))
   case dialout =>
     first
-      | (have f_dialout := hi.dialout; have f_fresh := hi.fresh; clear hi; (intros; (try simp only [hubf] at *); grind [mem_removeL, nodup_removeL, removeL_nil]))
-      | (have f_fresh := hi.fresh; have f_mem_room := hi.mem_room; have f_room_mem := hi.room_mem; have f_nonempty := hi.nonempty; have f_nodup := hi.nodup; have f_roomL_iff := hi.roomL_iff; have f_roomL_nodup := hi.roomL_nodup; have f_userL_iff := hi.userL_iff; have f_userL_nodup := hi.userL_nodup; have f_sessL_iff := hi.sessL_iff; have f_rs_fwd := hi.rs_fwd; have f_rs_room := hi.rs_room; have f_virt := hi.virt; have f_children := hi.children; have f_vtable := hi.vtable; have f_conn_iff := hi.conn_iff; have f_conn_open := hi.conn_open; have f_eh := hi.eh; have f_expired := hi.expired; have f_anon := hi.anon; have f_dialout := hi.dialout; have f_count := hi.count; have f_orph_virt := hi.orph_virt; have f_incall := hi.incall; clear hi; (intros; (try simp only [hubf] at *); grind [mem_removeL, nodup_removeL, removeL_nil]))
+      | (have f_dialout := hi.dialout; have f_fresh := hi.fresh; clear hi; (intros; (try simp only [hubf] at *); grind [mem_removeL, nodup_removeL, removeL_nil, length_removeL_le]))
+      | (have f_fresh := hi.fresh; have f_mem_room := hi.mem_room; have f_room_mem := hi.room_mem; have f_nonempty := hi.nonempty; have f_nodup := hi.nodup; have f_roomL_iff := hi.roomL_iff; have f_roomL_nodup := hi.roomL_nodup; have f_userL_iff := hi.userL_iff; have f_userL_nodup := hi.userL_nodup; have f_sessL_iff := hi.sessL_iff; have f_rs_fwd := hi.rs_fwd; have f_rs_room := hi.rs_room; have f_virt := hi.virt; have f_children := hi.children; have f_vtable := hi.vtable; have f_conn_iff := hi.conn_iff; have f_conn_open := hi.conn_open; have f_eh := hi.eh; have f_expired := hi.expired; have f_anon := hi.anon; have f_dialout := hi.dialout; have f_count := hi.count; have f_orph_virt := hi.orph_virt; have f_incall := hi.incall; have f_count_le := hi.count_le; clear hi; (intros; (try simp only [hubf] at *); grind [mem_removeL, nodup_removeL, removeL_nil, length_removeL_le]))
   case count =>
     first
-      | (have f_count := hi.count; have f_fresh := hi.fresh; clear hi; (intros; (try simp only [hubf] at *); grind [mem_removeL, nodup_removeL, removeL_nil]))
-      | (have f_fresh := hi.fresh; have f_mem_room := hi.mem_room; have f_room_mem := hi.room_mem; have f_nonempty := hi.nonempty; have f_nodup := hi.nodup; have f_roomL_iff := hi.roomL_iff; have f_roomL_nodup := hi.roomL_nodup; have f_userL_iff := hi.userL_iff; have f_userL_nodup := hi.userL_nodup; have f_sessL_iff := hi.sessL_iff; have f_rs_fwd := hi.rs_fwd; have f_rs_room := hi.rs_room; have f_virt := hi.virt; have f_children := hi.children; have f_vtable := hi.vtable; have f_conn_iff := hi.conn_iff; have f_conn_open := hi.conn_open; have f_eh := hi.eh; have f_expired := hi.expired; have f_anon := hi.anon; have f_dialout := hi.dialout; have f_count := hi.count; have f_orph_virt := hi.orph_virt; have f_incall := hi.incall; clear hi; (intros; (try simp only [hubf] at *); grind [mem_removeL, nodup_removeL, removeL_nil]))
+      | (have f_count := hi.count; have f_fresh := hi.fresh; clear hi; (intros; (try simp only [hubf] at *); grind [mem_removeL, nodup_removeL, removeL_nil, length_removeL_le]))
+      | (have f_fresh := hi.fresh; have f_mem_room := hi.mem_room; have f_room_mem := hi.room_mem; have f_nonempty := hi.nonempty; have f_nodup := hi.nodup; have f_roomL_iff := hi.roomL_iff; have f_roomL_nodup := hi.roomL_nodup; have f_userL_iff := hi.userL_iff; have f_userL_nodup := hi.userL_nodup; have f_sessL_iff := hi.sessL_iff; have f_rs_fwd := hi.rs_fwd; have f_rs_room := hi.rs_room; have f_virt := hi.virt; have f_children := hi.children; have f_vtable := hi.vtable; have f_conn_iff := hi.conn_iff; have f_conn_open := hi.conn_open; have f_eh := hi.eh; have f_expired := hi.expired; have f_anon := hi.anon; have f_dialout := hi.dialout; have f_count := hi.count; have f_orph_virt := hi.orph_virt; have f_incall := hi.incall; have f_count_le := hi.count_le; clear hi; (intros; (try simp only [hubf] at *); grind [mem_removeL, nodup_removeL, removeL_nil, length_removeL_le]))
   case orph_virt =>
     first
-      | (have f_orph_virt := hi.orph_virt; have f_fresh := hi.fresh; have f_children := hi.children; have f_virt := hi.virt; clear hi; (intros; (try simp only [hubf] at *); grind [mem_removeL, nodup_removeL, removeL_nil]))
-      | (have f_fresh := hi.fresh; have f_mem_room := hi.mem_room; have f_room_mem := hi.room_mem; have f_nonempty := hi.nonempty; have f_nodup := hi.nodup; have f_roomL_iff := hi.roomL_iff; have f_roomL_nodup := hi.roomL_nodup; have f_userL_iff := hi.userL_iff; have f_userL_nodup := hi.userL_nodup; have f_sessL_iff := hi.sessL_iff; have f_rs_fwd := hi.rs_fwd; have f_rs_room := hi.rs_room; have f_virt := hi.virt; have f_children := hi.children; have f_vtable := hi.vtable; have f_conn_iff := hi.conn_iff; have f_conn_open := hi.conn_open; have f_eh := hi.eh; have f_expired := hi.expired; have f_anon := hi.anon; have f_dialout := hi.dialout; have f_count := hi.count; have f_orph_virt := hi.orph_virt; have f_incall := hi.incall; clear hi; (intros; (try simp only [hubf] at *); grind [mem_removeL, nodup_removeL, removeL_nil]))
+      | (have f_orph_virt := hi.orph_virt; have f_fresh := hi.fresh; have f_children := hi.children; have f_virt := hi.virt; clear hi; (intros; (try simp only [hubf] at *); grind [mem_removeL, nodup_removeL, removeL_nil, length_removeL_le]))
+      | (have f_fresh := hi.fresh; have f_mem_room := hi.mem_room; have f_room_mem := hi.room_mem; have f_nonempty := hi.nonempty; have f_nodup := hi.nodup; have f_roomL_iff := hi.roomL_iff; have f_roomL_nodup := hi.roomL_nodup; have f_userL_iff := hi.userL_iff; have f_userL_nodup := hi.userL_nodup; have f_sessL_iff := hi.sessL_iff; have f_rs_fwd := hi.rs_fwd; have f_rs_room := hi.rs_room; have f_virt := hi.virt; have f_children := hi.children; have f_vtable := hi.vtable; have f_conn_iff := hi.conn_iff; have f_conn_open := hi.conn_open; have f_eh := hi.eh; have f_expired := hi.expired; have f_anon := hi.anon; have f_dialout := hi.dialout; have f_count := hi.count; have f_orph_virt := hi.orph_virt; have f_incall := hi.incall; have f_count_le := hi.count_le; clear hi; (intros; (try simp only [hubf] at *); grind [mem_removeL, nodup_removeL, removeL_nil, length_removeL_le]))
   case incall =>
     first
-      | (have f_incall := hi.incall; have f_mem_room := hi.mem_room; clear hi; (intros; (try simp only [hubf] at *); grind [mem_removeL, nodup_removeL, removeL_nil]))
-      | (have f_fresh := hi.fresh; have f_mem_room := hi.mem_room; have f_room_mem := hi.room_mem; have f_nonempty := hi.nonempty; have f_nodup := hi.nodup; have f_roomL_iff := hi.roomL_iff; have f_roomL_nodup := hi.roomL_nodup; have f_userL_iff := hi.userL_iff; have f_userL_nodup := hi.userL_nodup; have f_sessL_iff := hi.sessL_iff; have f_rs_fwd := hi.rs_fwd; have f_rs_room := hi.rs_room; have f_virt := hi.virt; have f_children := hi.children; have f_vtable := hi.vtable; have f_conn_iff := hi.conn_iff; have f_conn_open := hi.conn_open; have f_eh := hi.eh; have f_expired := hi.expired; have f_anon := hi.anon; have f_dialout := hi.dialout; have f_count := hi.count; have f_orph_virt := hi.orph_virt; have f_incall := hi.incall; clear hi; (intros; (try simp only [hubf] at *); grind [mem_removeL, nodup_removeL, removeL_nil]))
+      | (have f_incall := hi.incall; have f_mem_room := hi.mem_room; clear hi; (intros; (try simp only [hubf] at *); grind [mem_removeL, nodup_removeL, removeL_nil, length_removeL_le]))
+      | (have f_fresh := hi.fresh; have f_mem_room := hi.mem_room; have f_room_mem := hi.room_mem; have f_nonempty := hi.nonempty; have f_nodup := hi.nodup; have f_roomL_iff := hi.roomL_iff; have f_roomL_nodup := hi.roomL_nodup; have f_userL_iff := hi.userL_iff; have f_userL_nodup := hi.userL_nodup; have f_sessL_iff := hi.sessL_iff; have f_rs_fwd := hi.rs_fwd; have f_rs_room := hi.rs_room; have f_virt := hi.virt; have f_children := hi.children; have f_vtable := hi.vtable; have f_conn_iff := hi.conn_iff; have f_conn_open := hi.conn_open; have f_eh := hi.eh; have f_expired := hi.expired; have f_anon := hi.anon; have f_dialout := hi.dialout; have f_count := hi.count; have f_orph_virt := hi.orph_virt; have f_incall := hi.incall; have f_count_le := hi.count_le; clear hi; (intros; (try simp only [hubf] at *); grind [mem_removeL, nodup_removeL, removeL_nil, length_removeL_le]))
+  case count_le =>
+    first
+      | (have f_count_le := hi.count_le; clear hi; (intros; (try simp only [hubf] at *); grind [mem_removeL, nodup_removeL, removeL_nil, length_removeL_le]))
+      | (have f_fresh := hi.fresh; have f_mem_room := hi.mem_room; have f_room_mem := hi.room_mem; have f_nonempty := hi.nonempty; have f_nodup := hi.nodup; have f_roomL_iff := hi.roomL_iff; have f_roomL_nodup := hi.roomL_nodup; have f_userL_iff := hi.userL_iff; have f_userL_nodup := hi.userL_nodup; have f_sessL_iff := hi.sessL_iff; have f_rs_fwd := hi.rs_fwd; have f_rs_room := hi.rs_room; have f_virt := hi.virt; have f_children := hi.children; have f_vtable := hi.vtable; have f_conn_iff := hi.conn_iff; have f_conn_open := hi.conn_open; have f_eh := hi.eh; have f_expired := hi.expired; have f_anon := hi.anon; have f_dialout := hi.dialout; have f_count := hi.count; have f_orph_virt := hi.orph_virt; have f_incall := hi.incall; have f_count_le := hi.count_le; clear hi; (intros; (try simp only [hubf] at *); grind [mem_removeL, nodup_removeL, removeL_nil, length_removeL_le]))
 
 set_option maxHeartbeats 4000000 in
 theorem InvG.setRoom_same {orph : List Nat} {h : Hub} (hi : InvX orph h) {b : Nat} {r : String} {rm rm' : Room}
@@ -856,100 +886,104 @@ theorem InvG.setRoom_same {orph : List Nat} {h : Hub} (hi : InvX orph h) {b : Na
   constructor
   case fresh =>
     first
-      | (have f_fresh := hi.fresh; clear hi; (intros; (try simp only [hubf] at *); grind [mem_removeL, nodup_removeL, removeL_nil]))
-      | (have f_fresh := hi.fresh; have f_mem_room := hi.mem_room; have f_room_mem := hi.room_mem; have f_nonempty := hi.nonempty; have f_nodup := hi.nodup; have f_roomL_iff := hi.roomL_iff; have f_roomL_nodup := hi.roomL_nodup; have f_userL_iff := hi.userL_iff; have f_userL_nodup := hi.userL_nodup; have f_sessL_iff := hi.sessL_iff; have f_rs_fwd := hi.rs_fwd; have f_rs_room := hi.rs_room; have f_virt := hi.virt; have f_children := hi.children; have f_vtable := hi.vtable; have f_conn_iff := hi.conn_iff; have f_conn_open := hi.conn_open; have f_eh := hi.eh; have f_expired := hi.expired; have f_anon := hi.anon; have f_dialout := hi.dialout; have f_count := hi.count; have f_orph_virt := hi.orph_virt; have f_incall := hi.incall; clear hi; (intros; (try simp only [hubf] at *); grind [mem_removeL, nodup_removeL, removeL_nil]))
+      | (have f_fresh := hi.fresh; clear hi; (intros; (try simp only [hubf] at *); grind [mem_removeL, nodup_removeL, removeL_nil, length_removeL_le]))
+      | (have f_fresh := hi.fresh; have f_mem_room := hi.mem_room; have f_room_mem := hi.room_mem; have f_nonempty := hi.nonempty; have f_nodup := hi.nodup; have f_roomL_iff := hi.roomL_iff; have f_roomL_nodup := hi.roomL_nodup; have f_userL_iff := hi.userL_iff; have f_userL_nodup := hi.userL_nodup; have f_sessL_iff := hi.sessL_iff; have f_rs_fwd := hi.rs_fwd; have f_rs_room := hi.rs_room; have f_virt := hi.virt; have f_children := hi.children; have f_vtable := hi.vtable; have f_conn_iff := hi.conn_iff; have f_conn_open := hi.conn_open; have f_eh := hi.eh; have f_expired := hi.expired; have f_anon := hi.anon; have f_dialout := hi.dialout; have f_count := hi.count; have f_orph_virt := hi.orph_virt; have f_incall := hi.incall; have f_count_le := hi.count_le; clear hi; (intros; (try simp only [hubf] at *); grind [mem_removeL, nodup_removeL, removeL_nil, length_removeL_le]))
   case mem_room =>
     first
-      | (have f_mem_room := hi.mem_room; have f_fresh := hi.fresh; clear hi; (intros; (try simp only [hubf] at *); grind [mem_removeL, nodup_removeL, removeL_nil]))
-      | (have f_fresh := hi.fresh; have f_mem_room := hi.mem_room; have f_room_mem := hi.room_mem; have f_nonempty := hi.nonempty; have f_nodup := hi.nodup; have f_roomL_iff := hi.roomL_iff; have f_roomL_nodup := hi.roomL_nodup; have f_userL_iff := hi.userL_iff; have f_userL_nodup := hi.userL_nodup; have f_sessL_iff := hi.sessL_iff; have f_rs_fwd := hi.rs_fwd; have f_rs_room := hi.rs_room; have f_virt := hi.virt; have f_children := hi.children; have f_vtable := hi.vtable; have f_conn_iff := hi.conn_iff; have f_conn_open := hi.conn_open; have f_eh := hi.eh; have f_expired := hi.expired; have f_anon := hi.anon; have f_dialout := hi.dialout; have f_count := hi.count; have f_orph_virt := hi.orph_virt; have f_incall := hi.incall; clear hi; (intros; (try simp only [hubf] at *); grind [mem_removeL, nodup_removeL, removeL_nil]))
+      | (have f_mem_room := hi.mem_room; have f_fresh := hi.fresh; clear hi; (intros; (try simp only [hubf] at *); grind [mem_removeL, nodup_removeL, removeL_nil, length_removeL_le]))
+      | (have f_fresh := hi.fresh; have f_mem_room := hi.mem_room; have f_room_mem := hi.room_mem; have f_nonempty := hi.nonempty; have f_nodup := hi.nodup; have f_roomL_iff := hi.roomL_iff; have f_roomL_nodup := hi.roomL_nodup; have f_userL_iff := hi.userL_iff; have f_userL_nodup := hi.userL_nodup; have f_sessL_iff := hi.sessL_iff; have f_rs_fwd := hi.rs_fwd; have f_rs_room := hi.rs_room; have f_virt := hi.virt; have f_children := hi.children; have f_vtable := hi.vtable; have f_conn_iff := hi.conn_iff; have f_conn_open := hi.conn_open; have f_eh := hi.eh; have f_expired := hi.expired; have f_anon := hi.anon; have f_dialout := hi.dialout; have f_count := hi.count; have f_orph_virt := hi.orph_virt; have f_incall := hi.incall; have f_count_le := hi.count_le; clear hi; (intros; (try simp only [hubf] at *); grind [mem_removeL, nodup_removeL, removeL_nil, length_removeL_le]))
   case room_mem =>
     first
-      | (have f_room_mem := hi.room_mem; have f_mem_room := hi.mem_room; have f_fresh := hi.fresh; clear hi; (intros; (try simp only [hubf] at *); grind [mem_removeL, nodup_removeL, removeL_nil]))
-      | (have f_fresh := hi.fresh; have f_mem_room := hi.mem_room; have f_room_mem := hi.room_mem; have f_nonempty := hi.nonempty; have f_nodup := hi.nodup; have f_roomL_iff := hi.roomL_iff; have f_roomL_nodup := hi.roomL_nodup; have f_userL_iff := hi.userL_iff; have f_userL_nodup := hi.userL_nodup; have f_sessL_iff := hi.sessL_iff; have f_rs_fwd := hi.rs_fwd; have f_rs_room := hi.rs_room; have f_virt := hi.virt; have f_children := hi.children; have f_vtable := hi.vtable; have f_conn_iff := hi.conn_iff; have f_conn_open := hi.conn_open; have f_eh := hi.eh; have f_expired := hi.expired; have f_anon := hi.anon; have f_dialout := hi.dialout; have f_count := hi.count; have f_orph_virt := hi.orph_virt; have f_incall := hi.incall; clear hi; (intros; (try simp only [hubf] at *); grind [mem_removeL, nodup_removeL, removeL_nil]))
+      | (have f_room_mem := hi.room_mem; have f_mem_room := hi.mem_room; have f_fresh := hi.fresh; clear hi; (intros; (try simp only [hubf] at *); grind [mem_removeL, nodup_removeL, removeL_nil, length_removeL_le]))
+      | (have f_fresh := hi.fresh; have f_mem_room := hi.mem_room; have f_room_mem := hi.room_mem; have f_nonempty := hi.nonempty; have f_nodup := hi.nodup; have f_roomL_iff := hi.roomL_iff; have f_roomL_nodup := hi.roomL_nodup; have f_userL_iff := hi.userL_iff; have f_userL_nodup := hi.userL_nodup; have f_sessL_iff := hi.sessL_iff; have f_rs_fwd := hi.rs_fwd; have f_rs_room := hi.rs_room; have f_virt := hi.virt; have f_children := hi.children; have f_vtable := hi.vtable; have f_conn_iff := hi.conn_iff; have f_conn_open := hi.conn_open; have f_eh := hi.eh; have f_expired := hi.expired; have f_anon := hi.anon; have f_dialout := hi.dialout; have f_count := hi.count; have f_orph_virt := hi.orph_virt; have f_incall := hi.incall; have f_count_le := hi.count_le; clear hi; (intros; (try simp only [hubf] at *); grind [mem_removeL, nodup_removeL, removeL_nil, length_removeL_le]))
   case nonempty =>
     first
-      | (have f_nonempty := hi.nonempty; have f_mem_room := hi.mem_room; clear hi; (intros; (try simp only [hubf] at *); grind [mem_removeL, nodup_removeL, removeL_nil]))
-      | (have f_fresh := hi.fresh; have f_mem_room := hi.mem_room; have f_room_mem := hi.room_mem; have f_nonempty := hi.nonempty; have f_nodup := hi.nodup; have f_roomL_iff := hi.roomL_iff; have f_roomL_nodup := hi.roomL_nodup; have f_userL_iff := hi.userL_iff; have f_userL_nodup := hi.userL_nodup; have f_sessL_iff := hi.sessL_iff; have f_rs_fwd := hi.rs_fwd; have f_rs_room := hi.rs_room; have f_virt := hi.virt; have f_children := hi.children; have f_vtable := hi.vtable; have f_conn_iff := hi.conn_iff; have f_conn_open := hi.conn_open; have f_eh := hi.eh; have f_expired := hi.expired; have f_anon := hi.anon; have f_dialout := hi.dialout; have f_count := hi.count; have f_orph_virt := hi.orph_virt; have f_incall := hi.incall; clear hi; (intros; (try simp only [hubf] at *); grind [mem_removeL, nodup_removeL, removeL_nil]))
+      | (have f_nonempty := hi.nonempty; have f_mem_room := hi.mem_room; clear hi; (intros; (try simp only [hubf] at *); grind [mem_removeL, nodup_removeL, removeL_nil, length_removeL_le]))
+      | (have f_fresh := hi.fresh; have f_mem_room := hi.mem_room; have f_room_mem := hi.room_mem; have f_nonempty := hi.nonempty; have f_nodup := hi.nodup; have f_roomL_iff := hi.roomL_iff; have f_roomL_nodup := hi.roomL_nodup; have f_userL_iff := hi.userL_iff; have f_userL_nodup := hi.userL_nodup; have f_sessL_iff := hi.sessL_iff; have f_rs_fwd := hi.rs_fwd; have f_rs_room := hi.rs_room; have f_virt := hi.virt; have f_children := hi.children; have f_vtable := hi.vtable; have f_conn_iff := hi.conn_iff; have f_conn_open := hi.conn_open; have f_eh := hi.eh; have f_expired := hi.expired; have f_anon := hi.anon; have f_dialout := hi.dialout; have f_count := hi.count; have f_orph_virt := hi.orph_virt; have f_incall := hi.incall; have f_count_le := hi.count_le; clear hi; (intros; (try simp only [hubf] at *); grind [mem_removeL, nodup_removeL, removeL_nil, length_removeL_le]))
   case nodup =>
     first
-      | (have f_nodup := hi.nodup; clear hi; (intros; (try simp only [hubf] at *); grind [mem_removeL, nodup_removeL, removeL_nil]))
-      | (have f_fresh := hi.fresh; have f_mem_room := hi.mem_room; have f_room_mem := hi.room_mem; have f_nonempty := hi.nonempty; have f_nodup := hi.nodup; have f_roomL_iff := hi.roomL_iff; have f_roomL_nodup := hi.roomL_nodup; have f_userL_iff := hi.userL_iff; have f_userL_nodup := hi.userL_nodup; have f_sessL_iff := hi.sessL_iff; have f_rs_fwd := hi.rs_fwd; have f_rs_room := hi.rs_room; have f_virt := hi.virt; have f_children := hi.children; have f_vtable := hi.vtable; have f_conn_iff := hi.conn_iff; have f_conn_open := hi.conn_open; have f_eh := hi.eh; have f_expired := hi.expired; have f_anon := hi.anon; have f_dialout := hi.dialout; have f_count := hi.count; have f_orph_virt := hi.orph_virt; have f_incall := hi.incall; clear hi; (intros; (try simp only [hubf] at *); grind [mem_removeL, nodup_removeL, removeL_nil]))
+      | (have f_nodup := hi.nodup; clear hi; (intros; (try simp only [hubf] at *); grind [mem_removeL, nodup_removeL, removeL_nil, length_removeL_le]))
+      | (have f_fresh := hi.fresh; have f_mem_room := hi.mem_room; have f_room_mem := hi.room_mem; have f_nonempty := hi.nonempty; have f_nodup := hi.nodup; have f_roomL_iff := hi.roomL_iff; have f_roomL_nodup := hi.roomL_nodup; have f_userL_iff := hi.userL_iff; have f_userL_nodup := hi.userL_nodup; have f_sessL_iff := hi.sessL_iff; have f_rs_fwd := hi.rs_fwd; have f_rs_room := hi.rs_room; have f_virt := hi.virt; have f_children := hi.children; have f_vtable := hi.vtable; have f_conn_iff := hi.conn_iff; have f_conn_open := hi.conn_open; have f_eh := hi.eh; have f_expired := hi.expired; have f_anon := hi.anon; have f_dialout := hi.dialout; have f_count := hi.count; have f_orph_virt := hi.orph_virt; have f_incall := hi.incall; have f_count_le := hi.count_le; clear hi; (intros; (try simp only [hubf] at *); grind [mem_removeL, nodup_removeL, removeL_nil, length_removeL_le]))
   case roomL_iff =>
     first
-      | (have f_roomL_iff := hi.roomL_iff; have f_fresh := hi.fresh; have f_room_mem := hi.room_mem; have f_mem_room := hi.mem_room; clear hi; (intros; (try simp only [hubf] at *); grind [mem_removeL, nodup_removeL, removeL_nil]))
-      | (have f_fresh := hi.fresh; have f_mem_room := hi.mem_room; have f_room_mem := hi.room_mem; have f_nonempty := hi.nonempty; have f_nodup := hi.nodup; have f_roomL_iff := hi.roomL_iff; have f_roomL_nodup := hi.roomL_nodup; have f_userL_iff := hi.userL_iff; have f_userL_nodup := hi.userL_nodup; have f_sessL_iff := hi.sessL_iff; have f_rs_fwd := hi.rs_fwd; have f_rs_room := hi.rs_room; have f_virt := hi.virt; have f_children := hi.children; have f_vtable := hi.vtable; have f_conn_iff := hi.conn_iff; have f_conn_open := hi.conn_open; have f_eh := hi.eh; have f_expired := hi.expired; have f_anon := hi.anon; have f_dialout := hi.dialout; have f_count := hi.count; have f_orph_virt := hi.orph_virt; have f_incall := hi.incall; clear hi; (intros; (try simp only [hubf] at *); grind [mem_removeL, nodup_removeL, removeL_nil]))
+      | (have f_roomL_iff := hi.roomL_iff; have f_fresh := hi.fresh; have f_room_mem := hi.room_mem; have f_mem_room := hi.mem_room; clear hi; (intros; (try simp only [hubf] at *); grind [mem_removeL, nodup_removeL, removeL_nil, length_removeL_le]))
+      | (have f_fresh := hi.fresh; have f_mem_room := hi.mem_room; have f_room_mem := hi.room_mem; have f_nonempty := hi.nonempty; have f_nodup := hi.nodup; have f_roomL_iff := hi.roomL_iff; have f_roomL_nodup := hi.roomL_nodup; have f_userL_iff := hi.userL_iff; have f_userL_nodup := hi.userL_nodup; have f_sessL_iff := hi.sessL_iff; have f_rs_fwd := hi.rs_fwd; have f_rs_room := hi.rs_room; have f_virt := hi.virt; have f_children := hi.children; have f_vtable := hi.vtable; have f_conn_iff := hi.conn_iff; have f_conn_open := hi.conn_open; have f_eh := hi.eh; have f_expired := hi.expired; have f_anon := hi.anon; have f_dialout := hi.dialout; have f_count := hi.count; have f_orph_virt := hi.orph_virt; have f_incall := hi.incall; have f_count_le := hi.count_le; clear hi; (intros; (try simp only [hubf] at *); grind [mem_removeL, nodup_removeL, removeL_nil, length_removeL_le]))
   case roomL_nodup =>
     first
-      | (have f_roomL_nodup := hi.roomL_nodup; have f_roomL_iff := hi.roomL_iff; clear hi; (intros; (try simp only [hubf] at *); grind [mem_removeL, nodup_removeL, removeL_nil]))
-      | (have f_fresh := hi.fresh; have f_mem_room := hi.mem_room; have f_room_mem := hi.room_mem; have f_nonempty := hi.nonempty; have f_nodup := hi.nodup; have f_roomL_iff := hi.roomL_iff; have f_roomL_nodup := hi.roomL_nodup; have f_userL_iff := hi.userL_iff; have f_userL_nodup := hi.userL_nodup; have f_sessL_iff := hi.sessL_iff; have f_rs_fwd := hi.rs_fwd; have f_rs_room := hi.rs_room; have f_virt := hi.virt; have f_children := hi.children; have f_vtable := hi.vtable; have f_conn_iff := hi.conn_iff; have f_conn_open := hi.conn_open; have f_eh := hi.eh; have f_expired := hi.expired; have f_anon := hi.anon; have f_dialout := hi.dialout; have f_count := hi.count; have f_orph_virt := hi.orph_virt; have f_incall := hi.incall; clear hi; (intros; (try simp only [hubf] at *); grind [mem_removeL, nodup_removeL, removeL_nil]))
+      | (have f_roomL_nodup := hi.roomL_nodup; have f_roomL_iff := hi.roomL_iff; clear hi; (intros; (try simp only [hubf] at *); grind [mem_removeL, nodup_removeL, removeL_nil, length_removeL_le]))
+      | (have f_fresh := hi.fresh; have f_mem_room := hi.mem_room; have f_room_mem := hi.room_mem; have f_nonempty := hi.nonempty; have f_nodup := hi.nodup; have f_roomL_iff := hi.roomL_iff; have f_roomL_nodup := hi.roomL_nodup; have f_userL_iff := hi.userL_iff; have f_userL_nodup := hi.userL_nodup; have f_sessL_iff := hi.sessL_iff; have f_rs_fwd := hi.rs_fwd; have f_rs_room := hi.rs_room; have f_virt := hi.virt; have f_children := hi.children; have f_vtable := hi.vtable; have f_conn_iff := hi.conn_iff; have f_conn_open := hi.conn_open; have f_eh := hi.eh; have f_expired := hi.expired; have f_anon := hi.anon; have f_dialout := hi.dialout; have f_count := hi.count; have f_orph_virt := hi.orph_virt; have f_incall := hi.incall; have f_count_le := hi.count_le; clear hi; (intros; (try simp only [hubf] at *); grind [mem_removeL, nodup_removeL, removeL_nil, length_removeL_le]))
   case userL_iff =>
     first
-      | (have f_userL_iff := hi.userL_iff; have f_fresh := hi.fresh; clear hi; (intros; (try simp only [hubf] at *); grind [mem_removeL, nodup_removeL, removeL_nil]))
-      | (have f_fresh := hi.fresh; have f_mem_room := hi.mem_room; have f_room_mem := hi.room_mem; have f_nonempty := hi.nonempty; have f_nodup := hi.nodup; have f_roomL_iff := hi.roomL_iff; have f_roomL_nodup := hi.roomL_nodup; have f_userL_iff := hi.userL_iff; have f_userL_nodup := hi.userL_nodup; have f_sessL_iff := hi.sessL_iff; have f_rs_fwd := hi.rs_fwd; have f_rs_room := hi.rs_room; have f_virt := hi.virt; have f_children := hi.children; have f_vtable := hi.vtable; have f_conn_iff := hi.conn_iff; have f_conn_open := hi.conn_open; have f_eh := hi.eh; have f_expired := hi.expired; have f_anon := hi.anon; have f_dialout := hi.dialout; have f_count := hi.count; have f_orph_virt := hi.orph_virt; have f_incall := hi.incall; clear hi; (intros; (try simp only [hubf] at *); grind [mem_removeL, nodup_removeL, removeL_nil]))
+      | (have f_userL_iff := hi.userL_iff; have f_fresh := hi.fresh; clear hi; (intros; (try simp only [hubf] at *); grind [mem_removeL, nodup_removeL, removeL_nil, length_removeL_le]))
+      | (have f_fresh := hi.fresh; have f_mem_room := hi.mem_room; have f_room_mem := hi.room_mem; have f_nonempty := hi.nonempty; have f_nodup := hi.nodup; have f_roomL_iff := hi.roomL_iff; have f_roomL_nodup := hi.roomL_nodup; have f_userL_iff := hi.userL_iff; have f_userL_nodup := hi.userL_nodup; have f_sessL_iff := hi.sessL_iff; have f_rs_fwd := hi.rs_fwd; have f_rs_room := hi.rs_room; have f_virt := hi.virt; have f_children := hi.children; have f_vtable := hi.vtable; have f_conn_iff := hi.conn_iff; have f_conn_open := hi.conn_open; have f_eh := hi.eh; have f_expired := hi.expired; have f_anon := hi.anon; have f_dialout := hi.dialout; have f_count := hi.count; have f_orph_virt := hi.orph_virt; have f_incall := hi.incall; have f_count_le := hi.count_le; clear hi; (intros; (try simp only [hubf] at *); grind [mem_removeL, nodup_removeL, removeL_nil, length_removeL_le]))
   case userL_nodup =>
     first
-      | (have f_userL_nodup := hi.userL_nodup; have f_userL_iff := hi.userL_iff; clear hi; (intros; (try simp only [hubf] at *); grind [mem_removeL, nodup_removeL, removeL_nil]))
-      | (have f_fresh := hi.fresh; have f_mem_room := hi.mem_room; have f_room_mem := hi.room_mem; have f_nonempty := hi.nonempty; have f_nodup := hi.nodup; have f_roomL_iff := hi.roomL_iff; have f_roomL_nodup := hi.roomL_nodup; have f_userL_iff := hi.userL_iff; have f_userL_nodup := hi.userL_nodup; have f_sessL_iff := hi.sessL_iff; have f_rs_fwd := hi.rs_fwd; have f_rs_room := hi.rs_room; have f_virt := hi.virt; have f_children := hi.children; have f_vtable := hi.vtable; have f_conn_iff := hi.conn_iff; have f_conn_open := hi.conn_open; have f_eh := hi.eh; have f_expired := hi.expired; have f_anon := hi.anon; have f_dialout := hi.dialout; have f_count := hi.count; have f_orph_virt := hi.orph_virt; have f_incall := hi.incall; clear hi; (intros; (try simp only [hubf] at *); grind [mem_removeL, nodup_removeL, removeL_nil]))
+      | (have f_userL_nodup := hi.userL_nodup; have f_userL_iff := hi.userL_iff; clear hi; (intros; (try simp only [hubf] at *); grind [mem_removeL, nodup_removeL, removeL_nil, length_removeL_le]))
+      | (have f_fresh := hi.fresh; have f_mem_room := hi.mem_room; have f_room_mem := hi.room_mem; have f_nonempty := hi.nonempty; have f_nodup := hi.nodup; have f_roomL_iff := hi.roomL_iff; have f_roomL_nodup := hi.roomL_nodup; have f_userL_iff := hi.userL_iff; have f_userL_nodup := hi.userL_nodup; have f_sessL_iff := hi.sessL_iff; have f_rs_fwd := hi.rs_fwd; have f_rs_room := hi.rs_room; have f_virt := hi.virt; have f_children := hi.children; have f_vtable := hi.vtable; have f_conn_iff := hi.conn_iff; have f_conn_open := hi.conn_open; have f_eh := hi.eh; have f_expired := hi.expired; have f_anon := hi.anon; have f_dialout := hi.dialout; have f_count := hi.count; have f_orph_virt := hi.orph_virt; have f_incall := hi.incall; have f_count_le := hi.count_le; clear hi; (intros; (try simp only [hubf] at *); grind [mem_removeL, nodup_removeL, removeL_nil, length_removeL_le]))
   case sessL_iff =>
     first
-      | (have f_sessL_iff := hi.sessL_iff; have f_fresh := hi.fresh; clear hi; (intros; (try simp only [hubf] at *); grind [mem_removeL, nodup_removeL, removeL_nil]))
-      | (have f_fresh := hi.fresh; have f_mem_room := hi.mem_room; have f_room_mem := hi.room_mem; have f_nonempty := hi.nonempty; have f_nodup := hi.nodup; have f_roomL_iff := hi.roomL_iff; have f_roomL_nodup := hi.roomL_nodup; have f_userL_iff := hi.userL_iff; have f_userL_nodup := hi.userL_nodup; have f_sessL_iff := hi.sessL_iff; have f_rs_fwd := hi.rs_fwd; have f_rs_room := hi.rs_room; have f_virt := hi.virt; have f_children := hi.children; have f_vtable := hi.vtable; have f_conn_iff := hi.conn_iff; have f_conn_open := hi.conn_open; have f_eh := hi.eh; have f_expired := hi.expired; have f_anon := hi.anon; have f_dialout := hi.dialout; have f_count := hi.count; have f_orph_virt := hi.orph_virt; have f_incall := hi.incall; clear hi; (intros; (try simp only [hubf] at *); grind [mem_removeL, nodup_removeL, removeL_nil]))
+      | (have f_sessL_iff := hi.sessL_iff; have f_fresh := hi.fresh; clear hi; (intros; (try simp only [hubf] at *); grind [mem_removeL, nodup_removeL, removeL_nil, length_removeL_le]))
+      | (have f_fresh := hi.fresh; have f_mem_room := hi.mem_room; have f_room_mem := hi.room_mem; have f_nonempty := hi.nonempty; have f_nodup := hi.nodup; have f_roomL_iff := hi.roomL_iff; have f_roomL_nodup := hi.roomL_nodup; have f_userL_iff := hi.userL_iff; have f_userL_nodup := hi.userL_nodup; have f_sessL_iff := hi.sessL_iff; have f_rs_fwd := hi.rs_fwd; have f_rs_room := hi.rs_room; have f_virt := hi.virt; have f_children := hi.children; have f_vtable := hi.vtable; have f_conn_iff := hi.conn_iff; have f_conn_open := hi.conn_open; have f_eh := hi.eh; have f_expired := hi.expired; have f_anon := hi.anon; have f_dialout := hi.dialout; have f_count := hi.count; have f_orph_virt := hi.orph_virt; have f_incall := hi.incall; have f_count_le := hi.count_le; clear hi; (intros; (try simp only [hubf] at *); grind [mem_removeL, nodup_removeL, removeL_nil, length_removeL_le]))
   case rs_fwd =>
     first
-      | (have f_rs_fwd := hi.rs_fwd; have f_rs_room := hi.rs_room; have f_fresh := hi.fresh; clear hi; (intros; (try simp only [hubf] at *); grind [mem_removeL, nodup_removeL, removeL_nil]))
-      | (have f_fresh := hi.fresh; have f_mem_room := hi.mem_room; have f_room_mem := hi.room_mem; have f_nonempty := hi.nonempty; have f_nodup := hi.nodup; have f_roomL_iff := hi.roomL_iff; have f_roomL_nodup := hi.roomL_nodup; have f_userL_iff := hi.userL_iff; have f_userL_nodup := hi.userL_nodup; have f_sessL_iff := hi.sessL_iff; have f_rs_fwd := hi.rs_fwd; have f_rs_room := hi.rs_room; have f_virt := hi.virt; have f_children := hi.children; have f_vtable := hi.vtable; have f_conn_iff := hi.conn_iff; have f_conn_open := hi.conn_open; have f_eh := hi.eh; have f_expired := hi.expired; have f_anon := hi.anon; have f_dialout := hi.dialout; have f_count := hi.count; have f_orph_virt := hi.orph_virt; have f_incall := hi.incall; clear hi; (intros; (try simp only [hubf] at *); grind [mem_removeL, nodup_removeL, removeL_nil]))
+      | (have f_rs_fwd := hi.rs_fwd; have f_rs_room := hi.rs_room; have f_fresh := hi.fresh; clear hi; (intros; (try simp only [hubf] at *); grind [mem_removeL, nodup_removeL, removeL_nil, length_removeL_le]))
+      | (have f_fresh := hi.fresh; have f_mem_room := hi.mem_room; have f_room_mem := hi.room_mem; have f_nonempty := hi.nonempty; have f_nodup := hi.nodup; have f_roomL_iff := hi.roomL_iff; have f_roomL_nodup := hi.roomL_nodup; have f_userL_iff := hi.userL_iff; have f_userL_nodup := hi.userL_nodup; have f_sessL_iff := hi.sessL_iff; have f_rs_fwd := hi.rs_fwd; have f_rs_room := hi.rs_room; have f_virt := hi.virt; have f_children := hi.children; have f_vtable := hi.vtable; have f_conn_iff := hi.conn_iff; have f_conn_open := hi.conn_open; have f_eh := hi.eh; have f_expired := hi.expired; have f_anon := hi.anon; have f_dialout := hi.dialout; have f_count := hi.count; have f_orph_virt := hi.orph_virt; have f_incall := hi.incall; have f_count_le := hi.count_le; clear hi; (intros; (try simp only [hubf] at *); grind [mem_removeL, nodup_removeL, removeL_nil, length_removeL_le]))
   case rs_room =>
     first
-      | (have f_rs_room := hi.rs_room; have f_rs_fwd := hi.rs_fwd; have f_fresh := hi.fresh; have f_room_mem := hi.room_mem; clear hi; (intros; (try simp only [hubf] at *); grind [mem_removeL, nodup_removeL, removeL_nil]))
-      | (have f_fresh := hi.fresh; have f_mem_room := hi.mem_room; have f_room_mem := hi.room_mem; have f_nonempty := hi.nonempty; have f_nodup := hi.nodup; have f_roomL_iff := hi.roomL_iff; have f_roomL_nodup := hi.roomL_nodup; have f_userL_iff := hi.userL_iff; have f_userL_nodup := hi.userL_nodup; have f_sessL_iff := hi.sessL_iff; have f_rs_fwd := hi.rs_fwd; have f_rs_room := hi.rs_room; have f_virt := hi.virt; have f_children := hi.children; have f_vtable := hi.vtable; have f_conn_iff := hi.conn_iff; have f_conn_open := hi.conn_open; have f_eh := hi.eh; have f_expired := hi.expired; have f_anon := hi.anon; have f_dialout := hi.dialout; have f_count := hi.count; have f_orph_virt := hi.orph_virt; have f_incall := hi.incall; clear hi; (intros; (try simp only [hubf] at *); grind [mem_removeL, nodup_removeL, removeL_nil]))
+      | (have f_rs_room := hi.rs_room; have f_rs_fwd := hi.rs_fwd; have f_fresh := hi.fresh; have f_room_mem := hi.room_mem; clear hi; (intros; (try simp only [hubf] at *); grind [mem_removeL, nodup_removeL, removeL_nil, length_removeL_le]))
+      | (have f_fresh := hi.fresh; have f_mem_room := hi.mem_room; have f_room_mem := hi.room_mem; have f_nonempty := hi.nonempty; have f_nodup := hi.nodup; have f_roomL_iff := hi.roomL_iff; have f_roomL_nodup := hi.roomL_nodup; have f_userL_iff := hi.userL_iff; have f_userL_nodup := hi.userL_nodup; have f_sessL_iff := hi.sessL_iff; have f_rs_fwd := hi.rs_fwd; have f_rs_room := hi.rs_room; have f_virt := hi.virt; have f_children := hi.children; have f_vtable := hi.vtable; have f_conn_iff := hi.conn_iff; have f_conn_open := hi.conn_open; have f_eh := hi.eh; have f_expired := hi.expired; have f_anon := hi.anon; have f_dialout := hi.dialout; have f_count := hi.count; have f_orph_virt := hi.orph_virt; have f_incall := hi.incall; have f_count_le := hi.count_le; clear hi; (intros; (try simp only [hubf] at *); grind [mem_removeL, nodup_removeL, removeL_nil, length_removeL_le]))
   case virt =>
     first
-      | (have f_virt := hi.virt; have f_children := hi.children; have f_fresh := hi.fresh; clear hi; (intros; (try simp only [hubf] at *); grind [mem_removeL, nodup_removeL, removeL_nil]))
-      | (have f_fresh := hi.fresh; have f_mem_room := hi.mem_room; have f_room_mem := hi.room_mem; have f_nonempty := hi.nonempty; have f_nodup := hi.nodup; have f_roomL_iff := hi.roomL_iff; have f_roomL_nodup := hi.roomL_nodup; have f_userL_iff := hi.userL_iff; have f_userL_nodup := hi.userL_nodup; have f_sessL_iff := hi.sessL_iff; have f_rs_fwd := hi.rs_fwd; have f_rs_room := hi.rs_room; have f_virt := hi.virt; have f_children := hi.children; have f_vtable := hi.vtable; have f_conn_iff := hi.conn_iff; have f_conn_open := hi.conn_open; have f_eh := hi.eh; have f_expired := hi.expired; have f_anon := hi.anon; have f_dialout := hi.dialout; have f_count := hi.count; have f_orph_virt := hi.orph_virt; have f_incall := hi.incall; clear hi; (intros; (try simp only [hubf] at *); grind [mem_removeL, nodup_removeL, removeL_nil]))
+      | (have f_virt := hi.virt; have f_children := hi.children; have f_fresh := hi.fresh; clear hi; (intros; (try simp only [hubf] at *); grind [mem_removeL, nodup_removeL, removeL_nil, length_removeL_le]))
+      | (have f_fresh := hi.fresh; have f_mem_room := hi.mem_room; have f_room_mem := hi.room_mem; have f_nonempty := hi.nonempty; have f_nodup := hi.nodup; have f_roomL_iff := hi.roomL_iff; have f_roomL_nodup := hi.roomL_nodup; have f_userL_iff := hi.userL_iff; have f_userL_nodup := hi.userL_nodup; have f_sessL_iff := hi.sessL_iff; have f_rs_fwd := hi.rs_fwd; have f_rs_room := hi.rs_room; have f_virt := hi.virt; have f_children := hi.children; have f_vtable := hi.vtable; have f_conn_iff := hi.conn_iff; have f_conn_open := hi.conn_open; have f_eh := hi.eh; have f_expired := hi.expired; have f_anon := hi.anon; have f_dialout := hi.dialout; have f_count := hi.count; have f_orph_virt := hi.orph_virt; have f_incall := hi.incall; have f_count_le := hi.count_le; clear hi; (intros; (try simp only [hubf] at *); grind [mem_removeL, nodup_removeL, removeL_nil, length_removeL_le]))
   case children =>
     first
-      | (have f_children := hi.children; have f_virt := hi.virt; have f_fresh := hi.fresh; clear hi; (intros; (try simp only [hubf] at *); grind [mem_removeL, nodup_removeL, removeL_nil]))
-      | (have f_fresh := hi.fresh; have f_mem_room := hi.mem_room; have f_room_mem := hi.room_mem; have f_nonempty := hi.nonempty; have f_nodup := hi.nodup; have f_roomL_iff := hi.roomL_iff; have f_roomL_nodup := hi.roomL_nodup; have f_userL_iff := hi.userL_iff; have f_userL_nodup := hi.userL_nodup; have f_sessL_iff := hi.sessL_iff; have f_rs_fwd := hi.rs_fwd; have f_rs_room := hi.rs_room; have f_virt := hi.virt; have f_children := hi.children; have f_vtable := hi.vtable; have f_conn_iff := hi.conn_iff; have f_conn_open := hi.conn_open; have f_eh := hi.eh; have f_expired := hi.expired; have f_anon := hi.anon; have f_dialout := hi.dialout; have f_count := hi.count; have f_orph_virt := hi.orph_virt; have f_incall := hi.incall; clear hi; (intros; (try simp only [hubf] at *); grind [mem_removeL, nodup_removeL, removeL_nil]))
+      | (have f_children := hi.children; have f_virt := hi.virt; have f_fresh := hi.fresh; clear hi; (intros; (try simp only [hubf] at *); grind [mem_removeL, nodup_removeL, removeL_nil, length_removeL_le]))
+      | (have f_fresh := hi.fresh; have f_mem_room := hi.mem_room; have f_room_mem := hi.room_mem; have f_nonempty := hi.nonempty; have f_nodup := hi.nodup; have f_roomL_iff := hi.roomL_iff; have f_roomL_nodup := hi.roomL_nodup; have f_userL_iff := hi.userL_iff; have f_userL_nodup := hi.userL_nodup; have f_sessL_iff := hi.sessL_iff; have f_rs_fwd := hi.rs_fwd; have f_rs_room := hi.rs_room; have f_virt := hi.virt; have f_children := hi.children; have f_vtable := hi.vtable; have f_conn_iff := hi.conn_iff; have f_conn_open := hi.conn_open; have f_eh := hi.eh; have f_expired := hi.expired; have f_anon := hi.anon; have f_dialout := hi.dialout; have f_count := hi.count; have f_orph_virt := hi.orph_virt; have f_incall := hi.incall; have f_count_le := hi.count_le; clear hi; (intros; (try simp only [hubf] at *); grind [mem_removeL, nodup_removeL, removeL_nil, length_removeL_le]))
   case vtable =>
     first
-      | (have f_vtable := hi.vtable; have f_virt := hi.virt; have f_fresh := hi.fresh; clear hi; (intros; (try simp only [hubf] at *); grind [mem_removeL, nodup_removeL, removeL_nil]))
-      | (have f_fresh := hi.fresh; have f_mem_room := hi.mem_room; have f_room_mem := hi.room_mem; have f_nonempty := hi.nonempty; have f_nodup := hi.nodup; have f_roomL_iff := hi.roomL_iff; have f_roomL_nodup := hi.roomL_nodup; have f_userL_iff := hi.userL_iff; have f_userL_nodup := hi.userL_nodup; have f_sessL_iff := hi.sessL_iff; have f_rs_fwd := hi.rs_fwd; have f_rs_room := hi.rs_room; have f_virt := hi.virt; have f_children := hi.children; have f_vtable := hi.vtable; have f_conn_iff := hi.conn_iff; have f_conn_open := hi.conn_open; have f_eh := hi.eh; have f_expired := hi.expired; have f_anon := hi.anon; have f_dialout := hi.dialout; have f_count := hi.count; have f_orph_virt := hi.orph_virt; have f_incall := hi.incall; clear hi; (intros; (try simp only [hubf] at *); grind [mem_removeL, nodup_removeL, removeL_nil]))
+      | (have f_vtable := hi.vtable; have f_virt := hi.virt; have f_fresh := hi.fresh; clear hi; (intros; (try simp only [hubf] at *); grind [mem_removeL, nodup_removeL, removeL_nil, length_removeL_le]))
+      | (have f_fresh := hi.fresh; have f_mem_room := hi.mem_room; have f_room_mem := hi.room_mem; have f_nonempty := hi.nonempty; have f_nodup := hi.nodup; have f_roomL_iff := hi.roomL_iff; have f_roomL_nodup := hi.roomL_nodup; have f_userL_iff := hi.userL_iff; have f_userL_nodup := hi.userL_nodup; have f_sessL_iff := hi.sessL_iff; have f_rs_fwd := hi.rs_fwd; have f_rs_room := hi.rs_room; have f_virt := hi.virt; have f_children := hi.children; have f_vtable := hi.vtable; have f_conn_iff := hi.conn_iff; have f_conn_open := hi.conn_open; have f_eh := hi.eh; have f_expired := hi.expired; have f_anon := hi.anon; have f_dialout := hi.dialout; have f_count := hi.count; have f_orph_virt := hi.orph_virt; have f_incall := hi.incall; have f_count_le := hi.count_le; clear hi; (intros; (try simp only [hubf] at *); grind [mem_removeL, nodup_removeL, removeL_nil, length_removeL_le]))
   case conn_iff =>
     first
-      | (have f_conn_iff := hi.conn_iff; have f_fresh := hi.fresh; have f_virt := hi.virt; clear hi; (intros; (try simp only [hubf] at *); grind [mem_removeL, nodup_removeL, removeL_nil]))
-      | (have f_fresh := hi.fresh; have f_mem_room := hi.mem_room; have f_room_mem := hi.room_mem; have f_nonempty := hi.nonempty; have f_nodup := hi.nodup; have f_roomL_iff := hi.roomL_iff; have f_roomL_nodup := hi.roomL_nodup; have f_userL_iff := hi.userL_iff; have f_userL_nodup := hi.userL_nodup; have f_sessL_iff := hi.sessL_iff; have f_rs_fwd := hi.rs_fwd; have f_rs_room := hi.rs_room; have f_virt := hi.virt; have f_children := hi.children; have f_vtable := hi.vtable; have f_conn_iff := hi.conn_iff; have f_conn_open := hi.conn_open; have f_eh := hi.eh; have f_expired := hi.expired; have f_anon := hi.anon; have f_dialout := hi.dialout; have f_count := hi.count; have f_orph_virt := hi.orph_virt; have f_incall := hi.incall; clear hi; (intros; (try simp only [hubf] at *); grind [mem_removeL, nodup_removeL, removeL_nil]))
+      | (have f_conn_iff := hi.conn_iff; have f_fresh := hi.fresh; have f_virt := hi.virt; clear hi; (intros; (try simp only [hubf] at *); grind [mem_removeL, nodup_removeL, removeL_nil, length_removeL_le]))
+      | (have f_fresh := hi.fresh; have f_mem_room := hi.mem_room; have f_room_mem := hi.room_mem; have f_nonempty := hi.nonempty; have f_nodup := hi.nodup; have f_roomL_iff := hi.roomL_iff; have f_roomL_nodup := hi.roomL_nodup; have f_userL_iff := hi.userL_iff; have f_userL_nodup := hi.userL_nodup; have f_sessL_iff := hi.sessL_iff; have f_rs_fwd := hi.rs_fwd; have f_rs_room := hi.rs_room; have f_virt := hi.virt; have f_children := hi.children; have f_vtable := hi.vtable; have f_conn_iff := hi.conn_iff; have f_conn_open := hi.conn_open; have f_eh := hi.eh; have f_expired := hi.expired; have f_anon := hi.anon; have f_dialout := hi.dialout; have f_count := hi.count; have f_orph_virt := hi.orph_virt; have f_incall := hi.incall; have f_count_le := hi.count_le; clear hi; (intros; (try simp only [hubf] at *); grind [mem_removeL, nodup_removeL, removeL_nil, length_removeL_le]))
   case conn_open =>
     first
-      | (have f_conn_open := hi.conn_open; have f_conn_iff := hi.conn_iff; clear hi; (intros; (try simp only [hubf] at *); grind [mem_removeL, nodup_removeL, removeL_nil]))
-      | (have f_fresh := hi.fresh; have f_mem_room := hi.mem_room; have f_room_mem := hi.room_mem; have f_nonempty := hi.nonempty; have f_nodup := hi.nodup; have f_roomL_iff := hi.roomL_iff; have f_roomL_nodup := hi.roomL_nodup; have f_userL_iff := hi.userL_iff; have f_userL_nodup := hi.userL_nodup; have f_sessL_iff := hi.sessL_iff; have f_rs_fwd := hi.rs_fwd; have f_rs_room := hi.rs_room; have f_virt := hi.virt; have f_children := hi.children; have f_vtable := hi.vtable; have f_conn_iff := hi.conn_iff; have f_conn_open := hi.conn_open; have f_eh := hi.eh; have f_expired := hi.expired; have f_anon := hi.anon; have f_dialout := hi.dialout; have f_count := hi.count; have f_orph_virt := hi.orph_virt; have f_incall := hi.incall; clear hi; (intros; (try simp only [hubf] at *); grind [mem_removeL, nodup_removeL, removeL_nil]))
+      | (have f_conn_open := hi.conn_open; have f_conn_iff := hi.conn_iff; clear hi; (intros; (try simp only [hubf] at *); grind [mem_removeL, nodup_removeL, removeL_nil, length_removeL_le]))
+      | (have f_fresh := hi.fresh; have f_mem_room := hi.mem_room; have f_room_mem := hi.room_mem; have f_nonempty := hi.nonempty; have f_nodup := hi.nodup; have f_roomL_iff := hi.roomL_iff; have f_roomL_nodup := hi.roomL_nodup; have f_userL_iff := hi.userL_iff; have f_userL_nodup := hi.userL_nodup; have f_sessL_iff := hi.sessL_iff; have f_rs_fwd := hi.rs_fwd; have f_rs_room := hi.rs_room; have f_virt := hi.virt; have f_children := hi.children; have f_vtable := hi.vtable; have f_conn_iff := hi.conn_iff; have f_conn_open := hi.conn_open; have f_eh := hi.eh; have f_expired := hi.expired; have f_anon := hi.anon; have f_dialout := hi.dialout; have f_count := hi.count; have f_orph_virt := hi.orph_virt; have f_incall := hi.incall; have f_count_le := hi.count_le; clear hi; (intros; (try simp only [hubf] at *); grind [mem_removeL, nodup_removeL, removeL_nil, length_removeL_le]))
   case eh =>
     first
-      | (have f_eh := hi.eh; have f_conn_iff := hi.conn_iff; have f_conn_open := hi.conn_open; clear hi; (intros; (try simp only [hubf] at *); grind [mem_removeL, nodup_removeL, removeL_nil]))
-      | (have f_fresh := hi.fresh; have f_mem_room := hi.mem_room; have f_room_mem := hi.room_mem; have f_nonempty := hi.nonempty; have f_nodup := hi.nodup; have f_roomL_iff := hi.roomL_iff; have f_roomL_nodup := hi.roomL_nodup; have f_userL_iff := hi.userL_iff; have f_userL_nodup := hi.userL_nodup; have f_sessL_iff := hi.sessL_iff; have f_rs_fwd := hi.rs_fwd; have f_rs_room := hi.rs_room; have f_virt := hi.virt; have f_children := hi.children; have f_vtable := hi.vtable; have f_conn_iff := hi.conn_iff; have f_conn_open := hi.conn_open; have f_eh := hi.eh; have f_expired := hi.expired; have f_anon := hi.anon; have f_dialout := hi.dialout; have f_count := hi.count; have f_orph_virt := hi.orph_virt; have f_incall := hi.incall; clear hi; (intros; (try simp only [hubf] at *); grind [mem_removeL, nodup_removeL, removeL_nil]))
+      | (have f_eh := hi.eh; have f_conn_iff := hi.conn_iff; have f_conn_open := hi.conn_open; clear hi; (intros; (try simp only [hubf] at *); grind [mem_removeL, nodup_removeL, removeL_nil, length_removeL_le]))
+      | (have f_fresh := hi.fresh; have f_mem_room := hi.mem_room; have f_room_mem := hi.room_mem; have f_nonempty := hi.nonempty; have f_nodup := hi.nodup; have f_roomL_iff := hi.roomL_iff; have f_roomL_nodup := hi.roomL_nodup; have f_userL_iff := hi.userL_iff; have f_userL_nodup := hi.userL_nodup; have f_sessL_iff := hi.sessL_iff; have f_rs_fwd := hi.rs_fwd; have f_rs_room := hi.rs_room; have f_virt := hi.virt; have f_children := hi.children; have f_vtable := hi.vtable; have f_conn_iff := hi.conn_iff; have f_conn_open := hi.conn_open; have f_eh := hi.eh; have f_expired := hi.expired; have f_anon := hi.anon; have f_dialout := hi.dialout; have f_count := hi.count; have f_orph_virt := hi.orph_virt; have f_incall := hi.incall; have f_count_le := hi.count_le; clear hi; (intros; (try simp only [hubf] at *); grind [mem_removeL, nodup_removeL, removeL_nil, length_removeL_le]))
   case expired =>
     first
-      | (have f_expired := hi.expired; have f_fresh := hi.fresh; clear hi; (intros; (try simp only [hubf] at *); grind [mem_removeL, nodup_removeL, removeL_nil]))
-      | (have f_fresh := hi.fresh; have f_mem_room := hi.mem_room; have f_room_mem := hi.room_mem; have f_nonempty := hi.nonempty; have f_nodup := hi.nodup; have f_roomL_iff := hi.roomL_iff; have f_roomL_nodup := hi.roomL_nodup; have f_userL_iff := hi.userL_iff; have f_userL_nodup := hi.userL_nodup; have f_sessL_iff := hi.sessL_iff; have f_rs_fwd := hi.rs_fwd; have f_rs_room := hi.rs_room; have f_virt := hi.virt; have f_children := hi.children; have f_vtable := hi.vtable; have f_conn_iff := hi.conn_iff; have f_conn_open := hi.conn_open; have f_eh := hi.eh; have f_expired := hi.expired; have f_anon := hi.anon; have f_dialout := hi.dialout; have f_count := hi.count; have f_orph_virt := hi.orph_virt; have f_incall := hi.incall; clear hi; (intros; (try simp only [hubf] at *); grind [mem_removeL, nodup_removeL, removeL_nil]))
+      | (have f_expired := hi.expired; have f_fresh := hi.fresh; clear hi; (intros; (try simp only [hubf] at *); grind [mem_removeL, nodup_removeL, removeL_nil, length_removeL_le]))
+      | (have f_fresh := hi.fresh; have f_mem_room := hi.mem_room; have f_room_mem := hi.room_mem; have f_nonempty := hi.nonempty; have f_nodup := hi.nodup; have f_roomL_iff := hi.roomL_iff; have f_roomL_nodup := hi.roomL_nodup; have f_userL_iff := hi.userL_iff; have f_userL_nodup := hi.userL_nodup; have f_sessL_iff := hi.sessL_iff; have f_rs_fwd := hi.rs_fwd; have f_rs_room := hi.rs_room; have f_virt := hi.virt; have f_children := hi.children; have f_vtable := hi.vtable; have f_conn_iff := hi.conn_iff; have f_conn_open := hi.conn_open; have f_eh := hi.eh; have f_expired := hi.expired; have f_anon := hi.anon; have f_dialout := hi.dialout; have f_count := hi.count; have f_orph_virt := hi.orph_virt; have f_incall := hi.incall; have f_count_le := hi.count_le; clear hi; (intros; (try simp only [hubf] at *); grind [mem_removeL, nodup_removeL, removeL_nil, length_removeL_le]))
   case anon =>
     first
-      | (have f_anon := hi.anon; have f_fresh := hi.fresh; clear hi; (intros; (try simp only [hubf] at *); grind [mem_removeL, nodup_removeL, removeL_nil]))
-      | (have f_fresh := hi.fresh; have f_mem_room := hi.mem_room; have f_room_mem := hi.room_mem; have f_nonempty := hi.nonempty; have f_nodup := hi.nodup; have f_roomL_iff := hi.roomL_iff; have f_roomL_nodup := hi.roomL_nodup; have f_userL_iff := hi.userL_iff; have f_userL_nodup := hi.userL_nodup; have f_sessL_iff := hi.sessL_iff; have f_rs_fwd := hi.rs_fwd; have f_rs_room := hi.rs_room; have f_virt := hi.virt; have f_children := hi.children; have f_vtable := hi.vtable; have f_conn_iff := hi.conn_iff; have f_conn_open := hi.conn_open; have f_eh := hi.eh; have f_expired := hi.expired; have f_anon := hi.anon; have f_dialout := hi.dialout; have f_count := hi.count; have f_orph_virt := hi.orph_virt; have f_incall := hi.incall; clear hi; (intros; (try simp only [hubf] at *); grind [mem_removeL, nodup_removeL, removeL_nil]))
+      | (have f_anon := hi.anon; have f_fresh := hi.fresh; clear hi; (intros; (try simp only [hubf] at *); grind [mem_removeL, nodup_removeL, removeL_nil, length_removeL_le]))
+      | (have f_fresh := hi.fresh; have f_mem_room := hi.mem_room; have f_room_mem := hi.room_mem; have f_nonempty := hi.nonempty; have f_nodup := hi.nodup; have f_roomL_iff := hi.roomL_iff; have f_roomL_nodup := hi.roomL_nodup; have f_userL_iff := hi.userL_iff; have f_userL_nodup := hi.userL_nodup; have f_sessL_iff := hi.sessL_iff; have f_rs_fwd := hi.rs_fwd; have f_rs_room := hi.rs_room; have f_virt := hi.virt; have f_children := hi.children; have f_vtable := hi.vtable; have f_conn_iff := hi.conn_iff; have f_conn_open := hi.conn_open; have f_eh := hi.eh; have f_expired := hi.expired; have f_anon := hi.anon; have f_dialout := hi.dialout; have f_count := hi.count; have f_orph_virt := hi.orph_virt; have f_incall := hi.incall; have f_count_le := hi.count_le; clear hi; (intros; (try simp only [hubf] at *); grind [mem_removeL, nodup_removeL, removeL_nil, length_removeL_le]))
   case dialout =>
     first
-      | (have f_dialout := hi.dialout; have f_fresh := hi.fresh; clear hi; (intros; (try simp only [hubf] at *); grind [mem_removeL, nodup_removeL, removeL_nil]))
-      | (have f_fresh := hi.fresh; have f_mem_room := hi.mem_room; have f_room_mem := hi.room_mem; have f_nonempty := hi.nonempty; have f_nodup := hi.nodup; have f_roomL_iff := hi.roomL_iff; have f_roomL_nodup := hi.roomL_nodup; have f_userL_iff := hi.userL_iff; have f_userL_nodup := hi.userL_nodup; have f_sessL_iff := hi.sessL_iff; have f_rs_fwd := hi.rs_fwd; have f_rs_room := hi.rs_room; have f_virt := hi.virt; have f_children := hi.children; have f_vtable := hi.vtable; have f_conn_iff := hi.conn_iff; have f_conn_open := hi.conn_open; have f_eh := hi.eh; have f_expired := hi.expired; have f_anon := hi.anon; have f_dialout := hi.dialout; have f_count := hi.count; have f_orph_virt := hi.orph_virt; have f_incall := hi.incall; clear hi; (intros; (try simp only [hubf] at *); grind [mem_removeL, nodup_removeL, removeL_nil]))
+      | (have f_dialout := hi.dialout; have f_fresh := hi.fresh; clear hi; (intros; (try simp only [hubf] at *); grind [mem_removeL, nodup_removeL, removeL_nil, length_removeL_le]))
+      | (have f_fresh := hi.fresh; have f_mem_room := hi.mem_room; have f_room_mem := hi.room_mem; have f_nonempty := hi.nonempty; have f_nodup := hi.nodup; have f_roomL_iff := hi.roomL_iff; have f_roomL_nodup := hi.roomL_nodup; have f_userL_iff := hi.userL_iff; have f_userL_nodup := hi.userL_nodup; have f_sessL_iff := hi.sessL_iff; have f_rs_fwd := hi.rs_fwd; have f_rs_room := hi.rs_room; have f_virt := hi.virt; have f_children := hi.children; have f_vtable := hi.vtable; have f_conn_iff := hi.conn_iff; have f_conn_open := hi.conn_open; have f_eh := hi.eh; have f_expired := hi.expired; have f_anon := hi.anon; have f_dialout := hi.dialout; have f_count := hi.count; have f_orph_virt := hi.orph_virt; have f_incall := hi.incall; have f_count_le := hi.count_le; clear hi; (intros; (try simp only [hubf] at *); grind [mem_removeL, nodup_removeL, removeL_nil, length_removeL_le]))
   case count =>
     first
-      | (have f_count := hi.count; have f_fresh := hi.fresh; clear hi; (intros; (try simp only [hubf] at *); grind [mem_removeL, nodup_removeL, removeL_nil]))
-      | (have f_fresh := hi.fresh; have f_mem_room := hi.mem_room; have f_room_mem := hi.room_mem; have f_nonempty := hi.nonempty; have f_nodup := hi.nodup; have f_roomL_iff := hi.roomL_iff; have f_roomL_nodup := hi.roomL_nodup; have f_userL_iff := hi.userL_iff; have f_userL_nodup := hi.userL_nodup; have f_sessL_iff := hi.sessL_iff; have f_rs_fwd := hi.rs_fwd; have f_rs_room := hi.rs_room; have f_virt := hi.virt; have f_children := hi.children; have f_vtable := hi.vtable; have f_conn_iff := hi.conn_iff; have f_conn_open := hi.conn_open; have f_eh := hi.eh; have f_expired := hi.expired; have f_anon := hi.anon; have f_dialout := hi.dialout; have f_count := hi.count; have f_orph_virt := hi.orph_virt; have f_incall := hi.incall; clear hi; (intros; (try simp only [hubf] at *); grind [mem_removeL, nodup_removeL, removeL_nil]))
+      | (have f_count := hi.count; have f_fresh := hi.fresh; clear hi; (intros; (try simp only [hubf] at *); grind [mem_removeL, nodup_removeL, removeL_nil, length_removeL_le]))
+      | (have f_fresh := hi.fresh; have f_mem_room := hi.mem_room; have f_room_mem := hi.room_mem; have f_nonempty := hi.nonempty; have f_nodup := hi.nodup; have f_roomL_iff := hi.roomL_iff; have f_roomL_nodup := hi.roomL_nodup; have f_userL_iff := hi.userL_iff; have f_userL_nodup := hi.userL_nodup; have f_sessL_iff := hi.sessL_iff; have f_rs_fwd := hi.rs_fwd; have f_rs_room := hi.rs_room; have f_virt := hi.virt; have f_children := hi.children; have f_vtable := hi.vtable; have f_conn_iff := hi.conn_iff; have f_conn_open := hi.conn_open; have f_eh := hi.eh; have f_expired := hi.expired; have f_anon := hi.anon; have f_dialout := hi.dialout; have f_count := hi.count; have f_orph_virt := hi.orph_virt; have f_incall := hi.incall; have f_count_le := hi.count_le; clear hi; (intros; (try simp only [hubf] at *); grind [mem_removeL, nodup_removeL, removeL_nil, length_removeL_le]))
   case orph_virt =>
     first
-      | (have f_orph_virt := hi.orph_virt; have f_fresh := hi.fresh; have f_children := hi.children; have f_virt := hi.virt; clear hi; (intros; (try simp only [hubf] at *); grind [mem_removeL, nodup_removeL, removeL_nil]))
-      | (have f_fresh := hi.fresh; have f_mem_room := hi.mem_room; have f_room_mem := hi.room_mem; have f_nonempty := hi.nonempty; have f_nodup := hi.nodup; have f_roomL_iff := hi.roomL_iff; have f_roomL_nodup := hi.roomL_nodup; have f_userL_iff := hi.userL_iff; have f_userL_nodup := hi.userL_nodup; have f_sessL_iff := hi.sessL_iff; have f_rs_fwd := hi.rs_fwd; have f_rs_room := hi.rs_room; have f_virt := hi.virt; have f_children := hi.children; have f_vtable := hi.vtable; have f_conn_iff := hi.conn_iff; have f_conn_open := hi.conn_open; have f_eh := hi.eh; have f_expired := hi.expired; have f_anon := hi.anon; have f_dialout := hi.dialout; have f_count := hi.count; have f_orph_virt := hi.orph_virt; have f_incall := hi.incall; clear hi; (intros; (try simp only [hubf] at *); grind [mem_removeL, nodup_removeL, removeL_nil]))
+      | (have f_orph_virt := hi.orph_virt; have f_fresh := hi.fresh; have f_children := hi.children; have f_virt := hi.virt; clear hi; (intros; (try simp only [hubf] at *); grind [mem_removeL, nodup_removeL, removeL_nil, length_removeL_le]))
+      | (have f_fresh := hi.fresh; have f_mem_room := hi.mem_room; have f_room_mem := hi.room_mem; have f_nonempty := hi.nonempty; have f_nodup := hi.nodup; have f_roomL_iff := hi.roomL_iff; have f_roomL_nodup := hi.roomL_nodup; have f_userL_iff := hi.userL_iff; have f_userL_nodup := hi.userL_nodup; have f_sessL_iff := hi.sessL_iff; have f_rs_fwd := hi.rs_fwd; have f_rs_room := hi.rs_room; have f_virt := hi.virt; have f_children := hi.children; have f_vtable := hi.vtable; have f_conn_iff := hi.conn_iff; have f_conn_open := hi.conn_open; have f_eh := hi.eh; have f_expired := hi.expired; have f_anon := hi.anon; have f_dialout := hi.dialout; have f_count := hi.count; have f_orph_virt := hi.orph_virt; have f_incall := hi.incall; have f_count_le := hi.count_le; clear hi; (intros; (try simp only [hubf] at *); grind [mem_removeL, nodup_removeL, removeL_nil, length_removeL_le]))
   case incall =>
     first
-      | (have f_incall := hi.incall; have f_mem_room := hi.mem_room; clear hi; (intros; (try simp only [hubf] at *); grind [mem_removeL, nodup_removeL, removeL_nil]))
-      | (have f_fresh := hi.fresh; have f_mem_room := hi.mem_room; have f_room_mem := hi.room_mem; have f_nonempty := hi.nonempty; have f_nodup := hi.nodup; have f_roomL_iff := hi.roomL_iff; have f_roomL_nodup := hi.roomL_nodup; have f_userL_iff := hi.userL_iff; have f_userL_nodup := hi.userL_nodup; have f_sessL_iff := hi.sessL_iff; have f_rs_fwd := hi.rs_fwd; have f_rs_room := hi.rs_room; have f_virt := hi.virt; have f_children := hi.children; have f_vtable := hi.vtable; have f_conn_iff := hi.conn_iff; have f_conn_open := hi.conn_open; have f_eh := hi.eh; have f_expired := hi.expired; have f_anon := hi.anon; have f_dialout := hi.dialout; have f_count := hi.count; have f_orph_virt := hi.orph_virt; have f_incall := hi.incall; clear hi; (intros; (try simp only [hubf] at *); grind [mem_removeL, nodup_removeL, removeL_nil]))
+      | (have f_incall := hi.incall; have f_mem_room := hi.mem_room; clear hi; (intros; (try simp only [hubf] at *); grind [mem_removeL, nodup_removeL, removeL_nil, length_removeL_le]))
+      | (have f_fresh := hi.fresh; have f_mem_room := hi.mem_room; have f_room_mem := hi.room_mem; have f_nonempty := hi.nonempty; have f_nodup := hi.nodup; have f_roomL_iff := hi.roomL_iff; have f_roomL_nodup := hi.roomL_nodup; have f_userL_iff := hi.userL_iff; have f_userL_nodup := hi.userL_nodup; have f_sessL_iff := hi.sessL_iff; have f_rs_fwd := hi.rs_fwd; have f_rs_room := hi.rs_room; have f_virt := hi.virt; have f_children := hi.children; have f_vtable := hi.vtable; have f_conn_iff := hi.conn_iff; have f_conn_open := hi.conn_open; have f_eh := hi.eh; have f_expired := hi.expired; have f_anon := hi.anon; have f_dialout := hi.dialout; have f_count := hi.count; have f_orph_virt := hi.orph_virt; have f_incall := hi.incall; have f_count_le := hi.count_le; clear hi; (intros; (try simp only [hubf] at *); grind [mem_removeL, nodup_removeL, removeL_nil, length_removeL_le]))
+  case count_le =>
+    first
+      | (have f_count_le := hi.count_le; clear hi; (intros; (try simp only [hubf] at *); grind [mem_removeL, nodup_removeL, removeL_nil, length_removeL_le]))
+      | (have f_fresh := hi.fresh; have f_mem_room := hi.mem_room; have f_room_mem := hi.room_mem; have f_nonempty := hi.nonempty; have f_nodup := hi.nodup; have f_roomL_iff := hi.roomL_iff; have f_roomL_nodup := hi.roomL_nodup; have f_userL_iff := hi.userL_iff; have f_userL_nodup := hi.userL_nodup; have f_sessL_iff := hi.sessL_iff; have f_rs_fwd := hi.rs_fwd; have f_rs_room := hi.rs_room; have f_virt := hi.virt; have f_children := hi.children; have f_vtable := hi.vtable; have f_conn_iff := hi.conn_iff; have f_conn_open := hi.conn_open; have f_eh := hi.eh; have f_expired := hi.expired; have f_anon := hi.anon; have f_dialout := hi.dialout; have f_count := hi.count; have f_orph_virt := hi.orph_virt; have f_incall := hi.incall; have f_count_le := hi.count_le; clear hi; (intros; (try simp only [hubf] at *); grind [mem_removeL, nodup_removeL, removeL_nil, length_removeL_le]))
 
 theorem roomInCallUpdate_inv (a : Acc) (b : Nat) (room : Option String) (s ic : Nat) (hi : Inv a.h)
     (hs : ∀ r rm, room = some r → a.h.rooms b r = some rm → s ∈ rm.members) :
@@ -1123,7 +1157,7 @@ def Rdel (b : Nat) (r : String) (ms : List Nat) : Nat → Sess → String → Pr
 
 theorem InvG.weaken {R R' : Nat → Sess → String → Prop} {orph : List Nat} {h : Hub}
     (hRR : ∀ s x r, R s x r → R' s x r) (hi : InvG R orph h) : InvG R' orph h := by
-  obtain ⟨f1, f2, f3, f4, f5, f6, f7, f8, f9, f10, f11, f12, f13, f14, f15, f16, f17, f18, f19, f20, f21, f22, f23, f24⟩ := hi
+  obtain ⟨f1, f2, f3, f4, f5, f6, f7, f8, f9, f10, f11, f12, f13, f14, f15, f16, f17, f18, f19, f20, f21, f22, f23, f24, f25⟩ := hi
   constructor
   all_goals first | assumption | skip
   · intro s x r hx hr
@@ -1139,100 +1173,104 @@ theorem deleteStart_inv {h : Hub} (hi : Inv h) {b : Nat} {r : String} {rm : Room
   constructor
   case fresh =>
     first
-      | (have f_fresh := hi.fresh; clear hi; (intros; (try simp only [hubf] at *); grind [mem_removeL, nodup_removeL, removeL_nil]))
-      | (have f_fresh := hi.fresh; have f_mem_room := hi.mem_room; have f_room_mem := hi.room_mem; have f_nonempty := hi.nonempty; have f_nodup := hi.nodup; have f_roomL_iff := hi.roomL_iff; have f_roomL_nodup := hi.roomL_nodup; have f_userL_iff := hi.userL_iff; have f_userL_nodup := hi.userL_nodup; have f_sessL_iff := hi.sessL_iff; have f_rs_fwd := hi.rs_fwd; have f_rs_room := hi.rs_room; have f_virt := hi.virt; have f_children := hi.children; have f_vtable := hi.vtable; have f_conn_iff := hi.conn_iff; have f_conn_open := hi.conn_open; have f_eh := hi.eh; have f_expired := hi.expired; have f_anon := hi.anon; have f_dialout := hi.dialout; have f_count := hi.count; have f_orph_virt := hi.orph_virt; have f_incall := hi.incall; clear hi; (intros; (try simp only [hubf] at *); grind [mem_removeL, nodup_removeL, removeL_nil]))
+      | (have f_fresh := hi.fresh; clear hi; (intros; (try simp only [hubf] at *); grind [mem_removeL, nodup_removeL, removeL_nil, length_removeL_le]))
+      | (have f_fresh := hi.fresh; have f_mem_room := hi.mem_room; have f_room_mem := hi.room_mem; have f_nonempty := hi.nonempty; have f_nodup := hi.nodup; have f_roomL_iff := hi.roomL_iff; have f_roomL_nodup := hi.roomL_nodup; have f_userL_iff := hi.userL_iff; have f_userL_nodup := hi.userL_nodup; have f_sessL_iff := hi.sessL_iff; have f_rs_fwd := hi.rs_fwd; have f_rs_room := hi.rs_room; have f_virt := hi.virt; have f_children := hi.children; have f_vtable := hi.vtable; have f_conn_iff := hi.conn_iff; have f_conn_open := hi.conn_open; have f_eh := hi.eh; have f_expired := hi.expired; have f_anon := hi.anon; have f_dialout := hi.dialout; have f_count := hi.count; have f_orph_virt := hi.orph_virt; have f_incall := hi.incall; have f_count_le := hi.count_le; clear hi; (intros; (try simp only [hubf] at *); grind [mem_removeL, nodup_removeL, removeL_nil, length_removeL_le]))
   case mem_room =>
     first
-      | (have f_mem_room := hi.mem_room; have f_fresh := hi.fresh; clear hi; (intros; (try simp only [hubf] at *); grind [mem_removeL, nodup_removeL, removeL_nil]))
-      | (have f_fresh := hi.fresh; have f_mem_room := hi.mem_room; have f_room_mem := hi.room_mem; have f_nonempty := hi.nonempty; have f_nodup := hi.nodup; have f_roomL_iff := hi.roomL_iff; have f_roomL_nodup := hi.roomL_nodup; have f_userL_iff := hi.userL_iff; have f_userL_nodup := hi.userL_nodup; have f_sessL_iff := hi.sessL_iff; have f_rs_fwd := hi.rs_fwd; have f_rs_room := hi.rs_room; have f_virt := hi.virt; have f_children := hi.children; have f_vtable := hi.vtable; have f_conn_iff := hi.conn_iff; have f_conn_open := hi.conn_open; have f_eh := hi.eh; have f_expired := hi.expired; have f_anon := hi.anon; have f_dialout := hi.dialout; have f_count := hi.count; have f_orph_virt := hi.orph_virt; have f_incall := hi.incall; clear hi; (intros; (try simp only [hubf] at *); grind [mem_removeL, nodup_removeL, removeL_nil]))
+      | (have f_mem_room := hi.mem_room; have f_fresh := hi.fresh; clear hi; (intros; (try simp only [hubf] at *); grind [mem_removeL, nodup_removeL, removeL_nil, length_removeL_le]))
+      | (have f_fresh := hi.fresh; have f_mem_room := hi.mem_room; have f_room_mem := hi.room_mem; have f_nonempty := hi.nonempty; have f_nodup := hi.nodup; have f_roomL_iff := hi.roomL_iff; have f_roomL_nodup := hi.roomL_nodup; have f_userL_iff := hi.userL_iff; have f_userL_nodup := hi.userL_nodup; have f_sessL_iff := hi.sessL_iff; have f_rs_fwd := hi.rs_fwd; have f_rs_room := hi.rs_room; have f_virt := hi.virt; have f_children := hi.children; have f_vtable := hi.vtable; have f_conn_iff := hi.conn_iff; have f_conn_open := hi.conn_open; have f_eh := hi.eh; have f_expired := hi.expired; have f_anon := hi.anon; have f_dialout := hi.dialout; have f_count := hi.count; have f_orph_virt := hi.orph_virt; have f_incall := hi.incall; have f_count_le := hi.count_le; clear hi; (intros; (try simp only [hubf] at *); grind [mem_removeL, nodup_removeL, removeL_nil, length_removeL_le]))
   case room_mem =>
     first
-      | (have f_room_mem := hi.room_mem; have f_mem_room := hi.mem_room; have f_fresh := hi.fresh; clear hi; (intros; (try simp only [hubf] at *); grind [mem_removeL, nodup_removeL, removeL_nil]))
-      | (have f_fresh := hi.fresh; have f_mem_room := hi.mem_room; have f_room_mem := hi.room_mem; have f_nonempty := hi.nonempty; have f_nodup := hi.nodup; have f_roomL_iff := hi.roomL_iff; have f_roomL_nodup := hi.roomL_nodup; have f_userL_iff := hi.userL_iff; have f_userL_nodup := hi.userL_nodup; have f_sessL_iff := hi.sessL_iff; have f_rs_fwd := hi.rs_fwd; have f_rs_room := hi.rs_room; have f_virt := hi.virt; have f_children := hi.children; have f_vtable := hi.vtable; have f_conn_iff := hi.conn_iff; have f_conn_open := hi.conn_open; have f_eh := hi.eh; have f_expired := hi.expired; have f_anon := hi.anon; have f_dialout := hi.dialout; have f_count := hi.count; have f_orph_virt := hi.orph_virt; have f_incall := hi.incall; clear hi; (intros; (try simp only [hubf] at *); grind [mem_removeL, nodup_removeL, removeL_nil]))
+      | (have f_room_mem := hi.room_mem; have f_mem_room := hi.mem_room; have f_fresh := hi.fresh; clear hi; (intros; (try simp only [hubf] at *); grind [mem_removeL, nodup_removeL, removeL_nil, length_removeL_le]))
+      | (have f_fresh := hi.fresh; have f_mem_room := hi.mem_room; have f_room_mem := hi.room_mem; have f_nonempty := hi.nonempty; have f_nodup := hi.nodup; have f_roomL_iff := hi.roomL_iff; have f_roomL_nodup := hi.roomL_nodup; have f_userL_iff := hi.userL_iff; have f_userL_nodup := hi.userL_nodup; have f_sessL_iff := hi.sessL_iff; have f_rs_fwd := hi.rs_fwd; have f_rs_room := hi.rs_room; have f_virt := hi.virt; have f_children := hi.children; have f_vtable := hi.vtable; have f_conn_iff := hi.conn_iff; have f_conn_open := hi.conn_open; have f_eh := hi.eh; have f_expired := hi.expired; have f_anon := hi.anon; have f_dialout := hi.dialout; have f_count := hi.count; have f_orph_virt := hi.orph_virt; have f_incall := hi.incall; have f_count_le := hi.count_le; clear hi; (intros; (try simp only [hubf] at *); grind [mem_removeL, nodup_removeL, removeL_nil, length_removeL_le]))
   case nonempty =>
     first
-      | (have f_nonempty := hi.nonempty; have f_mem_room := hi.mem_room; clear hi; (intros; (try simp only [hubf] at *); grind [mem_removeL, nodup_removeL, removeL_nil]))
-      | (have f_fresh := hi.fresh; have f_mem_room := hi.mem_room; have f_room_mem := hi.room_mem; have f_nonempty := hi.nonempty; have f_nodup := hi.nodup; have f_roomL_iff := hi.roomL_iff; have f_roomL_nodup := hi.roomL_nodup; have f_userL_iff := hi.userL_iff; have f_userL_nodup := hi.userL_nodup; have f_sessL_iff := hi.sessL_iff; have f_rs_fwd := hi.rs_fwd; have f_rs_room := hi.rs_room; have f_virt := hi.virt; have f_children := hi.children; have f_vtable := hi.vtable; have f_conn_iff := hi.conn_iff; have f_conn_open := hi.conn_open; have f_eh := hi.eh; have f_expired := hi.expired; have f_anon := hi.anon; have f_dialout := hi.dialout; have f_count := hi.count; have f_orph_virt := hi.orph_virt; have f_incall := hi.incall; clear hi; (intros; (try simp only [hubf] at *); grind [mem_removeL, nodup_removeL, removeL_nil]))
+      | (have f_nonempty := hi.nonempty; have f_mem_room := hi.mem_room; clear hi; (intros; (try simp only [hubf] at *); grind [mem_removeL, nodup_removeL, removeL_nil, length_removeL_le]))
+      | (have f_fresh := hi.fresh; have f_mem_room := hi.mem_room; have f_room_mem := hi.room_mem; have f_nonempty := hi.nonempty; have f_nodup := hi.nodup; have f_roomL_iff := hi.roomL_iff; have f_roomL_nodup := hi.roomL_nodup; have f_userL_iff := hi.userL_iff; have f_userL_nodup := hi.userL_nodup; have f_sessL_iff := hi.sessL_iff; have f_rs_fwd := hi.rs_fwd; have f_rs_room := hi.rs_room; have f_virt := hi.virt; have f_children := hi.children; have f_vtable := hi.vtable; have f_conn_iff := hi.conn_iff; have f_conn_open := hi.conn_open; have f_eh := hi.eh; have f_expired := hi.expired; have f_anon := hi.anon; have f_dialout := hi.dialout; have f_count := hi.count; have f_orph_virt := hi.orph_virt; have f_incall := hi.incall; have f_count_le := hi.count_le; clear hi; (intros; (try simp only [hubf] at *); grind [mem_removeL, nodup_removeL, removeL_nil, length_removeL_le]))
   case nodup =>
     first
-      | (have f_nodup := hi.nodup; clear hi; (intros; (try simp only [hubf] at *); grind [mem_removeL, nodup_removeL, removeL_nil]))
-      | (have f_fresh := hi.fresh; have f_mem_room := hi.mem_room; have f_room_mem := hi.room_mem; have f_nonempty := hi.nonempty; have f_nodup := hi.nodup; have f_roomL_iff := hi.roomL_iff; have f_roomL_nodup := hi.roomL_nodup; have f_userL_iff := hi.userL_iff; have f_userL_nodup := hi.userL_nodup; have f_sessL_iff := hi.sessL_iff; have f_rs_fwd := hi.rs_fwd; have f_rs_room := hi.rs_room; have f_virt := hi.virt; have f_children := hi.children; have f_vtable := hi.vtable; have f_conn_iff := hi.conn_iff; have f_conn_open := hi.conn_open; have f_eh := hi.eh; have f_expired := hi.expired; have f_anon := hi.anon; have f_dialout := hi.dialout; have f_count := hi.count; have f_orph_virt := hi.orph_virt; have f_incall := hi.incall; clear hi; (intros; (try simp only [hubf] at *); grind [mem_removeL, nodup_removeL, removeL_nil]))
+      | (have f_nodup := hi.nodup; clear hi; (intros; (try simp only [hubf] at *); grind [mem_removeL, nodup_removeL, removeL_nil, length_removeL_le]))
+      | (have f_fresh := hi.fresh; have f_mem_room := hi.mem_room; have f_room_mem := hi.room_mem; have f_nonempty := hi.nonempty; have f_nodup := hi.nodup; have f_roomL_iff := hi.roomL_iff; have f_roomL_nodup := hi.roomL_nodup; have f_userL_iff := hi.userL_iff; have f_userL_nodup := hi.userL_nodup; have f_sessL_iff := hi.sessL_iff; have f_rs_fwd := hi.rs_fwd; have f_rs_room := hi.rs_room; have f_virt := hi.virt; have f_children := hi.children; have f_vtable := hi.vtable; have f_conn_iff := hi.conn_iff; have f_conn_open := hi.conn_open; have f_eh := hi.eh; have f_expired := hi.expired; have f_anon := hi.anon; have f_dialout := hi.dialout; have f_count := hi.count; have f_orph_virt := hi.orph_virt; have f_incall := hi.incall; have f_count_le := hi.count_le; clear hi; (intros; (try simp only [hubf] at *); grind [mem_removeL, nodup_removeL, removeL_nil, length_removeL_le]))
   case roomL_iff =>
     first
-      | (have f_roomL_iff := hi.roomL_iff; have f_fresh := hi.fresh; have f_room_mem := hi.room_mem; have f_mem_room := hi.mem_room; clear hi; (intros; (try simp only [hubf] at *); grind [mem_removeL, nodup_removeL, removeL_nil]))
-      | (have f_fresh := hi.fresh; have f_mem_room := hi.mem_room; have f_room_mem := hi.room_mem; have f_nonempty := hi.nonempty; have f_nodup := hi.nodup; have f_roomL_iff := hi.roomL_iff; have f_roomL_nodup := hi.roomL_nodup; have f_userL_iff := hi.userL_iff; have f_userL_nodup := hi.userL_nodup; have f_sessL_iff := hi.sessL_iff; have f_rs_fwd := hi.rs_fwd; have f_rs_room := hi.rs_room; have f_virt := hi.virt; have f_children := hi.children; have f_vtable := hi.vtable; have f_conn_iff := hi.conn_iff; have f_conn_open := hi.conn_open; have f_eh := hi.eh; have f_expired := hi.expired; have f_anon := hi.anon; have f_dialout := hi.dialout; have f_count := hi.count; have f_orph_virt := hi.orph_virt; have f_incall := hi.incall; clear hi; (intros; (try simp only [hubf] at *); grind [mem_removeL, nodup_removeL, removeL_nil]))
+      | (have f_roomL_iff := hi.roomL_iff; have f_fresh := hi.fresh; have f_room_mem := hi.room_mem; have f_mem_room := hi.mem_room; clear hi; (intros; (try simp only [hubf] at *); grind [mem_removeL, nodup_removeL, removeL_nil, length_removeL_le]))
+      | (have f_fresh := hi.fresh; have f_mem_room := hi.mem_room; have f_room_mem := hi.room_mem; have f_nonempty := hi.nonempty; have f_nodup := hi.nodup; have f_roomL_iff := hi.roomL_iff; have f_roomL_nodup := hi.roomL_nodup; have f_userL_iff := hi.userL_iff; have f_userL_nodup := hi.userL_nodup; have f_sessL_iff := hi.sessL_iff; have f_rs_fwd := hi.rs_fwd; have f_rs_room := hi.rs_room; have f_virt := hi.virt; have f_children := hi.children; have f_vtable := hi.vtable; have f_conn_iff := hi.conn_iff; have f_conn_open := hi.conn_open; have f_eh := hi.eh; have f_expired := hi.expired; have f_anon := hi.anon; have f_dialout := hi.dialout; have f_count := hi.count; have f_orph_virt := hi.orph_virt; have f_incall := hi.incall; have f_count_le := hi.count_le; clear hi; (intros; (try simp only [hubf] at *); grind [mem_removeL, nodup_removeL, removeL_nil, length_removeL_le]))
   case roomL_nodup =>
     first
-      | (have f_roomL_nodup := hi.roomL_nodup; have f_roomL_iff := hi.roomL_iff; clear hi; (intros; (try simp only [hubf] at *); grind [mem_removeL, nodup_removeL, removeL_nil]))
-      | (have f_fresh := hi.fresh; have f_mem_room := hi.mem_room; have f_room_mem := hi.room_mem; have f_nonempty := hi.nonempty; have f_nodup := hi.nodup; have f_roomL_iff := hi.roomL_iff; have f_roomL_nodup := hi.roomL_nodup; have f_userL_iff := hi.userL_iff; have f_userL_nodup := hi.userL_nodup; have f_sessL_iff := hi.sessL_iff; have f_rs_fwd := hi.rs_fwd; have f_rs_room := hi.rs_room; have f_virt := hi.virt; have f_children := hi.children; have f_vtable := hi.vtable; have f_conn_iff := hi.conn_iff; have f_conn_open := hi.conn_open; have f_eh := hi.eh; have f_expired := hi.expired; have f_anon := hi.anon; have f_dialout := hi.dialout; have f_count := hi.count; have f_orph_virt := hi.orph_virt; have f_incall := hi.incall; clear hi; (intros; (try simp only [hubf] at *); grind [mem_removeL, nodup_removeL, removeL_nil]))
+      | (have f_roomL_nodup := hi.roomL_nodup; have f_roomL_iff := hi.roomL_iff; clear hi; (intros; (try simp only [hubf] at *); grind [mem_removeL, nodup_removeL, removeL_nil, length_removeL_le]))
+      | (have f_fresh := hi.fresh; have f_mem_room := hi.mem_room; have f_room_mem := hi.room_mem; have f_nonempty := hi.nonempty; have f_nodup := hi.nodup; have f_roomL_iff := hi.roomL_iff; have f_roomL_nodup := hi.roomL_nodup; have f_userL_iff := hi.userL_iff; have f_userL_nodup := hi.userL_nodup; have f_sessL_iff := hi.sessL_iff; have f_rs_fwd := hi.rs_fwd; have f_rs_room := hi.rs_room; have f_virt := hi.virt; have f_children := hi.children; have f_vtable := hi.vtable; have f_conn_iff := hi.conn_iff; have f_conn_open := hi.conn_open; have f_eh := hi.eh; have f_expired := hi.expired; have f_anon := hi.anon; have f_dialout := hi.dialout; have f_count := hi.count; have f_orph_virt := hi.orph_virt; have f_incall := hi.incall; have f_count_le := hi.count_le; clear hi; (intros; (try simp only [hubf] at *); grind [mem_removeL, nodup_removeL, removeL_nil, length_removeL_le]))
   case userL_iff =>
     first
-      | (have f_userL_iff := hi.userL_iff; have f_fresh := hi.fresh; clear hi; (intros; (try simp only [hubf] at *); grind [mem_removeL, nodup_removeL, removeL_nil]))
-      | (have f_fresh := hi.fresh; have f_mem_room := hi.mem_room; have f_room_mem := hi.room_mem; have f_nonempty := hi.nonempty; have f_nodup := hi.nodup; have f_roomL_iff := hi.roomL_iff; have f_roomL_nodup := hi.roomL_nodup; have f_userL_iff := hi.userL_iff; have f_userL_nodup := hi.userL_nodup; have f_sessL_iff := hi.sessL_iff; have f_rs_fwd := hi.rs_fwd; have f_rs_room := hi.rs_room; have f_virt := hi.virt; have f_children := hi.children; have f_vtable := hi.vtable; have f_conn_iff := hi.conn_iff; have f_conn_open := hi.conn_open; have f_eh := hi.eh; have f_expired := hi.expired; have f_anon := hi.anon; have f_dialout := hi.dialout; have f_count := hi.count; have f_orph_virt := hi.orph_virt; have f_incall := hi.incall; clear hi; (intros; (try simp only [hubf] at *); grind [mem_removeL, nodup_removeL, removeL_nil]))
+      | (have f_userL_iff := hi.userL_iff; have f_fresh := hi.fresh; clear hi; (intros; (try simp only [hubf] at *); grind [mem_removeL, nodup_removeL, removeL_nil, length_removeL_le]))
+      | (have f_fresh := hi.fresh; have f_mem_room := hi.mem_room; have f_room_mem := hi.room_mem; have f_nonempty := hi.nonempty; have f_nodup := hi.nodup; have f_roomL_iff := hi.roomL_iff; have f_roomL_nodup := hi.roomL_nodup; have f_userL_iff := hi.userL_iff; have f_userL_nodup := hi.userL_nodup; have f_sessL_iff := hi.sessL_iff; have f_rs_fwd := hi.rs_fwd; have f_rs_room := hi.rs_room; have f_virt := hi.virt; have f_children := hi.children; have f_vtable := hi.vtable; have f_conn_iff := hi.conn_iff; have f_conn_open := hi.conn_open; have f_eh := hi.eh; have f_expired := hi.expired; have f_anon := hi.anon; have f_dialout := hi.dialout; have f_count := hi.count; have f_orph_virt := hi.orph_virt; have f_incall := hi.incall; have f_count_le := hi.count_le; clear hi; (intros; (try simp only [hubf] at *); grind [mem_removeL, nodup_removeL, removeL_nil, length_removeL_le]))
   case userL_nodup =>
     first
-      | (have f_userL_nodup := hi.userL_nodup; have f_userL_iff := hi.userL_iff; clear hi; (intros; (try simp only [hubf] at *); grind [mem_removeL, nodup_removeL, removeL_nil]))
-      | (have f_fresh := hi.fresh; have f_mem_room := hi.mem_room; have f_room_mem := hi.room_mem; have f_nonempty := hi.nonempty; have f_nodup := hi.nodup; have f_roomL_iff := hi.roomL_iff; have f_roomL_nodup := hi.roomL_nodup; have f_userL_iff := hi.userL_iff; have f_userL_nodup := hi.userL_nodup; have f_sessL_iff := hi.sessL_iff; have f_rs_fwd := hi.rs_fwd; have f_rs_room := hi.rs_room; have f_virt := hi.virt; have f_children := hi.children; have f_vtable := hi.vtable; have f_conn_iff := hi.conn_iff; have f_conn_open := hi.conn_open; have f_eh := hi.eh; have f_expired := hi.expired; have f_anon := hi.anon; have f_dialout := hi.dialout; have f_count := hi.count; have f_orph_virt := hi.orph_virt; have f_incall := hi.incall; clear hi; (intros; (try simp only [hubf] at *); grind [mem_removeL, nodup_removeL, removeL_nil]))
+      | (have f_userL_nodup := hi.userL_nodup; have f_userL_iff := hi.userL_iff; clear hi; (intros; (try simp only [hubf] at *); grind [mem_removeL, nodup_removeL, removeL_nil, length_removeL_le]))
+      | (have f_fresh := hi.fresh; have f_mem_room := hi.mem_room; have f_room_mem := hi.room_mem; have f_nonempty := hi.nonempty; have f_nodup := hi.nodup; have f_roomL_iff := hi.roomL_iff; have f_roomL_nodup := hi.roomL_nodup; have f_userL_iff := hi.userL_iff; have f_userL_nodup := hi.userL_nodup; have f_sessL_iff := hi.sessL_iff; have f_rs_fwd := hi.rs_fwd; have f_rs_room := hi.rs_room; have f_virt := hi.virt; have f_children := hi.children; have f_vtable := hi.vtable; have f_conn_iff := hi.conn_iff; have f_conn_open := hi.conn_open; have f_eh := hi.eh; have f_expired := hi.expired; have f_anon := hi.anon; have f_dialout := hi.dialout; have f_count := hi.count; have f_orph_virt := hi.orph_virt; have f_incall := hi.incall; have f_count_le := hi.count_le; clear hi; (intros; (try simp only [hubf] at *); grind [mem_removeL, nodup_removeL, removeL_nil, length_removeL_le]))
   case sessL_iff =>
     first
-      | (have f_sessL_iff := hi.sessL_iff; have f_fresh := hi.fresh; clear hi; (intros; (try simp only [hubf] at *); grind [mem_removeL, nodup_removeL, removeL_nil]))
-      | (have f_fresh := hi.fresh; have f_mem_room := hi.mem_room; have f_room_mem := hi.room_mem; have f_nonempty := hi.nonempty; have f_nodup := hi.nodup; have f_roomL_iff := hi.roomL_iff; have f_roomL_nodup := hi.roomL_nodup; have f_userL_iff := hi.userL_iff; have f_userL_nodup := hi.userL_nodup; have f_sessL_iff := hi.sessL_iff; have f_rs_fwd := hi.rs_fwd; have f_rs_room := hi.rs_room; have f_virt := hi.virt; have f_children := hi.children; have f_vtable := hi.vtable; have f_conn_iff := hi.conn_iff; have f_conn_open := hi.conn_open; have f_eh := hi.eh; have f_expired := hi.expired; have f_anon := hi.anon; have f_dialout := hi.dialout; have f_count := hi.count; have f_orph_virt := hi.orph_virt; have f_incall := hi.incall; clear hi; (intros; (try simp only [hubf] at *); grind [mem_removeL, nodup_removeL, removeL_nil]))
+      | (have f_sessL_iff := hi.sessL_iff; have f_fresh := hi.fresh; clear hi; (intros; (try simp only [hubf] at *); grind [mem_removeL, nodup_removeL, removeL_nil, length_removeL_le]))
+      | (have f_fresh := hi.fresh; have f_mem_room := hi.mem_room; have f_room_mem := hi.room_mem; have f_nonempty := hi.nonempty; have f_nodup := hi.nodup; have f_roomL_iff := hi.roomL_iff; have f_roomL_nodup := hi.roomL_nodup; have f_userL_iff := hi.userL_iff; have f_userL_nodup := hi.userL_nodup; have f_sessL_iff := hi.sessL_iff; have f_rs_fwd := hi.rs_fwd; have f_rs_room := hi.rs_room; have f_virt := hi.virt; have f_children := hi.children; have f_vtable := hi.vtable; have f_conn_iff := hi.conn_iff; have f_conn_open := hi.conn_open; have f_eh := hi.eh; have f_expired := hi.expired; have f_anon := hi.anon; have f_dialout := hi.dialout; have f_count := hi.count; have f_orph_virt := hi.orph_virt; have f_incall := hi.incall; have f_count_le := hi.count_le; clear hi; (intros; (try simp only [hubf] at *); grind [mem_removeL, nodup_removeL, removeL_nil, length_removeL_le]))
   case rs_fwd =>
     first
-      | (have f_rs_fwd := hi.rs_fwd; have f_rs_room := hi.rs_room; have f_fresh := hi.fresh; clear hi; (intros; (try simp only [hubf] at *); grind [mem_removeL, nodup_removeL, removeL_nil]))
-      | (have f_fresh := hi.fresh; have f_mem_room := hi.mem_room; have f_room_mem := hi.room_mem; have f_nonempty := hi.nonempty; have f_nodup := hi.nodup; have f_roomL_iff := hi.roomL_iff; have f_roomL_nodup := hi.roomL_nodup; have f_userL_iff := hi.userL_iff; have f_userL_nodup := hi.userL_nodup; have f_sessL_iff := hi.sessL_iff; have f_rs_fwd := hi.rs_fwd; have f_rs_room := hi.rs_room; have f_virt := hi.virt; have f_children := hi.children; have f_vtable := hi.vtable; have f_conn_iff := hi.conn_iff; have f_conn_open := hi.conn_open; have f_eh := hi.eh; have f_expired := hi.expired; have f_anon := hi.anon; have f_dialout := hi.dialout; have f_count := hi.count; have f_orph_virt := hi.orph_virt; have f_incall := hi.incall; clear hi; (intros; (try simp only [hubf] at *); grind [mem_removeL, nodup_removeL, removeL_nil]))
+      | (have f_rs_fwd := hi.rs_fwd; have f_rs_room := hi.rs_room; have f_fresh := hi.fresh; clear hi; (intros; (try simp only [hubf] at *); grind [mem_removeL, nodup_removeL, removeL_nil, length_removeL_le]))
+      | (have f_fresh := hi.fresh; have f_mem_room := hi.mem_room; have f_room_mem := hi.room_mem; have f_nonempty := hi.nonempty; have f_nodup := hi.nodup; have f_roomL_iff := hi.roomL_iff; have f_roomL_nodup := hi.roomL_nodup; have f_userL_iff := hi.userL_iff; have f_userL_nodup := hi.userL_nodup; have f_sessL_iff := hi.sessL_iff; have f_rs_fwd := hi.rs_fwd; have f_rs_room := hi.rs_room; have f_virt := hi.virt; have f_children := hi.children; have f_vtable := hi.vtable; have f_conn_iff := hi.conn_iff; have f_conn_open := hi.conn_open; have f_eh := hi.eh; have f_expired := hi.expired; have f_anon := hi.anon; have f_dialout := hi.dialout; have f_count := hi.count; have f_orph_virt := hi.orph_virt; have f_incall := hi.incall; have f_count_le := hi.count_le; clear hi; (intros; (try simp only [hubf] at *); grind [mem_removeL, nodup_removeL, removeL_nil, length_removeL_le]))
   case rs_room =>
     first
-      | (have f_rs_room := hi.rs_room; have f_rs_fwd := hi.rs_fwd; have f_fresh := hi.fresh; have f_room_mem := hi.room_mem; clear hi; (intros; (try simp only [hubf] at *); grind [mem_removeL, nodup_removeL, removeL_nil]))
-      | (have f_fresh := hi.fresh; have f_mem_room := hi.mem_room; have f_room_mem := hi.room_mem; have f_nonempty := hi.nonempty; have f_nodup := hi.nodup; have f_roomL_iff := hi.roomL_iff; have f_roomL_nodup := hi.roomL_nodup; have f_userL_iff := hi.userL_iff; have f_userL_nodup := hi.userL_nodup; have f_sessL_iff := hi.sessL_iff; have f_rs_fwd := hi.rs_fwd; have f_rs_room := hi.rs_room; have f_virt := hi.virt; have f_children := hi.children; have f_vtable := hi.vtable; have f_conn_iff := hi.conn_iff; have f_conn_open := hi.conn_open; have f_eh := hi.eh; have f_expired := hi.expired; have f_anon := hi.anon; have f_dialout := hi.dialout; have f_count := hi.count; have f_orph_virt := hi.orph_virt; have f_incall := hi.incall; clear hi; (intros; (try simp only [hubf] at *); grind [mem_removeL, nodup_removeL, removeL_nil]))
+      | (have f_rs_room := hi.rs_room; have f_rs_fwd := hi.rs_fwd; have f_fresh := hi.fresh; have f_room_mem := hi.room_mem; clear hi; (intros; (try simp only [hubf] at *); grind [mem_removeL, nodup_removeL, removeL_nil, length_removeL_le]))
+      | (have f_fresh := hi.fresh; have f_mem_room := hi.mem_room; have f_room_mem := hi.room_mem; have f_nonempty := hi.nonempty; have f_nodup := hi.nodup; have f_roomL_iff := hi.roomL_iff; have f_roomL_nodup := hi.roomL_nodup; have f_userL_iff := hi.userL_iff; have f_userL_nodup := hi.userL_nodup; have f_sessL_iff := hi.sessL_iff; have f_rs_fwd := hi.rs_fwd; have f_rs_room := hi.rs_room; have f_virt := hi.virt; have f_children := hi.children; have f_vtable := hi.vtable; have f_conn_iff := hi.conn_iff; have f_conn_open := hi.conn_open; have f_eh := hi.eh; have f_expired := hi.expired; have f_anon := hi.anon; have f_dialout := hi.dialout; have f_count := hi.count; have f_orph_virt := hi.orph_virt; have f_incall := hi.incall; have f_count_le := hi.count_le; clear hi; (intros; (try simp only [hubf] at *); grind [mem_removeL, nodup_removeL, removeL_nil, length_removeL_le]))
   case virt =>
     first
-      | (have f_virt := hi.virt; have f_children := hi.children; have f_fresh := hi.fresh; clear hi; (intros; (try simp only [hubf] at *); grind [mem_removeL, nodup_removeL, removeL_nil]))
-      | (have f_fresh := hi.fresh; have f_mem_room := hi.mem_room; have f_room_mem := hi.room_mem; have f_nonempty := hi.nonempty; have f_nodup := hi.nodup; have f_roomL_iff := hi.roomL_iff; have f_roomL_nodup := hi.roomL_nodup; have f_userL_iff := hi.userL_iff; have f_userL_nodup := hi.userL_nodup; have f_sessL_iff := hi.sessL_iff; have f_rs_fwd := hi.rs_fwd; have f_rs_room := hi.rs_room; have f_virt := hi.virt; have f_children := hi.children; have f_vtable := hi.vtable; have f_conn_iff := hi.conn_iff; have f_conn_open := hi.conn_open; have f_eh := hi.eh; have f_expired := hi.expired; have f_anon := hi.anon; have f_dialout := hi.dialout; have f_count := hi.count; have f_orph_virt := hi.orph_virt; have f_incall := hi.incall; clear hi; (intros; (try simp only [hubf] at *); grind [mem_removeL, nodup_removeL, removeL_nil]))
+      | (have f_virt := hi.virt; have f_children := hi.children; have f_fresh := hi.fresh; clear hi; (intros; (try simp only [hubf] at *); grind [mem_removeL, nodup_removeL, removeL_nil, length_removeL_le]))
+      | (have f_fresh := hi.fresh; have f_mem_room := hi.mem_room; have f_room_mem := hi.room_mem; have f_nonempty := hi.nonempty; have f_nodup := hi.nodup; have f_roomL_iff := hi.roomL_iff; have f_roomL_nodup := hi.roomL_nodup; have f_userL_iff := hi.userL_iff; have f_userL_nodup := hi.userL_nodup; have f_sessL_iff := hi.sessL_iff; have f_rs_fwd := hi.rs_fwd; have f_rs_room := hi.rs_room; have f_virt := hi.virt; have f_children := hi.children; have f_vtable := hi.vtable; have f_conn_iff := hi.conn_iff; have f_conn_open := hi.conn_open; have f_eh := hi.eh; have f_expired := hi.expired; have f_anon := hi.anon; have f_dialout := hi.dialout; have f_count := hi.count; have f_orph_virt := hi.orph_virt; have f_incall := hi.incall; have f_count_le := hi.count_le; clear hi; (intros; (try simp only [hubf] at *); grind [mem_removeL, nodup_removeL, removeL_nil, length_removeL_le]))
   case children =>
     first
-      | (have f_children := hi.children; have f_virt := hi.virt; have f_fresh := hi.fresh; clear hi; (intros; (try simp only [hubf] at *); grind [mem_removeL, nodup_removeL, removeL_nil]))
-      | (have f_fresh := hi.fresh; have f_mem_room := hi.mem_room; have f_room_mem := hi.room_mem; have f_nonempty := hi.nonempty; have f_nodup := hi.nodup; have f_roomL_iff := hi.roomL_iff; have f_roomL_nodup := hi.roomL_nodup; have f_userL_iff := hi.userL_iff; have f_userL_nodup := hi.userL_nodup; have f_sessL_iff := hi.sessL_iff; have f_rs_fwd := hi.rs_fwd; have f_rs_room := hi.rs_room; have f_virt := hi.virt; have f_children := hi.children; have f_vtable := hi.vtable; have f_conn_iff := hi.conn_iff; have f_conn_open := hi.conn_open; have f_eh := hi.eh; have f_expired := hi.expired; have f_anon := hi.anon; have f_dialout := hi.dialout; have f_count := hi.count; have f_orph_virt := hi.orph_virt; have f_incall := hi.incall; clear hi; (intros; (try simp only [hubf] at *); grind [mem_removeL, nodup_removeL, removeL_nil]))
+      | (have f_children := hi.children; have f_virt := hi.virt; have f_fresh := hi.fresh; clear hi; (intros; (try simp only [hubf] at *); grind [mem_removeL, nodup_removeL, removeL_nil, length_removeL_le]))
+      | (have f_fresh := hi.fresh; have f_mem_room := hi.mem_room; have f_room_mem := hi.room_mem; have f_nonempty := hi.nonempty; have f_nodup := hi.nodup; have f_roomL_iff := hi.roomL_iff; have f_roomL_nodup := hi.roomL_nodup; have f_userL_iff := hi.userL_iff; have f_userL_nodup := hi.userL_nodup; have f_sessL_iff := hi.sessL_iff; have f_rs_fwd := hi.rs_fwd; have f_rs_room := hi.rs_room; have f_virt := hi.virt; have f_children := hi.children; have f_vtable := hi.vtable; have f_conn_iff := hi.conn_iff; have f_conn_open := hi.conn_open; have f_eh := hi.eh; have f_expired := hi.expired; have f_anon := hi.anon; have f_dialout := hi.dialout; have f_count := hi.count; have f_orph_virt := hi.orph_virt; have f_incall := hi.incall; have f_count_le := hi.count_le; clear hi; (intros; (try simp only [hubf] at *); grind [mem_removeL, nodup_removeL, removeL_nil, length_removeL_le]))
   case vtable =>
     first
-      | (have f_vtable := hi.vtable; have f_virt := hi.virt; have f_fresh := hi.fresh; clear hi; (intros; (try simp only [hubf] at *); grind [mem_removeL, nodup_removeL, removeL_nil]))
-      | (have f_fresh := hi.fresh; have f_mem_room := hi.mem_room; have f_room_mem := hi.room_mem; have f_nonempty := hi.nonempty; have f_nodup := hi.nodup; have f_roomL_iff := hi.roomL_iff; have f_roomL_nodup := hi.roomL_nodup; have f_userL_iff := hi.userL_iff; have f_userL_nodup := hi.userL_nodup; have f_sessL_iff := hi.sessL_iff; have f_rs_fwd := hi.rs_fwd; have f_rs_room := hi.rs_room; have f_virt := hi.virt; have f_children := hi.children; have f_vtable := hi.vtable; have f_conn_iff := hi.conn_iff; have f_conn_open := hi.conn_open; have f_eh := hi.eh; have f_expired := hi.expired; have f_anon := hi.anon; have f_dialout := hi.dialout; have f_count := hi.count; have f_orph_virt := hi.orph_virt; have f_incall := hi.incall; clear hi; (intros; (try simp only [hubf] at *); grind [mem_removeL, nodup_removeL, removeL_nil]))
+      | (have f_vtable := hi.vtable; have f_virt := hi.virt; have f_fresh := hi.fresh; clear hi; (intros; (try simp only [hubf] at *); grind [mem_removeL, nodup_removeL, removeL_nil, length_removeL_le]))
+      | (have f_fresh := hi.fresh; have f_mem_room := hi.mem_room; have f_room_mem := hi.room_mem; have f_nonempty := hi.nonempty; have f_nodup := hi.nodup; have f_roomL_iff := hi.roomL_iff; have f_roomL_nodup := hi.roomL_nodup; have f_userL_iff := hi.userL_iff; have f_userL_nodup := hi.userL_nodup; have f_sessL_iff := hi.sessL_iff; have f_rs_fwd := hi.rs_fwd; have f_rs_room := hi.rs_room; have f_virt := hi.virt; have f_children := hi.children; have f_vtable := hi.vtable; have f_conn_iff := hi.conn_iff; have f_conn_open := hi.conn_open; have f_eh := hi.eh; have f_expired := hi.expired; have f_anon := hi.anon; have f_dialout := hi.dialout; have f_count := hi.count; have f_orph_virt := hi.orph_virt; have f_incall := hi.incall; have f_count_le := hi.count_le; clear hi; (intros; (try simp only [hubf] at *); grind [mem_removeL, nodup_removeL, removeL_nil, length_removeL_le]))
   case conn_iff =>
     first
-      | (have f_conn_iff := hi.conn_iff; have f_fresh := hi.fresh; have f_virt := hi.virt; clear hi; (intros; (try simp only [hubf] at *); grind [mem_removeL, nodup_removeL, removeL_nil]))
-      | (have f_fresh := hi.fresh; have f_mem_room := hi.mem_room; have f_room_mem := hi.room_mem; have f_nonempty := hi.nonempty; have f_nodup := hi.nodup; have f_roomL_iff := hi.roomL_iff; have f_roomL_nodup := hi.roomL_nodup; have f_userL_iff := hi.userL_iff; have f_userL_nodup := hi.userL_nodup; have f_sessL_iff := hi.sessL_iff; have f_rs_fwd := hi.rs_fwd; have f_rs_room := hi.rs_room; have f_virt := hi.virt; have f_children := hi.children; have f_vtable := hi.vtable; have f_conn_iff := hi.conn_iff; have f_conn_open := hi.conn_open; have f_eh := hi.eh; have f_expired := hi.expired; have f_anon := hi.anon; have f_dialout := hi.dialout; have f_count := hi.count; have f_orph_virt := hi.orph_virt; have f_incall := hi.incall; clear hi; (intros; (try simp only [hubf] at *); grind [mem_removeL, nodup_removeL, removeL_nil]))
+      | (have f_conn_iff := hi.conn_iff; have f_fresh := hi.fresh; have f_virt := hi.virt; clear hi; (intros; (try simp only [hubf] at *); grind [mem_removeL, nodup_removeL, removeL_nil, length_removeL_le]))
+      | (have f_fresh := hi.fresh; have f_mem_room := hi.mem_room; have f_room_mem := hi.room_mem; have f_nonempty := hi.nonempty; have f_nodup := hi.nodup; have f_roomL_iff := hi.roomL_iff; have f_roomL_nodup := hi.roomL_nodup; have f_userL_iff := hi.userL_iff; have f_userL_nodup := hi.userL_nodup; have f_sessL_iff := hi.sessL_iff; have f_rs_fwd := hi.rs_fwd; have f_rs_room := hi.rs_room; have f_virt := hi.virt; have f_children := hi.children; have f_vtable := hi.vtable; have f_conn_iff := hi.conn_iff; have f_conn_open := hi.conn_open; have f_eh := hi.eh; have f_expired := hi.expired; have f_anon := hi.anon; have f_dialout := hi.dialout; have f_count := hi.count; have f_orph_virt := hi.orph_virt; have f_incall := hi.incall; have f_count_le := hi.count_le; clear hi; (intros; (try simp only [hubf] at *); grind [mem_removeL, nodup_removeL, removeL_nil, length_removeL_le]))
   case conn_open =>
     first
-      | (have f_conn_open := hi.conn_open; have f_conn_iff := hi.conn_iff; clear hi; (intros; (try simp only [hubf] at *); grind [mem_removeL, nodup_removeL, removeL_nil]))
-      | (have f_fresh := hi.fresh; have f_mem_room := hi.mem_room; have f_room_mem := hi.room_mem; have f_nonempty := hi.nonempty; have f_nodup := hi.nodup; have f_roomL_iff := hi.roomL_iff; have f_roomL_nodup := hi.roomL_nodup; have f_userL_iff := hi.userL_iff; have f_userL_nodup := hi.userL_nodup; have f_sessL_iff := hi.sessL_iff; have f_rs_fwd := hi.rs_fwd; have f_rs_room := hi.rs_room; have f_virt := hi.virt; have f_children := hi.children; have f_vtable := hi.vtable; have f_conn_iff := hi.conn_iff; have f_conn_open := hi.conn_open; have f_eh := hi.eh; have f_expired := hi.expired; have f_anon := hi.anon; have f_dialout := hi.dialout; have f_count := hi.count; have f_orph_virt := hi.orph_virt; have f_incall := hi.incall; clear hi; (intros; (try simp only [hubf] at *); grind [mem_removeL, nodup_removeL, removeL_nil]))
+      | (have f_conn_open := hi.conn_open; have f_conn_iff := hi.conn_iff; clear hi; (intros; (try simp only [hubf] at *); grind [mem_removeL, nodup_removeL, removeL_nil, length_removeL_le]))
+      | (have f_fresh := hi.fresh; have f_mem_room := hi.mem_room; have f_room_mem := hi.room_mem; have f_nonempty := hi.nonempty; have f_nodup := hi.nodup; have f_roomL_iff := hi.roomL_iff; have f_roomL_nodup := hi.roomL_nodup; have f_userL_iff := hi.userL_iff; have f_userL_nodup := hi.userL_nodup; have f_sessL_iff := hi.sessL_iff; have f_rs_fwd := hi.rs_fwd; have f_rs_room := hi.rs_room; have f_virt := hi.virt; have f_children := hi.children; have f_vtable := hi.vtable; have f_conn_iff := hi.conn_iff; have f_conn_open := hi.conn_open; have f_eh := hi.eh; have f_expired := hi.expired; have f_anon := hi.anon; have f_dialout := hi.dialout; have f_count := hi.count; have f_orph_virt := hi.orph_virt; have f_incall := hi.incall; have f_count_le := hi.count_le; clear hi; (intros; (try simp only [hubf] at *); grind [mem_removeL, nodup_removeL, removeL_nil, length_removeL_le]))
   case eh =>
     first
-      | (have f_eh := hi.eh; have f_conn_iff := hi.conn_iff; have f_conn_open := hi.conn_open; clear hi; (intros; (try simp only [hubf] at *); grind [mem_removeL, nodup_removeL, removeL_nil]))
-      | (have f_fresh := hi.fresh; have f_mem_room := hi.mem_room; have f_room_mem := hi.room_mem; have f_nonempty := hi.nonempty; have f_nodup := hi.nodup; have f_roomL_iff := hi.roomL_iff; have f_roomL_nodup := hi.roomL_nodup; have f_userL_iff := hi.userL_iff; have f_userL_nodup := hi.userL_nodup; have f_sessL_iff := hi.sessL_iff; have f_rs_fwd := hi.rs_fwd; have f_rs_room := hi.rs_room; have f_virt := hi.virt; have f_children := hi.children; have f_vtable := hi.vtable; have f_conn_iff := hi.conn_iff; have f_conn_open := hi.conn_open; have f_eh := hi.eh; have f_expired := hi.expired; have f_anon := hi.anon; have f_dialout := hi.dialout; have f_count := hi.count; have f_orph_virt := hi.orph_virt; have f_incall := hi.incall; clear hi; (intros; (try simp only [hubf] at *); grind [mem_removeL, nodup_removeL, removeL_nil]))
+      | (have f_eh := hi.eh; have f_conn_iff := hi.conn_iff; have f_conn_open := hi.conn_open; clear hi; (intros; (try simp only [hubf] at *); grind [mem_removeL, nodup_removeL, removeL_nil, length_removeL_le]))
+      | (have f_fresh := hi.fresh; have f_mem_room := hi.mem_room; have f_room_mem := hi.room_mem; have f_nonempty := hi.nonempty; have f_nodup := hi.nodup; have f_roomL_iff := hi.roomL_iff; have f_roomL_nodup := hi.roomL_nodup; have f_userL_iff := hi.userL_iff; have f_userL_nodup := hi.userL_nodup; have f_sessL_iff := hi.sessL_iff; have f_rs_fwd := hi.rs_fwd; have f_rs_room := hi.rs_room; have f_virt := hi.virt; have f_children := hi.children; have f_vtable := hi.vtable; have f_conn_iff := hi.conn_iff; have f_conn_open := hi.conn_open; have f_eh := hi.eh; have f_expired := hi.expired; have f_anon := hi.anon; have f_dialout := hi.dialout; have f_count := hi.count; have f_orph_virt := hi.orph_virt; have f_incall := hi.incall; have f_count_le := hi.count_le; clear hi; (intros; (try simp only [hubf] at *); grind [mem_removeL, nodup_removeL, removeL_nil, length_removeL_le]))
   case expired =>
     first
-      | (have f_expired := hi.expired; have f_fresh := hi.fresh; clear hi; (intros; (try simp only [hubf] at *); grind [mem_removeL, nodup_removeL, removeL_nil]))
-      | (have f_fresh := hi.fresh; have f_mem_room := hi.mem_room; have f_room_mem := hi.room_mem; have f_nonempty := hi.nonempty; have f_nodup := hi.nodup; have f_roomL_iff := hi.roomL_iff; have f_roomL_nodup := hi.roomL_nodup; have f_userL_iff := hi.userL_iff; have f_userL_nodup := hi.userL_nodup; have f_sessL_iff := hi.sessL_iff; have f_rs_fwd := hi.rs_fwd; have f_rs_room := hi.rs_room; have f_virt := hi.virt; have f_children := hi.children; have f_vtable := hi.vtable; have f_conn_iff := hi.conn_iff; have f_conn_open := hi.conn_open; have f_eh := hi.eh; have f_expired := hi.expired; have f_anon := hi.anon; have f_dialout := hi.dialout; have f_count := hi.count; have f_orph_virt := hi.orph_virt; have f_incall := hi.incall; clear hi; (intros; (try simp only [hubf] at *); grind [mem_removeL, nodup_removeL, removeL_nil]))
+      | (have f_expired := hi.expired; have f_fresh := hi.fresh; clear hi; (intros; (try simp only [hubf] at *); grind [mem_removeL, nodup_removeL, removeL_nil, length_removeL_le]))
+      | (have f_fresh := hi.fresh; have f_mem_room := hi.mem_room; have f_room_mem := hi.room_mem; have f_nonempty := hi.nonempty; have f_nodup := hi.nodup; have f_roomL_iff := hi.roomL_iff; have f_roomL_nodup := hi.roomL_nodup; have f_userL_iff := hi.userL_iff; have f_userL_nodup := hi.userL_nodup; have f_sessL_iff := hi.sessL_iff; have f_rs_fwd := hi.rs_fwd; have f_rs_room := hi.rs_room; have f_virt := hi.virt; have f_children := hi.children; have f_vtable := hi.vtable; have f_conn_iff := hi.conn_iff; have f_conn_open := hi.conn_open; have f_eh := hi.eh; have f_expired := hi.expired; have f_anon := hi.anon; have f_dialout := hi.dialout; have f_count := hi.count; have f_orph_virt := hi.orph_virt; have f_incall := hi.incall; have f_count_le := hi.count_le; clear hi; (intros; (try simp only [hubf] at *); grind [mem_removeL, nodup_removeL, removeL_nil, length_removeL_le]))
   case anon =>
     first
-      | (have f_anon := hi.anon; have f_fresh := hi.fresh; clear hi; (intros; (try simp only [hubf] at *); grind [mem_removeL, nodup_removeL, removeL_nil]))
-      | (have f_fresh := hi.fresh; have f_mem_room := hi.mem_room; have f_room_mem := hi.room_mem; have f_nonempty := hi.nonempty; have f_nodup := hi.nodup; have f_roomL_iff := hi.roomL_iff; have f_roomL_nodup := hi.roomL_nodup; have f_userL_iff := hi.userL_iff; have f_userL_nodup := hi.userL_nodup; have f_sessL_iff := hi.sessL_iff; have f_rs_fwd := hi.rs_fwd; have f_rs_room := hi.rs_room; have f_virt := hi.virt; have f_children := hi.children; have f_vtable := hi.vtable; have f_conn_iff := hi.conn_iff; have f_conn_open := hi.conn_open; have f_eh := hi.eh; have f_expired := hi.expired; have f_anon := hi.anon; have f_dialout := hi.dialout; have f_count := hi.count; have f_orph_virt := hi.orph_virt; have f_incall := hi.incall; clear hi; (intros; (try simp only [hubf] at *); grind [mem_removeL, nodup_removeL, removeL_nil]))
+      | (have f_anon := hi.anon; have f_fresh := hi.fresh; clear hi; (intros; (try simp only [hubf] at *); grind [mem_removeL, nodup_removeL, removeL_nil, length_removeL_le]))
+      | (have f_fresh := hi.fresh; have f_mem_room := hi.mem_room; have f_room_mem := hi.room_mem; have f_nonempty := hi.nonempty; have f_nodup := hi.nodup; have f_roomL_iff := hi.roomL_iff; have f_roomL_nodup := hi.roomL_nodup; have f_userL_iff := hi.userL_iff; have f_userL_nodup := hi.userL_nodup; have f_sessL_iff := hi.sessL_iff; have f_rs_fwd := hi.rs_fwd; have f_rs_room := hi.rs_room; have f_virt := hi.virt; have f_children := hi.children; have f_vtable := hi.vtable; have f_conn_iff := hi.conn_iff; have f_conn_open := hi.conn_open; have f_eh := hi.eh; have f_expired := hi.expired; have f_anon := hi.anon; have f_dialout := hi.dialout; have f_count := hi.count; have f_orph_virt := hi.orph_virt; have f_incall := hi.incall; have f_count_le := hi.count_le; clear hi; (intros; (try simp only [hubf] at *); grind [mem_removeL, nodup_removeL, removeL_nil, length_removeL_le]))
   case dialout =>
     first
-      | (have f_dialout := hi.dialout; have f_fresh := hi.fresh; clear hi; (intros; (try simp only [hubf] at *); grind [mem_removeL, nodup_removeL, removeL_nil]))
-      | (have f_fresh := hi.fresh; have f_mem_room := hi.mem_room; have f_room_mem := hi.room_mem; have f_nonempty := hi.nonempty; have f_nodup := hi.nodup; have f_roomL_iff := hi.roomL_iff; have f_roomL_nodup := hi.roomL_nodup; have f_userL_iff := hi.userL_iff; have f_userL_nodup := hi.userL_nodup; have f_sessL_iff := hi.sessL_iff; have f_rs_fwd := hi.rs_fwd; have f_rs_room := hi.rs_room; have f_virt := hi.virt; have f_children := hi.children; have f_vtable := hi.vtable; have f_conn_iff := hi.conn_iff; have f_conn_open := hi.conn_open; have f_eh := hi.eh; have f_expired := hi.expired; have f_anon := hi.anon; have f_dialout := hi.dialout; have f_count := hi.count; have f_orph_virt := hi.orph_virt; have f_incall := hi.incall; clear hi; (intros; (try simp only [hubf] at *); grind [mem_removeL, nodup_removeL, removeL_nil]))
+      | (have f_dialout := hi.dialout; have f_fresh := hi.fresh; clear hi; (intros; (try simp only [hubf] at *); grind [mem_removeL, nodup_removeL, removeL_nil, length_removeL_le]))
+      | (have f_fresh := hi.fresh; have f_mem_room := hi.mem_room; have f_room_mem := hi.room_mem; have f_nonempty := hi.nonempty; have f_nodup := hi.nodup; have f_roomL_iff := hi.roomL_iff; have f_roomL_nodup := hi.roomL_nodup; have f_userL_iff := hi.userL_iff; have f_userL_nodup := hi.userL_nodup; have f_sessL_iff := hi.sessL_iff; have f_rs_fwd := hi.rs_fwd; have f_rs_room := hi.rs_room; have f_virt := hi.virt; have f_children := hi.children; have f_vtable := hi.vtable; have f_conn_iff := hi.conn_iff; have f_conn_open := hi.conn_open; have f_eh := hi.eh; have f_expired := hi.expired; have f_anon := hi.anon; have f_dialout := hi.dialout; have f_count := hi.count; have f_orph_virt := hi.orph_virt; have f_incall := hi.incall; have f_count_le := hi.count_le; clear hi; (intros; (try simp only [hubf] at *); grind [mem_removeL, nodup_removeL, removeL_nil, length_removeL_le]))
   case count =>
     first
-      | (have f_count := hi.count; have f_fresh := hi.fresh; clear hi; (intros; (try simp only [hubf] at *); grind [mem_removeL, nodup_removeL, removeL_nil]))
-      | (have f_fresh := hi.fresh; have f_mem_room := hi.mem_room; have f_room_mem := hi.room_mem; have f_nonempty := hi.nonempty; have f_nodup := hi.nodup; have f_roomL_iff := hi.roomL_iff; have f_roomL_nodup := hi.roomL_nodup; have f_userL_iff := hi.userL_iff; have f_userL_nodup := hi.userL_nodup; have f_sessL_iff := hi.sessL_iff; have f_rs_fwd := hi.rs_fwd; have f_rs_room := hi.rs_room; have f_virt := hi.virt; have f_children := hi.children; have f_vtable := hi.vtable; have f_conn_iff := hi.conn_iff; have f_conn_open := hi.conn_open; have f_eh := hi.eh; have f_expired := hi.expired; have f_anon := hi.anon; have f_dialout := hi.dialout; have f_count := hi.count; have f_orph_virt := hi.orph_virt; have f_incall := hi.incall; clear hi; (intros; (try simp only [hubf] at *); grind [mem_removeL, nodup_removeL, removeL_nil]))
+      | (have f_count := hi.count; have f_fresh := hi.fresh; clear hi; (intros; (try simp only [hubf] at *); grind [mem_removeL, nodup_removeL, removeL_nil, length_removeL_le]))
+      | (have f_fresh := hi.fresh; have f_mem_room := hi.mem_room; have f_room_mem := hi.room_mem; have f_nonempty := hi.nonempty; have f_nodup := hi.nodup; have f_roomL_iff := hi.roomL_iff; have f_roomL_nodup := hi.roomL_nodup; have f_userL_iff := hi.userL_iff; have f_userL_nodup := hi.userL_nodup; have f_sessL_iff := hi.sessL_iff; have f_rs_fwd := hi.rs_fwd; have f_rs_room := hi.rs_room; have f_virt := hi.virt; have f_children := hi.children; have f_vtable := hi.vtable; have f_conn_iff := hi.conn_iff; have f_conn_open := hi.conn_open; have f_eh := hi.eh; have f_expired := hi.expired; have f_anon := hi.anon; have f_dialout := hi.dialout; have f_count := hi.count; have f_orph_virt := hi.orph_virt; have f_incall := hi.incall; have f_count_le := hi.count_le; clear hi; (intros; (try simp only [hubf] at *); grind [mem_removeL, nodup_removeL, removeL_nil, length_removeL_le]))
   case orph_virt =>
     first
-      | (have f_orph_virt := hi.orph_virt; have f_fresh := hi.fresh; have f_children := hi.children; have f_virt := hi.virt; clear hi; (intros; (try simp only [hubf] at *); grind [mem_removeL, nodup_removeL, removeL_nil]))
-      | (have f_fresh := hi.fresh; have f_mem_room := hi.mem_room; have f_room_mem := hi.room_mem; have f_nonempty := hi.nonempty; have f_nodup := hi.nodup; have f_roomL_iff := hi.roomL_iff; have f_roomL_nodup := hi.roomL_nodup; have f_userL_iff := hi.userL_iff; have f_userL_nodup := hi.userL_nodup; have f_sessL_iff := hi.sessL_iff; have f_rs_fwd := hi.rs_fwd; have f_rs_room := hi.rs_room; have f_virt := hi.virt; have f_children := hi.children; have f_vtable := hi.vtable; have f_conn_iff := hi.conn_iff; have f_conn_open := hi.conn_open; have f_eh := hi.eh; have f_expired := hi.expired; have f_anon := hi.anon; have f_dialout := hi.dialout; have f_count := hi.count; have f_orph_virt := hi.orph_virt; have f_incall := hi.incall; clear hi; (intros; (try simp only [hubf] at *); grind [mem_removeL, nodup_removeL, removeL_nil]))
+      | (have f_orph_virt := hi.orph_virt; have f_fresh := hi.fresh; have f_children := hi.children; have f_virt := hi.virt; clear hi; (intros; (try simp only [hubf] at *); grind [mem_removeL, nodup_removeL, removeL_nil, length_removeL_le]))
+      | (have f_fresh := hi.fresh; have f_mem_room := hi.mem_room; have f_room_mem := hi.room_mem; have f_nonempty := hi.nonempty; have f_nodup := hi.nodup; have f_roomL_iff := hi.roomL_iff; have f_roomL_nodup := hi.roomL_nodup; have f_userL_iff := hi.userL_iff; have f_userL_nodup := hi.userL_nodup; have f_sessL_iff := hi.sessL_iff; have f_rs_fwd := hi.rs_fwd; have f_rs_room := hi.rs_room; have f_virt := hi.virt; have f_children := hi.children; have f_vtable := hi.vtable; have f_conn_iff := hi.conn_iff; have f_conn_open := hi.conn_open; have f_eh := hi.eh; have f_expired := hi.expired; have f_anon := hi.anon; have f_dialout := hi.dialout; have f_count := hi.count; have f_orph_virt := hi.orph_virt; have f_incall := hi.incall; have f_count_le := hi.count_le; clear hi; (intros; (try simp only [hubf] at *); grind [mem_removeL, nodup_removeL, removeL_nil, length_removeL_le]))
   case incall =>
     first
-      | (have f_incall := hi.incall; have f_mem_room := hi.mem_room; clear hi; (intros; (try simp only [hubf] at *); grind [mem_removeL, nodup_removeL, removeL_nil]))
-      | (have f_fresh := hi.fresh; have f_mem_room := hi.mem_room; have f_room_mem := hi.room_mem; have f_nonempty := hi.nonempty; have f_nodup := hi.nodup; have f_roomL_iff := hi.roomL_iff; have f_roomL_nodup := hi.roomL_nodup; have f_userL_iff := hi.userL_iff; have f_userL_nodup := hi.userL_nodup; have f_sessL_iff := hi.sessL_iff; have f_rs_fwd := hi.rs_fwd; have f_rs_room := hi.rs_room; have f_virt := hi.virt; have f_children := hi.children; have f_vtable := hi.vtable; have f_conn_iff := hi.conn_iff; have f_conn_open := hi.conn_open; have f_eh := hi.eh; have f_expired := hi.expired; have f_anon := hi.anon; have f_dialout := hi.dialout; have f_count := hi.count; have f_orph_virt := hi.orph_virt; have f_incall := hi.incall; clear hi; (intros; (try simp only [hubf] at *); grind [mem_removeL, nodup_removeL, removeL_nil]))
+      | (have f_incall := hi.incall; have f_mem_room := hi.mem_room; clear hi; (intros; (try simp only [hubf] at *); grind [mem_removeL, nodup_removeL, removeL_nil, length_removeL_le]))
+      | (have f_fresh := hi.fresh; have f_mem_room := hi.mem_room; have f_room_mem := hi.room_mem; have f_nonempty := hi.nonempty; have f_nodup := hi.nodup; have f_roomL_iff := hi.roomL_iff; have f_roomL_nodup := hi.roomL_nodup; have f_userL_iff := hi.userL_iff; have f_userL_nodup := hi.userL_nodup; have f_sessL_iff := hi.sessL_iff; have f_rs_fwd := hi.rs_fwd; have f_rs_room := hi.rs_room; have f_virt := hi.virt; have f_children := hi.children; have f_vtable := hi.vtable; have f_conn_iff := hi.conn_iff; have f_conn_open := hi.conn_open; have f_eh := hi.eh; have f_expired := hi.expired; have f_anon := hi.anon; have f_dialout := hi.dialout; have f_count := hi.count; have f_orph_virt := hi.orph_virt; have f_incall := hi.incall; have f_count_le := hi.count_le; clear hi; (intros; (try simp only [hubf] at *); grind [mem_removeL, nodup_removeL, removeL_nil, length_removeL_le]))
+  case count_le =>
+    first
+      | (have f_count_le := hi.count_le; clear hi; (intros; (try simp only [hubf] at *); grind [mem_removeL, nodup_removeL, removeL_nil, length_removeL_le]))
+      | (have f_fresh := hi.fresh; have f_mem_room := hi.mem_room; have f_room_mem := hi.room_mem; have f_nonempty := hi.nonempty; have f_nodup := hi.nodup; have f_roomL_iff := hi.roomL_iff; have f_roomL_nodup := hi.roomL_nodup; have f_userL_iff := hi.userL_iff; have f_userL_nodup := hi.userL_nodup; have f_sessL_iff := hi.sessL_iff; have f_rs_fwd := hi.rs_fwd; have f_rs_room := hi.rs_room; have f_virt := hi.virt; have f_children := hi.children; have f_vtable := hi.vtable; have f_conn_iff := hi.conn_iff; have f_conn_open := hi.conn_open; have f_eh := hi.eh; have f_expired := hi.expired; have f_anon := hi.anon; have f_dialout := hi.dialout; have f_count := hi.count; have f_orph_virt := hi.orph_virt; have f_incall := hi.incall; have f_count_le := hi.count_le; clear hi; (intros; (try simp only [hubf] at *); grind [mem_removeL, nodup_removeL, removeL_nil, length_removeL_le]))
 
 /-- What `leaveRoom` does to a session whose room is gone from the table. -/
 def leaveGone (h : Hub) (s : Nat) (x : Sess) (r : String) : Hub :=
@@ -1258,127 +1296,132 @@ theorem leaveGone_inv {h : Hub} {b : Nat} {r : String} {ms : List Nat} (hi : Inv
   case fresh =>
     by_cases hk : x.kind = .virtual <;> simp only [hk, if_true, if_false]
     all_goals first
-      | (have f_fresh := hi.fresh; clear hi; (intros; (try simp only [hubf] at *); grind [mem_removeL, nodup_removeL, removeL_nil]))
-      | (have f_fresh := hi.fresh; have f_mem_room := hi.mem_room; have f_room_mem := hi.room_mem; have f_nonempty := hi.nonempty; have f_nodup := hi.nodup; have f_roomL_iff := hi.roomL_iff; have f_roomL_nodup := hi.roomL_nodup; have f_userL_iff := hi.userL_iff; have f_userL_nodup := hi.userL_nodup; have f_sessL_iff := hi.sessL_iff; have f_rs_fwd := hi.rs_fwd; have f_rs_room := hi.rs_room; have f_virt := hi.virt; have f_children := hi.children; have f_vtable := hi.vtable; have f_conn_iff := hi.conn_iff; have f_conn_open := hi.conn_open; have f_eh := hi.eh; have f_expired := hi.expired; have f_anon := hi.anon; have f_dialout := hi.dialout; have f_count := hi.count; have f_orph_virt := hi.orph_virt; have f_incall := hi.incall; clear hi; (intros; (try simp only [hubf] at *); grind [mem_removeL, nodup_removeL, removeL_nil]))
+      | (have f_fresh := hi.fresh; clear hi; (intros; (try simp only [hubf] at *); grind [mem_removeL, nodup_removeL, removeL_nil, length_removeL_le]))
+      | (have f_fresh := hi.fresh; have f_mem_room := hi.mem_room; have f_room_mem := hi.room_mem; have f_nonempty := hi.nonempty; have f_nodup := hi.nodup; have f_roomL_iff := hi.roomL_iff; have f_roomL_nodup := hi.roomL_nodup; have f_userL_iff := hi.userL_iff; have f_userL_nodup := hi.userL_nodup; have f_sessL_iff := hi.sessL_iff; have f_rs_fwd := hi.rs_fwd; have f_rs_room := hi.rs_room; have f_virt := hi.virt; have f_children := hi.children; have f_vtable := hi.vtable; have f_conn_iff := hi.conn_iff; have f_conn_open := hi.conn_open; have f_eh := hi.eh; have f_expired := hi.expired; have f_anon := hi.anon; have f_dialout := hi.dialout; have f_count := hi.count; have f_orph_virt := hi.orph_virt; have f_incall := hi.incall; have f_count_le := hi.count_le; clear hi; (intros; (try simp only [hubf] at *); grind [mem_removeL, nodup_removeL, removeL_nil, length_removeL_le]))
   case mem_room =>
     by_cases hk : x.kind = .virtual <;> simp only [hk, if_true, if_false]
     all_goals first
-      | (have f_mem_room := hi.mem_room; have f_fresh := hi.fresh; clear hi; (intros; (try simp only [hubf] at *); grind [mem_removeL, nodup_removeL, removeL_nil]))
-      | (have f_fresh := hi.fresh; have f_mem_room := hi.mem_room; have f_room_mem := hi.room_mem; have f_nonempty := hi.nonempty; have f_nodup := hi.nodup; have f_roomL_iff := hi.roomL_iff; have f_roomL_nodup := hi.roomL_nodup; have f_userL_iff := hi.userL_iff; have f_userL_nodup := hi.userL_nodup; have f_sessL_iff := hi.sessL_iff; have f_rs_fwd := hi.rs_fwd; have f_rs_room := hi.rs_room; have f_virt := hi.virt; have f_children := hi.children; have f_vtable := hi.vtable; have f_conn_iff := hi.conn_iff; have f_conn_open := hi.conn_open; have f_eh := hi.eh; have f_expired := hi.expired; have f_anon := hi.anon; have f_dialout := hi.dialout; have f_count := hi.count; have f_orph_virt := hi.orph_virt; have f_incall := hi.incall; clear hi; (intros; (try simp only [hubf] at *); grind [mem_removeL, nodup_removeL, removeL_nil]))
+      | (have f_mem_room := hi.mem_room; have f_fresh := hi.fresh; clear hi; (intros; (try simp only [hubf] at *); grind [mem_removeL, nodup_removeL, removeL_nil, length_removeL_le]))
+      | (have f_fresh := hi.fresh; have f_mem_room := hi.mem_room; have f_room_mem := hi.room_mem; have f_nonempty := hi.nonempty; have f_nodup := hi.nodup; have f_roomL_iff := hi.roomL_iff; have f_roomL_nodup := hi.roomL_nodup; have f_userL_iff := hi.userL_iff; have f_userL_nodup := hi.userL_nodup; have f_sessL_iff := hi.sessL_iff; have f_rs_fwd := hi.rs_fwd; have f_rs_room := hi.rs_room; have f_virt := hi.virt; have f_children := hi.children; have f_vtable := hi.vtable; have f_conn_iff := hi.conn_iff; have f_conn_open := hi.conn_open; have f_eh := hi.eh; have f_expired := hi.expired; have f_anon := hi.anon; have f_dialout := hi.dialout; have f_count := hi.count; have f_orph_virt := hi.orph_virt; have f_incall := hi.incall; have f_count_le := hi.count_le; clear hi; (intros; (try simp only [hubf] at *); grind [mem_removeL, nodup_removeL, removeL_nil, length_removeL_le]))
   case room_mem =>
     by_cases hk : x.kind = .virtual <;> simp only [hk, if_true, if_false]
     all_goals first
-      | (have f_room_mem := hi.room_mem; have f_mem_room := hi.mem_room; have f_fresh := hi.fresh; clear hi; (intros; (try simp only [hubf] at *); grind [mem_removeL, nodup_removeL, removeL_nil]))
-      | (have f_fresh := hi.fresh; have f_mem_room := hi.mem_room; have f_room_mem := hi.room_mem; have f_nonempty := hi.nonempty; have f_nodup := hi.nodup; have f_roomL_iff := hi.roomL_iff; have f_roomL_nodup := hi.roomL_nodup; have f_userL_iff := hi.userL_iff; have f_userL_nodup := hi.userL_nodup; have f_sessL_iff := hi.sessL_iff; have f_rs_fwd := hi.rs_fwd; have f_rs_room := hi.rs_room; have f_virt := hi.virt; have f_children := hi.children; have f_vtable := hi.vtable; have f_conn_iff := hi.conn_iff; have f_conn_open := hi.conn_open; have f_eh := hi.eh; have f_expired := hi.expired; have f_anon := hi.anon; have f_dialout := hi.dialout; have f_count := hi.count; have f_orph_virt := hi.orph_virt; have f_incall := hi.incall; clear hi; (intros; (try simp only [hubf] at *); grind [mem_removeL, nodup_removeL, removeL_nil]))
+      | (have f_room_mem := hi.room_mem; have f_mem_room := hi.mem_room; have f_fresh := hi.fresh; clear hi; (intros; (try simp only [hubf] at *); grind [mem_removeL, nodup_removeL, removeL_nil, length_removeL_le]))
+      | (have f_fresh := hi.fresh; have f_mem_room := hi.mem_room; have f_room_mem := hi.room_mem; have f_nonempty := hi.nonempty; have f_nodup := hi.nodup; have f_roomL_iff := hi.roomL_iff; have f_roomL_nodup := hi.roomL_nodup; have f_userL_iff := hi.userL_iff; have f_userL_nodup := hi.userL_nodup; have f_sessL_iff := hi.sessL_iff; have f_rs_fwd := hi.rs_fwd; have f_rs_room := hi.rs_room; have f_virt := hi.virt; have f_children := hi.children; have f_vtable := hi.vtable; have f_conn_iff := hi.conn_iff; have f_conn_open := hi.conn_open; have f_eh := hi.eh; have f_expired := hi.expired; have f_anon := hi.anon; have f_dialout := hi.dialout; have f_count := hi.count; have f_orph_virt := hi.orph_virt; have f_incall := hi.incall; have f_count_le := hi.count_le; clear hi; (intros; (try simp only [hubf] at *); grind [mem_removeL, nodup_removeL, removeL_nil, length_removeL_le]))
   case nonempty =>
     by_cases hk : x.kind = .virtual <;> simp only [hk, if_true, if_false]
     all_goals first
-      | (have f_nonempty := hi.nonempty; have f_mem_room := hi.mem_room; clear hi; (intros; (try simp only [hubf] at *); grind [mem_removeL, nodup_removeL, removeL_nil]))
-      | (have f_fresh := hi.fresh; have f_mem_room := hi.mem_room; have f_room_mem := hi.room_mem; have f_nonempty := hi.nonempty; have f_nodup := hi.nodup; have f_roomL_iff := hi.roomL_iff; have f_roomL_nodup := hi.roomL_nodup; have f_userL_iff := hi.userL_iff; have f_userL_nodup := hi.userL_nodup; have f_sessL_iff := hi.sessL_iff; have f_rs_fwd := hi.rs_fwd; have f_rs_room := hi.rs_room; have f_virt := hi.virt; have f_children := hi.children; have f_vtable := hi.vtable; have f_conn_iff := hi.conn_iff; have f_conn_open := hi.conn_open; have f_eh := hi.eh; have f_expired := hi.expired; have f_anon := hi.anon; have f_dialout := hi.dialout; have f_count := hi.count; have f_orph_virt := hi.orph_virt; have f_incall := hi.incall; clear hi; (intros; (try simp only [hubf] at *); grind [mem_removeL, nodup_removeL, removeL_nil]))
+      | (have f_nonempty := hi.nonempty; have f_mem_room := hi.mem_room; clear hi; (intros; (try simp only [hubf] at *); grind [mem_removeL, nodup_removeL, removeL_nil, length_removeL_le]))
+      | (have f_fresh := hi.fresh; have f_mem_room := hi.mem_room; have f_room_mem := hi.room_mem; have f_nonempty := hi.nonempty; have f_nodup := hi.nodup; have f_roomL_iff := hi.roomL_iff; have f_roomL_nodup := hi.roomL_nodup; have f_userL_iff := hi.userL_iff; have f_userL_nodup := hi.userL_nodup; have f_sessL_iff := hi.sessL_iff; have f_rs_fwd := hi.rs_fwd; have f_rs_room := hi.rs_room; have f_virt := hi.virt; have f_children := hi.children; have f_vtable := hi.vtable; have f_conn_iff := hi.conn_iff; have f_conn_open := hi.conn_open; have f_eh := hi.eh; have f_expired := hi.expired; have f_anon := hi.anon; have f_dialout := hi.dialout; have f_count := hi.count; have f_orph_virt := hi.orph_virt; have f_incall := hi.incall; have f_count_le := hi.count_le; clear hi; (intros; (try simp only [hubf] at *); grind [mem_removeL, nodup_removeL, removeL_nil, length_removeL_le]))
   case nodup =>
     by_cases hk : x.kind = .virtual <;> simp only [hk, if_true, if_false]
     all_goals first
-      | (have f_nodup := hi.nodup; clear hi; (intros; (try simp only [hubf] at *); grind [mem_removeL, nodup_removeL, removeL_nil]))
-      | (have f_fresh := hi.fresh; have f_mem_room := hi.mem_room; have f_room_mem := hi.room_mem; have f_nonempty := hi.nonempty; have f_nodup := hi.nodup; have f_roomL_iff := hi.roomL_iff; have f_roomL_nodup := hi.roomL_nodup; have f_userL_iff := hi.userL_iff; have f_userL_nodup := hi.userL_nodup; have f_sessL_iff := hi.sessL_iff; have f_rs_fwd := hi.rs_fwd; have f_rs_room := hi.rs_room; have f_virt := hi.virt; have f_children := hi.children; have f_vtable := hi.vtable; have f_conn_iff := hi.conn_iff; have f_conn_open := hi.conn_open; have f_eh := hi.eh; have f_expired := hi.expired; have f_anon := hi.anon; have f_dialout := hi.dialout; have f_count := hi.count; have f_orph_virt := hi.orph_virt; have f_incall := hi.incall; clear hi; (intros; (try simp only [hubf] at *); grind [mem_removeL, nodup_removeL, removeL_nil]))
+      | (have f_nodup := hi.nodup; clear hi; (intros; (try simp only [hubf] at *); grind [mem_removeL, nodup_removeL, removeL_nil, length_removeL_le]))
+      | (have f_fresh := hi.fresh; have f_mem_room := hi.mem_room; have f_room_mem := hi.room_mem; have f_nonempty := hi.nonempty; have f_nodup := hi.nodup; have f_roomL_iff := hi.roomL_iff; have f_roomL_nodup := hi.roomL_nodup; have f_userL_iff := hi.userL_iff; have f_userL_nodup := hi.userL_nodup; have f_sessL_iff := hi.sessL_iff; have f_rs_fwd := hi.rs_fwd; have f_rs_room := hi.rs_room; have f_virt := hi.virt; have f_children := hi.children; have f_vtable := hi.vtable; have f_conn_iff := hi.conn_iff; have f_conn_open := hi.conn_open; have f_eh := hi.eh; have f_expired := hi.expired; have f_anon := hi.anon; have f_dialout := hi.dialout; have f_count := hi.count; have f_orph_virt := hi.orph_virt; have f_incall := hi.incall; have f_count_le := hi.count_le; clear hi; (intros; (try simp only [hubf] at *); grind [mem_removeL, nodup_removeL, removeL_nil, length_removeL_le]))
   case roomL_iff =>
     by_cases hk : x.kind = .virtual <;> simp only [hk, if_true, if_false]
     all_goals first
-      | (have f_roomL_iff := hi.roomL_iff; have f_fresh := hi.fresh; have f_room_mem := hi.room_mem; have f_mem_room := hi.mem_room; clear hi; (intros; (try simp only [hubf] at *); grind [mem_removeL, nodup_removeL, removeL_nil]))
-      | (have f_fresh := hi.fresh; have f_mem_room := hi.mem_room; have f_room_mem := hi.room_mem; have f_nonempty := hi.nonempty; have f_nodup := hi.nodup; have f_roomL_iff := hi.roomL_iff; have f_roomL_nodup := hi.roomL_nodup; have f_userL_iff := hi.userL_iff; have f_userL_nodup := hi.userL_nodup; have f_sessL_iff := hi.sessL_iff; have f_rs_fwd := hi.rs_fwd; have f_rs_room := hi.rs_room; have f_virt := hi.virt; have f_children := hi.children; have f_vtable := hi.vtable; have f_conn_iff := hi.conn_iff; have f_conn_open := hi.conn_open; have f_eh := hi.eh; have f_expired := hi.expired; have f_anon := hi.anon; have f_dialout := hi.dialout; have f_count := hi.count; have f_orph_virt := hi.orph_virt; have f_incall := hi.incall; clear hi; (intros; (try simp only [hubf] at *); grind [mem_removeL, nodup_removeL, removeL_nil]))
+      | (have f_roomL_iff := hi.roomL_iff; have f_fresh := hi.fresh; have f_room_mem := hi.room_mem; have f_mem_room := hi.mem_room; clear hi; (intros; (try simp only [hubf] at *); grind [mem_removeL, nodup_removeL, removeL_nil, length_removeL_le]))
+      | (have f_fresh := hi.fresh; have f_mem_room := hi.mem_room; have f_room_mem := hi.room_mem; have f_nonempty := hi.nonempty; have f_nodup := hi.nodup; have f_roomL_iff := hi.roomL_iff; have f_roomL_nodup := hi.roomL_nodup; have f_userL_iff := hi.userL_iff; have f_userL_nodup := hi.userL_nodup; have f_sessL_iff := hi.sessL_iff; have f_rs_fwd := hi.rs_fwd; have f_rs_room := hi.rs_room; have f_virt := hi.virt; have f_children := hi.children; have f_vtable := hi.vtable; have f_conn_iff := hi.conn_iff; have f_conn_open := hi.conn_open; have f_eh := hi.eh; have f_expired := hi.expired; have f_anon := hi.anon; have f_dialout := hi.dialout; have f_count := hi.count; have f_orph_virt := hi.orph_virt; have f_incall := hi.incall; have f_count_le := hi.count_le; clear hi; (intros; (try simp only [hubf] at *); grind [mem_removeL, nodup_removeL, removeL_nil, length_removeL_le]))
   case roomL_nodup =>
     by_cases hk : x.kind = .virtual <;> simp only [hk, if_true, if_false]
     all_goals first
-      | (have f_roomL_nodup := hi.roomL_nodup; have f_roomL_iff := hi.roomL_iff; clear hi; (intros; (try simp only [hubf] at *); grind [mem_removeL, nodup_removeL, removeL_nil]))
-      | (have f_fresh := hi.fresh; have f_mem_room := hi.mem_room; have f_room_mem := hi.room_mem; have f_nonempty := hi.nonempty; have f_nodup := hi.nodup; have f_roomL_iff := hi.roomL_iff; have f_roomL_nodup := hi.roomL_nodup; have f_userL_iff := hi.userL_iff; have f_userL_nodup := hi.userL_nodup; have f_sessL_iff := hi.sessL_iff; have f_rs_fwd := hi.rs_fwd; have f_rs_room := hi.rs_room; have f_virt := hi.virt; have f_children := hi.children; have f_vtable := hi.vtable; have f_conn_iff := hi.conn_iff; have f_conn_open := hi.conn_open; have f_eh := hi.eh; have f_expired := hi.expired; have f_anon := hi.anon; have f_dialout := hi.dialout; have f_count := hi.count; have f_orph_virt := hi.orph_virt; have f_incall := hi.incall; clear hi; (intros; (try simp only [hubf] at *); grind [mem_removeL, nodup_removeL, removeL_nil]))
+      | (have f_roomL_nodup := hi.roomL_nodup; have f_roomL_iff := hi.roomL_iff; clear hi; (intros; (try simp only [hubf] at *); grind [mem_removeL, nodup_removeL, removeL_nil, length_removeL_le]))
+      | (have f_fresh := hi.fresh; have f_mem_room := hi.mem_room; have f_room_mem := hi.room_mem; have f_nonempty := hi.nonempty; have f_nodup := hi.nodup; have f_roomL_iff := hi.roomL_iff; have f_roomL_nodup := hi.roomL_nodup; have f_userL_iff := hi.userL_iff; have f_userL_nodup := hi.userL_nodup; have f_sessL_iff := hi.sessL_iff; have f_rs_fwd := hi.rs_fwd; have f_rs_room := hi.rs_room; have f_virt := hi.virt; have f_children := hi.children; have f_vtable := hi.vtable; have f_conn_iff := hi.conn_iff; have f_conn_open := hi.conn_open; have f_eh := hi.eh; have f_expired := hi.expired; have f_anon := hi.anon; have f_dialout := hi.dialout; have f_count := hi.count; have f_orph_virt := hi.orph_virt; have f_incall := hi.incall; have f_count_le := hi.count_le; clear hi; (intros; (try simp only [hubf] at *); grind [mem_removeL, nodup_removeL, removeL_nil, length_removeL_le]))
   case userL_iff =>
     by_cases hk : x.kind = .virtual <;> simp only [hk, if_true, if_false]
     all_goals first
-      | (have f_userL_iff := hi.userL_iff; have f_fresh := hi.fresh; clear hi; (intros; (try simp only [hubf] at *); grind [mem_removeL, nodup_removeL, removeL_nil]))
-      | (have f_fresh := hi.fresh; have f_mem_room := hi.mem_room; have f_room_mem := hi.room_mem; have f_nonempty := hi.nonempty; have f_nodup := hi.nodup; have f_roomL_iff := hi.roomL_iff; have f_roomL_nodup := hi.roomL_nodup; have f_userL_iff := hi.userL_iff; have f_userL_nodup := hi.userL_nodup; have f_sessL_iff := hi.sessL_iff; have f_rs_fwd := hi.rs_fwd; have f_rs_room := hi.rs_room; have f_virt := hi.virt; have f_children := hi.children; have f_vtable := hi.vtable; have f_conn_iff := hi.conn_iff; have f_conn_open := hi.conn_open; have f_eh := hi.eh; have f_expired := hi.expired; have f_anon := hi.anon; have f_dialout := hi.dialout; have f_count := hi.count; have f_orph_virt := hi.orph_virt; have f_incall := hi.incall; clear hi; (intros; (try simp only [hubf] at *); grind [mem_removeL, nodup_removeL, removeL_nil]))
+      | (have f_userL_iff := hi.userL_iff; have f_fresh := hi.fresh; clear hi; (intros; (try simp only [hubf] at *); grind [mem_removeL, nodup_removeL, removeL_nil, length_removeL_le]))
+      | (have f_fresh := hi.fresh; have f_mem_room := hi.mem_room; have f_room_mem := hi.room_mem; have f_nonempty := hi.nonempty; have f_nodup := hi.nodup; have f_roomL_iff := hi.roomL_iff; have f_roomL_nodup := hi.roomL_nodup; have f_userL_iff := hi.userL_iff; have f_userL_nodup := hi.userL_nodup; have f_sessL_iff := hi.sessL_iff; have f_rs_fwd := hi.rs_fwd; have f_rs_room := hi.rs_room; have f_virt := hi.virt; have f_children := hi.children; have f_vtable := hi.vtable; have f_conn_iff := hi.conn_iff; have f_conn_open := hi.conn_open; have f_eh := hi.eh; have f_expired := hi.expired; have f_anon := hi.anon; have f_dialout := hi.dialout; have f_count := hi.count; have f_orph_virt := hi.orph_virt; have f_incall := hi.incall; have f_count_le := hi.count_le; clear hi; (intros; (try simp only [hubf] at *); grind [mem_removeL, nodup_removeL, removeL_nil, length_removeL_le]))
   case userL_nodup =>
     by_cases hk : x.kind = .virtual <;> simp only [hk, if_true, if_false]
     all_goals first
-      | (have f_userL_nodup := hi.userL_nodup; have f_userL_iff := hi.userL_iff; clear hi; (intros; (try simp only [hubf] at *); grind [mem_removeL, nodup_removeL, removeL_nil]))
-      | (have f_fresh := hi.fresh; have f_mem_room := hi.mem_room; have f_room_mem := hi.room_mem; have f_nonempty := hi.nonempty; have f_nodup := hi.nodup; have f_roomL_iff := hi.roomL_iff; have f_roomL_nodup := hi.roomL_nodup; have f_userL_iff := hi.userL_iff; have f_userL_nodup := hi.userL_nodup; have f_sessL_iff := hi.sessL_iff; have f_rs_fwd := hi.rs_fwd; have f_rs_room := hi.rs_room; have f_virt := hi.virt; have f_children := hi.children; have f_vtable := hi.vtable; have f_conn_iff := hi.conn_iff; have f_conn_open := hi.conn_open; have f_eh := hi.eh; have f_expired := hi.expired; have f_anon := hi.anon; have f_dialout := hi.dialout; have f_count := hi.count; have f_orph_virt := hi.orph_virt; have f_incall := hi.incall; clear hi; (intros; (try simp only [hubf] at *); grind [mem_removeL, nodup_removeL, removeL_nil]))
+      | (have f_userL_nodup := hi.userL_nodup; have f_userL_iff := hi.userL_iff; clear hi; (intros; (try simp only [hubf] at *); grind [mem_removeL, nodup_removeL, removeL_nil, length_removeL_le]))
+      | (have f_fresh := hi.fresh; have f_mem_room := hi.mem_room; have f_room_mem := hi.room_mem; have f_nonempty := hi.nonempty; have f_nodup := hi.nodup; have f_roomL_iff := hi.roomL_iff; have f_roomL_nodup := hi.roomL_nodup; have f_userL_iff := hi.userL_iff; have f_userL_nodup := hi.userL_nodup; have f_sessL_iff := hi.sessL_iff; have f_rs_fwd := hi.rs_fwd; have f_rs_room := hi.rs_room; have f_virt := hi.virt; have f_children := hi.children; have f_vtable := hi.vtable; have f_conn_iff := hi.conn_iff; have f_conn_open := hi.conn_open; have f_eh := hi.eh; have f_expired := hi.expired; have f_anon := hi.anon; have f_dialout := hi.dialout; have f_count := hi.count; have f_orph_virt := hi.orph_virt; have f_incall := hi.incall; have f_count_le := hi.count_le; clear hi; (intros; (try simp only [hubf] at *); grind [mem_removeL, nodup_removeL, removeL_nil, length_removeL_le]))
   case sessL_iff =>
     by_cases hk : x.kind = .virtual <;> simp only [hk, if_true, if_false]
     all_goals first
-      | (have f_sessL_iff := hi.sessL_iff; have f_fresh := hi.fresh; clear hi; (intros; (try simp only [hubf] at *); grind [mem_removeL, nodup_removeL, removeL_nil]))
-      | (have f_fresh := hi.fresh; have f_mem_room := hi.mem_room; have f_room_mem := hi.room_mem; have f_nonempty := hi.nonempty; have f_nodup := hi.nodup; have f_roomL_iff := hi.roomL_iff; have f_roomL_nodup := hi.roomL_nodup; have f_userL_iff := hi.userL_iff; have f_userL_nodup := hi.userL_nodup; have f_sessL_iff := hi.sessL_iff; have f_rs_fwd := hi.rs_fwd; have f_rs_room := hi.rs_room; have f_virt := hi.virt; have f_children := hi.children; have f_vtable := hi.vtable; have f_conn_iff := hi.conn_iff; have f_conn_open := hi.conn_open; have f_eh := hi.eh; have f_expired := hi.expired; have f_anon := hi.anon; have f_dialout := hi.dialout; have f_count := hi.count; have f_orph_virt := hi.orph_virt; have f_incall := hi.incall; clear hi; (intros; (try simp only [hubf] at *); grind [mem_removeL, nodup_removeL, removeL_nil]))
+      | (have f_sessL_iff := hi.sessL_iff; have f_fresh := hi.fresh; clear hi; (intros; (try simp only [hubf] at *); grind [mem_removeL, nodup_removeL, removeL_nil, length_removeL_le]))
+      | (have f_fresh := hi.fresh; have f_mem_room := hi.mem_room; have f_room_mem := hi.room_mem; have f_nonempty := hi.nonempty; have f_nodup := hi.nodup; have f_roomL_iff := hi.roomL_iff; have f_roomL_nodup := hi.roomL_nodup; have f_userL_iff := hi.userL_iff; have f_userL_nodup := hi.userL_nodup; have f_sessL_iff := hi.sessL_iff; have f_rs_fwd := hi.rs_fwd; have f_rs_room := hi.rs_room; have f_virt := hi.virt; have f_children := hi.children; have f_vtable := hi.vtable; have f_conn_iff := hi.conn_iff; have f_conn_open := hi.conn_open; have f_eh := hi.eh; have f_expired := hi.expired; have f_anon := hi.anon; have f_dialout := hi.dialout; have f_count := hi.count; have f_orph_virt := hi.orph_virt; have f_incall := hi.incall; have f_count_le := hi.count_le; clear hi; (intros; (try simp only [hubf] at *); grind [mem_removeL, nodup_removeL, removeL_nil, length_removeL_le]))
   case rs_fwd =>
     by_cases hk : x.kind = .virtual <;> simp only [hk, if_true, if_false]
     all_goals first
-      | (have f_rs_fwd := hi.rs_fwd; have f_rs_room := hi.rs_room; have f_fresh := hi.fresh; clear hi; (intros; (try simp only [hubf] at *); grind [mem_removeL, nodup_removeL, removeL_nil]))
-      | (have f_fresh := hi.fresh; have f_mem_room := hi.mem_room; have f_room_mem := hi.room_mem; have f_nonempty := hi.nonempty; have f_nodup := hi.nodup; have f_roomL_iff := hi.roomL_iff; have f_roomL_nodup := hi.roomL_nodup; have f_userL_iff := hi.userL_iff; have f_userL_nodup := hi.userL_nodup; have f_sessL_iff := hi.sessL_iff; have f_rs_fwd := hi.rs_fwd; have f_rs_room := hi.rs_room; have f_virt := hi.virt; have f_children := hi.children; have f_vtable := hi.vtable; have f_conn_iff := hi.conn_iff; have f_conn_open := hi.conn_open; have f_eh := hi.eh; have f_expired := hi.expired; have f_anon := hi.anon; have f_dialout := hi.dialout; have f_count := hi.count; have f_orph_virt := hi.orph_virt; have f_incall := hi.incall; clear hi; (intros; (try simp only [hubf] at *); grind [mem_removeL, nodup_removeL, removeL_nil]))
+      | (have f_rs_fwd := hi.rs_fwd; have f_rs_room := hi.rs_room; have f_fresh := hi.fresh; clear hi; (intros; (try simp only [hubf] at *); grind [mem_removeL, nodup_removeL, removeL_nil, length_removeL_le]))
+      | (have f_fresh := hi.fresh; have f_mem_room := hi.mem_room; have f_room_mem := hi.room_mem; have f_nonempty := hi.nonempty; have f_nodup := hi.nodup; have f_roomL_iff := hi.roomL_iff; have f_roomL_nodup := hi.roomL_nodup; have f_userL_iff := hi.userL_iff; have f_userL_nodup := hi.userL_nodup; have f_sessL_iff := hi.sessL_iff; have f_rs_fwd := hi.rs_fwd; have f_rs_room := hi.rs_room; have f_virt := hi.virt; have f_children := hi.children; have f_vtable := hi.vtable; have f_conn_iff := hi.conn_iff; have f_conn_open := hi.conn_open; have f_eh := hi.eh; have f_expired := hi.expired; have f_anon := hi.anon; have f_dialout := hi.dialout; have f_count := hi.count; have f_orph_virt := hi.orph_virt; have f_incall := hi.incall; have f_count_le := hi.count_le; clear hi; (intros; (try simp only [hubf] at *); grind [mem_removeL, nodup_removeL, removeL_nil, length_removeL_le]))
   case rs_room =>
     by_cases hk : x.kind = .virtual <;> simp only [hk, if_true, if_false]
     all_goals first
-      | (have f_rs_room := hi.rs_room; have f_rs_fwd := hi.rs_fwd; have f_fresh := hi.fresh; have f_room_mem := hi.room_mem; clear hi; (intros; (try simp only [hubf] at *); grind [mem_removeL, nodup_removeL, removeL_nil]))
-      | (have f_fresh := hi.fresh; have f_mem_room := hi.mem_room; have f_room_mem := hi.room_mem; have f_nonempty := hi.nonempty; have f_nodup := hi.nodup; have f_roomL_iff := hi.roomL_iff; have f_roomL_nodup := hi.roomL_nodup; have f_userL_iff := hi.userL_iff; have f_userL_nodup := hi.userL_nodup; have f_sessL_iff := hi.sessL_iff; have f_rs_fwd := hi.rs_fwd; have f_rs_room := hi.rs_room; have f_virt := hi.virt; have f_children := hi.children; have f_vtable := hi.vtable; have f_conn_iff := hi.conn_iff; have f_conn_open := hi.conn_open; have f_eh := hi.eh; have f_expired := hi.expired; have f_anon := hi.anon; have f_dialout := hi.dialout; have f_count := hi.count; have f_orph_virt := hi.orph_virt; have f_incall := hi.incall; clear hi; (intros; (try simp only [hubf] at *); grind [mem_removeL, nodup_removeL, removeL_nil]))
+      | (have f_rs_room := hi.rs_room; have f_rs_fwd := hi.rs_fwd; have f_fresh := hi.fresh; have f_room_mem := hi.room_mem; clear hi; (intros; (try simp only [hubf] at *); grind [mem_removeL, nodup_removeL, removeL_nil, length_removeL_le]))
+      | (have f_fresh := hi.fresh; have f_mem_room := hi.mem_room; have f_room_mem := hi.room_mem; have f_nonempty := hi.nonempty; have f_nodup := hi.nodup; have f_roomL_iff := hi.roomL_iff; have f_roomL_nodup := hi.roomL_nodup; have f_userL_iff := hi.userL_iff; have f_userL_nodup := hi.userL_nodup; have f_sessL_iff := hi.sessL_iff; have f_rs_fwd := hi.rs_fwd; have f_rs_room := hi.rs_room; have f_virt := hi.virt; have f_children := hi.children; have f_vtable := hi.vtable; have f_conn_iff := hi.conn_iff; have f_conn_open := hi.conn_open; have f_eh := hi.eh; have f_expired := hi.expired; have f_anon := hi.anon; have f_dialout := hi.dialout; have f_count := hi.count; have f_orph_virt := hi.orph_virt; have f_incall := hi.incall; have f_count_le := hi.count_le; clear hi; (intros; (try simp only [hubf] at *); grind [mem_removeL, nodup_removeL, removeL_nil, length_removeL_le]))
   case virt =>
     by_cases hk : x.kind = .virtual <;> simp only [hk, if_true, if_false]
     all_goals first
-      | (have f_virt := hi.virt; have f_children := hi.children; have f_fresh := hi.fresh; clear hi; (intros; (try simp only [hubf] at *); grind [mem_removeL, nodup_removeL, removeL_nil]))
-      | (have f_fresh := hi.fresh; have f_mem_room := hi.mem_room; have f_room_mem := hi.room_mem; have f_nonempty := hi.nonempty; have f_nodup := hi.nodup; have f_roomL_iff := hi.roomL_iff; have f_roomL_nodup := hi.roomL_nodup; have f_userL_iff := hi.userL_iff; have f_userL_nodup := hi.userL_nodup; have f_sessL_iff := hi.sessL_iff; have f_rs_fwd := hi.rs_fwd; have f_rs_room := hi.rs_room; have f_virt := hi.virt; have f_children := hi.children; have f_vtable := hi.vtable; have f_conn_iff := hi.conn_iff; have f_conn_open := hi.conn_open; have f_eh := hi.eh; have f_expired := hi.expired; have f_anon := hi.anon; have f_dialout := hi.dialout; have f_count := hi.count; have f_orph_virt := hi.orph_virt; have f_incall := hi.incall; clear hi; (intros; (try simp only [hubf] at *); grind [mem_removeL, nodup_removeL, removeL_nil]))
+      | (have f_virt := hi.virt; have f_children := hi.children; have f_fresh := hi.fresh; clear hi; (intros; (try simp only [hubf] at *); grind [mem_removeL, nodup_removeL, removeL_nil, length_removeL_le]))
+      | (have f_fresh := hi.fresh; have f_mem_room := hi.mem_room; have f_room_mem := hi.room_mem; have f_nonempty := hi.nonempty; have f_nodup := hi.nodup; have f_roomL_iff := hi.roomL_iff; have f_roomL_nodup := hi.roomL_nodup; have f_userL_iff := hi.userL_iff; have f_userL_nodup := hi.userL_nodup; have f_sessL_iff := hi.sessL_iff; have f_rs_fwd := hi.rs_fwd; have f_rs_room := hi.rs_room; have f_virt := hi.virt; have f_children := hi.children; have f_vtable := hi.vtable; have f_conn_iff := hi.conn_iff; have f_conn_open := hi.conn_open; have f_eh := hi.eh; have f_expired := hi.expired; have f_anon := hi.anon; have f_dialout := hi.dialout; have f_count := hi.count; have f_orph_virt := hi.orph_virt; have f_incall := hi.incall; have f_count_le := hi.count_le; clear hi; (intros; (try simp only [hubf] at *); grind [mem_removeL, nodup_removeL, removeL_nil, length_removeL_le]))
   case children =>
     by_cases hk : x.kind = .virtual <;> simp only [hk, if_true, if_false]
     all_goals first
-      | (have f_children := hi.children; have f_virt := hi.virt; have f_fresh := hi.fresh; clear hi; (intros; (try simp only [hubf] at *); grind [mem_removeL, nodup_removeL, removeL_nil]))
-      | (have f_fresh := hi.fresh; have f_mem_room := hi.mem_room; have f_room_mem := hi.room_mem; have f_nonempty := hi.nonempty; have f_nodup := hi.nodup; have f_roomL_iff := hi.roomL_iff; have f_roomL_nodup := hi.roomL_nodup; have f_userL_iff := hi.userL_iff; have f_userL_nodup := hi.userL_nodup; have f_sessL_iff := hi.sessL_iff; have f_rs_fwd := hi.rs_fwd; have f_rs_room := hi.rs_room; have f_virt := hi.virt; have f_children := hi.children; have f_vtable := hi.vtable; have f_conn_iff := hi.conn_iff; have f_conn_open := hi.conn_open; have f_eh := hi.eh; have f_expired := hi.expired; have f_anon := hi.anon; have f_dialout := hi.dialout; have f_count := hi.count; have f_orph_virt := hi.orph_virt; have f_incall := hi.incall; clear hi; (intros; (try simp only [hubf] at *); grind [mem_removeL, nodup_removeL, removeL_nil]))
+      | (have f_children := hi.children; have f_virt := hi.virt; have f_fresh := hi.fresh; clear hi; (intros; (try simp only [hubf] at *); grind [mem_removeL, nodup_removeL, removeL_nil, length_removeL_le]))
+      | (have f_fresh := hi.fresh; have f_mem_room := hi.mem_room; have f_room_mem := hi.room_mem; have f_nonempty := hi.nonempty; have f_nodup := hi.nodup; have f_roomL_iff := hi.roomL_iff; have f_roomL_nodup := hi.roomL_nodup; have f_userL_iff := hi.userL_iff; have f_userL_nodup := hi.userL_nodup; have f_sessL_iff := hi.sessL_iff; have f_rs_fwd := hi.rs_fwd; have f_rs_room := hi.rs_room; have f_virt := hi.virt; have f_children := hi.children; have f_vtable := hi.vtable; have f_conn_iff := hi.conn_iff; have f_conn_open := hi.conn_open; have f_eh := hi.eh; have f_expired := hi.expired; have f_anon := hi.anon; have f_dialout := hi.dialout; have f_count := hi.count; have f_orph_virt := hi.orph_virt; have f_incall := hi.incall; have f_count_le := hi.count_le; clear hi; (intros; (try simp only [hubf] at *); grind [mem_removeL, nodup_removeL, removeL_nil, length_removeL_le]))
   case vtable =>
     by_cases hk : x.kind = .virtual <;> simp only [hk, if_true, if_false]
     all_goals first
-      | (have f_vtable := hi.vtable; have f_virt := hi.virt; have f_fresh := hi.fresh; clear hi; (intros; (try simp only [hubf] at *); grind [mem_removeL, nodup_removeL, removeL_nil]))
-      | (have f_fresh := hi.fresh; have f_mem_room := hi.mem_room; have f_room_mem := hi.room_mem; have f_nonempty := hi.nonempty; have f_nodup := hi.nodup; have f_roomL_iff := hi.roomL_iff; have f_roomL_nodup := hi.roomL_nodup; have f_userL_iff := hi.userL_iff; have f_userL_nodup := hi.userL_nodup; have f_sessL_iff := hi.sessL_iff; have f_rs_fwd := hi.rs_fwd; have f_rs_room := hi.rs_room; have f_virt := hi.virt; have f_children := hi.children; have f_vtable := hi.vtable; have f_conn_iff := hi.conn_iff; have f_conn_open := hi.conn_open; have f_eh := hi.eh; have f_expired := hi.expired; have f_anon := hi.anon; have f_dialout := hi.dialout; have f_count := hi.count; have f_orph_virt := hi.orph_virt; have f_incall := hi.incall; clear hi; (intros; (try simp only [hubf] at *); grind [mem_removeL, nodup_removeL, removeL_nil]))
+      | (have f_vtable := hi.vtable; have f_virt := hi.virt; have f_fresh := hi.fresh; clear hi; (intros; (try simp only [hubf] at *); grind [mem_removeL, nodup_removeL, removeL_nil, length_removeL_le]))
+      | (have f_fresh := hi.fresh; have f_mem_room := hi.mem_room; have f_room_mem := hi.room_mem; have f_nonempty := hi.nonempty; have f_nodup := hi.nodup; have f_roomL_iff := hi.roomL_iff; have f_roomL_nodup := hi.roomL_nodup; have f_userL_iff := hi.userL_iff; have f_userL_nodup := hi.userL_nodup; have f_sessL_iff := hi.sessL_iff; have f_rs_fwd := hi.rs_fwd; have f_rs_room := hi.rs_room; have f_virt := hi.virt; have f_children := hi.children; have f_vtable := hi.vtable; have f_conn_iff := hi.conn_iff; have f_conn_open := hi.conn_open; have f_eh := hi.eh; have f_expired := hi.expired; have f_anon := hi.anon; have f_dialout := hi.dialout; have f_count := hi.count; have f_orph_virt := hi.orph_virt; have f_incall := hi.incall; have f_count_le := hi.count_le; clear hi; (intros; (try simp only [hubf] at *); grind [mem_removeL, nodup_removeL, removeL_nil, length_removeL_le]))
   case conn_iff =>
     by_cases hk : x.kind = .virtual <;> simp only [hk, if_true, if_false]
     all_goals first
-      | (have f_conn_iff := hi.conn_iff; have f_fresh := hi.fresh; have f_virt := hi.virt; clear hi; (intros; (try simp only [hubf] at *); grind [mem_removeL, nodup_removeL, removeL_nil]))
-      | (have f_fresh := hi.fresh; have f_mem_room := hi.mem_room; have f_room_mem := hi.room_mem; have f_nonempty := hi.nonempty; have f_nodup := hi.nodup; have f_roomL_iff := hi.roomL_iff; have f_roomL_nodup := hi.roomL_nodup; have f_userL_iff := hi.userL_iff; have f_userL_nodup := hi.userL_nodup; have f_sessL_iff := hi.sessL_iff; have f_rs_fwd := hi.rs_fwd; have f_rs_room := hi.rs_room; have f_virt := hi.virt; have f_children := hi.children; have f_vtable := hi.vtable; have f_conn_iff := hi.conn_iff; have f_conn_open := hi.conn_open; have f_eh := hi.eh; have f_expired := hi.expired; have f_anon := hi.anon; have f_dialout := hi.dialout; have f_count := hi.count; have f_orph_virt := hi.orph_virt; have f_incall := hi.incall; clear hi; (intros; (try simp only [hubf] at *); grind [mem_removeL, nodup_removeL, removeL_nil]))
+      | (have f_conn_iff := hi.conn_iff; have f_fresh := hi.fresh; have f_virt := hi.virt; clear hi; (intros; (try simp only [hubf] at *); grind [mem_removeL, nodup_removeL, removeL_nil, length_removeL_le]))
+      | (have f_fresh := hi.fresh; have f_mem_room := hi.mem_room; have f_room_mem := hi.room_mem; have f_nonempty := hi.nonempty; have f_nodup := hi.nodup; have f_roomL_iff := hi.roomL_iff; have f_roomL_nodup := hi.roomL_nodup; have f_userL_iff := hi.userL_iff; have f_userL_nodup := hi.userL_nodup; have f_sessL_iff := hi.sessL_iff; have f_rs_fwd := hi.rs_fwd; have f_rs_room := hi.rs_room; have f_virt := hi.virt; have f_children := hi.children; have f_vtable := hi.vtable; have f_conn_iff := hi.conn_iff; have f_conn_open := hi.conn_open; have f_eh := hi.eh; have f_expired := hi.expired; have f_anon := hi.anon; have f_dialout := hi.dialout; have f_count := hi.count; have f_orph_virt := hi.orph_virt; have f_incall := hi.incall; have f_count_le := hi.count_le; clear hi; (intros; (try simp only [hubf] at *); grind [mem_removeL, nodup_removeL, removeL_nil, length_removeL_le]))
   case conn_open =>
     by_cases hk : x.kind = .virtual <;> simp only [hk, if_true, if_false]
     all_goals first
-      | (have f_conn_open := hi.conn_open; have f_conn_iff := hi.conn_iff; clear hi; (intros; (try simp only [hubf] at *); grind [mem_removeL, nodup_removeL, removeL_nil]))
-      | (have f_fresh := hi.fresh; have f_mem_room := hi.mem_room; have f_room_mem := hi.room_mem; have f_nonempty := hi.nonempty; have f_nodup := hi.nodup; have f_roomL_iff := hi.roomL_iff; have f_roomL_nodup := hi.roomL_nodup; have f_userL_iff := hi.userL_iff; have f_userL_nodup := hi.userL_nodup; have f_sessL_iff := hi.sessL_iff; have f_rs_fwd := hi.rs_fwd; have f_rs_room := hi.rs_room; have f_virt := hi.virt; have f_children := hi.children; have f_vtable := hi.vtable; have f_conn_iff := hi.conn_iff; have f_conn_open := hi.conn_open; have f_eh := hi.eh; have f_expired := hi.expired; have f_anon := hi.anon; have f_dialout := hi.dialout; have f_count := hi.count; have f_orph_virt := hi.orph_virt; have f_incall := hi.incall; clear hi; (intros; (try simp only [hubf] at *); grind [mem_removeL, nodup_removeL, removeL_nil]))
+      | (have f_conn_open := hi.conn_open; have f_conn_iff := hi.conn_iff; clear hi; (intros; (try simp only [hubf] at *); grind [mem_removeL, nodup_removeL, removeL_nil, length_removeL_le]))
+      | (have f_fresh := hi.fresh; have f_mem_room := hi.mem_room; have f_room_mem := hi.room_mem; have f_nonempty := hi.nonempty; have f_nodup := hi.nodup; have f_roomL_iff := hi.roomL_iff; have f_roomL_nodup := hi.roomL_nodup; have f_userL_iff := hi.userL_iff; have f_userL_nodup := hi.userL_nodup; have f_sessL_iff := hi.sessL_iff; have f_rs_fwd := hi.rs_fwd; have f_rs_room := hi.rs_room; have f_virt := hi.virt; have f_children := hi.children; have f_vtable := hi.vtable; have f_conn_iff := hi.conn_iff; have f_conn_open := hi.conn_open; have f_eh := hi.eh; have f_expired := hi.expired; have f_anon := hi.anon; have f_dialout := hi.dialout; have f_count := hi.count; have f_orph_virt := hi.orph_virt; have f_incall := hi.incall; have f_count_le := hi.count_le; clear hi; (intros; (try simp only [hubf] at *); grind [mem_removeL, nodup_removeL, removeL_nil, length_removeL_le]))
   case eh =>
     by_cases hk : x.kind = .virtual <;> simp only [hk, if_true, if_false]
     all_goals first
-      | (have f_eh := hi.eh; have f_conn_iff := hi.conn_iff; have f_conn_open := hi.conn_open; clear hi; (intros; (try simp only [hubf] at *); grind [mem_removeL, nodup_removeL, removeL_nil]))
-      | (have f_fresh := hi.fresh; have f_mem_room := hi.mem_room; have f_room_mem := hi.room_mem; have f_nonempty := hi.nonempty; have f_nodup := hi.nodup; have f_roomL_iff := hi.roomL_iff; have f_roomL_nodup := hi.roomL_nodup; have f_userL_iff := hi.userL_iff; have f_userL_nodup := hi.userL_nodup; have f_sessL_iff := hi.sessL_iff; have f_rs_fwd := hi.rs_fwd; have f_rs_room := hi.rs_room; have f_virt := hi.virt; have f_children := hi.children; have f_vtable := hi.vtable; have f_conn_iff := hi.conn_iff; have f_conn_open := hi.conn_open; have f_eh := hi.eh; have f_expired := hi.expired; have f_anon := hi.anon; have f_dialout := hi.dialout; have f_count := hi.count; have f_orph_virt := hi.orph_virt; have f_incall := hi.incall; clear hi; (intros; (try simp only [hubf] at *); grind [mem_removeL, nodup_removeL, removeL_nil]))
+      | (have f_eh := hi.eh; have f_conn_iff := hi.conn_iff; have f_conn_open := hi.conn_open; clear hi; (intros; (try simp only [hubf] at *); grind [mem_removeL, nodup_removeL, removeL_nil, length_removeL_le]))
+      | (have f_fresh := hi.fresh; have f_mem_room := hi.mem_room; have f_room_mem := hi.room_mem; have f_nonempty := hi.nonempty; have f_nodup := hi.nodup; have f_roomL_iff := hi.roomL_iff; have f_roomL_nodup := hi.roomL_nodup; have f_userL_iff := hi.userL_iff; have f_userL_nodup := hi.userL_nodup; have f_sessL_iff := hi.sessL_iff; have f_rs_fwd := hi.rs_fwd; have f_rs_room := hi.rs_room; have f_virt := hi.virt; have f_children := hi.children; have f_vtable := hi.vtable; have f_conn_iff := hi.conn_iff; have f_conn_open := hi.conn_open; have f_eh := hi.eh; have f_expired := hi.expired; have f_anon := hi.anon; have f_dialout := hi.dialout; have f_count := hi.count; have f_orph_virt := hi.orph_virt; have f_incall := hi.incall; have f_count_le := hi.count_le; clear hi; (intros; (try simp only [hubf] at *); grind [mem_removeL, nodup_removeL, removeL_nil, length_removeL_le]))
   case expired =>
     by_cases hk : x.kind = .virtual <;> simp only [hk, if_true, if_false]
     all_goals first
-      | (have f_expired := hi.expired; have f_fresh := hi.fresh; clear hi; (intros; (try simp only [hubf] at *); grind [mem_removeL, nodup_removeL, removeL_nil]))
-      | (have f_fresh := hi.fresh; have f_mem_room := hi.mem_room; have f_room_mem := hi.room_mem; have f_nonempty := hi.nonempty; have f_nodup := hi.nodup; have f_roomL_iff := hi.roomL_iff; have f_roomL_nodup := hi.roomL_nodup; have f_userL_iff := hi.userL_iff; have f_userL_nodup := hi.userL_nodup; have f_sessL_iff := hi.sessL_iff; have f_rs_fwd := hi.rs_fwd; have f_rs_room := hi.rs_room; have f_virt := hi.virt; have f_children := hi.children; have f_vtable := hi.vtable; have f_conn_iff := hi.conn_iff; have f_conn_open := hi.conn_open; have f_eh := hi.eh; have f_expired := hi.expired; have f_anon := hi.anon; have f_dialout := hi.dialout; have f_count := hi.count; have f_orph_virt := hi.orph_virt; have f_incall := hi.incall; clear hi; (intros; (try simp only [hubf] at *); grind [mem_removeL, nodup_removeL, removeL_nil]))
+      | (have f_expired := hi.expired; have f_fresh := hi.fresh; clear hi; (intros; (try simp only [hubf] at *); grind [mem_removeL, nodup_removeL, removeL_nil, length_removeL_le]))
+      | (have f_fresh := hi.fresh; have f_mem_room := hi.mem_room; have f_room_mem := hi.room_mem; have f_nonempty := hi.nonempty; have f_nodup := hi.nodup; have f_roomL_iff := hi.roomL_iff; have f_roomL_nodup := hi.roomL_nodup; have f_userL_iff := hi.userL_iff; have f_userL_nodup := hi.userL_nodup; have f_sessL_iff := hi.sessL_iff; have f_rs_fwd := hi.rs_fwd; have f_rs_room := hi.rs_room; have f_virt := hi.virt; have f_children := hi.children; have f_vtable := hi.vtable; have f_conn_iff := hi.conn_iff; have f_conn_open := hi.conn_open; have f_eh := hi.eh; have f_expired := hi.expired; have f_anon := hi.anon; have f_dialout := hi.dialout; have f_count := hi.count; have f_orph_virt := hi.orph_virt; have f_incall := hi.incall; have f_count_le := hi.count_le; clear hi; (intros; (try simp only [hubf] at *); grind [mem_removeL, nodup_removeL, removeL_nil, length_removeL_le]))
   case anon =>
     by_cases hk : x.kind = .virtual <;> simp only [hk, if_true, if_false]
     all_goals first
-      | (have f_anon := hi.anon; have f_fresh := hi.fresh; clear hi; (intros; (try simp only [hubf] at *); grind [mem_removeL, nodup_removeL, removeL_nil]))
-      | (have f_fresh := hi.fresh; have f_mem_room := hi.mem_room; have f_room_mem := hi.room_mem; have f_nonempty := hi.nonempty; have f_nodup := hi.nodup; have f_roomL_iff := hi.roomL_iff; have f_roomL_nodup := hi.roomL_nodup; have f_userL_iff := hi.userL_iff; have f_userL_nodup := hi.userL_nodup; have f_sessL_iff := hi.sessL_iff; have f_rs_fwd := hi.rs_fwd; have f_rs_room := hi.rs_room; have f_virt := hi.virt; have f_children := hi.children; have f_vtable := hi.vtable; have f_conn_iff := hi.conn_iff; have f_conn_open := hi.conn_open; have f_eh := hi.eh; have f_expired := hi.expired; have f_anon := hi.anon; have f_dialout := hi.dialout; have f_count := hi.count; have f_orph_virt := hi.orph_virt; have f_incall := hi.incall; clear hi; (intros; (try simp only [hubf] at *); grind [mem_removeL, nodup_removeL, removeL_nil]))
+      | (have f_anon := hi.anon; have f_fresh := hi.fresh; clear hi; (intros; (try simp only [hubf] at *); grind [mem_removeL, nodup_removeL, removeL_nil, length_removeL_le]))
+      | (have f_fresh := hi.fresh; have f_mem_room := hi.mem_room; have f_room_mem := hi.room_mem; have f_nonempty := hi.nonempty; have f_nodup := hi.nodup; have f_roomL_iff := hi.roomL_iff; have f_roomL_nodup := hi.roomL_nodup; have f_userL_iff := hi.userL_iff; have f_userL_nodup := hi.userL_nodup; have f_sessL_iff := hi.sessL_iff; have f_rs_fwd := hi.rs_fwd; have f_rs_room := hi.rs_room; have f_virt := hi.virt; have f_children := hi.children; have f_vtable := hi.vtable; have f_conn_iff := hi.conn_iff; have f_conn_open := hi.conn_open; have f_eh := hi.eh; have f_expired := hi.expired; have f_anon := hi.anon; have f_dialout := hi.dialout; have f_count := hi.count; have f_orph_virt := hi.orph_virt; have f_incall := hi.incall; have f_count_le := hi.count_le; clear hi; (intros; (try simp only [hubf] at *); grind [mem_removeL, nodup_removeL, removeL_nil, length_removeL_le]))
   case dialout =>
     by_cases hk : x.kind = .virtual <;> simp only [hk, if_true, if_false]
     all_goals first
-      | (have f_dialout := hi.dialout; have f_fresh := hi.fresh; clear hi; (intros; (try simp only [hubf] at *); grind [mem_removeL, nodup_removeL, removeL_nil]))
-      | (have f_fresh := hi.fresh; have f_mem_room := hi.mem_room; have f_room_mem := hi.room_mem; have f_nonempty := hi.nonempty; have f_nodup := hi.nodup; have f_roomL_iff := hi.roomL_iff; have f_roomL_nodup := hi.roomL_nodup; have f_userL_iff := hi.userL_iff; have f_userL_nodup := hi.userL_nodup; have f_sessL_iff := hi.sessL_iff; have f_rs_fwd := hi.rs_fwd; have f_rs_room := hi.rs_room; have f_virt := hi.virt; have f_children := hi.children; have f_vtable := hi.vtable; have f_conn_iff := hi.conn_iff; have f_conn_open := hi.conn_open; have f_eh := hi.eh; have f_expired := hi.expired; have f_anon := hi.anon; have f_dialout := hi.dialout; have f_count := hi.count; have f_orph_virt := hi.orph_virt; have f_incall := hi.incall; clear hi; (intros; (try simp only [hubf] at *); grind [mem_removeL, nodup_removeL, removeL_nil]))
+      | (have f_dialout := hi.dialout; have f_fresh := hi.fresh; clear hi; (intros; (try simp only [hubf] at *); grind [mem_removeL, nodup_removeL, removeL_nil, length_removeL_le]))
+      | (have f_fresh := hi.fresh; have f_mem_room := hi.mem_room; have f_room_mem := hi.room_mem; have f_nonempty := hi.nonempty; have f_nodup := hi.nodup; have f_roomL_iff := hi.roomL_iff; have f_roomL_nodup := hi.roomL_nodup; have f_userL_iff := hi.userL_iff; have f_userL_nodup := hi.userL_nodup; have f_sessL_iff := hi.sessL_iff; have f_rs_fwd := hi.rs_fwd; have f_rs_room := hi.rs_room; have f_virt := hi.virt; have f_children := hi.children; have f_vtable := hi.vtable; have f_conn_iff := hi.conn_iff; have f_conn_open := hi.conn_open; have f_eh := hi.eh; have f_expired := hi.expired; have f_anon := hi.anon; have f_dialout := hi.dialout; have f_count := hi.count; have f_orph_virt := hi.orph_virt; have f_incall := hi.incall; have f_count_le := hi.count_le; clear hi; (intros; (try simp only [hubf] at *); grind [mem_removeL, nodup_removeL, removeL_nil, length_removeL_le]))
   case count =>
     by_cases hk : x.kind = .virtual <;> simp only [hk, if_true, if_false]
     all_goals first
-      | (have f_count := hi.count; have f_fresh := hi.fresh; clear hi; (intros; (try simp only [hubf] at *); grind [mem_removeL, nodup_removeL, removeL_nil]))
-      | (have f_fresh := hi.fresh; have f_mem_room := hi.mem_room; have f_room_mem := hi.room_mem; have f_nonempty := hi.nonempty; have f_nodup := hi.nodup; have f_roomL_iff := hi.roomL_iff; have f_roomL_nodup := hi.roomL_nodup; have f_userL_iff := hi.userL_iff; have f_userL_nodup := hi.userL_nodup; have f_sessL_iff := hi.sessL_iff; have f_rs_fwd := hi.rs_fwd; have f_rs_room := hi.rs_room; have f_virt := hi.virt; have f_children := hi.children; have f_vtable := hi.vtable; have f_conn_iff := hi.conn_iff; have f_conn_open := hi.conn_open; have f_eh := hi.eh; have f_expired := hi.expired; have f_anon := hi.anon; have f_dialout := hi.dialout; have f_count := hi.count; have f_orph_virt := hi.orph_virt; have f_incall := hi.incall; clear hi; (intros; (try simp only [hubf] at *); grind [mem_removeL, nodup_removeL, removeL_nil]))
+      | (have f_count := hi.count; have f_fresh := hi.fresh; clear hi; (intros; (try simp only [hubf] at *); grind [mem_removeL, nodup_removeL, removeL_nil, length_removeL_le]))
+      | (have f_fresh := hi.fresh; have f_mem_room := hi.mem_room; have f_room_mem := hi.room_mem; have f_nonempty := hi.nonempty; have f_nodup := hi.nodup; have f_roomL_iff := hi.roomL_iff; have f_roomL_nodup := hi.roomL_nodup; have f_userL_iff := hi.userL_iff; have f_userL_nodup := hi.userL_nodup; have f_sessL_iff := hi.sessL_iff; have f_rs_fwd := hi.rs_fwd; have f_rs_room := hi.rs_room; have f_virt := hi.virt; have f_children := hi.children; have f_vtable := hi.vtable; have f_conn_iff := hi.conn_iff; have f_conn_open := hi.conn_open; have f_eh := hi.eh; have f_expired := hi.expired; have f_anon := hi.anon; have f_dialout := hi.dialout; have f_count := hi.count; have f_orph_virt := hi.orph_virt; have f_incall := hi.incall; have f_count_le := hi.count_le; clear hi; (intros; (try simp only [hubf] at *); grind [mem_removeL, nodup_removeL, removeL_nil, length_removeL_le]))
   case orph_virt =>
     by_cases hk : x.kind = .virtual <;> simp only [hk, if_true, if_false]
     all_goals first
-      | (have f_orph_virt := hi.orph_virt; have f_fresh := hi.fresh; have f_children := hi.children; have f_virt := hi.virt; clear hi; (intros; (try simp only [hubf] at *); grind [mem_removeL, nodup_removeL, removeL_nil]))
-      | (have f_fresh := hi.fresh; have f_mem_room := hi.mem_room; have f_room_mem := hi.room_mem; have f_nonempty := hi.nonempty; have f_nodup := hi.nodup; have f_roomL_iff := hi.roomL_iff; have f_roomL_nodup := hi.roomL_nodup; have f_userL_iff := hi.userL_iff; have f_userL_nodup := hi.userL_nodup; have f_sessL_iff := hi.sessL_iff; have f_rs_fwd := hi.rs_fwd; have f_rs_room := hi.rs_room; have f_virt := hi.virt; have f_children := hi.children; have f_vtable := hi.vtable; have f_conn_iff := hi.conn_iff; have f_conn_open := hi.conn_open; have f_eh := hi.eh; have f_expired := hi.expired; have f_anon := hi.anon; have f_dialout := hi.dialout; have f_count := hi.count; have f_orph_virt := hi.orph_virt; have f_incall := hi.incall; clear hi; (intros; (try simp only [hubf] at *); grind [mem_removeL, nodup_removeL, removeL_nil]))
+      | (have f_orph_virt := hi.orph_virt; have f_fresh := hi.fresh; have f_children := hi.children; have f_virt := hi.virt; clear hi; (intros; (try simp only [hubf] at *); grind [mem_removeL, nodup_removeL, removeL_nil, length_removeL_le]))
+      | (have f_fresh := hi.fresh; have f_mem_room := hi.mem_room; have f_room_mem := hi.room_mem; have f_nonempty := hi.nonempty; have f_nodup := hi.nodup; have f_roomL_iff := hi.roomL_iff; have f_roomL_nodup := hi.roomL_nodup; have f_userL_iff := hi.userL_iff; have f_userL_nodup := hi.userL_nodup; have f_sessL_iff := hi.sessL_iff; have f_rs_fwd := hi.rs_fwd; have f_rs_room := hi.rs_room; have f_virt := hi.virt; have f_children := hi.children; have f_vtable := hi.vtable; have f_conn_iff := hi.conn_iff; have f_conn_open := hi.conn_open; have f_eh := hi.eh; have f_expired := hi.expired; have f_anon := hi.anon; have f_dialout := hi.dialout; have f_count := hi.count; have f_orph_virt := hi.orph_virt; have f_incall := hi.incall; have f_count_le := hi.count_le; clear hi; (intros; (try simp only [hubf] at *); grind [mem_removeL, nodup_removeL, removeL_nil, length_removeL_le]))
   case incall =>
     by_cases hk : x.kind = .virtual <;> simp only [hk, if_true, if_false]
     all_goals first
-      | (have f_incall := hi.incall; have f_mem_room := hi.mem_room; clear hi; (intros; (try simp only [hubf] at *); grind [mem_removeL, nodup_removeL, removeL_nil]))
-      | (have f_fresh := hi.fresh; have f_mem_room := hi.mem_room; have f_room_mem := hi.room_mem; have f_nonempty := hi.nonempty; have f_nodup := hi.nodup; have f_roomL_iff := hi.roomL_iff; have f_roomL_nodup := hi.roomL_nodup; have f_userL_iff := hi.userL_iff; have f_userL_nodup := hi.userL_nodup; have f_sessL_iff := hi.sessL_iff; have f_rs_fwd := hi.rs_fwd; have f_rs_room := hi.rs_room; have f_virt := hi.virt; have f_children := hi.children; have f_vtable := hi.vtable; have f_conn_iff := hi.conn_iff; have f_conn_open := hi.conn_open; have f_eh := hi.eh; have f_expired := hi.expired; have f_anon := hi.anon; have f_dialout := hi.dialout; have f_count := hi.count; have f_orph_virt := hi.orph_virt; have f_incall := hi.incall; clear hi; (intros; (try simp only [hubf] at *); grind [mem_removeL, nodup_removeL, removeL_nil]))
+      | (have f_incall := hi.incall; have f_mem_room := hi.mem_room; clear hi; (intros; (try simp only [hubf] at *); grind [mem_removeL, nodup_removeL, removeL_nil, length_removeL_le]))
+      | (have f_fresh := hi.fresh; have f_mem_room := hi.mem_room; have f_room_mem := hi.room_mem; have f_nonempty := hi.nonempty; have f_nodup := hi.nodup; have f_roomL_iff := hi.roomL_iff; have f_roomL_nodup := hi.roomL_nodup; have f_userL_iff := hi.userL_iff; have f_userL_nodup := hi.userL_nodup; have f_sessL_iff := hi.sessL_iff; have f_rs_fwd := hi.rs_fwd; have f_rs_room := hi.rs_room; have f_virt := hi.virt; have f_children := hi.children; have f_vtable := hi.vtable; have f_conn_iff := hi.conn_iff; have f_conn_open := hi.conn_open; have f_eh := hi.eh; have f_expired := hi.expired; have f_anon := hi.anon; have f_dialout := hi.dialout; have f_count := hi.count; have f_orph_virt := hi.orph_virt; have f_incall := hi.incall; have f_count_le := hi.count_le; clear hi; (intros; (try simp only [hubf] at *); grind [mem_removeL, nodup_removeL, removeL_nil, length_removeL_le]))
+  case count_le =>
+    by_cases hk : x.kind = .virtual <;> simp only [hk, if_true, if_false]
+    all_goals first
+      | (have f_count_le := hi.count_le; clear hi; (intros; (try simp only [hubf] at *); grind [mem_removeL, nodup_removeL, removeL_nil, length_removeL_le]))
+      | (have f_fresh := hi.fresh; have f_mem_room := hi.mem_room; have f_room_mem := hi.room_mem; have f_nonempty := hi.nonempty; have f_nodup := hi.nodup; have f_roomL_iff := hi.roomL_iff; have f_roomL_nodup := hi.roomL_nodup; have f_userL_iff := hi.userL_iff; have f_userL_nodup := hi.userL_nodup; have f_sessL_iff := hi.sessL_iff; have f_rs_fwd := hi.rs_fwd; have f_rs_room := hi.rs_room; have f_virt := hi.virt; have f_children := hi.children; have f_vtable := hi.vtable; have f_conn_iff := hi.conn_iff; have f_conn_open := hi.conn_open; have f_eh := hi.eh; have f_expired := hi.expired; have f_anon := hi.anon; have f_dialout := hi.dialout; have f_count := hi.count; have f_orph_virt := hi.orph_virt; have f_incall := hi.incall; have f_count_le := hi.count_le; clear hi; (intros; (try simp only [hubf] at *); grind [mem_removeL, nodup_removeL, removeL_nil, length_removeL_le]))
 
 theorem InvG.weaken_room {R R' : Nat → Sess → String → Prop} {orph : List Nat} {h : Hub}
     (hRR : ∀ s x r, h.sess s = some x → x.room = some r → R s x r → R' s x r) (hi : InvG R orph h) : InvG R' orph h := by
-  obtain ⟨f1, f2, f3, f4, f5, f6, f7, f8, f9, f10, f11, f12, f13, f14, f15, f16, f17, f18, f19, f20, f21, f22, f23, f24⟩ := hi
+  obtain ⟨f1, f2, f3, f4, f5, f6, f7, f8, f9, f10, f11, f12, f13, f14, f15, f16, f17, f18, f19, f20, f21, f22, f23, f24, f25⟩ := hi
   constructor
   all_goals first | assumption | skip
   · intro s x r hx hr
@@ -1552,8 +1595,19 @@ theorem stepAcc_inv (a : Acc) (op : Op) (hi : Inv a.h) : Inv (stepAcc a op).h :=
   | api b r req => exact processApi_inv a b r req hi
   | setLimit b l =>
     simp only [stepAcc]
-    obtain ⟨f1, f2, f3, f4, f5, f6, f7, f8, f9, f10, f11, f12, f13, f14, f15, f16, f17, f18, f19, f20, f21, f22, f23, f24⟩ := hi
-    constructor <;> assumption
+    split
+    · rename_i hl
+      obtain ⟨f1, f2, f3, f4, f5, f6, f7, f8, f9, f10, f11, f12, f13, f14, f15, f16, f17, f18, f19, f20, f21, f22, f23, f24, f25⟩ := hi
+      constructor
+      all_goals first | assumption | skip
+      · intro b' hb'
+        simp only [] at hb' ⊢
+        by_cases e : b' = b
+        · subst e; simp only [if_true] at hb' ⊢; rcases hl with h0 | h0
+          · exact absurd h0 hb'
+          · exact h0
+        · simp only [e, if_false] at hb' ⊢; exact f25 b' hb'
+    · exact hi
 
 theorem step_inv (h : Hub) (op : Op) (hi : Inv h) : Inv (step h op).1 := by
   unfold step
